@@ -1,24 +1,47 @@
 import Sqljson.Lemmas.RoundTrip
 /-!
-# Layout independence: the printed text in any layout parses to the same tree
+# Layout, parentheses, spellings: other texts of a path parse to the same tree
 
 Lemma layer of `Props/C03b`.  `Lemmas/RoundTrip` proves `Parse(p.String()) = p` for the printer's one
-canonical text.  Here the same is proved for every *layout* of that text: any separator (blanks, tabs,
-newlines, carriage returns, `/* … */` comments) before every token and at the end, and for every
-*respelling* of a token that yields the same token.
+canonical text.  Here the same is proved for the OTHER spellings the syntax permits.  Contents, in order:
 
-* `Sep`, `skip_sep`, `skip_sep_end` — separators, and that the body of `Lex` skips them entirely.
-* `Item`, `ItemOK`, `canon`, `render`, `LayoutOK`, `GapsR`, `lexes_render` — the lexer on a sequence of
-  tokens, each preceded by an arbitrary separator and followed by a character it tolerates.
-* `Gaps`, `Resp`, `RespL`, `gapsR_of_gaps`, `Seg`, `layout_lexes` — a piece of canonical text with its token
-  boundaries: `Seg` is `RoundTrip.Seg` strengthened by the decomposition into items; the combinators
-  (`Seg.nil`, `Seg.mono`, `Seg.app`, `Seg.app_cons`, `Seg.lexes`, `seg_of_tokAt`, `seg_sp_of_tokAt`) have
-  the signatures of `RoundTrip` (the last two with one more hypothesis: the token tolerates white space
-  and `/` after it), so that
-* the *fork*: the declarations of `Lemmas/RoundTrip` that depend on `Seg` / `Lexes` / `LStr` are repeated
-  here verbatim over the new definitions (`LStr []` now allows a last separator before the end of the
-  source); everything else is used from `RoundTrip`.  The calculus macros are `lstep` / `lexact`.
-* `parse_layout`, `layout_pred`, `layout_expr`, `layout_stage5` — the class `RoundTrip.RT5`.
+1. **Separators and the lexer on any layout.**  `Sep` (blanks, tabs, newlines, carriage returns,
+   `/* … */` comments), `skip_sep`, `skip_sep_end`: the body of `Lex` skips them entirely.  `Item`,
+   `tolOf`, `ItemOK`, `canon`, `render`, `LayoutOKp` / `LayoutOK` / `LayoutSimple`, `GapsR`, `lexes_render`:
+   tokens, each preceded by an arbitrary separator and followed by a character it tolerates, lex to
+   exactly these tokens.  `Gaps`, `Resp`, `RespL`, `gapsR_of_gaps`, `Seg`, `layout_lexes`: a piece of
+   canonical text with its token boundaries; `Seg` is `RoundTrip.Seg` strengthened by the decomposition
+   into items.  The combinators (`Seg.nil`, `Seg.mono`, `Seg.app`, `Seg.app_cons`, `Seg.lexes`,
+   `seg_of_tokAt`, `seg_sp_of_tokAt`) have the signatures of `RoundTrip` (the last two with three more
+   hypotheses: the token does not start with white space, it tolerates white space and `/` after it,
+   and `tolOf` is sound for it), so that
+2. **the fork**: the declarations of `Lemmas/RoundTrip` that depend on `Seg` / `Lexes` / `LStr` / `RunsV`
+   are repeated here verbatim over the new definitions (`LStr []` now allows a last separator before
+   the end of the source); everything else is used from `RoundTrip`.  Macros: `lstep` / `lexact`.
+   `parse_layout`, `layout_pred`, `layout_expr`, `layout_stage5`: the class `RoundTrip.RT5`.
+3. `tokSplit`, `renderT`, `LayoutOKT`, **`layout_independent`**: the explicit form.
+4. **Spellings of one token** (`RoundTrip.TokAt` statements, "whatever follows"): string escapes
+   (`SpellsEsc`, `SpellsChar`, `SpellsStr`, `tokAt_string_spelled`, `tokAt_variable_spelled`,
+   `SpellsIdent`, `tokAt_ident_spelled`); integers (`BaseDigits`, `tokAt_based`, `tokAt_dec_sep`,
+   `parseInt0_based`, `newInteger_based`, `parseInt0_neg_based`); non-integer numbers (`FloatForm`,
+   `EndsNumeric`, `tokAt_float`, `tokAt_dot_float`); keyword case, `<>`, bare identifiers and variables
+   (`OrUp`, `tokAt_kw_case`, `tokAt_lit_case`, `tokAt_ltgt`, `tokAt_ident`, `tokAt_var`), and the parser
+   lemmas for keyword tokens with arbitrary text (`accOp_plainKey`, `accOp_kwKey`, `accOp_method_any`,
+   `isUnknown_atom_any`, `existsE_atom_any`, `startsE_atom_any`, `regexE_atom_flag_any`, …).
+5. `PieceResp`, **`spelling_independent`**; `ModeSp`, `layout_mode`; a checker `sepB` / `layoutOKTB`.
+6. **The print-free relational layer** — "`txt` is a spelling of …": `ExprT`, `PredT`, `StepT`, `ChainT`,
+   `SubT`, `SubsT`, `SpellInv`, with rule lemmas (`exprT_paren`, `predT_paren`, `exprT_mul`, …,
+   `exprT_paren_chain`), `layout_exprT`, `layout_predT`, `redundant_parens_stage5`, `fewer_parens_stage5`.
+7. **Precedence and associativity**: `mulTree`, `sumTree`, `andTree`, `orTree`, `mulLoop_chain`,
+   `arithLoop_chain`, `predLoop_chain`, `ESpecC`, `ExprTC`, `PredTC`, `layout_expr_chain`,
+   `layout_pred_chain`, `cmp_nonassoc`.
+8. **The grammar** `Sp` with all token-spelling freedoms, `Sp.sound`, `spells_parse`, `spells_layout`,
+   `rt5_generated_core`.
+9. **The parser is a function of the token stream**: `IntEq`, `TokEqX`, `TokEqLX` (integer literals of equal
+   value, keywords in any case except directly after a dot, bare / quoted / keyword key names after a dot),
+   the relational calculus `Sim`, `allSim` (all 16 functions of the mutual block), `sim_parseBodyX`,
+   `parse_tok_simX`; `LayoutStrict`, `gapsR_of_strict`, `toksOf`, `parse_tokens_equiv`,
+   `tokens_equiv_stage5`; the token kinds as items (`itSolo`, `itKw`, `itStr`, `itInt`, `itIntB`, …).
 -/
 
 namespace Sqljson
@@ -232,11 +255,39 @@ structure Item where
   tk : TT
   C : Option Char → Prop
 
+/-- punctuation that is a token by itself whatever follows, and first characters of `==`, `&&`, `||` -/
+def closedPunct : List Char := ['(', ')', '[', ']', '{', '}', ',', '?', '@', '+', '-', '%', '=', '&', '|']
+
+/-- **`tolOf t d`**: a syntactic, sufficient criterion for "the token text `t` may be directly followed
+    by the character `d`" (without changing the token), decided from the first character of `t`:
+    a number tolerates the ASCII punctuation except `.` (and `@`); `$` all of it but `"`; a bare variable
+    `$name` all of it; a string, `$"…"`, the two-character operators and `( ) [ ] { } , ? @ + - %` tolerate
+    everything; `.` everything but a digit; `<` all but `=` `>`; `>` and `!` all but `=`; `*` and `/` all
+    but `*`; anything else is a word (keyword, identifier) and tolerates the ASCII punctuation.
+    (Soundness is part of `ItemOK`: it is proved token by token.) -/
+def tolOf (t : List Char) (d : Char) : Bool :=
+  match t with
+  | [] => false
+  | a :: w =>
+    if isDecimal a then punct.contains d && d != '.' && d != '@'
+    else if a = '$' then
+      (match w with
+        | [] => punct.contains d && d != '"'
+        | b :: _ => if b = '"' then true else punct.contains d)
+    else if a = '"' then true
+    else if a = '.' then w.isEmpty && !isDecimal d
+    else if a = '<' then !w.isEmpty || (d != '=' && d != '>')
+    else if a = '>' || a = '!' then !w.isEmpty || d != '='
+    else if a = '*' || a = '/' then !w.isEmpty || d != '*'
+    else if closedPunct.contains a then true
+    else punct.contains d
+
 /-- the item is a token: the scanner started on `c` reads exactly `c :: w` and returns `tk` whenever the
-    next character satisfies `C`; and `C` holds of white space and of `/` (so any separator may follow) -/
+    next character satisfies `C`; `C` holds of white space and of `/` (so any separator may follow), and
+    of the characters `tolOf` says the text tolerates -/
 def ItemOK (o : Oracles) (it : Item) : Prop :=
   TokAt o it.C it.c it.w it.tk ∧ it.c.toNat ≠ 0 ∧ NoNul it.w ∧ it.tk.1 ≠ .stop ∧ isWhitespace it.c = false ∧
-    ∀ y, SepStart y → it.C y
+    (∀ y, SepStart y → it.C y) ∧ ∀ d, tolOf (it.c :: it.w) d = true → it.C (some d)
 
 /-- the canonical text: one blank where `sp` says so -/
 def canon : List Item → List Char
@@ -256,14 +307,41 @@ theorem render_canon (items : List Item) : render items (canonSeps items) = cano
   | nil => rfl
   | cons it r ih => simp only [canonSeps, List.map_cons, render, canon] at ih ⊢; rw [ih]
 
-/-- **`Layout`**: one separator before every token; where the canonical text has a blank the separator
-    must not be empty -/
-def LayoutOK : List Item → List (List Char) → Prop
+/-- one separator before every token; where the canonical text has a blank the separator must not be
+    empty — unless the text `prev` of the token before it tolerates the first character of this one -/
+def LayoutOKp : Option (List Char) → List Item → List (List Char) → Prop
+  | _, [], [] => True
+  | prev, it :: r, s :: ss =>
+    Sep s ∧ (it.sp = true → s ≠ [] ∨ ∃ p, prev = some p ∧ tolOf p it.c = true) ∧
+      LayoutOKp (some (it.c :: it.w)) r ss
+  | _, _, _ => False
+
+/-- **`Layout`**: `LayoutOKp` from the beginning of the text -/
+def LayoutOK (items : List Item) (seps : List (List Char)) : Prop := LayoutOKp none items seps
+
+/-- the simple sufficient condition: non-empty wherever the canonical text has a blank -/
+def LayoutSimple : List Item → List (List Char) → Prop
   | [], [] => True
-  | it :: r, s :: ss => Sep s ∧ (it.sp = true → s ≠ []) ∧ LayoutOK r ss
+  | it :: r, s :: ss => Sep s ∧ (it.sp = true → s ≠ []) ∧ LayoutSimple r ss
   | _, _ => False
 
-theorem layoutOK_canon (items : List Item) : LayoutOK items (canonSeps items) := by
+theorem layoutOKp_of_simple : ∀ {items : List Item} {seps : List (List Char)} (prev : Option (List Char)),
+    LayoutSimple items seps → LayoutOKp prev items seps := by
+  intro items
+  induction items with
+  | nil => intro seps prev h; cases seps with
+    | nil => trivial
+    | cons _ _ => exact h
+  | cons it r ih =>
+    intro seps prev h
+    cases seps with
+    | nil => exact h
+    | cons s ss => exact ⟨h.1, fun hsp => Or.inl (h.2.1 hsp), ih _ h.2.2⟩
+
+theorem layoutOK_of_simple {items : List Item} {seps : List (List Char)} (h : LayoutSimple items seps) :
+    LayoutOK items seps := layoutOKp_of_simple none h
+
+theorem layoutSimple_canon (items : List Item) : LayoutSimple items (canonSeps items) := by
   induction items with
   | nil => trivial
   | cons it r ih =>
@@ -276,30 +354,39 @@ theorem layoutOK_canon (items : List Item) : LayoutOK items (canonSeps items) :=
       show (if it.sp = true then [' '] else []) ≠ []
       simp [h]
 
-theorem LayoutOK.length {items : List Item} {seps : List (List Char)} (h : LayoutOK items seps) :
-    seps.length = items.length := by
-  induction items generalizing seps with
-  | nil => cases seps with
+theorem layoutOK_canon (items : List Item) : LayoutOK items (canonSeps items) :=
+  layoutOK_of_simple (layoutSimple_canon items)
+
+theorem LayoutOKp.length {items : List Item} : ∀ {prev : Option (List Char)} {seps : List (List Char)},
+    LayoutOKp prev items seps → seps.length = items.length := by
+  induction items with
+  | nil => intro prev seps h; cases seps with
     | nil => rfl
-    | cons _ _ => exact absurd h (by simp [LayoutOK])
-  | cons it r ih => cases seps with
-    | nil => exact absurd h (by simp [LayoutOK])
+    | cons _ _ => exact absurd h (by simp [LayoutOKp])
+  | cons it r ih => intro prev seps h; cases seps with
+    | nil => exact absurd h (by simp [LayoutOKp])
     | cons s ss => simp [ih h.2.2]
 
-theorem LayoutOK.sep {items : List Item} {seps : List (List Char)} (h : LayoutOK items seps) :
-    ∀ s ∈ seps, Sep s := by
-  induction items generalizing seps with
-  | nil => cases seps with
+theorem LayoutOKp.sep {items : List Item} : ∀ {prev : Option (List Char)} {seps : List (List Char)},
+    LayoutOKp prev items seps → ∀ s ∈ seps, Sep s := by
+  induction items with
+  | nil => intro prev seps h; cases seps with
     | nil => intro s hs; simp at hs
-    | cons _ _ => exact absurd h (by simp [LayoutOK])
-  | cons it r ih => cases seps with
-    | nil => exact absurd h (by simp [LayoutOK])
+    | cons _ _ => exact absurd h (by simp [LayoutOKp])
+  | cons it r ih => intro prev seps h; cases seps with
+    | nil => exact absurd h (by simp [LayoutOKp])
     | cons s ss =>
       intro s' hs'
       simp at hs'
       rcases hs' with hs' | hs'
       · subst hs'; exact h.1
       · exact ih h.2.2 s' hs'
+
+theorem LayoutOK.length {items : List Item} {seps : List (List Char)} (h : LayoutOK items seps) :
+    seps.length = items.length := LayoutOKp.length h
+
+theorem LayoutOK.sep {items : List Item} {seps : List (List Char)} (h : LayoutOK items seps) :
+    ∀ s ∈ seps, Sep s := LayoutOKp.sep h
 
 /-- every token is followed, in the rendered text continued by `x`, by a character it tolerates -/
 def GapsR : List Item → List (List Char) → List Char → Prop
@@ -522,13 +609,13 @@ theorem RespL.toks {o : Oracles} {items items' : List Item} (h : RespL o items i
   | cons h _ ih => simp [h.2.1, ih]
 
 /-- from the gaps of the canonical text to the gaps of a respelled text in another layout -/
-theorem gapsR_of_gaps {o : Oracles} {C : Option Char → Prop} {items items' : List Item} (hr : RespL o items items') :
-    ∀ {seps : List (List Char)}, Gaps items C → LayoutOK items' seps →
+theorem gapsR_of_gapsP {o : Oracles} {C : Option Char → Prop} {items items' : List Item} (hr : RespL o items items') :
+    ∀ {prev : Option (List Char)} {seps : List (List Char)}, Gaps items C → LayoutOKp prev items' seps →
     ∀ x : List Char, (C x.head? ∨ (SepStart x.head? ∧ ∃ y, C y)) → GapsR items' seps x := by
   induction hr with
-  | nil => intro seps _ _ x _; cases seps <;> trivial
+  | nil => intro prev seps _ _ x _; cases seps <;> trivial
   | @cons it it' r r' h hr ih =>
-    intro seps hg hl x hx
+    intro prev seps hg hl x hx
     cases seps with
     | nil => trivial
     | cons s ss =>
@@ -548,34 +635,44 @@ theorem gapsR_of_gaps {o : Oracles} {C : Option Char → Prop} {items items' : L
           · have := hg.1 x hx
             simp only [canon, List.nil_append] at this
             exact h.2.2.2.1 _ this
-          · exact h.2.2.1.2.2.2.2.2 _ hx
-        | cons _ _ => exact absurd hl.2.2 (by simp [LayoutOK])
+          · exact h.2.2.1.2.2.2.2.2.1 _ hx
+        | cons _ _ => exact absurd hl.2.2 (by simp [LayoutOKp])
       | @cons it2 it2' r2 r2' h2 hr2 =>
         cases ss with
-        | nil => exact absurd hl.2.2 (by simp [LayoutOK])
+        | nil => exact absurd hl.2.2 (by simp [LayoutOKp])
         | cons s2 ss2 =>
           have hl2 := hl.2.2
           cases s2 with
           | nil =>
-            have hsp' : it2'.sp = false := by
-              cases hh : it2'.sp with
-              | false => rfl
-              | true => exact absurd rfl (hl2.2.1 hh)
-            have hsp : it2.sp = false := by rw [← h2.1]; exact hsp'
-            have hc : it2'.c = it2.c := by
-              rcases h2.2.2.2.2 with hc | hc
-              · exact hc
-              · rw [hsp] at hc; exact absurd hc (by simp)
-            obtain ⟨x0, hx0⟩ := hwit
-            have := hg.1 x0 hx0
-            simp only [canon, hsp, Bool.false_eq_true, if_false, List.nil_append, List.cons_append,
-              List.head?_cons] at this
-            simp only [render, List.nil_append, List.cons_append, List.head?_cons, hc]
-            exact h.2.2.2.1 _ this
+            cases hsp' : it2'.sp with
+            | false =>
+              have hsp : it2.sp = false := by rw [← h2.1]; exact hsp'
+              have hc : it2'.c = it2.c := by
+                rcases h2.2.2.2.2 with hc | hc
+                · exact hc
+                · rw [hsp] at hc; exact absurd hc (by simp)
+              obtain ⟨x0, hx0⟩ := hwit
+              have := hg.1 x0 hx0
+              simp only [canon, hsp, Bool.false_eq_true, if_false, List.nil_append, List.cons_append,
+                List.head?_cons] at this
+              simp only [render, List.nil_append, List.cons_append, List.head?_cons, hc]
+              exact h.2.2.2.1 _ this
+            | true =>
+              rcases hl2.2.1 hsp' with hne | ⟨p, hp, htol⟩
+              · exact absurd rfl hne
+              · injection hp with hp
+                subst hp
+                simp only [render, List.nil_append, List.cons_append, List.head?_cons]
+                exact h.2.2.1.2.2.2.2.2.2 _ htol
           | cons z zs =>
             have := hl2.1.head (by simp)
             simp only [render, List.cons_append, List.head?_cons] at this ⊢
-            exact h.2.2.1.2.2.2.2.2 _ this
+            exact h.2.2.1.2.2.2.2.2.1 _ this
+
+theorem gapsR_of_gaps {o : Oracles} {C : Option Char → Prop} {items items' : List Item} (hr : RespL o items items')
+    {seps : List (List Char)} (hg : Gaps items C) (hl : LayoutOK items' seps)
+    (x : List Char) (hx : C x.head? ∨ (SepStart x.head? ∧ ∃ y, C y)) : GapsR items' seps x :=
+  gapsR_of_gapsP hr hg hl x hx
 
 section
 variable (o : Oracles)
@@ -641,25 +738,27 @@ theorem Seg.lexes (ok : RoundTrip.OrOK o) {C : Option Char → Prop} {pre : List
 
 theorem seg_of_tokAt {C : Option Char → Prop} {c : Char} {w : List Char} {tk : TT}
     (h : TokAt o C c w tk) (hc : c.toNat ≠ 0) (hw : NoNul w) (hns : tk.1 ≠ .stop)
-    (hws : isWhitespace c = false) (htol : ∀ y, SepStart y → C y) :
+    (hws : isWhitespace c = false) (htol : ∀ y, SepStart y → C y)
+    (htb : ∀ d, tolOf (c :: w) d = true → C (some d)) :
     Seg o C (c :: w) [tk] := by
   refine ⟨NoNul.cons hc hw, by simp, [⟨false, c, w, tk, C⟩], by simp [canon], rfl, ?_, ?_⟩
   · intro it hit
     simp at hit
     subst hit
-    exact ⟨h, hc, hw, hns, hws, htol⟩
+    exact ⟨h, hc, hw, hns, hws, htol, htb⟩
   · exact ⟨fun x hx => by simpa [canon] using hx, trivial⟩
 
 /-- the same piece preceded by one blank -/
 theorem seg_sp_of_tokAt {C : Option Char → Prop} {c : Char} {w : List Char} {tk : TT}
     (h : TokAt o C c w tk) (hc : c.toNat ≠ 0) (hw : NoNul w) (hns : tk.1 ≠ .stop)
-    (hws : isWhitespace c = false) (htol : ∀ y, SepStart y → C y) :
+    (hws : isWhitespace c = false) (htol : ∀ y, SepStart y → C y)
+    (htb : ∀ d, tolOf (c :: w) d = true → C (some d)) :
     Seg o C (' ' :: c :: w) [tk] := by
   refine ⟨NoNul.cons (by decide) (NoNul.cons hc hw), by simp, [⟨true, c, w, tk, C⟩], by simp [canon], rfl, ?_, ?_⟩
   · intro it hit
     simp at hit
     subst hit
-    exact ⟨h, hc, hw, hns, hws, htol⟩
+    exact ⟨h, hc, hw, hns, hws, htol, htb⟩
   · exact ⟨fun x hx => by simpa [canon] using hx, trivial⟩
 
 end
@@ -742,6 +841,133 @@ theorem tol_endsNumber {y : Option Char} (h : SepStart y) : EndsNumber o y := by
       | exact (by simpa [isIdentStart, lowerBit] using hs '/' (by decide))
 
 end
+
+/-! ### soundness of `tolOf` for the token kinds -/
+
+theorem punct_facts : ∀ d ∈ punct, d ≠ '_' ∧ d ≠ '\\' ∧ isDecimal d = false ∧ d.toNat ≠ 0 := by decide
+
+theorem punct_num_facts : ∀ d ∈ punct, d ≠ '.' → d ≠ '@' →
+    lowerBit d ≠ 'e' ∧ lowerBit d ≠ 'x' ∧ lowerBit d ≠ 'o' ∧ lowerBit d ≠ 'b' ∧ lowerBit d ∈ punct := by decide
+
+theorem mem_of_contains {d : Char} {l : List Char} (h : l.contains d = true) : d ∈ l := by simpa using h
+
+section
+variable (o : Oracles) (ok : RoundTrip.OrOK o)
+include ok
+
+theorem punct_identCont {d : Char} (h : punct.contains d = true) : isIdentCont o (some d) = false := by
+  have hm := mem_of_contains h
+  have hf := punct_facts d hm
+  simp [isIdentCont, hf.1, hf.2.1, ok.punctC d hm]
+
+theorem punct_identStart {d : Char} (hm : d ∈ punct) : isIdentStart o (some d) = false := by
+  have hf := punct_facts d hm
+  simp [isIdentStart, hf.1, hf.2.1, ok.punctS d hm]
+
+theorem punct_variableRune {d : Char} (h : punct.contains d = true) : isVariableRune o (some d) = false := by
+  simp [isVariableRune, ok.punctC d (mem_of_contains h)]
+
+theorem punct_endsNumber {d : Char} (h : punct.contains d = true) (h1 : d ≠ '.') (h2 : d ≠ '@') :
+    EndsNumber o (some d) := by
+  have hm := mem_of_contains h
+  have hf := punct_facts d hm
+  have hn := punct_num_facts d hm h1 h2
+  refine ⟨by simpa [isDecimalR] using hf.2.2.1, by simpa using hf.1, by simpa using h1, ?_, ?_, ?_, ?_, ?_, ?_⟩
+  · simpa using hn.1
+  · simpa using hn.2.1
+  · simpa using hn.2.2.1
+  · simpa using hn.2.2.2.1
+  · simpa using punct_identStart o ok hn.2.2.2.2
+  · exact punct_identStart o ok hm
+
+/-- a number -/
+theorem tolB_nat {d0 : Char} {ds : List Char} (hd : isDecimal d0 = true) :
+    ∀ d, tolOf (d0 :: ds) d = true → EndsNumber o (some d) := by
+  intro d h
+  simp only [tolOf, hd, if_true, Bool.and_eq_true, bne_iff_ne, ne_eq] at h
+  exact punct_endsNumber o ok h.1.1 h.1.2 h.2
+
+/-- a word: its first character is neither a digit nor ASCII punctuation -/
+theorem tolB_word {c : Char} {w : List Char} (hd : isDecimal c = false) (hp : c ∉ punct) :
+    ∀ d, tolOf (c :: w) d = true → isIdentCont o (some d) = false := by
+  intro d h
+  have hne : ∀ x ∈ punct, c ≠ x := fun x hx hcx => hp (hcx ▸ hx)
+  have h1 : c ≠ '$' := hne _ (by decide)
+  have h2 : c ≠ '"' := hne _ (by decide)
+  have h3 : c ≠ '.' := hne _ (by decide)
+  have h4 : c ≠ '<' := hne _ (by decide)
+  have h5 : c ≠ '>' := hne _ (by decide)
+  have h6 : c ≠ '!' := hne _ (by decide)
+  have h7 : c ≠ '*' := hne _ (by decide)
+  have h8 : c ≠ '/' := hne _ (by decide)
+  have h9 : closedPunct.contains c = false := by
+    cases hc : closedPunct.contains c with
+    | false => rfl
+    | true =>
+      have hm : c ∈ closedPunct := mem_of_contains hc
+      have : ∀ x ∈ closedPunct, x ∈ punct := by decide
+      exact absurd (this c hm) hp
+  simp only [tolOf, hd, Bool.false_eq_true, if_false, h1, h2, h3, h4, h5, h6, h7, h8, h9,
+    Bool.or_self, decide_false] at h
+  exact punct_identCont o ok h
+
+omit ok in
+theorem low_not_punct {c : Char} (hc : isLow c = true) : c ∉ punct := by
+  intro h
+  have : ∀ x ∈ punct, isLow x = false := by decide
+  rw [this c h] at hc
+  exact absurd hc (by simp)
+
+theorem tolB_low {c : Char} {w : List Char} (hc : isLow c = true) :
+    ∀ d, tolOf (c :: w) d = true → isIdentCont o (some d) = false :=
+  tolB_word o ok (isLow_facts c hc).2.2.2.2 (low_not_punct hc)
+
+/-- `$` alone -/
+theorem tolB_dollar : ∀ d, tolOf ['$'] d = true → (some d ≠ some '"' ∧ isVariableRune o (some d) = false) := by
+  intro d h
+  have h' : punct.contains d = true ∧ d ≠ '"' := by
+    simpa [tolOf, isDecimal] using h
+  exact ⟨by simpa using h'.2, punct_variableRune o ok h'.1⟩
+
+/-- a bare variable `$name` -/
+theorem tolB_var {n : Char} {ns : List Char} (hn : n ≠ '"') :
+    ∀ d, tolOf ('$' :: n :: ns) d = true → isVariableRune o (some d) = false := by
+  intro d h
+  have h' : punct.contains d = true := by
+    simpa [tolOf, isDecimal, hn] using h
+  exact punct_variableRune o ok h'
+
+end
+
+theorem tolB_true {t : List Char} : ∀ d, tolOf t d = true → (fun _ : Option Char => True) (some d) :=
+  fun _ _ => trivial
+
+theorem tolB_dot : ∀ d, tolOf ['.'] d = true → isDecimalR (some d) = false := by
+  intro d h
+  have h' : (!isDecimal d) = true := by
+    have : isDecimal '.' = false := by decide
+    simpa [tolOf, this] using h
+  simpa [isDecimalR] using h'
+
+theorem tolB_star : ∀ d, tolOf ['*'] d = true → some d ≠ some '*' := by
+  intro d h
+  simpa [tolOf, isDecimal] using h
+
+theorem tolB_slash : ∀ d, tolOf ['/'] d = true → some d ≠ some '*' := by
+  intro d h
+  simpa [tolOf, isDecimal] using h
+
+theorem tolB_lt : ∀ d, tolOf ['<'] d = true → some d ≠ some '=' ∧ some d ≠ some '>' := by
+  intro d h
+  simpa [tolOf, isDecimal] using h
+
+theorem tolB_gt : ∀ d, tolOf ['>'] d = true → some d ≠ some '=' := by
+  intro d h
+  simpa [tolOf, isDecimal] using h
+
+theorem tolB_bang : ∀ d, tolOf ['!'] d = true → some d ≠ some '=' := by
+  intro d h
+  simpa [tolOf, isDecimal] using h
 
 /-! ## oracle hypotheses -/
 
@@ -1269,13 +1495,17 @@ include ok
 
 theorem seg_nat (n : Nat) : Seg o brk (Nat.toDigits 10 n) [tInt n] := by
   obtain ⟨d, ds, h, ht, h1, h2, h3⟩ := tokAt_nat o ok n
+  have hdd : isDecimal d = true :=
+    isDecimal_of_isDigit d (Nat.isDigit_of_mem_toDigits (b := 10) (n := n) (by decide) (by decide) (by rw [h]; simp))
   rw [h]
-  exact (seg_of_tokAt o ht h1 h2 (by simp [tInt]) h3 (fun _ h => tol_endsNumber o ok h)).mono o (fun y hy => brk_endsNumber o ok hy)
+  exact (seg_of_tokAt o ht h1 h2 (by simp [tInt]) h3 (fun _ h => tol_endsNumber o ok h) (tolB_nat o ok hdd)).mono o (fun y hy => brk_endsNumber o ok hy)
 
 theorem seg_sp_nat (n : Nat) : Seg o brk (' ' :: Nat.toDigits 10 n) [tInt n] := by
   obtain ⟨d, ds, h, ht, h1, h2, h3⟩ := tokAt_nat o ok n
+  have hdd : isDecimal d = true :=
+    isDecimal_of_isDigit d (Nat.isDigit_of_mem_toDigits (b := 10) (n := n) (by decide) (by decide) (by rw [h]; simp))
   rw [h]
-  exact (seg_sp_of_tokAt o ht h1 h2 (by simp [tInt]) h3 (fun _ h => tol_endsNumber o ok h)).mono o (fun y hy => brk_endsNumber o ok hy)
+  exact (seg_sp_of_tokAt o ht h1 h2 (by simp [tInt]) h3 (fun _ h => tol_endsNumber o ok h) (tolB_nat o ok hdd)).mono o (fun y hy => brk_endsNumber o ok hy)
 
 /-- a keyword as a piece of text -/
 theorem seg_kw (c : Char) (w : List Char) (t : Tok) (hp : (c :: w, t) ∈ kwList) (ht : t ≠ .stop) :
@@ -1286,7 +1516,7 @@ theorem seg_kw (c : Char) (w : List Char) (t : Tok) (hp : (c :: w, t) ∈ kwList
   injection h1 with h1a h1b
   subst h1a
   exact seg_of_tokAt o (tokAt_kw o ok c w t hp) (NoNul.of_cons hn).1 (NoNul.of_cons hn).2 ht
-    (isLow_facts c h2).2.2.2.1 (fun _ h => tol_identCont o ok h)
+    (isLow_facts c h2).2.2.2.1 (fun _ h => tol_identCont o ok h) (tolB_low o ok h2)
 
 theorem seg_sp_kw (c : Char) (w : List Char) (t : Tok) (hp : (c :: w, t) ∈ kwList) (ht : t ≠ .stop) :
     Seg o (fun y => isIdentCont o y = false) (' ' :: c :: w) [(t, c :: w)] := by
@@ -1296,7 +1526,7 @@ theorem seg_sp_kw (c : Char) (w : List Char) (t : Tok) (hp : (c :: w, t) ∈ kwL
   injection h1 with h1a h1b
   subst h1a
   exact seg_sp_of_tokAt o (tokAt_kw o ok c w t hp) (NoNul.of_cons hn).1 (NoNul.of_cons hn).2 ht
-    (isLow_facts c h2).2.2.2.1 (fun _ h => tol_identCont o ok h)
+    (isLow_facts c h2).2.2.2.1 (fun _ h => tol_identCont o ok h) (tolB_low o ok h2)
 
 theorem seg_solo (c : Char) (hc : c ∈ solo) : Seg o (fun _ => True) [c] [T1 c] := by
   have h0 : c.toNat ≠ 0 := by
@@ -1308,7 +1538,7 @@ theorem seg_solo (c : Char) (hc : c ∈ solo) : Seg o (fun _ => True) [c] [T1 c]
   have hws : isWhitespace c = false := by
     simp [solo] at hc
     rcases hc with h | h | h | h | h | h | h | h | h | h | h | h <;> subst h <;> decide
-  exact seg_of_tokAt o (tokAt_solo o ok c hc) h0 NoNul.nil hns hws (fun _ _ => trivial)
+  exact seg_of_tokAt o (tokAt_solo o ok c hc) h0 NoNul.nil hns hws (fun _ _ => trivial) tolB_true
 
 theorem seg_string (s : List Char) (hs : NoNul s) :
     Seg o (fun _ => True) (Print.quote o.isPrint s) [(.string, s)] := by
@@ -1317,7 +1547,7 @@ theorem seg_string (s : List Char) (hs : NoNul s) :
     have : Print.quote o.isPrint s = '"' :: (body o.isPrint s ++ ['"']) := by simp [Print.quote, body]
     rw [this] at hq
     exact (NoNul.of_cons hq).2
-  have := seg_of_tokAt o (tokAt_string o ok s hs) (by decide) hb (by simp) (by decide) (fun _ _ => trivial)
+  have := seg_of_tokAt o (tokAt_string o ok s hs) (by decide) hb (by simp) (by decide) (fun _ _ => trivial) tolB_true
   simpa [Print.quote, body] using this
 
 end
@@ -1349,17 +1579,17 @@ theorem seg_comma : Seg o CT [','] [tComma] := by simpa [T1_comma] using seg_sol
 theorem seg_q : Seg o CT ['?'] [tQ] := by simpa [T1_q] using seg_solo o ok '?' (by decide)
 
 theorem seg_dot : Seg o (fun y => isDecimalR y = false) ['.'] [tDot] := by
-  simpa [T1_dot] using seg_of_tokAt o (tokAt_dot o ok) (by decide) NoNul.nil (by decide) (by decide) (fun _ h => tol_notDigit h)
+  simpa [T1_dot] using seg_of_tokAt o (tokAt_dot o ok) (by decide) NoNul.nil (by decide) (by decide) (fun _ h => tol_notDigit h) tolB_dot
 
 theorem seg_star : Seg o (fun y => y ≠ some '*') ['*'] [tStar] := by
-  simpa [T1_star] using seg_of_tokAt o (tokAt_star o ok) (by decide) NoNul.nil (by decide) (by decide) (fun _ h => tol_star h)
+  simpa [T1_star] using seg_of_tokAt o (tokAt_star o ok) (by decide) NoNul.nil (by decide) (by decide) (fun _ h => tol_star h) tolB_star
 
 theorem seg_dollar : Seg o (fun y => y ≠ some '"' ∧ isVariableRune o y = false) ['$'] [tDollar] := by
-  simpa [T1_dollar] using seg_of_tokAt o (tokAt_dollar o ok) (by decide) NoNul.nil (by decide) (by decide) (fun _ h => tol_dollar o ok h)
+  simpa [T1_dollar] using seg_of_tokAt o (tokAt_dollar o ok) (by decide) NoNul.nil (by decide) (by decide) (fun _ h => tol_dollar o ok h) (tolB_dollar o ok)
 
 theorem seg_anyTok : Seg o CT ['*', '*'] [tAny] :=
   seg_of_tokAt o (tokAt_two o ok '*' '*' .any (by decide)) (by decide) (NoNul.cons (by decide) NoNul.nil) (by decide)
-    (by decide) (fun _ _ => trivial)
+    (by decide) (fun _ _ => trivial) tolB_true
 
 /-! ### composite pieces -/
 
@@ -1676,7 +1906,7 @@ variable {o : Oracles}
 
 theorem seg_sp_dollar (ok : OrOK o) : Seg o brkS [' ', '$'] [tDollar] := by
   have := seg_sp_of_tokAt o (tokAt_dollar o ok) (by decide) NoNul.nil (by decide) (by decide)
-    (fun _ h => tol_dollar o ok h)
+    (fun _ h => tol_dollar o ok h) (tolB_dollar o ok)
   rw [T1_dollar] at this
   exact this.mono o (fun _ h => brkS_dollar o ok h)
 
@@ -1722,14 +1952,15 @@ include ok
 
 theorem seg2_tokAt {C : Option Char → Prop} {c : Char} {w : List Char} {tk : TT}
     (h : TokAt o C c w tk) (hc : c.toNat ≠ 0) (hw : NoNul w) (hns : tk.1 ≠ .stop)
-    (hws : isWhitespace c = false) (htol : ∀ y, SepStart y → C y) : Seg2 o C (c :: w) [tk] :=
-  ⟨seg_of_tokAt o h hc hw hns hws htol, seg_sp_of_tokAt o h hc hw hns hws htol⟩
+    (hws : isWhitespace c = false) (htol : ∀ y, SepStart y → C y)
+    (htb : ∀ d, tolOf (c :: w) d = true → C (some d)) : Seg2 o C (c :: w) [tk] :=
+  ⟨seg_of_tokAt o h hc hw hns hws htol htb, seg_sp_of_tokAt o h hc hw hns hws htol htb⟩
 
 theorem seg2_solo (c : Char) (hc : c ∈ solo) : Seg2 o CT [c] [T1 c] := by
   have h0 : c.toNat ≠ 0 ∧ (T1 c).1 ≠ .stop ∧ isWhitespace c = false := by
     simp [solo] at hc
     rcases hc with h | h | h | h | h | h | h | h | h | h | h | h <;> subst h <;> decide
-  exact seg2_tokAt o ok (tokAt_solo o ok c hc) h0.1 NoNul.nil h0.2.1 h0.2.2 (fun _ _ => trivial)
+  exact seg2_tokAt o ok (tokAt_solo o ok c hc) h0.1 NoNul.nil h0.2.1 h0.2.2 (fun _ _ => trivial) tolB_true
 
 theorem seg2_lp : Seg2 o CT ['('] [tLp] := by simpa [T1_lp] using seg2_solo o ok '(' (by decide)
 theorem seg2_at : Seg2 o CT ['@'] [tAt] := by simpa [T1_at] using seg2_solo o ok '@' (by decide)
@@ -1747,14 +1978,14 @@ theorem seg2_string (s : List Char) (hs : NoNul s) :
     have : Print.quote o.isPrint s = '"' :: (body o.isPrint s ++ ['"']) := by simp [Print.quote, body]
     rw [this] at hq
     exact (NoNul.of_cons hq).2
-  have := seg2_tokAt o ok (tokAt_string o ok s hs) (by decide) hb (by simp) (by decide) (fun _ _ => trivial)
+  have := seg2_tokAt o ok (tokAt_string o ok s hs) (by decide) hb (by simp) (by decide) (fun _ _ => trivial) tolB_true
   have e : Print.quote o.isPrint s = '"' :: (body o.isPrint s ++ ['"']) := by simp [Print.quote, body]
   rw [e]; exact this
 
 theorem seg2_nat (n : Nat) : Seg2 o brk (Nat.toDigits 10 n) [tInt n] := ⟨seg_nat o ok n, seg_sp_nat o ok n⟩
 
 theorem seg2_bang : Seg2 o (fun y => y ≠ some '=') ['!'] [(.not, ['!'])] :=
-  seg2_tokAt o ok (tokAt_bang o ok) (by decide) NoNul.nil (by decide) (by decide) (fun _ h => tol_eq h)
+  seg2_tokAt o ok (tokAt_bang o ok) (by decide) NoNul.nil (by decide) (by decide) (fun _ h => tol_eq h) tolB_bang
 
 /-! ### infix operators -/
 
@@ -1768,16 +1999,16 @@ theorem seg_sp_op (op : BinOp) (h : isCmp op = true ∨ isLogic op = true) :
       rcases hm with h | h | h | h | h | h | h <;> obtain ⟨h1, h2, h3⟩ := h <;> subst h1 <;> subst h2 <;> subst h3 <;>
         decide
     exact (seg_sp_of_tokAt o (tokAt_two o ok c d t hm) hd0.2.1 (NoNul.cons hd0.1 NoNul.nil) hd0.2.2 hws
-      (fun _ _ => trivial)).mono o
+      (fun _ _ => trivial) tolB_true).mono o
       (fun _ _ => trivial)
   cases op <;> simp [isCmp, isLogic] at h
   · exact two '&' '&' .and (by decide) (by decide)
   · exact two '|' '|' .or (by decide) (by decide)
   · exact two '=' '=' .equal (by decide) (by decide)
   · exact two '!' '=' .notEq (by decide) (by decide)
-  · exact (seg_sp_of_tokAt o (tokAt_lt o ok) (by decide) NoNul.nil (by decide) (by decide) (fun _ h => tol_lt h)).mono o
+  · exact (seg_sp_of_tokAt o (tokAt_lt o ok) (by decide) NoNul.nil (by decide) (by decide) (fun _ h => tol_lt h) tolB_lt).mono o
       (fun y hy => by subst hy; exact ⟨by decide, by decide⟩)
-  · exact (seg_sp_of_tokAt o (tokAt_gt o ok) (by decide) NoNul.nil (by decide) (by decide) (fun _ h => tol_eq h)).mono o
+  · exact (seg_sp_of_tokAt o (tokAt_gt o ok) (by decide) NoNul.nil (by decide) (by decide) (fun _ h => tol_eq h) tolB_gt).mono o
       (fun y hy => by subst hy; decide)
   · exact two '<' '=' .lessEq (by decide) (by decide)
   · exact two '>' '=' .greaterEq (by decide) (by decide)
@@ -2287,7 +2518,7 @@ include ok
 theorem seg2_variable (s : List Char) (hs : NoNul s) :
     Seg2 o CT ('$' :: Print.quote o.isPrint s) [tVar s] :=
   seg2_tokAt o ok (tokAt_variable o ok s hs) (by decide) (noNul_quote o.isPrint s hs) (by simp [tVar]) (by decide)
-    (fun _ _ => trivial)
+    (fun _ _ => trivial) tolB_true
 
 end
 
@@ -2348,16 +2579,16 @@ theorem seg_sp_arith (op : BinOp) (h : isArith op = true) :
     Seg o (fun y => y = some ' ') (' ' :: Print.binStr op) [arithTok op] := by
   have solo1 : ∀ c, c ∈ solo → isWhitespace c = false → c.toNat ≠ 0 → (T1 c).1 ≠ .stop →
       Seg o (fun y => y = some ' ') [' ', c] [T1 c] := fun c hc hws h0 hns =>
-    (seg_sp_of_tokAt o (tokAt_solo o ok c hc) h0 NoNul.nil hns hws (fun _ _ => trivial)).mono o (fun _ _ => trivial)
+    (seg_sp_of_tokAt o (tokAt_solo o ok c hc) h0 NoNul.nil hns hws (fun _ _ => trivial) tolB_true).mono o (fun _ _ => trivial)
   cases op <;> simp [isArith] at h
   · exact solo1 '+' (by decide) (by decide) (by decide) (by decide)
   · exact solo1 '-' (by decide) (by decide) (by decide) (by decide)
   · have := (seg_sp_of_tokAt o (tokAt_star o ok) (by decide) NoNul.nil (by decide) (by decide)
-      (fun _ h => tol_star h)).mono o
+      (fun _ h => tol_star h) tolB_star).mono o
       (C' := fun y => y = some ' ') (fun y hy => by subst hy; decide)
     exact this
   · exact (seg_sp_of_tokAt o (tokAt_slash o ok) (by decide) NoNul.nil (by decide) (by decide)
-      (fun _ h => tol_star h)).mono o
+      (fun _ h => tol_star h) tolB_slash).mono o
       (fun y hy => by subst hy; decide)
   · exact solo1 '%' (by decide) (by decide) (by decide) (by decide)
 
@@ -4052,11 +4283,39 @@ def renderT : List (List Char) → List (List Char) → List Char
   | t :: r, s :: ss => s ++ (t ++ renderT r ss)
   | _, _ => []
 
-/-- one separator per piece; where the canonical text has a blank the separator must not be empty -/
-def LayoutOKT : List (Bool × List Char) → List (List Char) → Prop
+/-- one separator per piece; where the canonical text has a blank the separator must not be empty —
+    unless the text `prev` of the piece before tolerates the first character of this one (`tolOf`) -/
+def LayoutOKTp : Option (List Char) → List (Bool × List Char) → List (List Char) → Prop
+  | _, [], [] => True
+  | prev, p :: r, s :: ss =>
+    Sep s ∧ (p.1 = true → s ≠ [] ∨ ∃ q c, prev = some q ∧ p.2.head? = some c ∧ tolOf q c = true) ∧
+      LayoutOKTp (some p.2) r ss
+  | _, _, _ => False
+
+/-- **`LayoutOKT`**: a layout for the pieces, from the beginning of the text -/
+def LayoutOKT (ps : List (Bool × List Char)) (seps : List (List Char)) : Prop := LayoutOKTp none ps seps
+
+/-- the simple sufficient condition: non-empty wherever the canonical text has a blank -/
+def LayoutSimpleT : List (Bool × List Char) → List (List Char) → Prop
   | [], [] => True
-  | p :: r, s :: ss => Sep s ∧ (p.1 = true → s ≠ []) ∧ LayoutOKT r ss
+  | p :: r, s :: ss => Sep s ∧ (p.1 = true → s ≠ []) ∧ LayoutSimpleT r ss
   | _, _ => False
+
+theorem layoutOKTp_of_simple : ∀ {ps : List (Bool × List Char)} {seps : List (List Char)} (prev : Option (List Char)),
+    LayoutSimpleT ps seps → LayoutOKTp prev ps seps := by
+  intro ps
+  induction ps with
+  | nil => intro seps prev h; cases seps with
+    | nil => trivial
+    | cons _ _ => exact h
+  | cons p r ih =>
+    intro seps prev h
+    cases seps with
+    | nil => exact h
+    | cons s ss => exact ⟨h.1, fun hsp => Or.inl (h.2.1 hsp), ih _ h.2.2⟩
+
+theorem layoutOKT_of_simple {ps : List (Bool × List Char)} {seps : List (List Char)} (h : LayoutSimpleT ps seps) :
+    LayoutOKT ps seps := layoutOKTp_of_simple none h
 
 theorem renderT_items (items : List Item) : ∀ seps, renderT ((items.map Item.piece).map (·.2)) seps = render items seps := by
   induction items with
@@ -4067,18 +4326,30 @@ theorem renderT_items (items : List Item) : ∀ seps, renderT ((items.map Item.p
     | nil => rfl
     | cons s ss => simp only [List.map_cons, renderT, render, Item.piece, ih ss]
 
-theorem layoutOKT_items (items : List Item) : ∀ seps, LayoutOKT (items.map Item.piece) seps → LayoutOK items seps := by
+theorem layoutOKTp_items (items : List Item) : ∀ prev seps, LayoutOKTp prev (items.map Item.piece) seps →
+    LayoutOKp prev items seps := by
   induction items with
-  | nil => intro seps h; cases seps <;> exact h
+  | nil => intro prev seps h; cases seps <;> exact h
   | cons it r ih =>
-    intro seps h
+    intro prev seps h
     cases seps with
     | nil => exact h
-    | cons s ss => exact ⟨h.1, h.2.1, ih ss h.2.2⟩
+    | cons s ss =>
+      refine ⟨h.1, ?_, ih _ ss h.2.2⟩
+      intro hsp
+      rcases h.2.1 hsp with h' | ⟨q, c, hq, hc, ht⟩
+      · exact Or.inl h'
+      · simp only [Item.piece, List.head?_cons, Option.some.injEq] at hc
+        subst hc
+        exact Or.inr ⟨q, hq, ht⟩
+
+theorem layoutOKT_items (items : List Item) (seps : List (List Char)) (h : LayoutOKT (items.map Item.piece) seps) :
+    LayoutOK items seps := layoutOKTp_items items none seps h
 
 /-- **`layout_independent`** (class `RT5`), explicit form: cut the printed text `txt` of `a` into its
     token texts (`tokSplit`); put any separator before each of them — a non-empty one where the printer
-    writes a blank — and any separator at the end: `Parse` returns `a`. -/
+    writes a blank, unless the token before tolerates the first character of this one (`tolOf`) — and
+    any separator at the end: `Parse` returns `a`. -/
 theorem layout_independent {o : Oracles} (ok : OrOK o) (a : AST) (h : RT5 o a = true) :
     ∃ txt, Print.toString o.isPrint a = some txt ∧
       ∀ (seps : List (List Char)) (fin : List Char), LayoutOKT (tokSplit o txt) seps → Sep fin →
@@ -5006,13 +5277,13 @@ theorem ident_concrete : allLex [
 theorem seg2_string_spelled (o : Oracles) (ok : OrOK o) {body s : List Char} (h : SpellsStr body s) :
     Seg2 o CT ('"' :: (body ++ ['"'])) [(.string, s)] :=
   seg2_tokAt o ok (tokAt_string_spelled o ok h) (by decide)
-    (NoNul.append h.noNul (NoNul.cons (by decide) NoNul.nil)) (by simp) (by decide) (fun _ _ => trivial)
+    (NoNul.append h.noNul (NoNul.cons (by decide) NoNul.nil)) (by simp) (by decide) (fun _ _ => trivial) tolB_true
 
 theorem seg2_variable_spelled (o : Oracles) (ok : OrOK o) {body s : List Char} (h : SpellsStr body s) :
     Seg2 o CT ('$' :: '"' :: (body ++ ['"'])) [(.variable, s)] :=
   seg2_tokAt o ok (tokAt_variable_spelled o ok h) (by decide)
     (NoNul.cons (by decide) (NoNul.append h.noNul (NoNul.cons (by decide) NoNul.nil))) (by simp) (by decide)
-    (fun _ _ => trivial)
+    (fun _ _ => trivial) tolB_true
 
 /-! # Spelling variants: integer literals -/
 
@@ -5857,6 +6128,1140 @@ theorem bin_literal (o : Oracles) (ok : RoundTrip.OrOK o) {p : Char} (hp : prefi
    parseInt0_based hp (baseDigits_binDigitsOf n),
    parseInt0_neg_based hp (baseDigits_binDigitsOf n)⟩
 
+/-! # C03, the non-integer number forms: `D.D`, `D.`, `.D`, and all of them (and `D`) with an exponent
+
+## (1) The accepted texts -/
+
+/-- continuation of a decimal digit string after a digit: `digit` or `_ digit`, repeatedly -/
+inductive DigsFrom : List Char → Prop
+  | nil : DigsFrom []
+  | digit {c : Char} {ds : List Char} : isDecimal c = true → DigsFrom ds → DigsFrom (c :: ds)
+  | sep {c : Char} {ds : List Char} : isDecimal c = true → DigsFrom ds → DigsFrom ('_' :: c :: ds)
+
+/-- `D`: a non-empty string of decimal digits, starting and ending with a digit, with at most one
+    `_` between two successive digits (PostgreSQL: `{decdigit}(_?{decdigit})*`) -/
+inductive Digs : List Char → Prop
+  | mk {c : Char} {ds : List Char} : isDecimal c = true → DigsFrom ds → Digs (c :: ds)
+
+/-- the integer part `d :: ds`: digits without a leading zero, or exactly `0`
+    (PostgreSQL: `decinteger = 0|[1-9](_?{decdigit})*`) -/
+def IntPart (d : Char) (ds : List Char) : Prop :=
+  isDecimal d = true ∧ DigsFrom ds ∧ (d = '0' → ds = [])
+
+/-- the digits after the dot: none, or `D` -/
+inductive FracOpt : List Char → Prop
+  | none : FracOpt []
+  | some {fr : List Char} : Digs fr → FracOpt fr
+
+/-- an exponent: `e` or `E`, an optional sign, `D` -/
+inductive ExpSuffix : List Char → Prop
+  | mk {x : Char} {sg ds : List Char} : (x = 'e' ∨ x = 'E') → (sg = [] ∨ sg = ['+'] ∨ sg = ['-']) → Digs ds →
+      ExpSuffix (x :: (sg ++ ds))
+
+/-- an optional exponent -/
+inductive Suffix : List Char → Prop
+  | none : Suffix []
+  | some {e : List Char} : ExpSuffix e → Suffix e
+
+/-- what follows the integer part of a non-integer literal: a dot, optional fraction digits and an
+    optional exponent — or an exponent alone -/
+inductive AfterInt : List Char → Prop
+  | dot {fr e : List Char} : FracOpt fr → Suffix e → AfterInt ('.' :: (fr ++ e))
+  | exp {e : List Char} : ExpSuffix e → AfterInt e
+
+/-- **the non-integer number forms**:
+    * `point`: `D.D`, `D.`, each optionally with an exponent (`1.5`, `5.`, `1.5E-3`, `5.e1`);
+    * `intExp`: `D` with an exponent (`1e3`);
+    * `lead`: `.D`, optionally with an exponent (`.5`, `.5e+2`). -/
+inductive FloatForm : List Char → Prop
+  | point {d : Char} {ds fr e : List Char} : IntPart d ds → FracOpt fr → Suffix e →
+      FloatForm (d :: (ds ++ '.' :: (fr ++ e)))
+  | intExp {d : Char} {ds e : List Char} : IntPart d ds → ExpSuffix e → FloatForm (d :: (ds ++ e))
+  | lead {fr e : List Char} : Digs fr → Suffix e → FloatForm ('.' :: (fr ++ e))
+
+/-- the rune after a non-integer number literal does not continue it: not a digit, not `_`, not
+    `e`/`E`, not an identifier start (neither as it is nor lower-cased: `scanNumber` tests both).
+    **A dot is allowed**: after a fraction, after `D.` and after an exponent a dot ends the token
+    (`1.5.abs()`, `1..abs()`, `1e1.abs()`), unlike after a plain integer (`EndsNumber.notDot`). -/
+structure EndsNumeric (o : Oracles) (y : Option Char) : Prop where
+  notDigit : isDecimalR y = false
+  notSep : y ≠ some '_'
+  notExp : y.map lowerBit ≠ some 'e'
+  notIdentL : isIdentStart o (y.map lowerBit) = false
+  notIdent : isIdentStart o y = false
+
+theorem EndsNumber.endsNumeric {o : Oracles} {y : Option Char} (h : EndsNumber o y) : EndsNumeric o y :=
+  ⟨h.notDigit, h.notSep, h.notExp, h.notIdentL, h.notIdent⟩
+
+/-! ### no NUL -/
+
+theorem DigsFrom.noNul {ds : List Char} (h : DigsFrom ds) : NoNul ds := by
+  induction h with
+  | nil => exact NoNul.nil
+  | digit hc _ ih => exact NoNul.cons (isDecimal_facts _ hc).1 ih
+  | sep hc _ ih => exact NoNul.cons (by decide) (NoNul.cons (isDecimal_facts _ hc).1 ih)
+
+theorem Digs.noNul {ds : List Char} (h : Digs ds) : NoNul ds := by
+  cases h with
+  | mk hc hr => exact NoNul.cons (isDecimal_facts _ hc).1 hr.noNul
+
+theorem FracOpt.noNul {fr : List Char} (h : FracOpt fr) : NoNul fr := by
+  cases h with
+  | none => exact NoNul.nil
+  | some h => exact h.noNul
+
+theorem ExpSuffix.noNul {e : List Char} (h : ExpSuffix e) : NoNul e := by
+  cases h with
+  | mk hx hsg hds =>
+    refine NoNul.cons (by rcases hx with rfl | rfl <;> decide) (NoNul.append ?_ hds.noNul)
+    rcases hsg with rfl | rfl | rfl
+    · exact NoNul.nil
+    · exact NoNul.cons (by decide) NoNul.nil
+    · exact NoNul.cons (by decide) NoNul.nil
+
+theorem Suffix.noNul {e : List Char} (h : Suffix e) : NoNul e := by
+  cases h with
+  | none => exact NoNul.nil
+  | some h => exact h.noNul
+
+theorem AfterInt.noNul {tl : List Char} (h : AfterInt tl) : NoNul tl := by
+  cases h with
+  | dot hfr he => exact NoNul.cons (by decide) (hfr.noNul.append he.noNul)
+  | exp he => exact he.noNul
+
+/-! ## (2) Lexing -/
+
+/-- the digit loop stops -/
+def Stops (y : Option Char) : Prop := isDecimalR y = false ∧ y ≠ some '_'
+
+theorem digitsLoop_digitF (maxCh f b : Nat) (inv : Option Char) (acc : List Char) (s : LState) {c : Char}
+    (hc : isDecimal c = true) :
+    ∃ inv', digitsLoop false maxCh (f + 1) (some c) b inv acc s
+      = digitsLoop false maxCh f (next s).1 (b ||| 1) inv' (c :: acc) (next s).2 := by
+  have hdd := isDecimal_facts c hc
+  rw [digitsLoop]
+  simp only [hdd.2.1, if_false, hc, Bool.false_eq_true, if_true]
+  exact ⟨_, rfl⟩
+
+theorem digitsLoop_sepF (maxCh f : Nat) (b : Nat) (inv : Option Char) (acc : List Char) (s : LState) :
+    digitsLoop false maxCh (f + 1) (some '_') b inv acc s
+      = digitsLoop false maxCh f (next s).1 (b ||| 2) inv ('_' :: acc) (next s).2 := by
+  rw [digitsLoop]
+  simp
+
+theorem or_one_casesF (b : Nat) (h : b = 0 ∨ b = 1 ∨ b = 3) : b ||| 1 = 1 ∨ b ||| 1 = 3 := by
+  rcases h with h | h | h <;> subst h <;> decide
+
+/-- the digit loop reads the rest of a digit string (any `maxCh`: in the fraction of `0.…` the base
+    is still 8 and the digits `8`, `9` are recorded as "invalid", which only matters for `INT_P`) -/
+theorem digitsLoop_fromF (maxCh : Nat) (st : LState) (r : List Char) (hr : NoNul r) (hs : Stops r.head?)
+    {ds : List Char} (h : DigsFrom ds) :
+    ∀ (b : Nat) (inv : Option Char) (acc : List Char) (f : Nat), (b = 1 ∨ b = 3) → ds.length + 1 ≤ f →
+      ∃ b' inv', (b' = 1 ∨ b' = 3) ∧
+        digitsLoop false maxCh f (ds ++ r).head? b inv acc (fd st (ds ++ r).tail)
+          = (r.head?, b', inv', ds.reverse ++ acc, fd st r.tail) := by
+  induction h with
+  | nil =>
+    intro b inv acc f hb1 hf
+    obtain ⟨f1, rfl⟩ : ∃ f1, f = f1 + 1 := ⟨f - 1, by simp at hf; omega⟩
+    refine ⟨b, inv, hb1, ?_⟩
+    simp only [List.nil_append, List.reverse_nil]
+    exact digitsLoop_stop false _ _ _ _ _ _ _ hs.1 hs.2 rfl
+  | @digit c ds hc hrest ih =>
+    intro b inv acc f hb1 hf
+    obtain ⟨f1, rfl⟩ : ∃ f1, f = f1 + 1 := ⟨f - 1, by simp at hf; omega⟩
+    have hnn : NoNul (ds ++ r) := hrest.noNul.append hr
+    simp only [List.cons_append, List.head?_cons, List.tail_cons]
+    obtain ⟨inv1, h1⟩ := digitsLoop_digitF maxCh f1 b inv acc (fd st (ds ++ r)) hc
+    rw [h1, next_fd _ _ hnn]
+    obtain ⟨b', inv', hb', heq⟩ := ih (b ||| 1) inv1 (c :: acc) f1
+      (or_one_casesF b (by rcases hb1 with h | h <;> simp [h])) (by simp at hf; omega)
+    exact ⟨b', inv', hb', by rw [heq]; simp⟩
+  | @sep c ds hc hrest ih =>
+    intro b inv acc f hb1 hf
+    obtain ⟨f1, rfl⟩ : ∃ f1, f = f1 + 2 := ⟨f - 2, by simp at hf; omega⟩
+    have hnn : NoNul (ds ++ r) := hrest.noNul.append hr
+    have hnn' : NoNul (c :: (ds ++ r)) := NoNul.cons (isDecimal_facts _ hc).1 hnn
+    simp only [List.cons_append, List.head?_cons, List.tail_cons]
+    rw [digitsLoop_sepF, next_fd _ _ hnn']
+    simp only [List.head?_cons, List.tail_cons]
+    obtain ⟨inv1, h1⟩ := digitsLoop_digitF maxCh f1 (b ||| 2) inv ('_' :: acc) (fd st (ds ++ r)) hc
+    rw [h1, next_fd _ _ hnn]
+    have hb2 : b ||| 2 = 3 := by rcases hb1 with h | h <;> subst h <;> decide
+    obtain ⟨b', inv', hb', heq⟩ := ih (b ||| 2 ||| 1) inv1 (c :: '_' :: acc) f1
+      (by rw [hb2]; decide) (by simp at hf; omega)
+    exact ⟨b', inv', hb', by rw [heq]; simp⟩
+
+theorem base_not_hex (base : Nat) (hb : base ≤ 10) : decide (base > 10) = false := by
+  simp; omega
+
+/-- `digits` on a digit string whose first digit is in the look-ahead -/
+theorem digits_runF (base : Nat) (hb : base ≤ 10) {c : Char} {rest : List Char}
+    (hc : isDecimal c = true) (hrest : DigsFrom rest)
+    (st : LState) (r : List Char) (hr : NoNul r) (hs : Stops r.head?) (inv : Option Char) (acc : List Char) :
+    ∃ b' inv', (b' = 1 ∨ b' = 3) ∧
+      digits base (some c) inv acc (fd st (rest ++ r))
+        = (r.head?, b', inv', rest.reverse ++ c :: acc, fd st r.tail) := by
+  unfold digits
+  rw [base_not_hex base hb]
+  have hnn : NoNul (rest ++ r) := hrest.noNul.append hr
+  obtain ⟨inv1, h1⟩ := digitsLoop_digitF (48 + base) ((fd st (rest ++ r)).rest.length + 2) 0 inv acc
+    (fd st (rest ++ r)) hc
+  rw [show (fd st (rest ++ r)).rest.length + 3 = ((fd st (rest ++ r)).rest.length + 2) + 1 from rfl,
+    h1, next_fd _ _ hnn]
+  obtain ⟨b', inv', hb', heq⟩ := digitsLoop_fromF (48 + base) st r hr hs hrest (0 ||| 1) inv1 (c :: acc)
+    ((fd st (rest ++ r)).rest.length + 2) (Or.inl (by decide)) (by simp; omega)
+  exact ⟨b', inv', hb', heq⟩
+
+/-- `digits` on a rune that is neither a digit nor `_` -/
+theorem digits_stopF (base : Nat) (hb : base ≤ 10) (y : Option Char) (hs : Stops y) (inv : Option Char)
+    (acc : List Char) (s : LState) :
+    digits base y inv acc s = (y, 0, inv, acc, s) := by
+  unfold digits
+  rw [base_not_hex base hb]
+  exact digitsLoop_stop false _ _ _ _ _ _ _ hs.1 hs.2 rfl
+
+
+/-! ### separators: `invalidSep` finds nothing in these texts -/
+
+/-- a text cut into digit groups and single characters out of `.eE+-` -/
+inductive Pieces : List Char → Prop
+  | nil : Pieces []
+  | digs {g t : List Char} : Digs g → Pieces t → Pieces (g ++ t)
+  | pun {x : Char} {t : List Char} : x ∈ ['.', 'e', 'E', '+', '-'] → Pieces t → Pieces (x :: t)
+
+theorem sepLoop_digsFrom {ds : List Char} (h : DigsFrom ds) (t : List Char) :
+    invalidSepLoop false (ds ++ t) '0' = invalidSepLoop false t '0' := by
+  induction h with
+  | nil => rfl
+  | @digit c ds hc _ ih =>
+    rw [List.cons_append, invalidSepLoop]
+    simp only [(isDecimal_facts c hc).2.1, if_false, hc, Bool.true_or, if_true]
+    exact ih
+  | @sep c ds hc _ ih =>
+    rw [List.cons_append, List.cons_append, invalidSepLoop]
+    simp only [if_true, ne_eq, not_true_eq_false, if_false]
+    rw [invalidSepLoop]
+    simp only [(isDecimal_facts c hc).2.1, if_false, hc, Bool.true_or, if_true]
+    exact ih
+
+theorem pun_facts : ∀ x ∈ ['.', 'e', 'E', '+', '-'], x ≠ '_' ∧ isDecimal x = false := by decide
+
+theorem sepLoop_pieces {t : List Char} (h : Pieces t) :
+    ∀ p : Char, p ≠ '_' → invalidSepLoop false t p = false := by
+  induction h with
+  | nil => intro p hp; simp [invalidSepLoop, hp]
+  | @digs g t hg _ ih =>
+    intro p _
+    cases hg with
+    | @mk c ds hc hrest =>
+      rw [List.cons_append, invalidSepLoop]
+      simp only [(isDecimal_facts c hc).2.1, if_false, hc, Bool.true_or, if_true]
+      rw [sepLoop_digsFrom hrest]
+      exact ih '0' (by decide)
+  | @pun x t hx _ ih =>
+    intro p hp
+    have hf := pun_facts x hx
+    rw [invalidSepLoop]
+    simp only [hf.1, if_false, hf.2, Bool.false_and, Bool.or_self, Bool.false_eq_true, hp]
+    exact ih '.' (by decide)
+
+theorem invalidSep_eq_loop (t : List Char)
+    (h : ∀ c1 rest, t = '0' :: c1 :: rest → c1 = '.' ∨ c1 = 'e' ∨ c1 = 'E') :
+    invalidSep t = invalidSepLoop false t '.' := by
+  unfold invalidSep
+  split
+  · rename_i c1 rest
+    rcases h c1 rest rfl with rfl | rfl | rfl
+    · have : (decide (lowerBit '.' = 'x') || decide (lowerBit '.' = 'o') || decide (lowerBit '.' = 'b')) = false := by
+        decide
+      simp only [this, Bool.false_eq_true, if_false]
+    · have : (decide (lowerBit 'e' = 'x') || decide (lowerBit 'e' = 'o') || decide (lowerBit 'e' = 'b')) = false := by
+        decide
+      simp only [this, Bool.false_eq_true, if_false]
+    · have : (decide (lowerBit 'E' = 'x') || decide (lowerBit 'E' = 'o') || decide (lowerBit 'E' = 'b')) = false := by
+        decide
+      simp only [this, Bool.false_eq_true, if_false]
+  · rfl
+
+theorem ExpSuffix.pieces {e : List Char} (h : ExpSuffix e) : Pieces e := by
+  cases h with
+  | @mk x sg ds hx hsg hds =>
+    have hd : Pieces ds := by simpa using Pieces.digs hds Pieces.nil
+    refine Pieces.pun (by rcases hx with rfl | rfl <;> decide) ?_
+    rcases hsg with rfl | rfl | rfl
+    · exact hd
+    · exact Pieces.pun (by decide) hd
+    · exact Pieces.pun (by decide) hd
+
+theorem Suffix.pieces {e : List Char} (h : Suffix e) : Pieces e := by
+  cases h with
+  | none => exact Pieces.nil
+  | some h => exact h.pieces
+
+theorem FracOpt.pieces {fr t : List Char} (h : FracOpt fr) (ht : Pieces t) : Pieces (fr ++ t) := by
+  cases h with
+  | none => exact ht
+  | some h => exact Pieces.digs h ht
+
+theorem AfterInt.pieces {tl : List Char} (h : AfterInt tl) : Pieces tl := by
+  cases h with
+  | dot hfr he => exact Pieces.pun (by decide) (hfr.pieces he.pieces)
+  | exp he => exact he.pieces
+
+theorem AfterInt.head {tl : List Char} (h : AfterInt tl) :
+    ∃ x l, tl = x :: l ∧ (x = '.' ∨ x = 'e' ∨ x = 'E') := by
+  cases h with
+  | dot hfr he => exact ⟨_, _, rfl, Or.inl rfl⟩
+  | exp he =>
+    cases he with
+    | mk hx hsg hds => exact ⟨_, _, rfl, Or.inr hx⟩
+
+theorem invalidSep_intForm {d : Char} {ds tl : List Char} (hip : IntPart d ds) (htl : AfterInt tl) :
+    invalidSep (d :: (ds ++ tl)) = false := by
+  rw [invalidSep_eq_loop]
+  · have : Pieces ((d :: ds) ++ tl) := Pieces.digs (Digs.mk hip.1 hip.2.1) htl.pieces
+    exact sepLoop_pieces this '.' (by decide)
+  · intro c1 rest heq
+    injection heq with h1 h2
+    have := hip.2.2 h1
+    subst this
+    obtain ⟨x, l, hx, hx'⟩ := htl.head
+    subst hx
+    simp only [List.nil_append] at h2
+    injection h2 with h2 _
+    subst h2
+    exact hx'
+
+theorem invalidSep_leadForm {fr e : List Char} (hfr : Digs fr) (he : Suffix e) :
+    invalidSep ('.' :: (fr ++ e)) = false := by
+  rw [invalidSep_eq_loop]
+  · exact sepLoop_pieces (Pieces.pun (by decide) (Pieces.digs hfr he.pieces)) '.' (by decide)
+  · intro c1 rest heq
+    injection heq with h1 _
+    exact absurd h1 (by decide)
+
+
+/-! ### the exponent block and the final checks -/
+
+theorem EndsNumeric.stops {o : Oracles} {y : Option Char} (h : EndsNumeric o y) : Stops y := ⟨h.notDigit, h.notSep⟩
+
+/-- no exponent: the final checks pass -/
+theorem expPart_end (o : Oracles) (y : Option Char) (hy : EndsNumeric o y) (b : Nat) (inv : Option Char)
+    (acc : List Char) (s : LState) (hsep : invalidSep acc.reverse = false) :
+    expPart o true .numeric y b inv acc s = ⟨.numeric, acc.reverse, y, s⟩ := by
+  unfold expPart numFinish
+  simp [hy.notExp, hy.notIdentL, hy.notIdent, hsep]
+
+theorem numFinish_numeric (o : Oracles) (y : Option Char) (hy : EndsNumeric o y) (b : Nat) (inv : Option Char)
+    (acc : List Char) (s : LState) (hsep : invalidSep acc.reverse = false) :
+    numFinish o .numeric y b inv acc s = ⟨.numeric, acc.reverse, y, s⟩ := by
+  unfold numFinish
+  simp [hy.notIdent, hsep]
+
+/-- the exponent block on `e`/`E`, an optional sign and digits -/
+theorem expPart_exp (o : Oracles) {e : List Char} (he : ExpSuffix e) (st : LState) (r : List Char)
+    (hr : NoNul r) (hy : EndsNumeric o r.head?) (tok1 : Tok) (b : Nat) (inv : Option Char) (acc : List Char)
+    (hsep : invalidSep (acc.reverse ++ e) = false) :
+    expPart o true tok1 (e ++ r).head? b inv acc (fd st (e ++ r).tail)
+      = ⟨.numeric, acc.reverse ++ e, r.head?, fd st r.tail⟩ := by
+  cases he with
+  | @mk x sg ds hx hsg hds =>
+    cases hds with
+    | @mk c rest hc hrest =>
+      have hcz := (isDecimal_facts c hc).1
+      have hlow : Option.map lowerBit (some x) = some 'e' := by
+        rcases hx with rfl | rfl <;> decide
+      have hcp : (decide (some c = some '+') || decide (some c = some '-')) = false := by
+        have h1 : c ≠ '+' := by intro h; subst h; revert hc; decide
+        have h2 : c ≠ '-' := by intro h; subst h; revert hc; decide
+        simp [h1, h2]
+      simp only [List.cons_append, List.head?_cons, List.tail_cons, List.append_assoc]
+      unfold expPart
+      simp only [hlow, if_true, Bool.not_true, Bool.false_eq_true, if_false, Option.getD_some]
+      rcases hsg with rfl | rfl | rfl
+      · simp only [List.nil_append, List.cons_append]
+        simp only [next_fd_cons _ _ _ hcz, hcp, Bool.false_eq_true, if_false]
+        obtain ⟨b', inv', hb', heq⟩ := digits_runF 10 (by decide) hc hrest st r hr hy.stops none (x :: acc)
+        rw [heq]
+        have h1 : (b' &&& 1 = 0) = False := by rcases hb' with h | h <;> subst h <;> decide
+        simp only [h1, if_false]
+        rw [numFinish_numeric o _ hy _ _ _ _ (by simpa using hsep)]
+        simp
+      · simp only [List.cons_append, List.nil_append]
+        simp only [next_fd_cons _ '+' _ (by decide), decide_true, Bool.true_or, if_true, Option.getD_some,
+          next_fd_cons _ _ _ hcz]
+        obtain ⟨b', inv', hb', heq⟩ := digits_runF 10 (by decide) hc hrest st r hr hy.stops none ('+' :: x :: acc)
+        rw [heq]
+        have h1 : (b' &&& 1 = 0) = False := by rcases hb' with h | h <;> subst h <;> decide
+        simp only [h1, if_false]
+        rw [numFinish_numeric o _ hy _ _ _ _ (by simpa using hsep)]
+        simp
+      · simp only [List.cons_append, List.nil_append]
+        simp only [next_fd_cons _ '-' _ (by decide), decide_true, Bool.or_true, if_true, Option.getD_some,
+          next_fd_cons _ _ _ hcz]
+        obtain ⟨b', inv', hb', heq⟩ := digits_runF 10 (by decide) hc hrest st r hr hy.stops none ('-' :: x :: acc)
+        rw [heq]
+        have h1 : (b' &&& 1 = 0) = False := by rcases hb' with h | h <;> subst h <;> decide
+        simp only [h1, if_false]
+        rw [numFinish_numeric o _ hy _ _ _ _ (by simpa using hsep)]
+        simp
+
+
+/-- the exponent block on an optional exponent, the token being `NUMERIC_P` already -/
+theorem expPart_suffix (o : Oracles) {e : List Char} (he : Suffix e) (st : LState) (r : List Char)
+    (hr : NoNul r) (hy : EndsNumeric o r.head?) (b : Nat) (inv : Option Char) (acc : List Char)
+    (hsep : invalidSep (acc.reverse ++ e) = false) :
+    expPart o true .numeric (e ++ r).head? b inv acc (fd st (e ++ r).tail)
+      = ⟨.numeric, acc.reverse ++ e, r.head?, fd st r.tail⟩ := by
+  cases he with
+  | none =>
+    simp only [List.nil_append, List.append_nil] at hsep ⊢
+    exact expPart_end o _ hy b inv acc _ hsep
+  | some he => exact expPart_exp o he st r hr hy .numeric b inv acc hsep
+
+theorem Suffix.head_stops {o : Oracles} {e : List Char} (he : Suffix e) {r : List Char}
+    (hy : EndsNumeric o r.head?) : Stops (e ++ r).head? := by
+  cases he with
+  | none => simpa using hy.stops
+  | some he =>
+    cases he with
+    | mk hx hsg hds =>
+      simp only [List.cons_append, List.head?_cons]
+      rcases hx with rfl | rfl <;> exact ⟨by decide, by decide⟩
+
+/-- **after the dot**: the "fractional part" block, the exponent block and the final checks -/
+theorem scanNumberTail_dot (o : Oracles) (base : Nat) (hb : base ≤ 10) {fr e : List Char} (hfr : FracOpt fr)
+    (he : Suffix e) (st : LState) (r : List Char) (hr : NoNul r) (hy : EndsNumeric o r.head?)
+    (tok0 : Tok) (b : Nat) (inv : Option Char) (acc : List Char)
+    (hsep : invalidSep (acc.reverse ++ (fr ++ e)) = false) :
+    scanNumberTail o tok0 true base true (fr ++ (e ++ r)).head? b inv acc (fd st (fr ++ (e ++ r)).tail)
+      = ⟨.numeric, acc.reverse ++ (fr ++ e), r.head?, fd st r.tail⟩ := by
+  unfold scanNumberTail fracPart
+  simp only [if_true]
+  have hstop := he.head_stops hy
+  have hnn : NoNul (e ++ r) := he.noNul.append hr
+  cases hfr with
+  | none =>
+    simp only [List.nil_append] at hsep ⊢
+    rw [digits_stopF base hb _ hstop]
+    simp only []
+    exact expPart_suffix o he st r hr hy _ inv acc hsep
+  | some hd =>
+    cases hd with
+    | @mk c rest hc hrest =>
+      simp only [List.cons_append, List.head?_cons, List.tail_cons]
+      obtain ⟨b', inv', _, heq⟩ := digits_runF base hb hc hrest st (e ++ r) hnn hstop inv acc
+      rw [heq]
+      simp only []
+      rw [expPart_suffix o he st r hr hy _ inv' _ (by simpa using hsep)]
+      simp
+
+/-- **an exponent directly after the integer part** -/
+theorem scanNumberTail_exp (o : Oracles) (base : Nat) {e : List Char} (he : ExpSuffix e)
+    (st : LState) (r : List Char) (hr : NoNul r) (hy : EndsNumeric o r.head?)
+    (b : Nat) (inv : Option Char) (acc : List Char) (hsep : invalidSep (acc.reverse ++ e) = false) :
+    scanNumberTail o .int false base true (e ++ r).head? b inv acc (fd st (e ++ r).tail)
+      = ⟨.numeric, acc.reverse ++ e, r.head?, fd st r.tail⟩ := by
+  unfold scanNumberTail fracPart
+  simp only [Bool.false_eq_true, if_false]
+  exact expPart_exp o he st r hr hy .int b inv acc hsep
+
+/-- the integer part has been read by `digits`; what `scanNumberBody` does with the rest -/
+theorem scanNumberBody_after (o : Oracles) (base : Nat) (hb : base ≤ 10) (b0 : Nat) (ch : Option Char)
+    (acc1 : List Char) (s1 : LState) (hch : ch ≠ some '_')
+    {tl : List Char} (htl : AfterInt tl) (st : LState) (r : List Char) (hr : NoNul r)
+    (hy : EndsNumeric o r.head?) (bd : Nat) (inv : Option Char) (acc2 : List Char)
+    (hdig : digits base ch none acc1 s1 = ((tl ++ r).head?, bd, inv, acc2, fd st (tl ++ r).tail))
+    (hb1 : (b0 ||| bd) &&& 1 ≠ 0) (hsep : invalidSep (acc2.reverse ++ tl) = false) :
+    scanNumberBody o base true b0 ch acc1 s1 = ⟨.numeric, acc2.reverse ++ tl, r.head?, fd st r.tail⟩ := by
+  unfold scanNumberBody
+  simp only [hch, if_false, hdig, hb1]
+  cases htl with
+  | @dot fr e hfr he =>
+    have hnn : NoNul (fr ++ (e ++ r)) := hfr.noNul.append (he.noNul.append hr)
+    simp only [List.cons_append, List.head?_cons, List.tail_cons, if_true, Bool.not_true, Bool.false_eq_true,
+      if_false, List.append_assoc, next_fd _ _ hnn]
+    rw [scanNumberTail_dot o base hb hfr he st r hr hy .int _ inv ('.' :: acc2)
+      (by simpa using hsep)]
+    simp
+  | exp he =>
+    have hne : (tl ++ r).head? ≠ some '.' := by
+      cases he with
+      | mk hx _ _ =>
+        simp only [List.cons_append, List.head?_cons]
+        rcases hx with rfl | rfl <;> decide
+    simp only [hne, if_false]
+    exact scanNumberTail_exp o base he st r hr hy _ inv acc2 hsep
+
+theorem zeroPrefix_after {tl : List Char} (htl : AfterInt tl) (st : LState) (r : List Char) :
+    zeroPrefix [] (fd st (tl ++ r)) = some (8, true, 1, (tl ++ r).head?, ['0'], fd st (tl ++ r).tail) := by
+  obtain ⟨x, l, rfl, hx⟩ := htl.head
+  simp only [List.cons_append, List.head?_cons, List.tail_cons]
+  rcases hx with rfl | rfl | rfl
+  · unfold zeroPrefix
+    simp only [next_fd_cons _ '.' _ (by decide)]
+    rfl
+  · unfold zeroPrefix
+    simp only [next_fd_cons _ 'e' _ (by decide)]
+    rfl
+  · unfold zeroPrefix
+    simp only [next_fd_cons _ 'E' _ (by decide)]
+    rfl
+
+section
+variable (o : Oracles) (ok : RoundTrip.OrOK o)
+include ok
+
+/-- `scanNumber` entered on the first digit of a non-integer literal -/
+theorem scanNumber_float {d : Char} {ds tl : List Char} (hip : IntPart d ds) (htl : AfterInt tl)
+    (st : LState) (r : List Char) (hr : NoNul r) (hy : EndsNumeric o r.head?) :
+    scanNumber o d false [] (fd st (ds ++ tl ++ r)) = ⟨.numeric, d :: (ds ++ tl), r.head?, fd st r.tail⟩ := by
+  have hsep := invalidSep_intForm hip htl
+  have hdd := isDecimal_facts d hip.1
+  obtain ⟨x, l, hxl, hx⟩ := htl.head
+  have hstop : Stops (tl ++ r).head? := by
+    subst hxl
+    simp only [List.cons_append, List.head?_cons]
+    rcases hx with rfl | rfl | rfl <;> exact ⟨by decide, by decide⟩
+  have hnn : NoNul (tl ++ r) := htl.noNul.append hr
+  unfold scanNumber
+  simp only [Bool.false_eq_true, if_false]
+  by_cases h0 : d = '0'
+  · have := hip.2.2 h0
+    subst this
+    subst h0
+    simp only [if_true, List.nil_append]
+    rw [zeroPrefix_after htl st r]
+    simp only []
+    have hus : (tl ++ r).head? ≠ some '_' := hstop.2
+    exact scanNumberBody_after o 8 (by decide) 1 _ ['0'] _ hus htl st r hr hy 0 none ['0']
+      (digits_stopF 8 (by decide) _ hstop none _ _) (by decide) (by simpa using hsep)
+  · simp only [h0, if_false, List.append_assoc]
+    obtain ⟨b', inv', hb', heq⟩ := digits_runF 10 (by decide) hip.1 hip.2.1 st (tl ++ r) hnn hstop none []
+    have hus : some d ≠ some '_' := by simp [hdd.2.1]
+    rw [scanNumberBody_after o 10 (by decide) 0 _ [] _ hus htl st r hr hy b' inv' _ heq
+      (by rcases hb' with h | h <;> subst h <;> decide) (by simpa using hsep)]
+    simp
+
+/-- **C03, non-integer literals starting with a digit** (`D.D`, `D.`, `D.De±D`, `D.e±D`, `De±D`):
+    the text followed by a rune that does not continue it is `NUMERIC_P` with exactly that text,
+    whatever follows that rune -/
+theorem tokAt_float' {d : Char} {ds tl : List Char} (hip : IntPart d ds) (htl : AfterInt tl) :
+    TokAt o (EndsNumeric o) d (ds ++ tl) (.numeric, d :: (ds ++ tl)) := by
+  intro f st r he hr hy
+  have hdd := isDecimal_facts d hip.1
+  have hx := ok.digitS d hip.1
+  have hid : isIdentStart o (some d) = false := by
+    simp [isIdentStart, hdd.2.1, hdd.2.2.2.2.1, hx]
+  simp only [lexFrom]
+  rw [skipWs_nonws _ _ _ hdd.2.2.2.1]
+  simp only [hid, Bool.false_eq_true, if_false, hip.1, if_true]
+  exact scanNumber_float o ok hip htl st r hr hy
+
+/-- **C03, non-integer literals starting with the dot** (`.D`, `.De±D`) -/
+theorem tokAt_dot_float' {fr e : List Char} (hfr : Digs fr) (he : Suffix e) :
+    TokAt o (EndsNumeric o) '.' (fr ++ e) (.numeric, '.' :: (fr ++ e)) := by
+  intro f st r her hr hy
+  have hsep := invalidSep_leadForm hfr he
+  have hx := ok.punctS '.' (by decide)
+  have hid : isIdentStart o (some '.') = false := by simp [isIdentStart, hx]
+  cases hfr with
+  | @mk c rest hc hrest =>
+    have hcz := (isDecimal_facts c hc).1
+    simp only [lexFrom]
+    rw [skipWs_nonws _ _ _ (by decide)]
+    simp only [hid, Bool.false_eq_true, if_false, show isDecimal '.' = false by decide,
+      show ('.' = '"') = False by decide, show ('.' = '$') = False by decide, show ('.' = '/') = False by decide,
+      if_true, List.cons_append, List.append_assoc, next_fd_cons _ _ _ hcz, hc]
+    unfold scanNumber
+    simp only [if_true]
+    have := scanNumberTail_dot o 10 (by decide) (FracOpt.some (Digs.mk hc hrest)) he st r hr hy .numeric 0 none ['.']
+      (by simpa using hsep)
+    simpa using this
+
+end
+
+
+/-! ### the same, stated on `FloatForm` -/
+
+theorem IntPart.noNul {d : Char} {ds : List Char} (h : IntPart d ds) : d.toNat ≠ 0 ∧ NoNul ds :=
+  ⟨(isDecimal_facts d h.1).1, h.2.1.noNul⟩
+
+theorem FloatForm.noNul {t : List Char} (h : FloatForm t) : NoNul t := by
+  cases h with
+  | point hip hfr he =>
+    exact NoNul.cons hip.noNul.1 (hip.noNul.2.append (NoNul.cons (by decide) (hfr.noNul.append he.noNul)))
+  | intExp hip he => exact NoNul.cons hip.noNul.1 (hip.noNul.2.append he.noNul)
+  | lead hfr he => exact NoNul.cons (by decide) (hfr.noNul.append he.noNul)
+
+section
+variable (o : Oracles) (ok : RoundTrip.OrOK o)
+include ok
+
+/-- **C03, non-integer number literals starting with a digit.**  A text `d :: ds` of one of the forms
+    `D.D`, `D.`, `D.D e±D`, `D. e±D`, `D e±D`, followed by a rune that does not continue it
+    (`EndsNumeric`), is the token `(NUMERIC_P, d :: ds)` — exactly that text, whatever follows. -/
+theorem tokAt_float {d : Char} {ds : List Char} (h : FloatForm (d :: ds)) (hd : isDecimal d = true) :
+    TokAt o (EndsNumeric o) d ds (.numeric, d :: ds) := by
+  generalize ht : d :: ds = t at h
+  cases h with
+  | point hip hfr he =>
+    injection ht with h1 h2
+    subst h1; subst h2
+    exact tokAt_float' o ok hip (AfterInt.dot hfr he)
+  | intExp hip he =>
+    injection ht with h1 h2
+    subst h1; subst h2
+    exact tokAt_float' o ok hip (AfterInt.exp he)
+  | lead hfr he =>
+    injection ht with h1 _
+    subst h1
+    exact absurd hd (by decide)
+
+/-- **C03, non-integer number literals starting with the dot** (`.D`, `.D e±D`; the `'.'` case of
+    `Lex`): the token is `(NUMERIC_P, '.' :: ds)` -/
+theorem tokAt_dot_float {ds : List Char} (h : FloatForm ('.' :: ds)) :
+    TokAt o (EndsNumeric o) '.' ds (.numeric, '.' :: ds) := by
+  generalize ht : '.' :: ds = t at h
+  cases h with
+  | point hip hfr he =>
+    injection ht with h1 _
+    subst h1
+    exact absurd hip.1 (by decide)
+  | intExp hip he =>
+    injection ht with h1 _
+    subst h1
+    exact absurd hip.1 (by decide)
+  | lead hfr he =>
+    injection ht with _ h2
+    subst h2
+    exact tokAt_dot_float' o ok hfr he
+
+/-- every non-integer number form is one `NUMERIC_P` token carrying its own text, in the `Seg`
+    calculus of the round-trip proof: it composes with whatever follows -/
+theorem seg_float {t : List Char} (h : FloatForm t) : RoundTrip.Seg o (EndsNumeric o) t [(.numeric, t)] := by
+  have hnn := h.noNul
+  cases t with
+  | nil => cases h
+  | cons c w =>
+    have hc := (hnn.of_cons).1
+    have hw := (hnn.of_cons).2
+    by_cases hd : isDecimal c = true
+    · exact RoundTrip.seg_of_tokAt o (tokAt_float o ok h hd) hc hw (by simp)
+    · have : c = '.' := by
+        generalize ht : c :: w = t at h
+        cases h with
+        | point hip _ _ => injection ht with h1 _; subst h1; exact absurd hip.1 hd
+        | intExp hip _ => injection ht with h1 _; subst h1; exact absurd hip.1 hd
+        | lead _ _ => injection ht with h1 _
+      subst this
+      exact RoundTrip.seg_of_tokAt o (tokAt_dot_float o ok h) hc hw (by simp)
+
+/-- **C03 on `Lex` itself**: a lexer standing (error-free) before a non-integer number form `t`
+    followed by `r`, where the first rune of `r` does not continue the number, returns
+    `(NUMERIC_P, t)` and is left standing before `r` — the token and its text do not depend on `r` -/
+theorem lex_float {t : List Char} (h : FloatForm t) (r : List Char) (hr : NoNul r)
+    (hy : EndsNumeric o r.head?) (s : LState) (hs : At (t ++ r) s) :
+    ∃ s', Lex.lex o s = (.numeric, t, s') ∧ At r s' := by
+  have hnn := h.noNul
+  cases t with
+  | nil => cases h
+  | cons c w =>
+    have hc := (hnn.of_cons).1
+    by_cases hd : isDecimal c = true
+    · exact lex_of_tokAt o (tokAt_float o ok h hd) hc r hr hy s (by simpa using hs)
+    · have : c = '.' := by
+        generalize ht : c :: w = t at h
+        cases h with
+        | point hip _ _ => injection ht with h1 _; subst h1; exact absurd hip.1 hd
+        | intExp hip _ => injection ht with h1 _; subst h1; exact absurd hip.1 hd
+        | lead _ _ => injection ht with h1 _
+      subst this
+      exact lex_of_tokAt o (tokAt_dot_float o ok h) hc r hr hy s (by simpa using hs)
+
+/-! ### which runes end a non-integer literal -/
+
+/-- under the oracle hypotheses `notExp` is implied by `notIdentL` (`e` starts an identifier) -/
+theorem endsNumeric_of_ident {y : Option Char} (h1 : isDecimalR y = false) (h2 : y ≠ some '_')
+    (h3 : isIdentStart o (y.map lowerBit) = false) (h4 : isIdentStart o y = false) : EndsNumeric o y := by
+  refine ⟨h1, h2, ?_, h3, h4⟩
+  intro he
+  rw [he] at h3
+  simp [isIdentStart, ok.lowS 'e' (by decide)] at h3
+
+/-- the end of the input ends the literal -/
+theorem endsNumeric_none : EndsNumeric o none := ⟨rfl, by simp, by simp, rfl, rfl⟩
+
+omit ok in
+theorem punct_lower : ∀ c ∈ punct, c ≠ '@' →
+    lowerBit c ∈ punct ∧ c ≠ '_' ∧ c ≠ '\\' ∧ isDecimal c = false ∧ lowerBit c ≠ 'e' ∧ lowerBit c ≠ '_' ∧
+      lowerBit c ≠ '\\' := by decide
+
+/-- every punctuation character except `@` ends the literal — **including the dot** -/
+theorem endsNumeric_punct (c : Char) (hc : c ∈ punct) (hat : c ≠ '@') : EndsNumeric o (some c) := by
+  obtain ⟨h1, h2, h3, h4, h5, h6, h7⟩ := punct_lower c hc hat
+  refine ⟨h4, by simp [h2], by simp [h5], ?_, ?_⟩
+  · simp [isIdentStart, h6, h7, ok.punctS _ h1]
+  · simp [isIdentStart, h2, h3, ok.punctS _ hc]
+
+theorem endsNumeric_dot : EndsNumeric o (some '.') := endsNumeric_punct o ok '.' (by decide) (by decide)
+
+/-- `@` lower-cases to a back quote, about which `OrOK` says nothing -/
+theorem endsNumeric_at (h : o.xidStart '`' = false) : EndsNumeric o (some '@') := by
+  refine ⟨by decide, by decide, by decide, ?_, ?_⟩
+  · simpa [isIdentStart, lowerBit] using h
+  · simpa [isIdentStart] using ok.punctS '@' (by decide)
+
+end
+
+
+/-! ## A checker for `FloatForm` (sound; instances are then decided by evaluation) -/
+
+/-- `sep` = the previous character was an underscore -/
+def digsFromB : Bool → List Char → Bool
+  | sep, [] => !sep
+  | sep, c :: ds =>
+    if c = '_' then (!sep && digsFromB true ds) else (isDecimal c && digsFromB false ds)
+
+def digsB : List Char → Bool
+  | [] => false
+  | c :: ds => isDecimal c && digsFromB false ds
+
+def intPartB : List Char → Bool
+  | [] => false
+  | d :: ds => isDecimal d && digsFromB false ds && (d != '0' || ds.isEmpty)
+
+def expSuffixB : List Char → Bool
+  | [] => false
+  | x :: t => (x = 'e' || x = 'E') &&
+    (match t with
+     | [] => false
+     | s :: ds => if s = '+' ∨ s = '-' then digsB ds else digsB (s :: ds))
+
+def suffixB (e : List Char) : Bool := e.isEmpty || expSuffixB e
+
+/-- a digit or an underscore -/
+def isDU (c : Char) : Bool := isDecimal c || c = '_'
+
+/-- cut the text at the first character that is neither a digit nor `_`, and again after the dot -/
+def floatFormB (t : List Char) : Bool :=
+  let ip := t.takeWhile isDU
+  match t.dropWhile isDU with
+  | [] => false
+  | x :: t2 =>
+    if x = '.' then
+      let fr := t2.takeWhile isDU
+      let e := t2.dropWhile isDU
+      ((ip.isEmpty && digsB fr) || (intPartB ip && (fr.isEmpty || digsB fr))) && suffixB e
+    else intPartB ip && expSuffixB (x :: t2)
+
+theorem digsFromB_sound (ds : List Char) :
+    (digsFromB false ds = true → DigsFrom ds) ∧
+    (digsFromB true ds = true → ∃ c ds', ds = c :: ds' ∧ isDecimal c = true ∧ DigsFrom ds') := by
+  induction ds with
+  | nil =>
+    constructor
+    · intro _; exact DigsFrom.nil
+    · intro h; simp [digsFromB] at h
+  | cons c ds ih =>
+    by_cases hc : c = '_'
+    · subst hc
+      constructor
+      · intro h
+        rw [digsFromB] at h
+        simp only [if_true, Bool.not_false, Bool.true_and] at h
+        obtain ⟨c', ds', h1, h2, h3⟩ := ih.2 h
+        subst h1
+        exact DigsFrom.sep h2 h3
+      · intro h
+        rw [digsFromB] at h
+        simp at h
+    · constructor
+      · intro h
+        rw [digsFromB] at h
+        simp only [hc, if_false, Bool.and_eq_true] at h
+        exact DigsFrom.digit h.1 (ih.1 h.2)
+      · intro h
+        rw [digsFromB] at h
+        simp only [hc, if_false, Bool.and_eq_true] at h
+        exact ⟨c, ds, rfl, h.1, ih.1 h.2⟩
+
+theorem digsB_sound {ds : List Char} (h : digsB ds = true) : Digs ds := by
+  cases ds with
+  | nil => simp [digsB] at h
+  | cons c ds =>
+    simp only [digsB, Bool.and_eq_true] at h
+    exact Digs.mk h.1 ((digsFromB_sound ds).1 h.2)
+
+theorem intPartB_sound {t : List Char} (h : intPartB t = true) : ∃ d ds, t = d :: ds ∧ IntPart d ds := by
+  cases t with
+  | nil => simp [intPartB] at h
+  | cons d ds =>
+    simp only [intPartB, Bool.and_eq_true, Bool.or_eq_true, bne_iff_ne, ne_eq, List.isEmpty_iff] at h
+    refine ⟨d, ds, rfl, h.1.1, (digsFromB_sound ds).1 h.1.2, ?_⟩
+    intro h0
+    rcases h.2 with h2 | h2
+    · exact absurd h0 h2
+    · exact h2
+
+theorem expSuffixB_sound {e : List Char} (h : expSuffixB e = true) : ExpSuffix e := by
+  cases e with
+  | nil => simp [expSuffixB] at h
+  | cons x t =>
+    simp only [expSuffixB, Bool.and_eq_true, Bool.or_eq_true, decide_eq_true_eq] at h
+    obtain ⟨hx, ht⟩ := h
+    cases t with
+    | nil => simp at ht
+    | cons s ds =>
+      simp only at ht
+      by_cases hs : s = '+' ∨ s = '-'
+      · simp only [hs, if_true] at ht
+        rcases hs with rfl | rfl
+        · exact ExpSuffix.mk (sg := ['+']) hx (Or.inr (Or.inl rfl)) (digsB_sound ht)
+        · exact ExpSuffix.mk (sg := ['-']) hx (Or.inr (Or.inr rfl)) (digsB_sound ht)
+      · simp only [hs, if_false] at ht
+        exact ExpSuffix.mk (sg := []) hx (Or.inl rfl) (digsB_sound ht)
+
+theorem suffixB_sound {e : List Char} (h : suffixB e = true) : Suffix e := by
+  simp only [suffixB, Bool.or_eq_true, List.isEmpty_iff] at h
+  rcases h with h | h
+  · subst h; exact Suffix.none
+  · exact Suffix.some (expSuffixB_sound h)
+
+/-- **soundness of the checker** -/
+theorem floatFormB_sound {t : List Char} (h : floatFormB t = true) : FloatForm t := by
+  have hsplit : t.takeWhile isDU ++ t.dropWhile isDU = t := List.takeWhile_append_dropWhile
+  unfold floatFormB at h
+  simp only at h
+  split at h
+  · simp at h
+  · rename_i x t2 hdrop
+    rw [hdrop] at hsplit
+    by_cases hx : x = '.'
+    · subst hx
+      simp only [if_true, Bool.and_eq_true, Bool.or_eq_true, List.isEmpty_iff] at h
+      have hsplit2 : t2.takeWhile isDU ++ t2.dropWhile isDU = t2 := List.takeWhile_append_dropWhile
+      have he := suffixB_sound h.2
+      rw [← hsplit, ← hsplit2]
+      rcases h.1 with ⟨h1, h2⟩ | ⟨h1, h2⟩
+      · rw [h1]
+        exact FloatForm.lead (digsB_sound h2) he
+      · obtain ⟨d, ds, hd, hip⟩ := intPartB_sound h1
+        rw [hd]
+        rcases h2 with h2 | h2
+        · rw [h2]
+          exact FloatForm.point hip FracOpt.none he
+        · exact FloatForm.point hip (FracOpt.some (digsB_sound h2)) he
+    · simp only [hx, if_false, Bool.and_eq_true] at h
+      obtain ⟨d, ds, hd, hip⟩ := intPartB_sound h.1
+      rw [← hsplit, hd]
+      exact FloatForm.intExp hip (expSuffixB_sound h.2)
+
+/-! ### completeness of the checker: `FloatForm` is decidable -/
+
+theorem takeDrop_split (p : Char → Bool) (a b : List Char) (ha : ∀ c ∈ a, p c = true)
+    (hb : ∀ x, b.head? = some x → p x = false) :
+    (a ++ b).takeWhile p = a ∧ (a ++ b).dropWhile p = b := by
+  induction a with
+  | nil =>
+    cases b with
+    | nil => exact ⟨rfl, rfl⟩
+    | cons x b =>
+      have := hb x rfl
+      simp [List.takeWhile, List.dropWhile, this]
+  | cons c a ih =>
+    have hc := ha c (by simp)
+    have := ih (fun c' hc' => ha c' (by simp [hc']))
+    simp [List.takeWhile, List.dropWhile, hc, this.1, this.2]
+
+theorem isDU_decimal {c : Char} (h : isDecimal c = true) : isDU c = true := by simp [isDU, h]
+
+theorem DigsFrom.allDU {ds : List Char} (h : DigsFrom ds) : ∀ c ∈ ds, isDU c = true := by
+  induction h with
+  | nil => intro c hc; simp at hc
+  | digit hc _ ih =>
+    intro c' hc'
+    simp at hc'
+    rcases hc' with rfl | hc'
+    · exact isDU_decimal hc
+    · exact ih c' hc'
+  | sep hc _ ih =>
+    intro c' hc'
+    simp at hc'
+    rcases hc' with rfl | rfl | hc'
+    · decide
+    · exact isDU_decimal hc
+    · exact ih c' hc'
+
+theorem Digs.allDU {ds : List Char} (h : Digs ds) : ∀ c ∈ ds, isDU c = true := by
+  cases h with
+  | mk hc hrest =>
+    intro c' hc'
+    simp at hc'
+    rcases hc' with rfl | hc'
+    · exact isDU_decimal hc
+    · exact hrest.allDU c' hc'
+
+theorem digsFromB_complete {ds : List Char} (h : DigsFrom ds) : digsFromB false ds = true := by
+  induction h with
+  | nil => rfl
+  | @digit c ds hc _ ih =>
+    rw [digsFromB]
+    simp [(isDecimal_facts c hc).2.1, hc, ih]
+  | @sep c ds hc _ ih =>
+    rw [digsFromB]
+    simp only [if_true, Bool.not_false, Bool.true_and]
+    rw [digsFromB]
+    simp [(isDecimal_facts c hc).2.1, hc, ih]
+
+theorem digsB_complete {ds : List Char} (h : Digs ds) : digsB ds = true := by
+  cases h with
+  | mk hc hrest => simp [digsB, hc, digsFromB_complete hrest]
+
+theorem intPartB_complete {d : Char} {ds : List Char} (h : IntPart d ds) : intPartB (d :: ds) = true := by
+  simp only [intPartB, h.1, digsFromB_complete h.2.1, Bool.true_and, Bool.or_eq_true, bne_iff_ne, ne_eq,
+    List.isEmpty_iff]
+  by_cases h0 : d = '0'
+  · exact Or.inr (h.2.2 h0)
+  · exact Or.inl h0
+
+theorem expSuffixB_complete {e : List Char} (h : ExpSuffix e) : expSuffixB e = true := by
+  cases h with
+  | @mk x sg ds hx hsg hds =>
+    have hd := digsB_complete hds
+    cases hds with
+    | @mk c rest hc hrest =>
+      have h1 : c ≠ '+' := by intro h; subst h; revert hc; decide
+      have h2 : c ≠ '-' := by intro h; subst h; revert hc; decide
+      have hx' : (decide (x = 'e') || decide (x = 'E')) = true := by
+        rcases hx with rfl | rfl <;> decide
+      rcases hsg with rfl | rfl | rfl
+      · simp [expSuffixB, hx', h1, h2, hd]
+      · simp [expSuffixB, hx', hd]
+      · simp [expSuffixB, hx', hd]
+
+theorem suffixB_complete {e : List Char} (h : Suffix e) : suffixB e = true := by
+  cases h with
+  | none => rfl
+  | some h => simp [suffixB, expSuffixB_complete h]
+
+theorem ExpSuffix.head_notDU {e : List Char} (h : ExpSuffix e) :
+    ∃ x l, e = x :: l ∧ isDU x = false ∧ x ≠ '.' := by
+  cases h with
+  | mk hx _ _ => exact ⟨_, _, rfl, by rcases hx with rfl | rfl <;> decide, by rcases hx with rfl | rfl <;> decide⟩
+
+theorem Suffix.head_notDU {e : List Char} (h : Suffix e) : ∀ x, e.head? = Option.some x → isDU x = false := by
+  cases h with
+  | none => intro x hx; simp at hx
+  | some h =>
+    obtain ⟨x, l, rfl, hx, _⟩ := h.head_notDU
+    intro y hy
+    simp at hy
+    subst hy
+    exact hx
+
+theorem IntPart.allDU {d : Char} {ds : List Char} (h : IntPart d ds) : ∀ c ∈ d :: ds, isDU c = true :=
+  (Digs.mk h.1 h.2.1).allDU
+
+theorem floatFormB_complete {t : List Char} (h : FloatForm t) : floatFormB t = true := by
+  cases h with
+  | @point d ds fr e hip hfr he =>
+    have h1 := takeDrop_split isDU (d :: ds) ('.' :: (fr ++ e)) hip.allDU
+      (by intro x hx; simp at hx; subst hx; decide)
+    have hfrDU : ∀ c ∈ fr, isDU c = true := by
+      cases hfr with
+      | none => intro c hc; simp at hc
+      | some h => exact h.allDU
+    have h2 := takeDrop_split isDU fr e hfrDU he.head_notDU
+    unfold floatFormB
+    simp only [List.cons_append] at h1
+    simp only [h1.1, h1.2, if_true, h2.1, h2.2, suffixB_complete he, intPartB_complete hip, Bool.and_true,
+      Bool.true_and]
+    cases hfr with
+    | none => simp
+    | some h => simp [digsB_complete h]
+  | @intExp d ds e hip he =>
+    obtain ⟨x, l, hxl, hx, hxd⟩ := he.head_notDU
+    have h1 := takeDrop_split isDU (d :: ds) e hip.allDU
+      (by intro y hy; subst hxl; simp at hy; subst hy; exact hx)
+    unfold floatFormB
+    simp only [List.cons_append] at h1
+    simp only [h1.1, h1.2]
+    subst hxl
+    simp only [hxd, if_false, intPartB_complete hip, expSuffixB_complete he, Bool.and_self]
+  | @lead fr e hfr he =>
+    have h1 := takeDrop_split isDU [] ('.' :: (fr ++ e)) (by intro c hc; simp at hc)
+      (by intro x hx; simp at hx; subst hx; decide)
+    have h2 := takeDrop_split isDU fr e hfr.allDU he.head_notDU
+    unfold floatFormB
+    simp only [List.nil_append] at h1
+    simp only [h1.1, h1.2, if_true, h2.1, h2.2, suffixB_complete he, digsB_complete hfr, List.isEmpty_nil,
+      Bool.and_self, Bool.true_or]
+
+theorem floatForm_iff (t : List Char) : FloatForm t ↔ floatFormB t = true :=
+  ⟨floatFormB_complete, floatFormB_sound⟩
+
+instance (t : List Char) : Decidable (FloatForm t) := decidable_of_iff _ (floatForm_iff t).symm
+
+/-! ## (3) The value: the parser's action depends only on the token text -/
+
+/-- `newNumeric` on a token text yields the numeric node of value `f` (keeping the text as the
+    literal) exactly when `strconv.ParseFloat` of that very text is the finite `f`; nothing but the
+    text enters -/
+theorem newNumeric_iff (txt : List Char) (f : F64) (s : PS) :
+    newNumeric txt s = .ok { node := .numeric f none, lit := txt } s ↔ parseFloatFinite txt = some f := by
+  unfold newNumeric
+  cases hp : parseFloatFinite txt with
+  | none =>
+    simp only [bind_apply, recordError, pure_apply]
+    constructor
+    · intro h
+      injection h with h1 _
+      injection h1 with h1 _
+      cases h1
+    · intro h; cases h
+  | some f' =>
+    simp only [pure_apply]
+    constructor
+    · intro h
+      injection h with h1 _
+      injection h1 with h1 _
+      injection h1 with h1 _
+      rw [h1]
+    · intro h
+      injection h with h
+      rw [h]
+
+/-- a text `strconv.ParseFloat` refuses (only `±Inf` out of range can occur for a `FloatForm`) is a
+    recorded parse error, never a node -/
+theorem newNumeric_none (txt : List Char) (s : PS) (h : parseFloatFinite txt = none) :
+    newNumeric txt s = .ok { node := .const .null none } { s with lx := Lex.setErr s.lx } := by
+  unfold newNumeric
+  rw [h]
+  rfl
+
+
+/-! ### the values of the sample literals (kernel evaluation of the `strconv.ParseFloat` model) -/
+
+/-- the IEEE doubles, as `(-1)^neg · m · 2^e` -/
+theorem sample_values :
+    parseFloatFinite "1.5".toList = some (.fin false 6755399441055744 (-52)) ∧      -- 3·2^51 · 2^-52
+    parseFloatFinite ".5".toList = some (.fin false 4503599627370496 (-53)) ∧       -- 2^52 · 2^-53
+    parseFloatFinite "5.".toList = some (.fin false 5629499534213120 (-50)) ∧       -- 5·2^50 · 2^-50
+    parseFloatFinite "1e3".toList = some (.fin false 8796093022208000 (-43)) ∧      -- 1000·2^43 · 2^-43
+    parseFloatFinite "1.5E-3".toList = some (.fin false 6917529027641082 (-62)) ∧
+    parseFloatFinite "0.1".toList = some (.fin false 7205759403792794 (-56)) := by
+  decide +kernel
+
+/-- every spelling of a value denotes the same double -/
+theorem sample_spellings :
+    parseFloatFinite "1.5".toList = parseFloatFinite "1.50".toList ∧
+    parseFloatFinite ".5".toList = parseFloatFinite "0.5".toList ∧
+    parseFloatFinite "5.".toList = parseFloatFinite "5.0".toList ∧
+    parseFloatFinite "5.".toList = parseFloatFinite "5".toList ∧
+    parseFloatFinite "1e3".toList = parseFloatFinite "1000.0".toList ∧
+    parseFloatFinite "1E3".toList = parseFloatFinite "1000".toList ∧
+    parseFloatFinite "1.5E-3".toList = parseFloatFinite "0.0015".toList ∧
+    parseFloatFinite "1.5e-3".toList = parseFloatFinite "0.0015".toList ∧
+    parseFloatFinite "5.e1".toList = parseFloatFinite "50".toList ∧
+    parseFloatFinite ".5e+2".toList = parseFloatFinite "50".toList ∧
+    parseFloatFinite "1_0.5".toList = parseFloatFinite "10.5".toList ∧
+    parseFloatFinite "0.e1".toList = parseFloatFinite "0".toList := by
+  decide +kernel
+
+/-- the text `json.Marshal` writes for them (what `String()` prints) -/
+theorem sample_printed :
+    (parseFloatFinite "1.5".toList).bind Decimal.jsonFloat = some "1.5".toList ∧
+    (parseFloatFinite ".5".toList).bind Decimal.jsonFloat = some "0.5".toList ∧
+    (parseFloatFinite "5.".toList).bind Decimal.jsonFloat = some "5".toList ∧
+    (parseFloatFinite "1e3".toList).bind Decimal.jsonFloat = some "1000".toList ∧
+    (parseFloatFinite "1.5E-3".toList).bind Decimal.jsonFloat = some "0.0015".toList ∧
+    (parseFloatFinite "0.1".toList).bind Decimal.jsonFloat = some "0.1".toList := by
+  decide +kernel
+
+/-- out of range: `1e400` is refused (`±Inf`), `1e-400` silently becomes `0` (as `strconv` does) -/
+theorem sample_range :
+    parseFloatFinite "1e400".toList = none ∧
+    parseFloatFinite "1e-400".toList = some (.fin false 0 (-1074)) := by
+  decide +kernel
+
+/-! ## (4) Concrete instances and evaluations -/
+
+/-- the specification is inhabited as intended -/
+theorem floatForm_samples :
+    FloatForm "1.5".toList ∧ FloatForm "0.25".toList ∧ FloatForm "10.0".toList ∧ FloatForm "5.".toList ∧
+    FloatForm "0.".toList ∧ FloatForm ".5".toList ∧ FloatForm "1e3".toList ∧ FloatForm "1E3".toList ∧
+    FloatForm "1.5E-3".toList ∧ FloatForm ".5e+2".toList ∧ FloatForm "5.e1".toList ∧ FloatForm "0e1".toList ∧
+    FloatForm "0.e1".toList ∧ FloatForm "1_0.5".toList ∧ FloatForm "1.5_0".toList ∧ FloatForm "1e1_0".toList ∧
+    FloatForm ".5_0".toList ∧ FloatForm "0.89".toList := by
+  refine ⟨?_, ?_, ?_, ?_, ?_, ?_, ?_, ?_, ?_, ?_, ?_, ?_, ?_, ?_, ?_, ?_, ?_, ?_⟩ <;>
+    exact floatFormB_sound (by decide)
+
+/-- … and excludes the forms the lexer refuses (and plain integers, which are `INT_P`) -/
+theorem floatForm_excludes :
+    ∀ s ∈ ["1e", "1e+", "1.5.5", "1..2", ".e1", "1.e", "00.5", "01.5", "1_.5", "1._5", "1__0.5", "1.5__0", "1e_1",
+      "1_e1", "0_1.5", "15", "0", ".", "", "1.5e", "1.5_", "._5", "1e1_", "1e+_1", "1e1e1", "1.5 ", "-1.5"],
+      ¬ FloatForm (String.toList s) := by
+  decide
+
+/-- the theorems instantiated: tokens whatever the oracles and whatever follows -/
+example (o : Oracles) (ok : RoundTrip.OrOK o) :
+    TokAt o (EndsNumeric o) '1' ".5E-3".toList (.numeric, "1.5E-3".toList) :=
+  tokAt_float o ok (floatFormB_sound (by decide)) (by decide)
+
+example (o : Oracles) (ok : RoundTrip.OrOK o) : TokAt o (EndsNumeric o) '5' ".".toList (.numeric, "5.".toList) :=
+  tokAt_float o ok (floatFormB_sound (by decide)) (by decide)
+
+example (o : Oracles) (ok : RoundTrip.OrOK o) : TokAt o (EndsNumeric o) '.' "5".toList (.numeric, ".5".toList) :=
+  tokAt_dot_float o ok (floatFormB_sound (by decide))
+
+example (o : Oracles) (ok : RoundTrip.OrOK o) : TokAt o (EndsNumeric o) '.' "5e+2".toList (.numeric, ".5e+2".toList) :=
+  tokAt_dot_float o ok (floatFormB_sound (by decide))
+
+example (s : PS) :
+    newNumeric "1.5".toList s = .ok { node := .numeric (.fin false 6755399441055744 (-52)) none, lit := "1.5".toList } s :=
+  (newNumeric_iff _ _ s).2 sample_values.1
+
+/-- the accepted forms, parsed and printed back (the model, ASCII oracles) -/
+theorem forms_accepted :
+    run ".5" = "0.5" ∧ run "5." = "5" ∧ run "1.5" = "1.5" ∧ run "0.25" = "0.25" ∧ run "10.0" = "10" ∧
+    run "1e3" = "1000" ∧ run "1E3" = "1000" ∧ run "1.5e-3" = "0.0015" ∧ run "1.5E-3" = "0.0015" ∧
+    run ".5e+2" = "50" ∧ run "5.e1" = "50" ∧ run "1.e1" = "10" ∧ run "0.5" = "0.5" ∧ run "0." = "0" ∧
+    run "0e1" = "0" ∧ run "0.e1" = "0" ∧ run "0.89" = "0.89" ∧ run ".0" = "0" ∧ run "-.5" = "-0.5" := by
+  decide +kernel
+
+/-- single underscores between digits are accepted in every digit group (as PostgreSQL ≥ 16 does) -/
+theorem underscores_accepted :
+    run "1_0.5" = "10.5" ∧ run "1.5_0" = "1.5" ∧ run ".5_0" = "0.5" ∧ run "1e1_0" = "10000000000" ∧
+    run "1_0e1_0" = "100000000000" := by
+  decide +kernel
+
+/-- the forms that are not accepted -/
+theorem forms_rejected :
+    run "1e" = "ERR" ∧ run "1e+" = "ERR" ∧ run "1.5.5" = "ERR" ∧ run "1..2" = "ERR" ∧ run ".e1" = "ERR" ∧
+    run "1.e" = "ERR" ∧ run "00.5" = "ERR" ∧ run "01.5" = "ERR" ∧ run "1_.5" = "ERR" ∧ run "1._5" = "ERR" ∧
+    run "1__0.5" = "ERR" ∧ run "1.5__0" = "ERR" ∧ run "1e1__0" = "ERR" ∧ run "1_e1" = "ERR" ∧
+    run "1e_1" = "ERR" ∧ run "1e1_" = "ERR" ∧ run "1.5_" = "ERR" ∧ run "._5" = "ERR" ∧ run "0_1.5" = "ERR" ∧
+    run "1.5e" = "ERR" ∧ run "1e1e1" = "ERR" ∧ run "1.5a" = "ERR" ∧ run "1.x" = "ERR" ∧ run "00e1" = "ERR" ∧
+    run "1e400" = "ERR" := by
+  decide +kernel
+
+/-- **what follows the literal.**  After a fraction, after `D.` and after an exponent a dot ends the
+    token, so a method can be applied directly (`1.5.abs()`, `1..abs()`, `1e1.abs()`); after a plain
+    integer the dot starts a fraction, hence `1.abs()` is an error (`1.` followed by an identifier
+    start).  `1.5.e1` is the member accessor `.e1` applied to `1.5`; `1.5.5` and `1e1.5` are the
+    tokens `1.5` `.5` / `1e1` `.5`, a syntax error of the grammar, not of the lexer.
+    All of this agrees with PostgreSQL's jsonpath scanner (`1.type()` is "trailing junk", `1..e` is
+    `(1).e`, `1.2.e` is `(1.2).e`). -/
+theorem what_follows :
+    run "1.5.abs()" = "(1.5).abs()" ∧ run "1.abs()" = "ERR" ∧ run "1..abs()" = "(1).abs()" ∧
+    run "1 .abs()" = "(1).abs()" ∧ run "1e1.abs()" = "(10).abs()" ∧ run "1.5e1.abs()" = "(15).abs()" ∧
+    run "1.5.e1" = "(1.5).\"e1\"" ∧ run "1e1.5" = "ERR" ∧ run "1.5[0]" = "(1.5)[0]" ∧
+    run "1.5?(@ > 1)" = "(1.5)?(@ > 1)" ∧ run "1.5+2" = "(1.5 + 2)" ∧ run "1.+2" = "(1 + 2)" ∧
+    run "1.5-2" = "(1.5 - 2)" ∧ run "1.5 " = "1.5" ∧ run "1.5<2" = "(1.5 < 2)" := by
+  decide +kernel
+
 /-! # Spelling variants: keyword case, `<>`, bare identifiers and variables -/
 
 
@@ -6177,6 +7582,27 @@ theorem tokAt_kw_case (c : Char) (w kw : List Char) (t : Tok) (hp : (kw, t) ∈ 
   rw [identToken_kw_case o ok up (c :: w) kw t hp hci hl] at this
   exact this
 
+omit ok up in
+theorem idCh0_not_punct {c : Char} (hc : isIdCh0 c = true) : c ∉ punct := by
+  intro h
+  have : ∀ x ∈ punct, isIdCh0 x = false := by decide
+  rw [this c h] at hc
+  exact absurd hc (by simp)
+
+omit up in
+theorem tolB_idCh0 {c : Char} {w : List Char} (hc : isIdCh0 c = true) :
+    ∀ d, tolOf (c :: w) d = true → isIdentCont o (some d) = false := by
+  have hnd : isDecimal c = false := by
+    cases hd : isDecimal c with
+    | false => rfl
+    | true =>
+      have h1 := (isDecimal_nat c).1 hd
+      rcases isIdCh0_cases hc with h | h | h
+      · have := (isLow_nat c).1 h; omega
+      · have := (isUp_nat c).1 h; omega
+      · subst h; exact absurd hd (by decide)
+  exact tolB_word o ok hnd (idCh0_not_punct hc)
+
 /-- the keyword as a piece of text -/
 theorem seg_kw_case (c : Char) (w kw : List Char) (t : Tok) (hp : (kw, t) ∈ kwListAll) (hci : ciKw t = true)
     (hl : (c :: w).map lowerAscii = kw) (ht : t ≠ .stop) :
@@ -6188,6 +7614,9 @@ theorem seg_kw_case (c : Char) (w kw : List Char) (t : Tok) (hp : (kw, t) ∈ kw
   have hn := noNul_idw (c :: w) hw
   exact seg_of_tokAt o (tokAt_kw_case o ok up c w kw t hp hci hl) (NoNul.of_cons hn).1 (NoNul.of_cons hn).2 ht
     (isIdCh_plain c (hw c (by simp))).2.2 (fun _ h => tol_identCont o ok h)
+    (tolB_idCh0 o ok (by
+      have : lowerAscii c ∈ kw := by rw [← hl]; simp
+      exact isIdCh0_of_lower (kwAll_wordChars (kw, t) hp _ this)))
 
 /-- **`true`, `false`, `null` are case-sensitive**: any other spelling of them is an identifier -/
 theorem identToken_lit_case (sp kw : List Char)
@@ -6273,7 +7702,7 @@ theorem tokAt_ltgt_eq_bangeq :
 
 theorem seg_ltgt : Seg o (fun _ => True) ['<', '>'] [(.notEq, [])] :=
   seg_of_tokAt o (tokAt_ltgt o ok) (by decide) (NoNul.cons (by decide) NoNul.nil) (by decide) (by decide)
-    (fun _ _ => trivial)
+    (fun _ _ => trivial) tolB_true
 
 end
 
@@ -6307,7 +7736,7 @@ theorem seg_ident (c : Char) (w : List Char) (hc : isIdCh0 c = true) (hw : ∀ x
     (hid : identToken o (c :: w) = .ident) :
     Seg o (fun y => isIdentCont o y = false) (c :: w) [(.ident, c :: w)] :=
   seg_of_tokAt o (tokAt_ident o ok up c w hc hw hid) (isIdCh_plain c (isIdCh_of_0 hc)).1 (noNul_idw w hw)
-    (by simp) (isIdCh_plain c (isIdCh_of_0 hc)).2.2 (fun _ h => tol_identCont o ok h)
+    (by simp) (isIdCh_plain c (isIdCh_of_0 hc)).2.2 (fun _ h => tol_identCont o ok h) (tolB_idCh0 o ok hc)
 
 end
 
@@ -6923,6 +8352,11 @@ theorem seg_var (n : Char) (ns : List Char) (hw : ∀ c ∈ n :: ns, isAlnum c =
     Seg o (fun y => isVariableRune o y = false) ('$' :: n :: ns) [(.variable, n :: ns)] :=
   seg_of_tokAt o (tokAt_var o ok up n ns hw) (by decide)
     (fun c hc => (isAlnum_cont o ok up c (hw c hc)).2) (by simp) (by decide) (fun _ h => (tol_dollar o ok h).2)
+    (tolB_var o ok (by
+      intro h
+      have := hw n (by simp)
+      rw [h] at this
+      exact absurd this (by decide)))
 
 end
 
@@ -7057,36 +8491,36 @@ theorem resp_of_piece (ok : OrOK o) {it : Item} (hit : ItemOK o it) {p' : Bool 
     have htk : it.tk = (.string, s) := by
       have h1 := hit.1
       rw [ec, ew] at h1
-      exact tk_unique h1 (tokAt_string_spelled o ok hb) (some ' ') (hit.2.2.2.2.2 _ sepStart_blank) trivial
+      exact tk_unique h1 (tokAt_string_spelled o ok hb) (some ' ') (hit.2.2.2.2.2.1 _ sepStart_blank) trivial
         (fun d hd => by injection hd with hd; subst hd; decide)
     refine ⟨⟨it.sp, '"', body' ++ ['"'], (.string, s), fun _ => True⟩, Resp.free rfl htk.symm ?_ (fun _ => trivial)
       (Or.inl ec.symm), ?_⟩
     · exact ⟨tokAt_string_spelled o ok hb', (show ('"' : Char).toNat ≠ 0 by decide),
         hb'.noNul.append (NoNul.cons (by decide) NoNul.nil),
-        by simp, (show isWhitespace '"' = false by decide), fun _ _ => trivial⟩
+        by simp, (show isWhitespace '"' = false by decide), fun _ _ => trivial, fun _ _ => trivial⟩
     · simp only [Item.piece]; rw [hsp, e']
   · injection e with ec ew
     have htk : it.tk = (.variable, s) := by
       have h1 := hit.1
       rw [ec, ew] at h1
-      exact tk_unique h1 (tokAt_variable_spelled o ok hb) (some ' ') (hit.2.2.2.2.2 _ sepStart_blank) trivial
+      exact tk_unique h1 (tokAt_variable_spelled o ok hb) (some ' ') (hit.2.2.2.2.2.1 _ sepStart_blank) trivial
         (fun d hd => by injection hd with hd; subst hd; decide)
     refine ⟨⟨it.sp, '$', '"' :: (body' ++ ['"']), (.variable, s), fun _ => True⟩,
       Resp.free rfl htk.symm ?_ (fun _ => trivial) (Or.inl ec.symm), ?_⟩
     · exact ⟨tokAt_variable_spelled o ok hb', (show ('$' : Char).toNat ≠ 0 by decide),
         NoNul.cons (by decide) (hb'.noNul.append (NoNul.cons (by decide) NoNul.nil)), by simp,
-        (show isWhitespace '$' = false by decide), fun _ _ => trivial⟩
+        (show isWhitespace '$' = false by decide), fun _ _ => trivial, fun _ _ => trivial⟩
     · simp only [Item.piece]; rw [hsp, e']
   · injection e with ec ew
     have htk : it.tk = (.notEq, []) := by
       have h1 := hit.1
       rw [ec, ew] at h1
       exact tk_unique h1 (tokAt_two o (ok : RoundTrip.OrOK o) '!' '=' .notEq (by decide)) (some ' ')
-        (hit.2.2.2.2.2 _ sepStart_blank) trivial (fun d hd => by injection hd with hd; subst hd; decide)
+        (hit.2.2.2.2.2.1 _ sepStart_blank) trivial (fun d hd => by injection hd with hd; subst hd; decide)
     refine ⟨⟨it.sp, '<', ['>'], (.notEq, []), fun _ => True⟩,
       Resp.free rfl htk.symm ?_ (fun _ => trivial) (Or.inr hs), ?_⟩
     · exact ⟨tokAt_ltgt o ok, (show ('<' : Char).toNat ≠ 0 by decide), NoNul.cons (by decide) NoNul.nil, by simp,
-        (show isWhitespace '<' = false by decide), fun _ _ => trivial⟩
+        (show isWhitespace '<' = false by decide), fun _ _ => trivial, fun _ _ => trivial⟩
     · simp only [Item.piece]; rw [hsp, e']
 
 theorem respL_of_pieces (ok : OrOK o) : ∀ {items : List Item}, (∀ it ∈ items, ItemOK o it) →
@@ -7351,29 +8785,43 @@ theorem sep_of_sepB : ∀ (f : Nat) (l : List Char), sepB f l = true → Sep l :
           simp at h
 
 /-- is `seps` a layout for the pieces -/
-def layoutOKTB : List (Bool × List Char) → List (List Char) → Bool
-  | [], [] => true
-  | p :: r, s :: ss => sepB s.length s && (!p.1 || !s.isEmpty) && layoutOKTB r ss
-  | _, _ => false
+def layoutOKTB : Option (List Char) → List (Bool × List Char) → List (List Char) → Bool
+  | _, [], [] => true
+  | prev, p :: r, s :: ss =>
+    sepB s.length s &&
+      (!p.1 || !s.isEmpty || (match prev, p.2 with
+        | some q, c :: _ => tolOf q c
+        | _, _ => false)) && layoutOKTB (some p.2) r ss
+  | _, _, _ => false
 
-theorem layoutOKT_of_B : ∀ (ps : List (Bool × List Char)) (seps : List (List Char)),
-    layoutOKTB ps seps = true → LayoutOKT ps seps := by
+theorem layoutOKTp_of_B : ∀ (ps : List (Bool × List Char)) (prev : Option (List Char)) (seps : List (List Char)),
+    layoutOKTB prev ps seps = true → LayoutOKTp prev ps seps := by
   intro ps
   induction ps with
-  | nil => intro seps h; cases seps with
+  | nil => intro prev seps h; cases seps with
     | nil => trivial
     | cons _ _ => simp [layoutOKTB] at h
   | cons p r ih =>
-    intro seps h
+    intro prev seps h
     cases seps with
     | nil => simp [layoutOKTB] at h
     | cons s ss =>
       simp only [layoutOKTB, Bool.and_eq_true, Bool.or_eq_true, Bool.not_eq_true'] at h
-      refine ⟨sep_of_sepB _ _ h.1.1, ?_, ih ss h.2⟩
-      intro hp hs
-      rcases h.1.2 with h' | h'
+      refine ⟨sep_of_sepB _ _ h.1.1, ?_, ih _ ss h.2⟩
+      intro hp
+      rcases h.1.2 with (h' | h') | h'
       · rw [hp] at h'; exact absurd h' (by simp)
-      · rw [hs] at h'; simp at h'
+      · left; intro hs; rw [hs] at h'; simp at h'
+      · right
+        cases prev with
+        | none => simp at h'
+        | some q =>
+          cases hp2 : p.2 with
+          | nil => rw [hp2] at h'; simp at h'
+          | cons c t => rw [hp2] at h'; exact ⟨q, c, rfl, rfl, h'⟩
+
+theorem layoutOKT_of_B (ps : List (Bool × List Char)) (seps : List (List Char))
+    (h : layoutOKTB none ps seps = true) : LayoutOKT ps seps := layoutOKTp_of_B ps none seps h
 
 /-! ## §1 The parser calculus -/
 
@@ -8545,10 +9993,6099 @@ theorem exSum_canonical :
     run "strict (($.\"a\")) + ((1 * (2)))" = "strict ($.\"a\" + 1 * 2)" := by
   decide +kernel
 
-#print axioms redundant_parens_stage5
-#print axioms exSum_parse
-#print axioms redundant_parens_positions
-#print axioms fewer_parens_stage5
+
+/-! # Precedence and associativity: the parser on unparenthesised chains -/
+
+/-! ## (1) Abstract chains and the trees precedence climbing assigns to them -/
+
+/-- `x op₁ u₁ op₂ u₂ …` with `* / %`: left-associative -/
+def mulTree (x : Node) (ms : List (BinOp × Node)) : Node :=
+  ms.foldl (fun acc p => .binary p.1 (some acc) (some p.2) none) x
+
+/-- a product `head op₁ u₁ … opₙ uₙ` of units -/
+structure Term where
+  head : Node
+  muls : List (BinOp × Node)
+
+def Term.tree (t : Term) : Node := mulTree t.head t.muls
+
+/-- `T₀ op₁ T₁ op₂ T₂ …` with `+ -` between products: left-associative, products bind tighter -/
+def sumFrom (a : Node) (as : List (BinOp × Term)) : Node :=
+  as.foldl (fun acc p => .binary p.1 (some acc) (some p.2.tree) none) a
+
+def sumTree (t₀ : Term) (as : List (BinOp × Term)) : Node := sumFrom t₀.tree as
+
+/-- `a₀ && a₁ && …`: left-associative -/
+def andTree (a₀ : Node) (as : List Node) : Node :=
+  as.foldl (fun acc a => .binary .and (some acc) (some a) none) a₀
+
+/-- a conjunction `head && a₁ && … && aₙ` of atoms -/
+structure Conj where
+  head : Node
+  ands : List Node
+
+def Conj.tree (c : Conj) : Node := andTree c.head c.ands
+
+/-- `C₀ || C₁ || …` between conjunctions: left-associative, `&&` binds tighter -/
+def orTree (c₀ : Conj) (cs : List Conj) : Node :=
+  cs.foldl (fun acc c => .binary .or (some acc) (some c.tree) none) c₀.tree
+
+theorem mulTree_nil (x : Node) : mulTree x [] = x := rfl
+theorem mulTree_cons (x : Node) (p : BinOp × Node) (ms : List (BinOp × Node)) :
+    mulTree x (p :: ms) = mulTree (.binary p.1 (some x) (some p.2) none) ms := rfl
+theorem sumTree_nil (t : Term) : sumTree t [] = t.tree := rfl
+theorem sumFrom_cons (a : Node) (p : BinOp × Term) (as : List (BinOp × Term)) :
+    sumFrom a (p :: as) = sumFrom (.binary p.1 (some a) (some p.2.tree) none) as := rfl
+theorem sumTree_mul_cons (x : Node) (p : BinOp × Node) (ms : List (BinOp × Node)) (as : List (BinOp × Term)) :
+    sumTree ⟨x, p :: ms⟩ as = sumTree ⟨.binary p.1 (some x) (some p.2) none, ms⟩ as := rfl
+theorem andTree_nil (a : Node) : andTree a [] = a := rfl
+theorem andTree_cons (a b : Node) (as : List Node) :
+    andTree a (b :: as) = andTree (.binary .and (some a) (some b) none) as := rfl
+theorem orTree_nil (c : Conj) : orTree c [] = c.tree := rfl
+
+/-! ### the same with tokens -/
+
+/-- a unit with its tokens -/
+structure UnitC where
+  node : Node
+  tk : TT
+  ts : List TT
+
+def UnitC.toks (u : UnitC) : List TT := u.tk :: u.ts
+
+/-- `parseUnaryT` makes the node of the tokens -/
+def UnitC.OK (o : Oracles) (u : UnitC) : Prop := OpdSpec o u.node u.tk u.ts
+
+/-- tokens of `op₁ u₁ … opₙ uₙ` -/
+def mulToks : List (BinOp × UnitC) → List TT
+  | [] => []
+  | p :: ms => arithTok p.1 :: p.2.tk :: (p.2.ts ++ mulToks ms)
+
+def mulNodes (ms : List (BinOp × UnitC)) : List (BinOp × Node) := ms.map (fun p => (p.1, p.2.node))
+
+def MulsOK (o : Oracles) (ms : List (BinOp × UnitC)) : Prop := ∀ p ∈ ms, isMulOp p.1 = true ∧ p.2.OK o
+
+structure TermC where
+  head : UnitC
+  muls : List (BinOp × UnitC)
+
+def TermC.toks (t : TermC) : List TT := t.head.tk :: (t.head.ts ++ mulToks t.muls)
+def TermC.term (t : TermC) : Term := ⟨t.head.node, mulNodes t.muls⟩
+def TermC.OK (o : Oracles) (t : TermC) : Prop := t.head.OK o ∧ MulsOK o t.muls
+
+/-- tokens of `op₁ T₁ … opₙ Tₙ` -/
+def addToks : List (BinOp × TermC) → List TT
+  | [] => []
+  | p :: as => arithTok p.1 :: p.2.head.tk :: (p.2.head.ts ++ (mulToks p.2.muls ++ addToks as))
+
+def addTerms (as : List (BinOp × TermC)) : List (BinOp × Term) := as.map (fun p => (p.1, p.2.term))
+
+def AddsOK (o : Oracles) (as : List (BinOp × TermC)) : Prop := ∀ p ∈ as, isAddOp p.1 = true ∧ p.2.OK o
+
+/-- what may follow a unit: no accessor, no `{` -/
+def UFollow (t : Tok) : Prop := isAccessorStart t = false ∧ t ≠ .lbrace
+
+section
+variable {o : Oracles}
+
+theorem ufollow_mulToks {ms : List (BinOp × UnitC)} (hms : MulsOK o ms) {rest : List TT}
+    (h : UFollow (hd rest).1) : UFollow (hd (mulToks ms ++ rest)).1 := by
+  cases ms with
+  | nil => simpa [mulToks] using h
+  | cons p ms =>
+    have hf := mul_facts (hms p (List.mem_cons_self ..)).1
+    simp only [mulToks, List.cons_append, hd]
+    exact ⟨hf.2.2.1, hf.2.2.2⟩
+
+theorem ufollow_addToks {as : List (BinOp × TermC)} (has : AddsOK o as) {rest : List TT}
+    (h : UFollow (hd rest).1) : UFollow (hd (addToks as ++ rest)).1 := by
+  cases as with
+  | nil => simpa [addToks] using h
+  | cons p as =>
+    have hf := add_facts (has p (List.mem_cons_self ..)).1
+    simp only [addToks, List.cons_append, hd]
+    exact ⟨hf.2.2.1, hf.2.2.2⟩
+
+theorem mulOp_addToks {as : List (BinOp × TermC)} (has : AddsOK o as) {rest : List TT}
+    (h : mulOp (hd rest).1 = none) : mulOp (hd (addToks as ++ rest)).1 = none := by
+  cases as with
+  | nil => simpa [addToks] using h
+  | cons p as =>
+    have hf := add_facts (has p (List.mem_cons_self ..)).1
+    simp only [addToks, List.cons_append, hd]
+    exact hf.2.1
+
+/-! ## (2) The loops on chains: fuel proportional to the number of tokens -/
+
+/-- **`* / %` are left-associative.**  `mulLoop` with the left operand `x`, standing before
+    `op₁ u₁ … opₙ uₙ` followed by something that is not `* / %`, returns `((x op₁ u₁) op₂ u₂) …`. -/
+theorem mulLoop_chain (ms : List (BinOp × UnitC)) (hms : MulsOK o ms) :
+    ∀ (x : Node) (g : Nat) (rest : List TT), 16 * (mulToks ms).length + 4 ≤ g →
+      UFollow (hd rest).1 → mulOp (hd rest).1 = none →
+      RunsV (StE o (mulToks ms ++ rest)) (mulLoop o g (evOf x)) (evOf (mulTree x (mulNodes ms))) (StA o rest) := by
+  induction ms with
+  | nil =>
+    intro x g rest hg hu hm
+    obtain ⟨g', rfl⟩ : ∃ g', g = g' + 1 := ⟨g - 1, by omega⟩
+    simpa [mulToks, mulNodes, mulTree] using mulLoop_nil g' (evOf x) rest hm
+  | cons p ms ih =>
+    intro x g rest hg hu hm
+    have hp := hms p (List.mem_cons_self ..)
+    have hms' : MulsOK o ms := fun q hq => hms q (List.mem_cons_of_mem _ hq)
+    have hf := mul_facts hp.1
+    simp only [mulToks, List.length_cons, List.length_append] at hg
+    obtain ⟨g', rfl⟩ : ∃ g', g = g' + 2 := ⟨g - 2, by omega⟩
+    have hfol := ufollow_mulToks hms' hu
+    have hrun := hp.2 g' (mulToks ms ++ rest) (by omega) hfol.1 hfol.2
+    rw [mulLoop]
+    simp only [mulToks, List.cons_append, List.append_assoc]
+    lstep (peek_cons _ _)
+    simp only [hf.2.1]
+    lstep (consume_spec _ _)
+    simp only [List.cons_append, List.append_assoc] at hrun
+    lstep (unary_of_unaryT hrun)
+    rw [evOf_binary]
+    have := ih hms' (.binary p.1 (some x) (some p.2.node) none) (g' + 1) rest (by omega) hu hm
+    simp only [mulNodes, List.map_cons, mulTree_cons]
+    lexact this
+
+/-- **`+ -` are left-associative and `* / %` bind tighter.**  `arithLoop` with the left operand `a`,
+    standing before `op₁ T₁ … opₙ Tₙ` (`opᵢ` among `+ -`, every `Tᵢ` a product of units), returns
+    `((a op₁ T₁) op₂ T₂) …` and the token that follows. -/
+theorem arithLoop_sum (as : List (BinOp × TermC)) (has : AddsOK o as) :
+    ∀ (a : Node) (g : Nat) (rest : List TT), 16 * (addToks as).length + 4 ≤ g →
+      UFollow (hd rest).1 → addOp (hd rest).1 = none → mulOp (hd rest).1 = none →
+      RunsV (StE o (addToks as ++ rest)) (arithLoop o g (evOf a))
+        (evOf (sumFrom a (addTerms as)), (hd rest).1) (StA o rest) := by
+  induction as with
+  | nil =>
+    intro a g rest hg hu ha hm
+    obtain ⟨g', rfl⟩ : ∃ g', g = g' + 1 := ⟨g - 1, by omega⟩
+    simpa [addToks, addTerms, sumFrom] using arith_nil g' (evOf a) rest ha hm
+  | cons p as ih =>
+    intro a g rest hg hu ha hm
+    have hp := has p (List.mem_cons_self ..)
+    have has' : AddsOK o as := fun q hq => has q (List.mem_cons_of_mem _ hq)
+    have hf := add_facts hp.1
+    simp only [addToks, List.length_cons, List.length_append] at hg
+    obtain ⟨g', rfl⟩ : ∃ g', g = g' + 2 := ⟨g - 2, by omega⟩
+    have hfolA := ufollow_addToks has' hu
+    have hfolM := ufollow_mulToks hp.2.2 hfolA
+    have hrun := hp.2.1 g' (mulToks p.2.muls ++ (addToks as ++ rest)) (by omega) hfolM.1 hfolM.2
+    have hmul := mulLoop_chain p.2.muls hp.2.2 p.2.head.node (g' + 1) (addToks as ++ rest) (by omega) hfolA
+      (mulOp_addToks has' hm)
+    rw [arithLoop]
+    simp only [addToks, List.cons_append, List.append_assoc]
+    lstep (peek_cons _ _)
+    simp only [hf.1]
+    lstep (consume_spec _ _)
+    simp only [List.cons_append, List.append_assoc] at hrun
+    lstep (unary_of_unaryT hrun)
+    lstep hmul
+    rw [evOf_binary]
+    have := ih has' (.binary p.1 (some a) (some (mulTree p.2.head.node (mulNodes p.2.muls))) none) (g' + 1) rest
+      (by omega) hu ha hm
+    simp only [addTerms, List.map_cons, sumFrom_cons]
+    lexact this
+
+/-- **Precedence climbing on a whole chain.**  `arithLoop` with the first unit `x` as left operand,
+    standing before `op₁ u₁ … opₖ uₖ` (`* / %`: the rest of the first product, which `arithLoop` folds
+    itself) and then `op'₁ T₁ … op'ₙ Tₙ` (`+ -` and products, folded by `mulLoop`), returns the tree
+    `sumTree (x op₁ u₁ … opₖ uₖ) [op'₁ T₁, …]`. -/
+theorem arithLoop_chain (ms : List (BinOp × UnitC)) (hms : MulsOK o ms) (as : List (BinOp × TermC))
+    (has : AddsOK o as) :
+    ∀ (x : Node) (g : Nat) (rest : List TT), 16 * ((mulToks ms).length + (addToks as).length) + 4 ≤ g →
+      UFollow (hd rest).1 → addOp (hd rest).1 = none → mulOp (hd rest).1 = none →
+      RunsV (StE o (mulToks ms ++ (addToks as ++ rest))) (arithLoop o g (evOf x))
+        (evOf (sumTree ⟨x, mulNodes ms⟩ (addTerms as)), (hd rest).1) (StA o rest) := by
+  induction ms with
+  | nil =>
+    intro x g rest hg hu ha hm
+    have := arithLoop_sum as has x g rest (by simpa [mulToks] using hg) hu ha hm
+    simpa [mulToks, mulNodes, sumTree, Term.tree, mulTree] using this
+  | cons p ms ih =>
+    intro x g rest hg hu ha hm
+    have hp := hms p (List.mem_cons_self ..)
+    have hms' : MulsOK o ms := fun q hq => hms q (List.mem_cons_of_mem _ hq)
+    have hf := mul_facts hp.1
+    simp only [mulToks, List.length_cons, List.length_append] at hg
+    obtain ⟨g', rfl⟩ : ∃ g', g = g' + 2 := ⟨g - 2, by omega⟩
+    have hfolA := ufollow_addToks has hu
+    have hfolM := ufollow_mulToks hms' hfolA
+    have hrun := hp.2 g' (mulToks ms ++ (addToks as ++ rest)) (by omega) hfolM.1 hfolM.2
+    rw [arithLoop]
+    simp only [mulToks, List.cons_append, List.append_assoc]
+    lstep (peek_cons _ _)
+    simp only [hf.1, hf.2.1]
+    lstep (consume_spec _ _)
+    simp only [List.cons_append, List.append_assoc] at hrun
+    lstep (unary_of_unaryT hrun)
+    rw [evOf_binary]
+    have := ih hms' (.binary p.1 (some x) (some p.2.node) none) (g' + 1) rest (by omega) hu ha hm
+    simp only [mulNodes, List.map_cons, sumTree_mul_cons]
+    lexact this
+
+/-! ## `ESpecC`: the tokens are a chain whose tree is `e` -/
+
+/-- the parser on the tokens `tk :: ts` of the (whole) expression `e`: a head unit `x`, then
+    `arithLoop` from `x` over the remaining tokens `M` yields `e` — with fuel proportional to the
+    number of tokens, whatever the length of the chain -/
+def ESpecC (o : Oracles) (e : Node) (tk : TT) (ts : List TT) : Prop :=
+  ∃ (x : Node) (tsH M : List TT), ts = tsH ++ M ∧ MHead M ∧ OpdSpec o x tk tsH ∧ HeadA o x tk tsH ∧
+    ∀ g rest, 16 * M.length + 4 ≤ g → EFollow (hd rest).1 →
+      RunsV (StA o (M ++ rest)) (arithLoop o g (evOf x)) (evOf e, (hd rest).1) (StA o rest)
+
+/-- (a) everything proved so far feeds in -/
+theorem especC_of_espec {e : Node} {tk : TT} {ts : List TT} {p q : Prop} (h : ESpec o e tk ts p q) :
+    ESpecC o e tk ts := by
+  obtain ⟨⟨x, tsH, M, hts, hmh, hopd, hha, hl2, _⟩, _, _⟩ := h
+  refine ⟨x, tsH, M, hts, hmh, hopd, hha, ?_⟩
+  intro g rest hg hfol
+  refine hl2 g rest _ _ hg hfol.1 hfol.2.1 hfol.2.2.2 ?_
+  intro g1 h1 h2
+  obtain ⟨g2, rfl⟩ : ∃ g2, g1 = g2 + 1 := ⟨g1 - 1, by omega⟩
+  exact arith_nil g2 _ rest hfol.2.2.1 hfol.2.2.2
+
+theorem mhead_chain {ms : List (BinOp × UnitC)} (hms : MulsOK o ms) {as : List (BinOp × TermC)}
+    (has : AddsOK o as) : MHead (mulToks ms ++ addToks as) := by
+  intro rest h1 h2
+  have := ufollow_mulToks hms (ufollow_addToks has (rest := rest) ⟨h1, h2⟩)
+  rw [List.append_assoc]
+  exact this
+
+/-- (b) **chains of units compose**: the head unit `x` (fit for `parseAtom`), the rest of the first
+    product, and any number of `+ -` products, unparenthesised, are the expression `sumTree …` -/
+theorem especC_chain' {x : Node} {tk : TT} {tsx : List TT} (hx : OpdSpec o x tk tsx) (hax : HeadA o x tk tsx)
+    (ms : List (BinOp × UnitC)) (hms : MulsOK o ms) (as : List (BinOp × TermC)) (has : AddsOK o as) :
+    ESpecC o (sumTree ⟨x, mulNodes ms⟩ (addTerms as)) tk (tsx ++ (mulToks ms ++ addToks as)) := by
+  refine ⟨x, tsx, mulToks ms ++ addToks as, rfl, mhead_chain hms has, hx, hax, ?_⟩
+  intro g rest hg hfol
+  have := arithLoop_chain ms hms as has x g rest (by simpa [List.length_append] using hg)
+    ⟨hfol.1, hfol.2.1⟩ hfol.2.2.1 hfol.2.2.2
+  rw [List.append_assoc]
+  exact RunsV.ofA this
+
+/-- the same, the first product packaged as a `TermC` -/
+theorem especC_chain (t₀ : TermC) (h₀ : t₀.OK o) (hh : HeadA o t₀.head.node t₀.head.tk t₀.head.ts)
+    (as : List (BinOp × TermC)) (has : AddsOK o as) :
+    ESpecC o (sumTree t₀.term (addTerms as)) t₀.head.tk (t₀.head.ts ++ (mulToks t₀.muls ++ addToks as)) :=
+  especC_chain' h₀.1 hh t₀.muls h₀.2 as has
+
+/-! ### consumers of `ESpecC` (cf. `atom_of_expr`, `expr_full`, `expr_fullT`, `cmpE_atom`, …) -/
+
+/-- where an expression may start, `parseAtom` on the tokens of the chain `e` goes on with the part of
+    `exprTail` after the arithmetic -/
+theorem atom_of_exprC {e : Node} {tk : TT} {ts : List TT} (h : ESpecC o e tk ts)
+    (F : Nat) (ctx : Ctx) (rest : List TT) (w : AtomR) (post : PS → Prop)
+    (hF : 16 * (ts.length + 1) + 8 ≤ F + 2) (hfol : EFollow (hd rest).1)
+    (hk : RunsV (StA o rest) (exprTailK o F ctx (evOf e) (hd rest).1) w post) :
+    RunsV (StE o (tk :: ts ++ rest)) (parseAtom o (F + 2) ctx) w post := by
+  obtain ⟨x, tsH, M, hts, hmh, _, hha, hl⟩ := h
+  subst hts
+  simp only [List.length_append] at hF
+  have hm := hmh rest hfol.1 hfol.2.1
+  have := hha (F + 1) ctx (M ++ rest) w post (by omega) hm.1 hm.2 ?_
+  · simpa using this
+  · rw [exprTail_eq]
+    exact RunsV.bind (hl F rest (by omega) hfol) hk
+
+/-- a chain in a position where only an expression may stand: `parseUnary` then `arithLoop` -/
+theorem expr_fullC {e : Node} {tk : TT} {ts : List TT} (h : ESpecC o e tk ts)
+    (g : Nat) (rest : List TT) (hg : 16 * (ts.length + 1) + 8 ≤ g) (hfol : EFollow (hd rest).1) :
+    ∃ (u : EV) (mid : List TT),
+      RunsV (StE o (tk :: ts ++ rest)) (parseUnary o g) u (StA o mid) ∧
+      RunsV (StA o mid) (arithLoop o g u) (evOf e, (hd rest).1) (StA o rest) := by
+  obtain ⟨x, tsH, M, hts, hmh, hopd, _, hl⟩ := h
+  subst hts
+  simp only [List.length_append] at hg
+  have hm := hmh rest hfol.1 hfol.2.1
+  obtain ⟨g', rfl⟩ : ∃ g', g = g' + 1 := ⟨g - 1, by omega⟩
+  have hrun := hopd g' (M ++ rest) (by omega) hm.1 hm.2
+  exact ⟨evOf x, M ++ rest, by simpa using unary_of_unaryT hrun, hl (g' + 1) rest (by omega) hfol⟩
+
+/-- the head unit with `parseUnaryT`, then the loop (subscripts) -/
+theorem expr_fullTC {e : Node} {tk : TT} {ts : List TT} (h : ESpecC o e tk ts)
+    (g : Nat) (rest : List TT) (hg : 16 * (ts.length + 1) + 8 ≤ g) (hfol : EFollow (hd rest).1) :
+    ∃ (u : EV) (mid : List TT),
+      RunsV (StP o (tk :: ts ++ rest)) (parseUnaryT o g tk) u (StA o mid) ∧
+      RunsV (StA o mid) (arithLoop o g u) (evOf e, (hd rest).1) (StA o rest) := by
+  obtain ⟨x, tsH, M, hts, hmh, hopd, _, hl⟩ := h
+  subst hts
+  simp only [List.length_append] at hg
+  have hm := hmh rest hfol.1 hfol.2.1
+  have hrun := hopd g (M ++ rest) (by omega) hm.1 hm.2
+  exact ⟨evOf x, M ++ rest, by simpa using hrun, hl g rest (by omega) hfol⟩
+
+/-- **comparisons bind looser than arithmetic**: `l op r` between two chains is the atom
+    `(l) op (r)` -/
+theorem cmpE_atomC {l r : Node} {tkl tkr : TT} {tsl tsr : List TT} {op : BinOp}
+    (hl : ESpecC o l tkl tsl) (hr : ESpecC o r tkr tsr) (hop : isCmp op = true) :
+    AtomSpec o (.binary op (some l) (some r) none) (tkl :: tsl ++ opTok op :: tkr :: tsr) := by
+  intro f ctx rest hf hfol
+  simp only [List.length_cons, List.length_append] at hf
+  obtain ⟨f', rfl⟩ : ∃ f', f = f' + 2 := ⟨f - 2, by omega⟩
+  have hc := cmp_facts hop
+  obtain ⟨u, mid, hr1, hr2⟩ := expr_fullC hr f' rest (by omega) hfol.efollow
+  have := atom_of_exprC hl f' ctx (opTok op :: tkr :: (tsr ++ rest)) (.pred { node := .binary op (some l) (some r) none })
+    (StE o rest) (by omega) ⟨hc.2.2.2.1, hc.2.2.2.2, hc.1, hc.2.1⟩ ?_
+  · simpa using this
+  · simp only [hd, exprTailK, hc.2.2.1]
+    lstep (consume_spec _ _)
+    simp only [List.cons_append] at hr1
+    lstep hr1
+    lstep hr2
+    exact RunsV.pure' rfl (fun _ h => StE.ofA h)
+
+/-- `l starts with "s"` / `l starts with $"s"` with a chain `l` -/
+theorem startsE_atomC {l : Node} {tkl : TT} {tsl : List TT} (s : List Char) (isVar : Bool)
+    (hl : ESpecC o l tkl tsl) :
+    AtomSpec o (.binary .startsWith (some l) (some (if isVar then .var s none else .str s none)) none)
+      (tkl :: tsl ++ [tStarts, tWith, if isVar then tVar s else (.string, s)]) := by
+  intro f ctx rest hf hfol
+  simp only [List.length_cons, List.length_append, List.length_nil] at hf
+  obtain ⟨f', rfl⟩ : ∃ f', f = f' + 2 := ⟨f - 2, by omega⟩
+  have := atom_of_exprC hl f' ctx (tStarts :: tWith :: (if isVar then tVar s else (.string, s)) :: rest)
+    (.pred { node := .binary .startsWith (some l) (some (if isVar then .var s none else .str s none)) none })
+    (StE o rest) (by omega) ⟨rfl, by simp [hd, tStarts], rfl, rfl⟩ ?_
+  · simpa using this
+  · simp only [hd, List.cons_append, List.nil_append, tStarts, exprTailK, compOp, ↓reduceIte]
+    lstep (consume_spec _ _)
+    lstep (expect_spec _ _ _)
+    cases isVar with
+    | false =>
+      simp only [Bool.false_eq_true, ↓reduceIte]
+      lstep (peek_cons _ _)
+      simp only [↓reduceIte]
+      lstep (consume_spec _ _)
+      exact RunsV.pure' rfl (fun _ h => h)
+    | true =>
+      simp only [↓reduceIte]
+      lstep (peek_cons _ _)
+      simp only [tVar, reduceCtorEq, ↓reduceIte]
+      lstep (consume_spec _ _)
+      exact RunsV.pure' rfl (fun _ h => h)
+
+/-- `x like_regex "pat" [flag "…"]` with a chain `x` -/
+theorem regexE_atomC {x : Node} {tk : TT} {ts : List TT} (pat : List Char) (fl : Nat)
+    (hx : ESpecC o x tk ts) (hfl : fl < 32) (hok : okFlags fl = true)
+    (hacc : o.regexAccepts pat fl = true) :
+    AtomSpec o (.regex x pat fl none) (tk :: ts ++ tLike :: (.string, pat) :: flagToks fl) := by
+  intro f ctx rest hf hfol
+  have hlen : (flagToks fl).length ≤ 2 := by unfold flagToks; split <;> simp
+  simp only [List.length_cons, List.length_append] at hf
+  obtain ⟨f', rfl⟩ : ∃ f', f = f' + 2 := ⟨f - 2, by omega⟩
+  have := atom_of_exprC hx f' ctx (tLike :: (.string, pat) :: (flagToks fl ++ rest))
+    (.pred { node := .regex x pat fl none }) (StE o rest) (by omega) ⟨rfl, by simp [hd, tLike], rfl, rfl⟩ ?_
+  · simpa using this
+  · simp only [hd, List.cons_append, tLike, exprTailK, compOp, reduceCtorEq, ↓reduceIte]
+    lstep (consume_spec _ _)
+    lstep (peek_cons _ _)
+    simp only [ne_eq, not_true_eq_false, ↓reduceIte]
+    lstep (consume_spec _ _)
+    unfold flagToks
+    by_cases h0 : fl = 0
+    · subst h0
+      simp only [↓reduceIte, List.nil_append]
+      lstep (peek_any rest)
+      simp only [hfol.notFlag, ↓reduceIte]
+      have : regexFlags [] = some 0 := by decide
+      simp only [mkRegex, this, hacc, ↓reduceIte]
+      exact RunsV.pure' rfl (fun _ h => StE.ofA h)
+    · simp only [h0, ↓reduceIte, List.cons_append, List.nil_append]
+      lstep (peek_cons _ _)
+      simp only [tFlag, ↓reduceIte]
+      lstep (consume_spec _ _)
+      lstep (peek_cons _ _)
+      simp only [ne_eq, not_true_eq_false, ↓reduceIte]
+      lstep (consume_spec _ _)
+      simp only [mkRegex, regexFlags_flagChars fl hfl hok, hacc, ↓reduceIte]
+      exact RunsV.pure' rfl (fun _ h => h)
+
+/-- `exists (e)` with a chain `e` -/
+theorem existsE_atomC {x : Node} {tk : TT} {ts : List TT} (hx : ESpecC o x tk ts) :
+    AtomSpec o (.unary .exists (some x) none) (tExists :: tLp :: tk :: ts ++ [tRp]) := by
+  intro f ctx rest hf hfol
+  simp only [List.length_cons, List.length_append, List.length_nil] at hf
+  obtain ⟨f', rfl⟩ : ∃ f', f = f' + 3 := ⟨f - 3, by omega⟩
+  obtain ⟨u, mid, hr1, hr2⟩ := expr_fullC hx (f' + 1) (tRp :: rest) (by omega) ⟨rfl, by simp [hd, tRp], rfl, rfl⟩
+  have hex : RunsV (StE o (tLp :: tk :: ts ++ tRp :: rest)) (existsTail o (f' + 2)) (unary .exists (evOf x))
+      (StE o rest) := by
+    rw [existsTail]
+    lstep (expect_spec _ _ _)
+    simp only [List.cons_append] at hr1
+    lstep hr1
+    lstep hr2
+    simp only [hd, tRp, ne_eq, not_true_eq_false, ↓reduceIte]
+    lstep (consume_spec _ _)
+    exact RunsV.pure _
+  rw [parseAtom]
+  simp only [List.cons_append, List.append_assoc, List.nil_append]
+  lstep (peek_cons _ _)
+  simp only [tExists, reduceCtorEq, ↓reduceIte]
+  lstep (consume_spec _ _)
+  simp only [List.cons_append, List.append_assoc, List.nil_append] at hex
+  lstep hex
+  exact RunsV.pure' rfl (fun _ h => h)
+
+/-- after `(`: a chain and `)`, followed by something that is not an accessor -/
+theorem parenTail_exprC {e : Node} {tk : TT} {ts : List TT} (h : ESpecC o e tk ts)
+    (F : Nat) (ctx : Ctx) (hctx : ctx ≠ .pred) (rest : List TT) (hF : 16 * (ts.length + 1) + 8 ≤ F + 2)
+    (ha : isAccessorStart (hd rest).1 = false) :
+    RunsV (StE o (tk :: ts ++ tRp :: rest)) (parenTail o (F + 3) ctx) (.expr (evOf e)) (StA o rest) := by
+  rw [parenTail]
+  have h1 := atom_of_exprC h F ctx (tRp :: rest) (.expr (evOf e) .rparen) (StA o (tRp :: rest)) hF
+    ⟨rfl, by simp [hd, tRp], rfl, rfl⟩ (exprK_end F ctx hctx (evOf e) (tRp :: rest) (Or.inl rfl))
+  lstep h1
+  simp only [ne_eq, not_true_eq_false, ↓reduceIte]
+  lstep (consume_spec _ _)
+  lstep (peek_any rest)
+  simp only [ha, Bool.false_eq_true, ↓reduceIte]
+  exact RunsV.pure _
+
+/-- `( chain )` is a unit for `parseUnaryT` … -/
+theorem paren_opdSpecC {e : Node} {tk : TT} {ts : List TT} (h : ESpecC o e tk ts) :
+    OpdSpec o e tLp (tk :: ts ++ [tRp]) := by
+  intro f rest hf ha _
+  simp only [List.length_cons, List.length_append, List.length_nil] at hf
+  obtain ⟨F, rfl⟩ : ∃ F, f = F + 4 := ⟨f - 4, by omega⟩
+  rw [parseUnaryT]
+  simp only [tLp, reduceCtorEq, ↓reduceIte]
+  simp only [List.cons_append, List.append_assoc, List.nil_append]
+  lstep (consume_spec _ _)
+  lstep (parenTail_exprC h F .parenE (by decide) rest (by omega) ha)
+  exact RunsV.pure _
+
+/-- … and for `parseAtom` -/
+theorem paren_headAC {e : Node} {tk : TT} {ts : List TT} (h : ESpecC o e tk ts) :
+    HeadA o e tLp (tk :: ts ++ [tRp]) := by
+  intro f ctx rest w post hf ha _ hk
+  simp only [List.length_cons, List.length_append, List.length_nil] at hf
+  obtain ⟨F, rfl⟩ : ∃ F, f = F + 3 := ⟨f - 3, by omega⟩
+  rw [parseAtom]
+  simp only [List.cons_append, List.append_assoc, List.nil_append]
+  lstep (peek_cons _ _)
+  simp only [tLp, reduceCtorEq, ↓reduceIte]
+  lstep (consume_spec _ _)
+  lstep (parenTail_exprC h F .paren (by decide) rest (by omega) ha)
+  exact hk
+
+/-- **`( chain )` plugs back into every existing rule**: it is an `ESpec` fit for every position -/
+theorem espec_paren_of_chain {e : Node} {tk : TT} {ts : List TT} (h : ESpecC o e tk ts) (p q : Prop) :
+    ESpec o e tLp (tk :: ts ++ [tRp]) p q :=
+  espec_unit (paren_opdSpecC h) (paren_headAC h) _ _
+
+/-- … in particular it is a unit of a longer chain -/
+def UnitC.paren (e : Node) (tk : TT) (ts : List TT) : UnitC := ⟨e, tLp, tk :: ts ++ [tRp]⟩
+
+theorem UnitC.paren_ok {e : Node} {tk : TT} {ts : List TT} (h : ESpecC o e tk ts) : (UnitC.paren e tk ts).OK o :=
+  paren_opdSpecC h
+
+/-- a single subscript bound that is a chain -/
+theorem subRun_oneC {l : Node} {tk : TT} {ts : List TT} (hl : ESpecC o l tk ts) :
+    SubRun o (.binary .subscript (some l) none none) tk ts := by
+  intro f acc more w post hf hsep hk
+  have hs := sepFollow hsep
+  obtain ⟨u, mid, h1, h2⟩ := expr_fullTC hl f more hf hs.1
+  rw [indexList_eq]
+  lstep h1
+  lstep h2
+  simp only [indexElemK, hs.2, ↓reduceIte, evOf_node]
+  exact hk
+
+/-- a range `l to r` of two chains -/
+theorem subRun_twoC {l r : Node} {tkl tkr : TT} {tsl tsr : List TT}
+    (hl : ESpecC o l tkl tsl) (hr : ESpecC o r tkr tsr) :
+    SubRun o (.binary .subscript (some l) (some r) none) tkl (tsl ++ tTo :: tkr :: tsr) := by
+  intro f acc more w post hf hsep hk
+  simp only [List.length_cons, List.length_append] at hf
+  have hs := sepFollow hsep
+  obtain ⟨u, mid, h1, h2⟩ := expr_fullTC hl f (tTo :: tkr :: (tsr ++ more)) (by omega) ⟨rfl, by simp [hd, tTo], rfl, rfl⟩
+  obtain ⟨u2, mid2, h3, h4⟩ := expr_fullC hr f more (by omega) hs.1
+  rw [indexList_eq]
+  simp only [List.cons_append, List.append_assoc] at h1 ⊢
+  lstep h1
+  lstep h2
+  simp only [hd, tTo, indexElemK, ↓reduceIte, evOf_node]
+  lstep (consume_spec _ _)
+  simp only [List.cons_append] at h3
+  lstep h3
+  lstep h4
+  exact hk
+
+end
+
+/-! ## Predicates: `&&` binds tighter than `||`, both left-associative -/
+
+/-- an atom (operand of `&&`) with its tokens -/
+structure AtomC where
+  node : Node
+  toks : List TT
+
+def AtomC.OK (o : Oracles) (a : AtomC) : Prop := AtomSpec o a.node a.toks
+
+/-- tokens of `&& a₁ … && aₙ` -/
+def andToks : List AtomC → List TT
+  | [] => []
+  | a :: as => tAnd :: (a.toks ++ andToks as)
+
+def andNodes (as : List AtomC) : List Node := as.map (·.node)
+
+def AndsOK (o : Oracles) (as : List AtomC) : Prop := ∀ a ∈ as, a.OK o
+
+structure ConjC where
+  head : AtomC
+  ands : List AtomC
+
+def ConjC.conj (c : ConjC) : Conj := ⟨c.head.node, andNodes c.ands⟩
+def ConjC.OK (o : Oracles) (c : ConjC) : Prop := c.head.OK o ∧ AndsOK o c.ands
+def ConjC.toks (c : ConjC) : List TT := c.head.toks ++ andToks c.ands
+
+/-- tokens of `|| C₁ … || Cₙ` -/
+def orToks : List ConjC → List TT
+  | [] => []
+  | c :: cs => tOr :: (c.head.toks ++ (andToks c.ands ++ orToks cs))
+
+def orConjs (cs : List ConjC) : List Conj := cs.map ConjC.conj
+
+def OrsOK (o : Oracles) (cs : List ConjC) : Prop := ∀ c ∈ cs, c.OK o
+
+def orFrom (a : Node) (cs : List Conj) : Node :=
+  cs.foldl (fun acc c => .binary .or (some acc) (some c.tree) none) a
+
+theorem orTree_eq (c₀ : Conj) (cs : List Conj) : orTree c₀ cs = orFrom c₀.tree cs := rfl
+theorem orFrom_cons (a : Node) (c : Conj) (cs : List Conj) :
+    orFrom a (c :: cs) = orFrom (.binary .or (some a) (some c.tree) none) cs := rfl
+theorem orTree_and_cons (a b : Node) (as : List Node) (cs : List Conj) :
+    orTree ⟨a, b :: as⟩ cs = orTree ⟨.binary .and (some a) (some b) none, as⟩ cs := rfl
+
+/-- the end of a whole predicate -/
+def EndP (t : Tok) : Prop := t = .rparen ∨ t = .stop
+
+theorem EndP.facts {t : Tok} (h : EndP t) : PFollow t ∧ LFollow t ∧ t ≠ .and ∧ t ≠ .or := by
+  rcases h with h | h <;> subst h <;> refine ⟨?_, ?_, by decide, by decide⟩
+  · exact Or.inl rfl
+  · exact Or.inl rfl
+  · exact Or.inr (Or.inr (Or.inr rfl))
+  · exact Or.inr (Or.inr rfl)
+
+section
+variable {o : Oracles}
+
+theorem pfollow_andToks (as : List AtomC) {rest : List TT} (h : PFollow (hd rest).1) :
+    PFollow (hd (andToks as ++ rest)).1 := by
+  cases as with
+  | nil => simpa [andToks] using h
+  | cons a as => exact Or.inr (Or.inl rfl)
+
+theorem pfollow_orToks (cs : List ConjC) {rest : List TT} (h : PFollow (hd rest).1) :
+    PFollow (hd (orToks cs ++ rest)).1 := by
+  cases cs with
+  | nil => simpa [orToks] using h
+  | cons c cs => exact Or.inr (Or.inr (Or.inl rfl))
+
+theorem notAnd_orToks (cs : List ConjC) {rest : List TT} (h : (hd rest).1 ≠ .and) :
+    (hd (orToks cs ++ rest)).1 ≠ .and := by
+  cases cs with
+  | nil => simpa [orToks] using h
+  | cons c cs => simp [orToks, hd, tOr]
+
+/-- **`&&` is left-associative.**  `orLoop` (the right operand of `||`) with the left operand `a`,
+    standing before `&& a₁ … && aₙ` followed by something that is not `&&`, returns
+    `((a && a₁) && a₂) …`. -/
+theorem orLoop_chain (as : List AtomC) (has : AndsOK o as) :
+    ∀ (a : Node) (g : Nat) (rest : List TT), 16 * (andToks as).length + 8 ≤ g →
+      PFollow (hd rest).1 → (hd rest).1 ≠ .and →
+      RunsV (StE o (andToks as ++ rest)) (orLoop o g { node := a }) { node := andTree a (andNodes as) }
+        (StA o rest) := by
+  induction as with
+  | nil =>
+    intro a g rest hg hp hna
+    obtain ⟨g', rfl⟩ : ∃ g', g = g' + 1 := ⟨g - 1, by omega⟩
+    simpa [andToks, andNodes, andTree] using orLoop_nil g' { node := a } rest hna
+  | cons b as ih =>
+    intro a g rest hg hp hna
+    have hb := has b (List.mem_cons_self ..)
+    have has' : AndsOK o as := fun q hq => has q (List.mem_cons_of_mem _ hq)
+    simp only [andToks, List.length_cons, List.length_append] at hg
+    obtain ⟨g', rfl⟩ : ∃ g', g = g' + 1 := ⟨g - 1, by omega⟩
+    have hrun := hb g' .pred (andToks as ++ rest) (by omega) (pfollow_andToks as hp)
+    rw [orLoop]
+    simp only [andToks, List.cons_append, List.append_assoc]
+    lstep (peek_cons _ _)
+    simp only [tAnd, ↓reduceIte]
+    lstep (consume_spec _ _)
+    lstep hrun
+    have := ih has' (.binary .and (some a) (some b.node) none) g' rest (by omega) hp hna
+    simp only [andNodes, List.map_cons, andTree_cons]
+    exact this
+
+/-- **`||` is left-associative and `&&` binds tighter.**  `predLoop` with the left operand `a`, standing
+    before `|| C₁ … || Cₙ` (every `Cᵢ` a conjunction of atoms) up to `)` or the end, returns
+    `((a || C₁) || C₂) …`. -/
+theorem predLoop_sum (cs : List ConjC) (hcs : OrsOK o cs) :
+    ∀ (a : Node) (g : Nat) (rest : List TT), 16 * (orToks cs).length + 8 ≤ g → EndP (hd rest).1 →
+      RunsV (StE o (orToks cs ++ rest)) (predLoop o g { node := a })
+        ({ node := orFrom a (orConjs cs) }, (hd rest).1) (StA o rest) := by
+  induction cs with
+  | nil =>
+    intro a g rest hg he
+    obtain ⟨g', rfl⟩ : ∃ g', g = g' + 1 := ⟨g - 1, by omega⟩
+    simpa [orToks, orConjs, orFrom] using predLoop_nil g' { node := a } rest he.facts.2.2.1 he.facts.2.2.2
+  | cons c cs ih =>
+    intro a g rest hg he
+    have hc := hcs c (List.mem_cons_self ..)
+    have hcs' : OrsOK o cs := fun q hq => hcs q (List.mem_cons_of_mem _ hq)
+    simp only [orToks, List.length_cons, List.length_append] at hg
+    obtain ⟨g', rfl⟩ : ∃ g', g = g' + 1 := ⟨g - 1, by omega⟩
+    have hpo := pfollow_orToks cs he.facts.1
+    have hrun := hc.1 g' .pred (andToks c.ands ++ (orToks cs ++ rest)) (by omega) (pfollow_andToks c.ands hpo)
+    have hor := orLoop_chain c.ands hc.2 c.head.node g' (orToks cs ++ rest) (by omega) hpo
+      (notAnd_orToks cs he.facts.2.2.1)
+    rw [predLoop]
+    simp only [orToks, List.cons_append, List.append_assoc]
+    lstep (peek_cons _ _)
+    simp only [tOr, reduceCtorEq, ↓reduceIte]
+    lstep (consume_spec _ _)
+    lstep hrun
+    lstep hor
+    have := ih hcs' (.binary .or (some a) (some (andTree c.head.node (andNodes c.ands))) none) g' rest (by omega) he
+    simp only [orConjs, List.map_cons, orFrom_cons]
+    lexact this
+
+/-- **Precedence climbing on a whole chain of atoms.**  `predLoop` with the first atom `a` as left operand,
+    standing before `&& a₁ … && aₖ` (the rest of the first conjunction, which `predLoop` folds itself) and
+    then `|| C₁ … || Cₙ` (folded by `orLoop`), returns `orTree (a && a₁ … && aₖ) [C₁, …]`. -/
+theorem predLoop_chain (as : List AtomC) (has : AndsOK o as) (cs : List ConjC) (hcs : OrsOK o cs) :
+    ∀ (a : Node) (g : Nat) (rest : List TT), 16 * ((andToks as).length + (orToks cs).length) + 8 ≤ g →
+      EndP (hd rest).1 →
+      RunsV (StE o (andToks as ++ (orToks cs ++ rest))) (predLoop o g { node := a })
+        ({ node := orTree ⟨a, andNodes as⟩ (orConjs cs) }, (hd rest).1) (StA o rest) := by
+  induction as with
+  | nil =>
+    intro a g rest hg he
+    have := predLoop_sum cs hcs a g rest (by simpa [andToks] using hg) he
+    simpa [andToks, andNodes, orTree, Conj.tree, andTree, orFrom] using this
+  | cons b as ih =>
+    intro a g rest hg he
+    have hb := has b (List.mem_cons_self ..)
+    have has' : AndsOK o as := fun q hq => has q (List.mem_cons_of_mem _ hq)
+    simp only [andToks, List.length_cons, List.length_append] at hg
+    obtain ⟨g', rfl⟩ : ∃ g', g = g' + 1 := ⟨g - 1, by omega⟩
+    have hrun := hb g' .pred (andToks as ++ (orToks cs ++ rest)) (by omega)
+      (pfollow_andToks as (pfollow_orToks cs he.facts.1))
+    rw [predLoop]
+    simp only [andToks, List.cons_append, List.append_assoc]
+    lstep (peek_cons _ _)
+    simp only [tAnd, ↓reduceIte]
+    lstep (consume_spec _ _)
+    lstep hrun
+    have := ih has' (.binary .and (some a) (some b.node) none) g' rest (by omega) he
+    simp only [andNodes, List.map_cons, orTree_and_cons]
+    exact this
+
+/-- `FullSpec` is already in direct style with fuel linear in the tokens, so it serves as the spec of
+    chains of atoms: no new predicate is needed -/
+abbrev FullSpecC (o : Oracles) (p : Node) (toks : List TT) : Prop := FullSpec o p toks
+
+theorem fullSpecC_of_fullSpec {p : Node} {toks : List TT} (h : FullSpec o p toks) : FullSpecC o p toks := h
+
+/-- **an unparenthesised chain of atoms is the predicate `orTree …`**, wherever a whole predicate may
+    stand (top level, `( … )`, `?( … )`, `!( … )`, `( … ) is unknown`) -/
+theorem fullSpec_chain (c₀ : ConjC) (h₀ : c₀.OK o) (cs : List ConjC) (hcs : OrsOK o cs) :
+    FullSpecC o (orTree c₀.conj (orConjs cs)) (c₀.head.toks ++ (andToks c₀.ands ++ orToks cs)) := by
+  intro f ctx rest hf he
+  simp only [List.length_append] at hf
+  refine ⟨{ node := c₀.head.node }, andToks c₀.ands ++ (orToks cs ++ rest), ?_, ?_⟩
+  · have := h₀.1 f ctx (andToks c₀.ands ++ (orToks cs ++ rest)) (by omega)
+      (pfollow_andToks c₀.ands (pfollow_orToks cs (EndP.facts he).1))
+    simpa [List.append_assoc] using this
+  · exact predLoop_chain c₀.ands h₀.2 cs hcs c₀.head.node f rest (by omega) he
+
+end
+
+/-! ## (3) Text level: print-free bundles for chains -/
+
+/-- **`txt` is a spelling of the expression `e` as a whole** (a chain; it need not be fit for any
+    operand position): in every layout it is a token sequence of which the parser makes `e` -/
+def ExprTC (o : Oracles) (e : Node) (txt : List Char) : Prop :=
+  ∃ tk ts, Seg2 o brk txt (tk :: ts) ∧ isPredStart tk.1 = true ∧ ESpecC o e tk ts
+
+/-- **`txt` is a spelling of the predicate `p` as a whole** -/
+def PredTC (o : Oracles) (p : Node) (txt : List Char) : Prop :=
+  ∃ toks, Seg2 o brk txt toks ∧ PHead toks ∧ FullSpecC o p toks
+
+/-- a unit with a text -/
+structure UnitT where
+  node : Node
+  txt : List Char
+
+/-- the text is a spelling of the node fit for a unit position (operand of `* / %`) -/
+def UnitT.OK (o : Oracles) (u : UnitT) : Prop := ExprT o u.node True True u.txt
+
+/-- ` op₁ u₁ … opₙ uₙ` as the printer spaces it -/
+def mulTxt : List (BinOp × UnitT) → List Char
+  | [] => []
+  | p :: ms => ' ' :: (Print.binStr p.1 ++ ' ' :: (p.2.txt ++ mulTxt ms))
+
+def mulNodesT (ms : List (BinOp × UnitT)) : List (BinOp × Node) := ms.map (fun p => (p.1, p.2.node))
+
+def MulsOKT (o : Oracles) (ms : List (BinOp × UnitT)) : Prop := ∀ p ∈ ms, isMulOp p.1 = true ∧ p.2.OK o
+
+structure TermT where
+  head : UnitT
+  muls : List (BinOp × UnitT)
+
+def TermT.term (t : TermT) : Term := ⟨t.head.node, mulNodesT t.muls⟩
+def TermT.txt (t : TermT) : List Char := t.head.txt ++ mulTxt t.muls
+def TermT.OK (o : Oracles) (t : TermT) : Prop := t.head.OK o ∧ MulsOKT o t.muls
+
+def addTxt : List (BinOp × TermT) → List Char
+  | [] => []
+  | p :: as => ' ' :: (Print.binStr p.1 ++ ' ' :: (p.2.head.txt ++ (mulTxt p.2.muls ++ addTxt as)))
+
+def addTermsT (as : List (BinOp × TermT)) : List (BinOp × Term) := as.map (fun p => (p.1, p.2.term))
+
+def AddsOKT (o : Oracles) (as : List (BinOp × TermT)) : Prop := ∀ p ∈ as, isAddOp p.1 = true ∧ p.2.OK o
+
+/-- an atom with a text -/
+structure AtomT where
+  node : Node
+  txt : List Char
+
+/-- the text is a spelling of the predicate fit for an operand position of `&&` -/
+def AtomT.OK (o : Oracles) (a : AtomT) : Prop := PredT o a.node True True a.txt
+
+def andTxt : List AtomT → List Char
+  | [] => []
+  | a :: as => ' ' :: (Print.binStr .and ++ ' ' :: (a.txt ++ andTxt as))
+
+def andNodesT (as : List AtomT) : List Node := as.map (·.node)
+
+def AndsOKT (o : Oracles) (as : List AtomT) : Prop := ∀ a ∈ as, a.OK o
+
+structure ConjT where
+  head : AtomT
+  ands : List AtomT
+
+def ConjT.conj (c : ConjT) : Conj := ⟨c.head.node, andNodesT c.ands⟩
+def ConjT.txt (c : ConjT) : List Char := c.head.txt ++ andTxt c.ands
+def ConjT.OK (o : Oracles) (c : ConjT) : Prop := c.head.OK o ∧ AndsOKT o c.ands
+
+def orTxt : List ConjT → List Char
+  | [] => []
+  | c :: cs => ' ' :: (Print.binStr .or ++ ' ' :: (c.head.txt ++ (andTxt c.ands ++ orTxt cs)))
+
+def orConjsT (cs : List ConjT) : List Conj := cs.map ConjT.conj
+
+def OrsOKT (o : Oracles) (cs : List ConjT) : Prop := ∀ c ∈ cs, c.OK o
+
+/-- the text is empty or starts with a blank: after a piece that tolerates a `brk`, it may follow -/
+def SpHead (t : List Char) : Prop := ∀ r : List Char, brk r.head? → brk (t ++ r).head?
+
+theorem spHead_nil : SpHead [] := fun _ h => h
+theorem spHead_sp (t : List Char) : SpHead (' ' :: t) := fun _ _ => brk_sp
+theorem spHead_app {a b : List Char} (ha : SpHead a) (hb : SpHead b) : SpHead (a ++ b) := by
+  intro r hr
+  rw [List.append_assoc]
+  exact ha _ (hb r hr)
+
+theorem spHead_mulTxt (ms : List (BinOp × UnitT)) : SpHead (mulTxt ms) := by
+  cases ms <;> simp only [mulTxt]
+  · exact spHead_nil
+  · exact spHead_sp _
+
+theorem spHead_addTxt (as : List (BinOp × TermT)) : SpHead (addTxt as) := by
+  cases as <;> simp only [addTxt]
+  · exact spHead_nil
+  · exact spHead_sp _
+
+theorem spHead_andTxt (as : List AtomT) : SpHead (andTxt as) := by
+  cases as <;> simp only [andTxt]
+  · exact spHead_nil
+  · exact spHead_sp _
+
+theorem spHead_orTxt (cs : List ConjT) : SpHead (orTxt cs) := by
+  cases cs <;> simp only [orTxt]
+  · exact spHead_nil
+  · exact spHead_sp _
+
+section
+variable {o : Oracles}
+
+theorem exprTC_of_exprT {e : Node} {u m : Prop} {txt : List Char} (h : ExprT o e u m txt) : ExprTC o e txt := by
+  obtain ⟨tk, ts, hseg, hst, hsp⟩ := h
+  exact ⟨tk, ts, hseg, hst, especC_of_espec hsp⟩
+
+theorem predTC_of_predT {p : Node} {a l : Prop} {txt : List Char} (h : PredT o p a l txt) : PredTC o p txt := by
+  obtain ⟨toks, hseg, hh, _, _, hl2⟩ := h
+  exact ⟨toks, hseg, hh, full_of_left (by decide) hl2⟩
+
+/-- a spelling fit for a unit position is fit for every position -/
+theorem exprT_unit_upgrade {x : Node} {m : Prop} {txt : List Char} (h : ExprT o x True m txt) (u' m' : Prop) :
+    ExprT o x u' m' txt := by
+  obtain ⟨tk, ts, hseg, hst, _, _, hunit⟩ := h
+  obtain ⟨hopd, hha⟩ := hunit trivial
+  exact ⟨tk, ts, hseg, hst, espec_unit hopd hha _ _⟩
+
+/-- a spelling fit for an operand position of `&&` is fit for every position -/
+theorem predT_atom_upgrade {p : Node} {l : Prop} {txt : List Char} (h : PredT o p True l txt) (a' l' : Prop) :
+    PredT o p a' l' txt := by
+  obtain ⟨toks, hseg, hh, hat, _, _⟩ := h
+  have hat := hat trivial
+  exact ⟨toks, hseg, hh, fun _ => hat, fun _ => ⟨left_of_atom hat 1, right_of_atom hat⟩, left_of_atom hat 2⟩
+
+variable (ok : OrOK o)
+include ok
+
+/-! ### from texts to tokens -/
+
+theorem mulsT_toC (ms : List (BinOp × UnitT)) (h : MulsOKT o ms) :
+    ∃ msC : List (BinOp × UnitC), MulsOK o msC ∧ mulNodes msC = mulNodesT ms ∧
+      Seg o brk (mulTxt ms) (mulToks msC) := by
+  induction ms with
+  | nil => exact ⟨[], fun _ h => by simp at h, rfl, Seg.nil o _⟩
+  | cons p ms ih =>
+    obtain ⟨msC, h1, h2, h3⟩ := ih (fun q hq => h q (List.mem_cons_of_mem _ hq))
+    obtain ⟨hop, tk, ts, hseg, _, _, _, hunit⟩ := h p (List.mem_cons_self ..)
+    obtain ⟨hopd, _⟩ := hunit trivial
+    have har : isArith p.1 = true := by
+      revert hop; cases p.1 <;> simp [isMulOp, isArith]
+    refine ⟨(p.1, ⟨p.2.node, tk, ts⟩) :: msC, ?_, ?_, ?_⟩
+    · intro q hq
+      rcases List.mem_cons.1 hq with rfl | hq
+      · exact ⟨hop, hopd⟩
+      · exact h1 q hq
+    · simp only [mulNodes, mulNodesT, List.map_cons] at h2 ⊢
+      rw [h2]
+    · have s1 := Seg.app_cons o (seg_sp_arith o ok p.1 har) hseg.2 rfl
+      have s2 := Seg.app o s1 h3 (spHead_mulTxt ms)
+      simpa [mulTxt, mulToks] using s2
+
+theorem termT_toC (t : TermT) (h : t.OK o) :
+    ∃ tC : TermC, tC.OK o ∧ tC.term = t.term ∧ isPredStart tC.head.tk.1 = true ∧
+      HeadA o tC.head.node tC.head.tk tC.head.ts ∧
+      Seg2 o brk (t.head.txt ++ mulTxt t.muls) (tC.head.tk :: (tC.head.ts ++ mulToks tC.muls)) := by
+  obtain ⟨⟨tk, ts, hseg, hst, _, _, hunit⟩, hm⟩ := h
+  obtain ⟨hopd, hha⟩ := hunit trivial
+  obtain ⟨msC, h1, h2, h3⟩ := mulsT_toC ok t.muls hm
+  refine ⟨⟨⟨t.head.node, tk, ts⟩, msC⟩, ⟨hopd, h1⟩, ?_, hst, hha, ?_⟩
+  · simp only [TermC.term, TermT.term, h2]
+  · have := Seg2.app o hseg h3 (spHead_mulTxt t.muls)
+    simpa using this
+
+theorem addsT_toC (as : List (BinOp × TermT)) (h : AddsOKT o as) :
+    ∃ asC : List (BinOp × TermC), AddsOK o asC ∧ addTerms asC = addTermsT as ∧
+      Seg o brk (addTxt as) (addToks asC) := by
+  induction as with
+  | nil => exact ⟨[], fun _ h => by simp at h, rfl, Seg.nil o _⟩
+  | cons p as ih =>
+    obtain ⟨asC, h1, h2, h3⟩ := ih (fun q hq => h q (List.mem_cons_of_mem _ hq))
+    obtain ⟨hop, hterm⟩ := h p (List.mem_cons_self ..)
+    obtain ⟨tC, t1, t2, _, _, t3⟩ := termT_toC ok p.2 hterm
+    have har : isArith p.1 = true := by
+      revert hop; cases p.1 <;> simp [isAddOp, isArith]
+    refine ⟨(p.1, tC) :: asC, ?_, ?_, ?_⟩
+    · intro q hq
+      rcases List.mem_cons.1 hq with rfl | hq
+      · exact ⟨hop, t1⟩
+      · exact h1 q hq
+    · simp only [addTerms, addTermsT, List.map_cons] at h2 ⊢
+      rw [h2, t2]
+    · have s1 := Seg.app_cons o (seg_sp_arith o ok p.1 har) t3.2 rfl
+      have s2 := Seg.app o s1 h3 (spHead_addTxt as)
+      simpa [addTxt, addToks] using s2
+
+/-- **(3) the text of a chain**: the units' spellings joined by ` op ` — `T₀ op₁ T₁ …` with `+ -` between
+    products `u op u …` with `* / %` — is a spelling of `sumTree …` -/
+theorem exprTC_chain (t₀ : TermT) (h₀ : t₀.OK o) (as : List (BinOp × TermT)) (has : AddsOKT o as) :
+    ExprTC o (sumTree t₀.term (addTermsT as)) (t₀.head.txt ++ (mulTxt t₀.muls ++ addTxt as)) := by
+  obtain ⟨tC, t1, t2, hst, hha, t3⟩ := termT_toC ok t₀ h₀
+  obtain ⟨asC, a1, a2, a3⟩ := addsT_toC ok as has
+  refine ⟨tC.head.tk, tC.head.ts ++ (mulToks tC.muls ++ addToks asC), ?_, hst, ?_⟩
+  · have := Seg2.app o t3 a3 (spHead_addTxt as)
+    simpa [List.append_assoc] using this
+  · have := especC_chain tC t1 hha asC a1
+    rw [t2, a2] at this
+    exact this
+
+/-- **chains plug back into every existing rule as parenthesised units** -/
+theorem exprT_paren_of_chain {e : Node} {txt : List Char} (h : ExprTC o e txt) :
+    ExprT o e True True ('(' :: (txt ++ [')'])) := by
+  obtain ⟨tk, ts, hseg, hst, hsp⟩ := h
+  have := seg2_paren ok hseg
+  exact ⟨tLp, tk :: ts ++ [tRp], by simpa using this, rfl, espec_paren_of_chain hsp _ _⟩
+
+/-- … as a unit of a longer chain -/
+theorem UnitT.paren_ok {e : Node} {txt : List Char} (h : ExprTC o e txt) :
+    (UnitT.mk e ('(' :: (txt ++ [')']))).OK o := exprT_paren_of_chain ok h
+
+/-! ### predicates -/
+
+theorem andsT_toC (as : List AtomT) (h : AndsOKT o as) :
+    ∃ asC : List AtomC, AndsOK o asC ∧ andNodes asC = andNodesT as ∧ Seg o brk (andTxt as) (andToks asC) := by
+  induction as with
+  | nil => exact ⟨[], fun _ h => by simp at h, rfl, Seg.nil o _⟩
+  | cons a as ih =>
+    obtain ⟨asC, h1, h2, h3⟩ := ih (fun q hq => h q (List.mem_cons_of_mem _ hq))
+    obtain ⟨toks, hseg, _, hat, _, _⟩ := h a (List.mem_cons_self ..)
+    refine ⟨⟨a.node, toks⟩ :: asC, ?_, ?_, ?_⟩
+    · intro q hq
+      rcases List.mem_cons.1 hq with rfl | hq
+      · exact hat trivial
+      · exact h1 q hq
+    · simp only [andNodes, andNodesT, List.map_cons] at h2 ⊢
+      rw [h2]
+    · have s1 := Seg.app_cons o (seg_sp_op o ok .and (Or.inr rfl)) hseg.2 rfl
+      have s2 := Seg.app o s1 h3 (spHead_andTxt as)
+      simpa [andTxt, andToks, opTok, tAnd] using s2
+
+theorem conjT_toC (c : ConjT) (h : c.OK o) :
+    ∃ cC : ConjC, cC.OK o ∧ cC.conj = c.conj ∧ PHead cC.head.toks ∧
+      Seg2 o brk (c.head.txt ++ andTxt c.ands) (cC.head.toks ++ andToks cC.ands) := by
+  obtain ⟨⟨toks, hseg, hh, hat, _, _⟩, hm⟩ := h
+  obtain ⟨asC, h1, h2, h3⟩ := andsT_toC ok c.ands hm
+  refine ⟨⟨⟨c.head.node, toks⟩, asC⟩, ⟨hat trivial, h1⟩, ?_, hh, ?_⟩
+  · simp only [ConjC.conj, ConjT.conj, h2]
+  · exact Seg2.app o hseg h3 (spHead_andTxt c.ands)
+
+theorem orsT_toC (cs : List ConjT) (h : OrsOKT o cs) :
+    ∃ csC : List ConjC, OrsOK o csC ∧ orConjs csC = orConjsT cs ∧ Seg o brk (orTxt cs) (orToks csC) := by
+  induction cs with
+  | nil => exact ⟨[], fun _ h => by simp at h, rfl, Seg.nil o _⟩
+  | cons c cs ih =>
+    obtain ⟨csC, h1, h2, h3⟩ := ih (fun q hq => h q (List.mem_cons_of_mem _ hq))
+    obtain ⟨cC, c1, c2, _, c3⟩ := conjT_toC ok c (h c (List.mem_cons_self ..))
+    refine ⟨cC :: csC, ?_, ?_, ?_⟩
+    · intro q hq
+      rcases List.mem_cons.1 hq with rfl | hq
+      · exact c1
+      · exact h1 q hq
+    · simp only [orConjs, orConjsT, List.map_cons] at h2 ⊢
+      rw [h2, c2]
+    · have s1 := Seg.app_cons o (seg_sp_op o ok .or (Or.inr rfl)) c3.2 rfl
+      have s2 := Seg.app o s1 h3 (spHead_orTxt cs)
+      simpa [orTxt, orToks, opTok, tOr] using s2
+
+/-- **the text of a chain of atoms**: the atoms' spellings joined by ` && ` / ` || ` is a spelling of
+    `orTree …` -/
+theorem predTC_chain (c₀ : ConjT) (h₀ : c₀.OK o) (cs : List ConjT) (hcs : OrsOKT o cs) :
+    PredTC o (orTree c₀.conj (orConjsT cs)) (c₀.head.txt ++ (andTxt c₀.ands ++ orTxt cs)) := by
+  obtain ⟨cC, c1, c2, ⟨tk, ts, hh1, hh2⟩, c3⟩ := conjT_toC ok c₀ h₀
+  obtain ⟨csC, o1, o2, o3⟩ := orsT_toC ok cs hcs
+  refine ⟨cC.head.toks ++ (andToks cC.ands ++ orToks csC), ?_, ⟨tk, ts ++ (andToks cC.ands ++ orToks csC), by simp [hh1], hh2⟩, ?_⟩
+  · have := Seg2.app o c3 o3 (spHead_orTxt cs)
+    simpa [List.append_assoc] using this
+  · have := fullSpec_chain cC c1 csC o1
+    rw [c2, o2] at this
+    exact this
+
+/-- `( chain )` is an atom: it plugs back into `predT_and`, `predT_or`, … -/
+theorem predT_paren_of_chain {p : Node} {txt : List Char} (h : PredTC o p txt) :
+    PredT o p True True ('(' :: (txt ++ [')'])) := by
+  obtain ⟨toks, hseg, _, hfull⟩ := h
+  have hat := paren_atom hfull
+  exact ⟨tLp :: toks ++ [tRp], seg2_paren ok hseg, ⟨tLp, _, rfl, rfl⟩, fun _ => hat,
+    fun _ => ⟨left_of_atom hat 1, right_of_atom hat⟩, left_of_atom hat 2⟩
+
+theorem AtomT.paren_ok {p : Node} {txt : List Char} (h : PredTC o p txt) :
+    (AtomT.mk p ('(' :: (txt ++ [')']))).OK o := predT_paren_of_chain ok h
+
+/-- `!( chain )` -/
+theorem predT_not_of_chain {p : Node} {tp : List Char} (hp : PredTC o p tp) :
+    PredT o (.unary .not (some p) none) True True ('!' :: '(' :: (tp ++ [')'])) := by
+  obtain ⟨ptoks, hseg, _, hfull⟩ := hp
+  have hat := not_atom hfull
+  refine ⟨tNot :: tLp :: ptoks ++ [tRp], ?_, ⟨tNot, _, rfl, rfl⟩, fun _ => hat,
+    fun _ => ⟨left_of_atom hat 1, right_of_atom hat⟩, left_of_atom hat 2⟩
+  have h1 := Seg.app_cons o hseg.1 (seg_rp o ok) brk_rp
+  have h2 := Seg.app o (seg_lp o ok) h1 (fun _ _ => trivial)
+  have h3 := Seg2.app_cons o (seg2_bang o ok) h2 (by decide)
+  have := Seg2.mono o h3 (C' := brk) (fun _ _ => trivial)
+  simpa [tNot] using this
+
+/-- `( chain ) is unknown` -/
+theorem predT_isUnknown_of_chain {p : Node} {tp : List Char} (hp : PredTC o p tp) :
+    PredT o (.unary .isUnknown (some p) none) True True
+      ('(' :: (tp ++ ')' :: ' ' :: 'i' :: 's' :: ' ' :: 'u' :: 'n' :: 'k' :: 'n' :: 'o' :: 'w' :: 'n' :: [])) := by
+  obtain ⟨ptoks, hseg, _, hfull⟩ := hp
+  have hat := isUnknown_atom hfull
+  refine ⟨tLp :: ptoks ++ [tRp, tIs, tUnknown], ?_, ⟨tLp, _, rfl, rfl⟩, fun _ => hat,
+    fun _ => ⟨left_of_atom hat 1, right_of_atom hat⟩, left_of_atom hat 2⟩
+  have h0 := (seg_sp_kw o ok 'u' ['n', 'k', 'n', 'o', 'w', 'n'] .unknown (by decide) (by decide)).mono o
+    (C' := brk) (fun _ h => brk_identCont ok h)
+  have h1 := Seg.app_cons o (seg_sp_kw o ok 'i' ['s'] .is (by decide) (by decide)) h0
+    (identCont_punct o ok ' ' (by decide))
+  have h2 := Seg.app o (seg_rp o ok) h1 (fun _ _ => trivial)
+  have h3 := Seg.app_cons o hseg.1 h2 brk_rp
+  have h4 := Seg2.app o (seg2_lp o ok) h3 (fun _ _ => trivial)
+  simpa [tIs, tUnknown] using h4
+
+/-- the filter accessor `?( chain )` -/
+theorem stepT_filterC {p : Node} {tp : List Char} (hp : PredTC o p tp) (nx : Option Node) :
+    StepT o (.unary .filter (some p) nx) ('?' :: '(' :: (tp ++ [')'])) := by
+  obtain ⟨ptoks, hseg, _, hfull⟩ := hp
+  refine ⟨.question, ['?'], tLp :: ptoks ++ [tRp], '?', _, ?_, rfl,
+    Or.inr (Or.inr (Or.inr rfl)), rfl, ?_⟩
+  · have h1 := Seg.app_cons o hseg.1 (seg_rp o ok) brk_rp
+    have h2 := Seg.app o (seg_lp o ok) h1 (fun _ _ => trivial)
+    have h3 := Seg.app o (seg_q o ok) h2 (fun _ _ => trivial)
+    have := h3.mono o (C' := brkS) (fun _ _ => trivial)
+    simpa [tQ] using this
+  · intro rest f hr hf
+    simp only [List.length_cons, List.length_append, List.length_nil] at hf
+    obtain ⟨f', rfl⟩ : ∃ f', f = f' + 1 := ⟨f - 1, by omega⟩
+    obtain ⟨v0, mid, h1, h2⟩ := hfull f' .pred (tRp :: rest) (by omega) (Or.inl rfl)
+    rw [accessorOp]
+    simp only [List.cons_append, List.append_assoc, List.nil_append]
+    lstep (consume_spec _ _)
+    simp only [↓reduceIte]
+    lstep (expect_spec _ _ _)
+    lstep h1
+    lstep h2
+    simp only [hd, tRp, ne_eq, not_true_eq_false, ↓reduceIte]
+    lstep (consume_spec _ _)
+    exact RunsV.pure _
+
+/-! ### comparisons and the other predicates over chains -/
+
+/-- `l op r` with a comparison operator between two chains: an atom -/
+theorem predT_cmpC (op : BinOp) {l r : Node} {tl tr : List Char} (hop : isCmp op = true)
+    (hl : ExprTC o l tl) (hr : ExprTC o r tr) :
+    PredT o (.binary op (some l) (some r) none) True True (tl ++ ' ' :: (Print.binStr op ++ ' ' :: tr)) := by
+  obtain ⟨tkl, tsl, hsegl, hstl, hspl⟩ := hl
+  obtain ⟨tkr, tsr, hsegr, _, hspr⟩ := hr
+  have hat := cmpE_atomC (o := o) hspl hspr hop
+  refine ⟨tkl :: tsl ++ opTok op :: tkr :: tsr, ?_, ⟨tkl, _, rfl, hstl⟩, fun _ => hat,
+    fun _ => ⟨left_of_atom hat 1, right_of_atom hat⟩, left_of_atom hat 2⟩
+  have h1 := Seg.app_cons o (seg_sp_op o ok op (Or.inl hop)) hsegr.2 rfl
+  have h2 := Seg2.app_cons o hsegl h1 brk_sp
+  simpa using h2
+
+/-- `exists ( chain )` -/
+theorem predT_existsC {x : Node} {tx : List Char} (hx : ExprTC o x tx) :
+    PredT o (.unary .exists (some x) none) True True
+      ('e' :: 'x' :: 'i' :: 's' :: 't' :: 's' :: ' ' :: '(' :: (tx ++ [')'])) := by
+  obtain ⟨tk, ts, hseg, hst, hsp⟩ := hx
+  have hat := existsE_atomC (o := o) hsp
+  refine ⟨tExists :: tLp :: tk :: ts ++ [tRp], ?_, ⟨tExists, _, rfl, rfl⟩, fun _ => hat,
+    fun _ => ⟨left_of_atom hat 1, right_of_atom hat⟩, left_of_atom hat 2⟩
+  have h1 := Seg.app_cons o hseg.1 (seg_rp o ok) brk_rp
+  have h2 := Seg.app o (seg2_lp o ok).2 h1 (fun _ _ => trivial)
+  have h3 := Seg2.app_cons o (seg2_kw o ok 'e' ['x', 'i', 's', 't', 's'] .exists (by decide) (by decide)) h2
+    (identCont_punct o ok ' ' (by decide))
+  have := Seg2.mono o h3 (C' := brk) (fun _ _ => trivial)
+  simpa [tExists] using this
+
+/-- `chain starts with "s"` / `chain starts with $"s"` -/
+theorem predT_startsC {l : Node} {tl : List Char} (s : List Char) (isVar : Bool)
+    (hl : ExprTC o l tl) (hs : NoNul s) :
+    PredT o (.binary .startsWith (some l) (some (if isVar then .var s none else .str s none)) none) True True
+      (tl ++ ' ' :: 's' :: 't' :: 'a' :: 'r' :: 't' :: 's' :: ' ' :: 'w' :: 'i' :: 't' :: 'h' :: ' ' ::
+        (if isVar then '$' :: Print.quote o.isPrint s else Print.quote o.isPrint s)) := by
+  obtain ⟨tkl, tsl, hsegl, hstl, hspl⟩ := hl
+  have hat := startsE_atomC (o := o) s isVar hspl
+  refine ⟨tkl :: tsl ++ [tStarts, tWith, if isVar then tVar s else (.string, s)], ?_, ⟨tkl, _, rfl, hstl⟩,
+    fun _ => hat, fun _ => ⟨left_of_atom hat 1, right_of_atom hat⟩, left_of_atom hat 2⟩
+  have h0 : Seg o brk (' ' :: (if isVar then '$' :: Print.quote o.isPrint s else Print.quote o.isPrint s))
+      [if isVar then tVar s else (.string, s)] := by
+    cases isVar
+    · exact (seg2_string o ok s hs).2.mono o (fun _ _ => trivial)
+    · exact (seg2_variable o ok s hs).2.mono o (fun _ _ => trivial)
+  have h1 := Seg.app_cons o (seg_sp_kw o ok 'w' ['i', 't', 'h'] .with_ (by decide) (by decide)) h0
+    (identCont_punct o ok ' ' (by decide))
+  have h2 := Seg.app_cons o (seg_sp_kw o ok 's' ['t', 'a', 'r', 't', 's'] .starts (by decide) (by decide)) h1
+    (identCont_punct o ok ' ' (by decide))
+  have h3 := Seg2.app_cons o hsegl h2 brk_sp
+  simpa [tStarts, tWith] using h3
+
+/-- a single subscript bound that is a chain -/
+theorem subT_oneC {l : Node} {tl : List Char} (hl : ExprTC o l tl) :
+    SubT o (.binary .subscript (some l) none none) tl := by
+  obtain ⟨tk, ts, hseg, hst, hsp⟩ := hl
+  exact ⟨tk, ts, hseg.1, hst, subRun_oneC hsp⟩
+
+/-- a range `l to r` of two chains -/
+theorem subT_twoC {l r : Node} {tl tr : List Char} (hl : ExprTC o l tl) (hr : ExprTC o r tr) :
+    SubT o (.binary .subscript (some l) (some r) none) (tl ++ ' ' :: 't' :: 'o' :: ' ' :: tr) := by
+  obtain ⟨tkl, tsl, hsegl, hstl, hspl⟩ := hl
+  obtain ⟨tkr, tsr, hsegr, _, hspr⟩ := hr
+  refine ⟨tkl, tsl ++ tTo :: tkr :: tsr, ?_, hstl, subRun_twoC hspl hspr⟩
+  have h2 := Seg.app_cons o (seg_sp_to o ok) hsegr.2 (identCont_punct o ok ' ' (by decide))
+  have h3 := Seg.app_cons o hsegl.1 h2 brk_sp
+  simpa using h3
+
+/-- `chain like_regex "pat" [flag "…"]` -/
+theorem predT_regexC {x : Node} {tx : List Char} (pat : List Char) (fl : Nat)
+    (hx : ExprTC o x tx) (hp : NoNul pat) (hfl : fl < 32) (hok : okFlags fl = true)
+    (hacc : o.regexAccepts pat fl = true) :
+    PredT o (.regex x pat fl none) True True
+      (tx ++ ' ' :: 'l' :: 'i' :: 'k' :: 'e' :: '_' :: 'r' :: 'e' :: 'g' :: 'e' :: 'x' :: ' ' ::
+        (Print.quote o.isPrint pat ++ Print.flagsStr fl)) := by
+  obtain ⟨tk, ts, hseg, hst, hsp⟩ := hx
+  have hat := regexE_atomC (o := o) pat fl hsp hfl hok hacc
+  have hfs : Seg o brk (Print.flagsStr fl) (flagToks fl) := by
+    rw [flagsStr_eq fl hfl]
+    unfold flagToks
+    split
+    · exact Seg.nil o _
+    · have hn : NoNul (flagChars fl) := fun c hc => (isLow_facts c (flagChars_low fl hfl c hc)).1
+      have h0 := (seg2_string o ok (flagChars fl) hn).2
+      rw [quote_flagChars ok fl hfl] at h0
+      have h1 := Seg.app_cons o (seg_sp_kw o ok 'f' ['l', 'a', 'g'] .flag (by decide) (by decide)) h0
+        (identCont_punct o ok ' ' (by decide))
+      exact (by simpa [tFlag] using h1.mono o (C' := brk) (fun _ _ => trivial))
+  refine ⟨tk :: ts ++ tLike :: (.string, pat) :: flagToks fl, ?_, ⟨tk, _, rfl, hst⟩,
+    fun _ => hat, fun _ => ⟨left_of_atom hat 1, right_of_atom hat⟩, left_of_atom hat 2⟩
+  have h0 := Seg.app o ((seg2_string o ok pat hp).2) hfs (fun _ _ => trivial)
+  have h1 := Seg.app_cons o
+    (seg_sp_kw o ok 'l' ['i', 'k', 'e', '_', 'r', 'e', 'g', 'e', 'x'] .likeRegex (by decide) (by decide)) h0
+    (identCont_punct o ok ' ' (by decide))
+  have h2 := Seg2.app_cons o hseg h1 brk_sp
+  simpa [tLike] using h2
+
+/-! ### top level -/
+
+/-- **A chain at the top level**: every spelling of `e` as a whole, after the mode prefix, parses to `e`,
+    in every layout. -/
+theorem layout_exprTC {e : Node} {txt : List Char} (h : ExprTC o e txt)
+    (hv : validate e = true) (lax : Bool) :
+    ∃ items, SpellInv o ⟨e, lax, false⟩ (modeTxt lax ++ txt) items := by
+  obtain ⟨tk, ts, hseg, hst, hsp⟩ := h
+  have hm := predStart_mode hst
+  have hrun : ∀ f, 16 * (modeToks lax ++ tk :: ts).length + 8 ≤ f → ∃ ev : EV, ev.node = e ∧
+      RunsV (StE o (modeToks lax ++ tk :: ts)) (parseBody o f) (lax, false, ev) (StE o []) := by
+    intro f hf'
+    have hf2 : 16 * (ts.length + 1) + 8 ≤ f := by
+      simp only [List.length_append, List.length_cons] at hf'; omega
+    obtain ⟨F, rfl⟩ : ∃ F, f = F + 2 := ⟨f - 2, by omega⟩
+    refine ⟨evOf e, rfl, mode_run lax hm.1 hm.2 ⟨.expr (evOf e) .stop, [], ?_, RunsV.pure _⟩⟩
+    have := atom_of_exprC hsp F .top [] (.expr (evOf e) .stop) (StE o []) (by omega) ⟨rfl, by decide, rfl, rfl⟩
+      (exprK_end F .top (by decide) (evOf e) [] (Or.inr rfl)).toE
+    simpa using this
+  obtain ⟨items, h1, _, h3, h4, h5⟩ := parse_layout ok (mode_seg ok lax hseg) lax false e hrun hv
+  exact ⟨items, h1, h3, h4, h5⟩
+
+/-- **A chain of atoms at the top level** -/
+theorem layout_predTC {p : Node} {txt : List Char} (h : PredTC o p txt)
+    (hv : validate p = true) (lax : Bool) :
+    ∃ items, SpellInv o ⟨p, lax, true⟩ (modeTxt lax ++ txt) items := by
+  obtain ⟨toks, hseg, ⟨tk, ts, htoks, hst⟩, hfull⟩ := h
+  subst htoks
+  have hm := predStart_mode hst
+  have hrun : ∀ f, 16 * (modeToks lax ++ tk :: ts).length + 8 ≤ f → ∃ ev : EV, ev.node = p ∧
+      RunsV (StE o (modeToks lax ++ tk :: ts)) (parseBody o f) (lax, true, ev) (StE o []) := by
+    intro f hf'
+    have hf2 : 16 * (ts.length + 1) + 8 ≤ f := by
+      simp only [List.length_append, List.length_cons] at hf'; omega
+    obtain ⟨v0, mid, h1, h2⟩ := hfull f .top [] (by simpa using hf2) (Or.inr rfl)
+    refine ⟨{ node := p }, rfl, mode_run lax hm.1 hm.2 ⟨.pred v0, mid, by simpa using h1, ?_⟩⟩
+    simp only []
+    lstep h2
+    exact RunsV.pure' rfl (fun _ h => StE.ofA h)
+  obtain ⟨items, h1, _, h3, h4, h5⟩ := parse_layout ok (mode_seg ok lax hseg) lax true p hrun hv
+  exact ⟨items, h1, h3, h4, h5⟩
+
+/-- **Precedence and associativity of arithmetic, stated on texts.**  The spellings of units joined
+    by ` op ` — products `u * u / u …` joined by `+ -` — without any parentheses, after the mode prefix,
+    parse to the left-nested tree in which `* / %` bind tighter than `+ -`: in every layout. -/
+theorem layout_expr_chain (t₀ : TermT) (h₀ : t₀.OK o) (as : List (BinOp × TermT)) (has : AddsOKT o as)
+    (hv : validate (sumTree t₀.term (addTermsT as)) = true) (lax : Bool) :
+    ∃ items, SpellInv o ⟨sumTree t₀.term (addTermsT as), lax, false⟩
+      (modeTxt lax ++ (t₀.head.txt ++ (mulTxt t₀.muls ++ addTxt as))) items :=
+  layout_exprTC ok (exprTC_chain ok t₀ h₀ as has) hv lax
+
+/-- **Precedence and associativity of `&&` / `||`, stated on texts.**  The spellings of atoms joined by
+    ` && ` / ` || `, without any parentheses, after the mode prefix, parse to the left-nested tree in
+    which `&&` binds tighter than `||`: in every layout. -/
+theorem layout_pred_chain (c₀ : ConjT) (h₀ : c₀.OK o) (cs : List ConjT) (hcs : OrsOKT o cs)
+    (hv : validate (orTree c₀.conj (orConjsT cs)) = true) (lax : Bool) :
+    ∃ items, SpellInv o ⟨orTree c₀.conj (orConjsT cs), lax, true⟩
+      (modeTxt lax ++ (c₀.head.txt ++ (andTxt c₀.ands ++ orTxt cs))) items :=
+  layout_predTC ok (predTC_chain ok c₀ h₀ cs hcs) hv lax
+
+end
+
+/-! ## Comparisons are non-associative: `l op r op' x` is rejected -/
+
+/-- from every state satisfying `pre`, `m` ends with a syntax error -/
+def FailsSyn {α : Type} (pre : PS → Prop) (m : P α) : Prop := ∀ s, pre s → m s = .syn
+
+/-- every respelling of `txt` (the canonical text of `items`) in every layout is rejected by `Parse` -/
+def RejectInv (o : Oracles) (txt : List Char) (items : List Item) : Prop :=
+  txt = canon items ∧ (∀ it ∈ items, ItemOK o it) ∧ Gaps items brk ∧
+    ∀ (items' : List Item) (seps : List (List Char)) (fin : List Char),
+      RespL o items items' → LayoutOK items' seps → Sep fin →
+      ∀ bytes, decodeAll bytes = (render items' seps ++ fin).map Src.ch → parse o bytes = .err
+
+section
+variable {o : Oracles}
+
+theorem FailsSyn.bind {α β : Type} {pre mid : PS → Prop} {m : P α} {f : α → P β} {v : α}
+    (h1 : RunsV pre m v mid) (h2 : FailsSyn mid (f v)) : FailsSyn pre (m >>= f) := by
+  intro s hs
+  obtain ⟨s1, e1, p1⟩ := h1 s hs
+  rw [bind_apply, e1]
+  exact h2 s1 p1
+
+theorem cmp_not_logic {op : BinOp} (h : isCmp op = true) : (opTok op).1 ≠ .and ∧ (opTok op).1 ≠ .or ∧
+    (opTok op).1 ≠ .stop := by
+  cases op <;> simp [isCmp] at h <;> decide
+
+/-- `parseAtom` on `l op r` (two chains and a comparison operator) returns the comparison as soon as
+    the token after `r` does not continue the arithmetic — whatever it is; in particular a second
+    comparison operator is left where it stands -/
+theorem cmpE_runC {l r : Node} {tkl tkr : TT} {tsl tsr : List TT} {op : BinOp}
+    (hl : ESpecC o l tkl tsl) (hr : ESpecC o r tkr tsr) (hop : isCmp op = true)
+    (f : Nat) (ctx : Ctx) (rest : List TT)
+    (hf : 16 * (tkl :: tsl ++ opTok op :: tkr :: tsr).length + 8 ≤ f) (hfol : EFollow (hd rest).1) :
+    RunsV (StE o ((tkl :: tsl ++ opTok op :: tkr :: tsr) ++ rest)) (parseAtom o f ctx)
+      (.pred { node := .binary op (some l) (some r) none }) (StA o rest) := by
+  simp only [List.length_cons, List.length_append] at hf
+  obtain ⟨f', rfl⟩ : ∃ f', f = f' + 2 := ⟨f - 2, by omega⟩
+  have hc := cmp_facts hop
+  obtain ⟨u, mid, hr1, hr2⟩ := expr_fullC hr f' rest (by omega) hfol
+  have := atom_of_exprC hl f' ctx (opTok op :: tkr :: (tsr ++ rest)) (.pred { node := .binary op (some l) (some r) none })
+    (StA o rest) (by omega) ⟨hc.2.2.2.1, hc.2.2.2.2, hc.1, hc.2.1⟩ ?_
+  · simpa using this
+  · simp only [hd, exprTailK, hc.2.2.1]
+    lstep (consume_spec _ _)
+    simp only [List.cons_append] at hr1
+    lstep hr1
+    lstep hr2
+    exact RunsV.pure' rfl (fun _ h => h)
+
+/-- `parseBody` on the mode prefix followed by the tokens of the root, with any final state -/
+theorem mode_run' (lax : Bool) {tk : TT} {ts : List TT} (h1 : tk.1 ≠ .strict) (h2 : tk.1 ≠ .lax)
+    {isPred : Bool} {ev : EV} {f : Nat} {post : PS → Prop}
+    (hatom : ∃ a mid, RunsV (StE o (tk :: ts)) (parseAtom o f .top) a (StE o mid) ∧
+      RunsV (StE o mid) (match a with
+        | .expr v _ => (pure (lax, false, v) : P (Bool × Bool × EV))
+        | .pred v0 => do
+          let (v, _) ← predLoop o f v0
+          pure (lax, true, v)) (lax, isPred, ev) post) :
+    RunsV (StE o (modeToks lax ++ tk :: ts)) (parseBody o f) (lax, isPred, ev) post := by
+  obtain ⟨a, mid, ha1, ha2⟩ := hatom
+  obtain ⟨t, x⟩ := tk
+  simp only at h1 h2
+  cases lax with
+  | true =>
+    simp only [modeToks, if_true, List.nil_append]
+    unfold parseBody
+    lstep (peek_cons _ _)
+    simp only [h1, h2, ↓reduceIte]
+    lstep (RunsV.pure _)
+    lstep ha1
+    exact ha2
+  | false =>
+    simp only [modeToks, Bool.false_eq_true, if_false, List.cons_append, List.nil_append]
+    unfold parseBody
+    lstep (peek_cons _ _)
+    simp only [tStrict, reduceCtorEq, ↓reduceIte]
+    lstep (consume_spec _ _)
+    lstep (RunsV.pure _)
+    lstep ha1
+    exact ha2
+
+/-- the accept state with a token left over: a syntax error -/
+theorem finish_syn (lax isPred : Bool) (root : EV) (tk : TT) (ts : List TT) :
+    FailsSyn (StP o (tk :: ts)) (finish o lax isPred root) := by
+  intro s hs
+  obtain ⟨hla, hns, _⟩ := hs
+  unfold finish
+  cases he : s.lx.err <;> cases hv : validate root.node <;>
+    simp [bind_apply, hasError, recordError, pure_apply, peek, he, hv, hla, hns, syn]
+
+/-- **`l op r op' …` is a syntax error at the top level** (`op`, `op'` comparison operators, `l`, `r`
+    chains): the comparison `l op r` is complete, and nothing can follow it but `&&`, `||`, the end -/
+theorem parseTop_cmp_cmp {l r : Node} {tkl tkr : TT} {tsl tsr : List TT} {op op' : BinOp}
+    (hl : ESpecC o l tkl tsl) (hr : ESpecC o r tkr tsr) (hop : isCmp op = true) (hop' : isCmp op' = true)
+    (hst : isPredStart tkl.1 = true) (lax : Bool) (rest : List TT) (f : Nat)
+    (hf : 16 * (tkl :: tsl ++ opTok op :: tkr :: tsr).length + 8 ≤ f) :
+    FailsSyn (StE o (modeToks lax ++ tkl :: (tsl ++ opTok op :: tkr :: tsr ++ opTok op' :: rest)))
+      (parseTop o f) := by
+  have hm := predStart_mode hst
+  have hc' := cmp_facts hop'
+  have hn' := cmp_not_logic hop'
+  have hrun := cmpE_runC hl hr hop f .top (opTok op' :: rest) hf ⟨hc'.2.2.2.1, hc'.2.2.2.2, hc'.1, hc'.2.1⟩
+  have hbody : RunsV (StE o (modeToks lax ++ tkl :: (tsl ++ opTok op :: tkr :: tsr ++ opTok op' :: rest)))
+      (parseBody o f) (lax, true, { node := .binary op (some l) (some r) none })
+      (StP o (opTok op' :: rest)) := by
+    refine mode_run' lax hm.1 hm.2 ⟨.pred { node := .binary op (some l) (some r) none }, opTok op' :: rest, ?_, ?_⟩
+    · have := hrun.toE
+      simpa using this
+    · obtain ⟨f', rfl⟩ : ∃ f', f = f' + 1 := ⟨f - 1, by simp at hf; omega⟩
+      simp only []
+      lstep (predLoop_nil f' _ (opTok op' :: rest) hn'.1 hn'.2.1)
+      exact RunsV.pure' rfl (fun _ h => h)
+  unfold parseTop
+  exact FailsSyn.bind hbody (finish_syn _ _ _ _ _)
+
+/-- if `parseTop` ends with a syntax error on the tokens of the text, `Parse` returns an error -/
+theorem parse_err_of_top (bytes : List UInt8) (txt : List Char) (toks : List TT)
+    (hdec : decodeAll bytes = txt.map Src.ch) (hlex : Lexes o txt toks)
+    (h : FailsSyn (StE o toks) (parseTop o (fuelFor bytes))) : parse o bytes = .err := by
+  have h0 : StE o toks { lx := LState.init bytes, la := none } := by
+    refine Or.inl ⟨rfl, hlex _ ⟨rfl, rfl, Or.inl ⟨rfl, ?_⟩⟩⟩
+    simp only [LState.init, hdec]
+  have := h _ h0
+  unfold parse Parse.run
+  rw [this]
+
+/-- the counterpart of `parse_layout` for rejected texts -/
+theorem parse_layout_fail (ok : OrOK o) {txt : List Char} {toks : List TT} (hseg : Seg o brk txt toks)
+    (hrun : ∀ f, 16 * toks.length + 8 ≤ f → FailsSyn (StE o toks) (parseTop o f)) :
+    ∃ items : List Item, RejectInv o txt items := by
+  obtain ⟨_, _, items, h3, h4, h5, h6⟩ := hseg
+  refine ⟨items, h3, h5, h6, ?_⟩
+  intro items' seps fin hr hl hfin bytes hb
+  have hC : brk fin.head? ∨ (SepStart fin.head? ∧ ∃ y, brk y) := by
+    cases fin with
+    | nil => exact Or.inl brk_none
+    | cons c r => exact Or.inr ⟨hfin.head (by simp), none, brk_none⟩
+  have hlex := layout_lexes o (ok : RoundTrip.OrOK o) h6 hr hl fin [] hfin.noNul hC (lexes_sep o ok hfin)
+  rw [List.append_nil, ← h4] at hlex
+  have hlen : toks.length ≤ bytes.length := by
+    have h1 := decodeAll_length bytes
+    rw [hb] at h1
+    have h2 := render_length (items := items') (seps := seps) hl.length
+    rw [hr.length] at h2
+    rw [h4]
+    simp only [List.length_map, List.length_append] at h1 ⊢
+    omega
+  exact parse_err_of_top bytes _ toks hb hlex (hrun (fuelFor bytes) (by unfold fuelFor; omega))
+
+/-- **Comparisons are non-associative.**  For chains `l`, `r`, `x` and comparison operators `op`, `op'`,
+    the text `l op r op' x` after the mode prefix is rejected by `Parse` — in every layout. -/
+theorem cmp_nonassoc (ok : OrOK o) (op op' : BinOp) (hop : isCmp op = true) (hop' : isCmp op' = true)
+    {l r x : Node} {tl tr tx : List Char} (hl : ExprTC o l tl) (hr : ExprTC o r tr) (hx : ExprTC o x tx)
+    (lax : Bool) :
+    ∃ items, RejectInv o
+      (modeTxt lax ++ (tl ++ ' ' :: (Print.binStr op ++ ' ' :: (tr ++ ' ' :: (Print.binStr op' ++ ' ' :: tx)))))
+      items := by
+  obtain ⟨tkl, tsl, hsegl, hstl, hspl⟩ := hl
+  obtain ⟨tkr, tsr, hsegr, _, hspr⟩ := hr
+  obtain ⟨tkx, tsx, hsegx, _, _⟩ := hx
+  have s1 := Seg.app_cons o (seg_sp_op o ok op' (Or.inl hop')) hsegx.2 rfl
+  have s2 := Seg.app_cons o hsegr.2 s1 brk_sp
+  have s3 := Seg.app_cons o (seg_sp_op o ok op (Or.inl hop)) s2 rfl
+  have s4 := Seg2.app_cons o hsegl s3 brk_sp
+  have s5 := mode_seg ok lax s4
+  refine parse_layout_fail ok (toks := modeToks lax ++ tkl :: (tsl ++ opTok op :: tkr :: tsr ++ opTok op' :: (tkx :: tsx)))
+    (by simpa [List.append_assoc] using s5) ?_
+  intro f hf
+  refine parseTop_cmp_cmp hspl hspr hop hop' hstl lax (tkx :: tsx) f ?_
+  simp only [List.length_cons, List.length_append] at hf ⊢
+  omega
+
+end
+
+/-! ### building the side conditions of concrete chains -/
+
+section
+variable {o : Oracles}
+
+theorem MulsOKT.nil : MulsOKT o [] := fun _ h => by simp at h
+theorem MulsOKT.cons {op : BinOp} {u : UnitT} {ms : List (BinOp × UnitT)} (hop : isMulOp op = true) (hu : u.OK o)
+    (h : MulsOKT o ms) : MulsOKT o ((op, u) :: ms) := by
+  intro q hq
+  rcases List.mem_cons.1 hq with rfl | hq
+  · exact ⟨hop, hu⟩
+  · exact h q hq
+
+theorem AddsOKT.nil : AddsOKT o [] := fun _ h => by simp at h
+theorem AddsOKT.cons {op : BinOp} {t : TermT} {as : List (BinOp × TermT)} (hop : isAddOp op = true) (ht : t.OK o)
+    (h : AddsOKT o as) : AddsOKT o ((op, t) :: as) := by
+  intro q hq
+  rcases List.mem_cons.1 hq with rfl | hq
+  · exact ⟨hop, ht⟩
+  · exact h q hq
+
+theorem AndsOKT.nil : AndsOKT o [] := fun _ h => by simp at h
+theorem AndsOKT.cons {a : AtomT} {as : List AtomT} (ha : a.OK o) (h : AndsOKT o as) : AndsOKT o (a :: as) := by
+  intro q hq
+  rcases List.mem_cons.1 hq with rfl | hq
+  · exact ha
+  · exact h q hq
+
+theorem OrsOKT.nil : OrsOKT o [] := fun _ h => by simp at h
+theorem OrsOKT.cons {c : ConjT} {cs : List ConjT} (hc : c.OK o) (h : OrsOKT o cs) : OrsOKT o (c :: cs) := by
+  intro q hq
+  rcases List.mem_cons.1 hq with rfl | hq
+  · exact hc
+  · exact h q hq
+
+/-- a unit alone is a product -/
+theorem TermT.ok_unit {u : UnitT} (h : u.OK o) : (TermT.mk u []).OK o := ⟨h, MulsOKT.nil⟩
+/-- an atom alone is a conjunction -/
+theorem ConjT.ok_atom {a : AtomT} (h : a.OK o) : (ConjT.mk a []).OK o := ⟨h, AndsOKT.nil⟩
+
+theorem ExprTC.cast {e : Node} {t t' : List Char} (h : ExprTC o e t) (he : t = t') : ExprTC o e t' := he ▸ h
+theorem PredTC.cast {p : Node} {t t' : List Char} (h : PredTC o p t) (he : t = t') : PredTC o p t' := he ▸ h
+
+end
+
+/-! ## (4) Examples -/
+
+/-! ### the trees, spelled out -/
+
+def nI (i : Int) : Node := .integer i none
+def bin (op : BinOp) (l r : Node) : Node := .binary op (some l) (some r) none
+
+/-- `1 - 2 - 3` is `(1 - 2) - 3` -/
+example : sumTree ⟨nI 1, []⟩ [(.sub, ⟨nI 2, []⟩), (.sub, ⟨nI 3, []⟩)] = bin .sub (bin .sub (nI 1) (nI 2)) (nI 3) := rfl
+
+/-- `1 - 2 * 3 % 4 + 5` is `(1 - ((2 * 3) % 4)) + 5` -/
+example : sumTree ⟨nI 1, []⟩ [(.sub, ⟨nI 2, [(.mul, nI 3), (.mod, nI 4)]⟩), (.add, ⟨nI 5, []⟩)]
+    = bin .add (bin .sub (nI 1) (bin .mod (bin .mul (nI 2) (nI 3)) (nI 4))) (nI 5) := rfl
+
+/-- `1 * 2 / 3 + 4` is `((1 * 2) / 3) + 4` -/
+example : sumTree ⟨nI 1, [(.mul, nI 2), (.div, nI 3)]⟩ [(.add, ⟨nI 4, []⟩)]
+    = bin .add (bin .div (bin .mul (nI 1) (nI 2)) (nI 3)) (nI 4) := rfl
+
+/-- `p || q && r || s` is `(p || (q && r)) || s`; `p && q && r` is `(p && q) && r` -/
+example (p q r s : Node) :
+    orTree ⟨p, []⟩ [⟨q, [r]⟩, ⟨s, []⟩] = bin .or (bin .or p (bin .and q r)) s ∧
+    orTree ⟨p, [q, r]⟩ [] = bin .and (bin .and p q) r ∧
+    orTree ⟨p, [q]⟩ [⟨r, [s]⟩] = bin .or (bin .and p q) (bin .and r s) := ⟨rfl, rfl, rfl⟩
+
+/-! ### the model itself (kernel evaluation, ASCII oracles) -/
+
+/-- `Parse` accepts the ASCII text and returns exactly the tree `e` (lax mode) -/
+def parsesTo (s : String) (e : Node) (isPred : Bool) : Bool :=
+  sameParse (parse asciiOracles (ascii s)) (.ok ⟨e, true, isPred⟩)
+
+theorem parsesTo_sound {s : String} {e : Node} {isPred : Bool} (h : parsesTo s e isPred = true) :
+    parse asciiOracles (ascii s) = .ok ⟨e, true, isPred⟩ := by
+  obtain ⟨a, h1, h2⟩ := sameParse_sound h
+  rw [h1]
+  injection h2 with h2
+  rw [h2]
+
+/-- unparenthesised chains against the trees of (1) -/
+theorem chain_trees_concrete :
+    parsesTo "1 - 2 - 3" (sumTree ⟨nI 1, []⟩ [(.sub, ⟨nI 2, []⟩), (.sub, ⟨nI 3, []⟩)]) false = true ∧
+    parsesTo "1 - 2 * 3 % 4 + 5"
+      (sumTree ⟨nI 1, []⟩ [(.sub, ⟨nI 2, [(.mul, nI 3), (.mod, nI 4)]⟩), (.add, ⟨nI 5, []⟩)]) false = true ∧
+    parsesTo "1 * 2 / 3 % 4" (sumTree ⟨nI 1, [(.mul, nI 2), (.div, nI 3), (.mod, nI 4)]⟩ []) false = true ∧
+    parsesTo "-1 - -2" (sumTree ⟨nI (-1), []⟩ [(.sub, ⟨nI (-2), []⟩)]) false = true ∧
+    parsesTo "1 + 2 == 3 * 4"
+      (bin .eq (sumTree ⟨nI 1, []⟩ [(.add, ⟨nI 2, []⟩)]) (sumTree ⟨nI 3, [(.mul, nI 4)]⟩ [])) true = true ∧
+    parsesTo "1 < 2 && 2 < 3 || 3 < 4 && 4 < 5 || 5 < 6"
+      (orTree ⟨bin .lt (nI 1) (nI 2), [bin .lt (nI 2) (nI 3)]⟩
+        [⟨bin .lt (nI 3) (nI 4), [bin .lt (nI 4) (nI 5)]⟩, ⟨bin .lt (nI 5) (nI 6), []⟩]) true = true := by
+  decide +kernel
+
+/-- the same as equalities of parses: a chain and its fully parenthesised form -/
+theorem chain_examples :
+    same "1 - 2 - 3" "(1 - 2) - 3" = true ∧ same "1 - 2 - 3" "1 - (2 - 3)" = false ∧
+    same "1 - 2 * 3 % 4 + 5" "(1 - ((2 * 3) % 4)) + 5" = true ∧
+    same "1 * 2 / 3 % 4" "((1 * 2) / 3) % 4" = true ∧
+    same "2 * 3 + 4 * 5 - 6 / 7" "((2 * 3) + (4 * 5)) - (6 / 7)" = true ∧
+    same "-1 - -2" "(-1) - (-2)" = true ∧ same "-$.a * -$.b" "(-$.a) * (-$.b)" = true ∧
+    same "1 + 2 == 3 * 4" "(1 + 2) == (3 * 4)" = true ∧
+    same "$.a == 1 && $.b == 2 && $.c == 3" "(($.a == 1) && ($.b == 2)) && ($.c == 3)" = true ∧
+    same "$.a == 1 && $.b == 2 || $.c == 3 && $.d == 4"
+      "(($.a == 1) && ($.b == 2)) || (($.c == 3) && ($.d == 4))" = true ∧
+    same "$.a == 1 || $.b == 2 && $.c == 3 || $.d == 4"
+      "(($.a == 1) || (($.b == 2) && ($.c == 3))) || ($.d == 4)" = true ∧
+    same "$?(@.a > 1 + 2 * 3 && @.b < 4 - 5 - 6 || exists(@.c - 1 - 2))"
+      "$?(((@.a > (1 + (2 * 3))) && (@.b < ((4 - 5) - 6))) || exists((@.c - 1) - 2))" = true ∧
+    same "$[1 - 2 - 3 to 4 * 5 * 6]" "$[(1 - 2) - 3 to (4 * 5) * 6]" = true := by
+  decide +kernel
+
+/-- comparisons are non-associative: a second comparison operator is a syntax error -/
+theorem cmp_nonassoc_concrete :
+    run "1 < 2 < 3" = "ERR" ∧ run "1 == 2 == 3" = "ERR" ∧ run "1 < 2 == 3" = "ERR" ∧ run "(1 < 2) < 3" = "ERR" ∧
+    run "1 < (2 < 3)" = "ERR" := by
+  decide +kernel
+
+/-! ### instances of the general theorems, for every `o` with `OrOK o`, in every layout -/
+
+section
+variable {o : Oracles} (ok : OrOK o)
+include ok
+
+theorem three_spelling : ExprT o (nI 3) True True "3".toList := (exprT_nat ok 3 (by decide)).cast (by decide +kernel)
+theorem four_spelling : ExprT o (nI 4) True True "4".toList := (exprT_nat ok 4 (by decide)).cast (by decide +kernel)
+theorem five_spelling : ExprT o (nI 5) True True "5".toList := (exprT_nat ok 5 (by decide)).cast (by decide +kernel)
+
+/-- `1 - 2 - 3` as a spelling of `(1 - 2) - 3` -/
+theorem sub3_spelling : ExprTC o (bin .sub (bin .sub (nI 1) (nI 2)) (nI 3)) "1 - 2 - 3".toList :=
+  (exprTC_chain ok ⟨⟨nI 1, _⟩, []⟩ (TermT.ok_unit (one_spelling ok))
+    [(.sub, ⟨⟨nI 2, _⟩, []⟩), (.sub, ⟨⟨nI 3, _⟩, []⟩)]
+    (AddsOKT.cons rfl (TermT.ok_unit (two_spelling ok))
+      (AddsOKT.cons rfl (TermT.ok_unit (three_spelling ok)) AddsOKT.nil))).cast (by decide +kernel)
+
+/-- **`1 - 2 - 3` parses to `(1 - 2) - 3`** — for every oracle instance, in every layout -/
+theorem sub3_parse :
+    ∃ items, SpellInv o ⟨bin .sub (bin .sub (nI 1) (nI 2)) (nI 3), true, false⟩ "1 - 2 - 3".toList items :=
+  spell_cast (layout_exprTC ok (sub3_spelling ok) (by decide) true) (by decide +kernel)
+
+/-- the same with the bytes spelled out, e.g. for the text without blanks or with comments -/
+theorem sub3_parse_text (bytes : List UInt8) (hb : decodeAll bytes = "1 - 2 - 3".toList.map Src.ch) :
+    parse o bytes = .ok ⟨bin .sub (bin .sub (nI 1) (nI 2)) (nI 3), true, false⟩ := by
+  obtain ⟨items, h⟩ := sub3_parse ok
+  exact h.self [] Sep.nil bytes (by simpa using hb)
+
+/-- `1 - 2 * 3 % 4 + 5` as a spelling of `(1 - ((2 * 3) % 4)) + 5` -/
+theorem mixed_spelling :
+    ExprTC o (bin .add (bin .sub (nI 1) (bin .mod (bin .mul (nI 2) (nI 3)) (nI 4))) (nI 5))
+      "1 - 2 * 3 % 4 + 5".toList :=
+  (exprTC_chain ok ⟨⟨nI 1, _⟩, []⟩ (TermT.ok_unit (one_spelling ok))
+    [(.sub, ⟨⟨nI 2, _⟩, [(.mul, ⟨nI 3, _⟩), (.mod, ⟨nI 4, _⟩)]⟩), (.add, ⟨⟨nI 5, _⟩, []⟩)]
+    (AddsOKT.cons rfl ⟨two_spelling ok, MulsOKT.cons rfl (three_spelling ok) (MulsOKT.cons rfl (four_spelling ok) MulsOKT.nil)⟩
+      (AddsOKT.cons rfl (TermT.ok_unit (five_spelling ok)) AddsOKT.nil))).cast (by decide +kernel)
+
+theorem mixed_parse :
+    ∃ items, SpellInv o ⟨bin .add (bin .sub (nI 1) (bin .mod (bin .mul (nI 2) (nI 3)) (nI 4))) (nI 5), true, false⟩
+      "1 - 2 * 3 % 4 + 5".toList items :=
+  spell_cast (layout_exprTC ok (mixed_spelling ok) (by decide) true) (by decide +kernel)
+
+/-- a chain plugs back as a parenthesised unit: `(1 - 2 - 3) * 4 / 5` -/
+theorem nested_parse :
+    ∃ items, SpellInv o ⟨bin .div (bin .mul (bin .sub (bin .sub (nI 1) (nI 2)) (nI 3)) (nI 4)) (nI 5), true, false⟩
+      "(1 - 2 - 3) * 4 / 5".toList items :=
+  spell_cast (layout_exprTC ok
+    (exprTC_chain ok ⟨⟨_, _⟩, [(.mul, ⟨nI 4, _⟩), (.div, ⟨nI 5, _⟩)]⟩
+      ⟨exprT_paren_of_chain ok (sub3_spelling ok),
+        MulsOKT.cons rfl (four_spelling ok) (MulsOKT.cons rfl (five_spelling ok) MulsOKT.nil)⟩ [] AddsOKT.nil)
+    (by decide) true) (by decide +kernel)
+
+/-- comparisons between chains, `&&` / `||` chains of them:
+    `1 - 2 - 3 == 4 || 1 < 2 && 2 < 3 && 3 < 4 || 4 > 5` is
+    `(((1 - 2) - 3 == 4) || (((1 < 2) && (2 < 3)) && (3 < 4))) || (4 > 5)` -/
+theorem ex_pred_chain_parse :
+    ∃ items, SpellInv o
+      ⟨bin .or (bin .or (bin .eq (bin .sub (bin .sub (nI 1) (nI 2)) (nI 3)) (nI 4))
+          (bin .and (bin .and (bin .lt (nI 1) (nI 2)) (bin .lt (nI 2) (nI 3))) (bin .lt (nI 3) (nI 4))))
+        (bin .gt (nI 4) (nI 5)), true, true⟩
+      "1 - 2 - 3 == 4 || 1 < 2 && 2 < 3 && 3 < 4 || 4 > 5".toList items :=
+  spell_cast (layout_predTC ok
+    (predTC_chain ok
+      ⟨⟨_, _⟩, []⟩ (ConjT.ok_atom (predT_cmpC ok .eq rfl (sub3_spelling ok) (exprTC_of_exprT (four_spelling ok))))
+      [⟨⟨_, _⟩, [⟨_, _⟩, ⟨_, _⟩]⟩, ⟨⟨_, _⟩, []⟩]
+      (OrsOKT.cons
+        ⟨predT_cmp ok .lt rfl (one_spelling ok) (two_spelling ok),
+          AndsOKT.cons (predT_cmp ok .lt rfl (two_spelling ok) (three_spelling ok))
+            (AndsOKT.cons (predT_cmp ok .lt rfl (three_spelling ok) (four_spelling ok)) AndsOKT.nil)⟩
+        (OrsOKT.cons (ConjT.ok_atom (predT_cmp ok .gt rfl (four_spelling ok) (five_spelling ok))) OrsOKT.nil)))
+    (by decide) true) (by decide +kernel)
+
+/-- a chain of atoms inside a filter, and a chain as a subscript: `$?(@ > 1 && @ < 3 && @ != 2)[1 - 2 - 3]` -/
+theorem filter_chain_parse :
+    ∃ items, SpellInv o
+      ⟨.const .root (some (.unary .filter
+          (some (bin .and (bin .and (bin .gt (.const .current none) (nI 1)) (bin .lt (.const .current none) (nI 3)))
+            (bin .ne (.const .current none) (nI 2))))
+          (some (.arrayIndex [.binary .subscript (some (bin .sub (bin .sub (nI 1) (nI 2)) (nI 3))) none none] none)))),
+        true, false⟩
+      "$?(@ > 1 && @ < 3 && @ != 2)[1 - 2 - 3]".toList items :=
+  spell_cast (layout_exprT ok
+    (exprT_root ok (chainT_cons
+      (stepT_filterC ok (predTC_chain ok
+        ⟨⟨_, _⟩, [⟨_, _⟩, ⟨_, _⟩]⟩
+        ⟨predT_cmp ok .gt rfl (exprT_current ok chainT_nil) (one_spelling ok),
+          AndsOKT.cons (predT_cmp ok .lt rfl (exprT_current ok chainT_nil) (three_spelling ok))
+            (AndsOKT.cons (predT_cmp ok .ne rfl (exprT_current ok chainT_nil) (two_spelling ok)) AndsOKT.nil)⟩
+        [] OrsOKT.nil) _)
+      (chainT_cons (stepT_index ok (subsT_one (subT_oneC ok (sub3_spelling ok))) none) chainT_nil)))
+    (by decide) true) (by decide +kernel)
+
+/-- `1 + 2 == 3 * 4` is `(1 + 2) == (3 * 4)`: comparisons bind looser than arithmetic -/
+theorem cmp_chain_parse :
+    ∃ items, SpellInv o ⟨bin .eq (bin .add (nI 1) (nI 2)) (bin .mul (nI 3) (nI 4)), true, true⟩
+      "1 + 2 == 3 * 4".toList items :=
+  spell_cast (layout_predT ok
+    (predT_cmpC ok .eq rfl
+      (exprTC_chain ok ⟨⟨nI 1, _⟩, []⟩ (TermT.ok_unit (one_spelling ok)) [(.add, ⟨⟨nI 2, _⟩, []⟩)]
+        (AddsOKT.cons rfl (TermT.ok_unit (two_spelling ok)) AddsOKT.nil))
+      (exprTC_chain ok ⟨⟨nI 3, _⟩, [(.mul, ⟨nI 4, _⟩)]⟩
+        ⟨three_spelling ok, MulsOKT.cons rfl (four_spelling ok) MulsOKT.nil⟩ [] AddsOKT.nil))
+    (by decide) true) (by decide +kernel)
+
+/-- signs bind tighter than every binary operator: `-$ * -$ - -$` is `((-$) * (-$)) - (-$)` -/
+theorem sign_chain_parse :
+    ∃ items, SpellInv o
+      ⟨bin .sub (bin .mul (.unary .minus (some (.const .root none)) none) (.unary .minus (some (.const .root none)) none))
+        (.unary .minus (some (.const .root none)) none), true, false⟩
+      "-$ * -$ - -$".toList items :=
+  have hneg : ExprT o (.unary .minus (some (.const .root none)) none) True True _ :=
+    exprT_sign ok .minus rfl (exprT_root ok chainT_nil) rfl
+  spell_cast (layout_exprTC ok
+    (exprTC_chain ok ⟨⟨_, _⟩, [(.mul, ⟨_, _⟩)]⟩ ⟨hneg, MulsOKT.cons rfl hneg MulsOKT.nil⟩
+      [(.sub, ⟨⟨_, _⟩, []⟩)] (AddsOKT.cons rfl (TermT.ok_unit hneg) AddsOKT.nil))
+    (by decide) true) (by decide +kernel)
+
+/-- `1 < 2 < 3` is rejected, for every oracle instance, in every layout -/
+theorem lt3_rejected : ∃ items, RejectInv o "1 < 2 < 3".toList items := by
+  have := cmp_nonassoc ok .lt .lt rfl rfl (exprTC_of_exprT (one_spelling ok)) (exprTC_of_exprT (two_spelling ok))
+    (exprTC_of_exprT (three_spelling ok)) true
+  have he : modeTxt true ++ ("1".toList ++ ' ' :: (Print.binStr .lt ++ ' ' :: ("2".toList ++ ' ' ::
+      (Print.binStr .lt ++ ' ' :: "3".toList)))) = "1 < 2 < 3".toList := by decide +kernel
+  rw [he] at this
+  exact this
+
+/-- … e.g. the text itself, or `1<2<3` -/
+theorem lt3_rejected_text (bytes : List UInt8) (hb : decodeAll bytes = "1 < 2 < 3".toList.map Src.ch) :
+    parse o bytes = .err := by
+  obtain ⟨items, h1, h2, _, h4⟩ := lt3_rejected ok
+  refine h4 items (canonSeps items) [] (RespL.refl h2) (layoutOK_canon items) Sep.nil bytes ?_
+  rw [render_canon, ← h1]
+  simpa using hb
+
+end
+
+
+/-! # C03: the grammar of spellings
+
+"For every abstract path and every concrete spelling of it that the documented syntax permits (whitespace
+and comments, keyword case, bare vs quoted vs escaped keys, the escapes …, `!=` vs `<>`, redundant
+parentheses), Parse returns that abstract path."
+
+* (1) spelled-token pieces as `Seg2`: `seg2_kw_case` / `seg2_kw_sp`, `seg2_ident`, `seg2_var`, `seg_sp_ltgt`;
+* (2) one rule per construct with every token-spelling freedom (keyword texts are parameters `kx` with
+  `kx.map lowerAscii = "keyword".toList`; string literals are any `SpellsStr body s`): `predT_*_sp`,
+  `exprT_*_sp`, `stepT_*_sp`, `subT_two_sp`, `chainT_cons_kwKey`;
+* (3) the rules of §4 of `Layout.lean` and of (2) packaged as ONE inductive relation `Sp o cn : Cat → List Char →
+  Prop` over the judgements `Cat` (`cn = true` also admits the four "canonical leaf of the class `RT5`"
+  constructors); `Sp.sound` (one induction): `Sp o cn c txt → c.den o txt`, i.e. `ExprT` / `PredT` / `StepT` /
+  `ChainT` / `SubT` / `SubsT`;
+  `spells_parse`, `spells_parse_pred` (after the printer's mode prefix), `spells_parse_mode`,
+  `spells_parse_pred_mode` (mode keyword in any case or absent), `spells_parse_text`, `spells_layout`,
+  `spells_layout_pred` (explicit separators): every generated text parses, in every layout, to the tree the
+  rules assign it;
+  `rt5_generated_core`: the printer's text of every tree of the class `RT5` is generated by the grammar
+  proper (`cn = false`);
+* (4) worked instances for generic oracles (`exG_parse`, `exU_parse`, `exS_parse`, `exK_parse`), explicit
+  layouts derived from the theorem on the ASCII oracles (`exG_layout1`, `exG_layout2`), and kernel evaluations
+  of the model (`gram_examples`).
+
+Number literals keep their canonical decimal spelling (the parser calculus fixes `EV.lit`). -/
+
+/-! ## (1) pieces -/
+
+theorem kwAll_ne_nil : ∀ p ∈ kwListAll, p.1 ≠ [] := by decide
+
+section
+variable (o : Oracles) (ok : OrOK o) (up : OrUp o)
+include ok up
+
+/-- a keyword in any case, with or without a blank before it -/
+theorem seg2_kw_case (c : Char) (w kw : List Char) (t : Tok) (hp : (kw, t) ∈ kwListAll) (hci : ciKw t = true)
+    (hl : (c :: w).map lowerAscii = kw) (ht : t ≠ .stop) :
+    Seg2 o (fun y => isIdentCont o y = false) (c :: w) [(t, c :: w)] := by
+  have hw : ∀ x ∈ c :: w, isIdCh x = true := by
+    intro x hx
+    have : lowerAscii x ∈ kw := by rw [← hl]; exact List.mem_map_of_mem hx
+    exact isIdCh_of_0 (isIdCh0_of_lower (kwAll_wordChars (kw, t) hp _ this))
+  have hn := noNul_idw (c :: w) hw
+  exact seg2_tokAt o ok (tokAt_kw_case o ok up c w kw t hp hci hl) (NoNul.of_cons hn).1 (NoNul.of_cons hn).2 ht
+    (isIdCh_plain c (hw c (by simp))).2.2 (fun _ h => tol_identCont o ok h)
+    (tolB_idCh0 o ok (by
+      have : lowerAscii c ∈ kw := by rw [← hl]; simp
+      exact isIdCh0_of_lower (kwAll_wordChars (kw, t) hp _ this)))
+
+/-- the same for a spelling `kx` given as a list: `kx.map lowerAscii = kw` -/
+theorem seg2_kw_sp (kx kw : List Char) (t : Tok) (hp : (kw, t) ∈ kwListAll) (hci : ciKw t = true)
+    (hl : kx.map lowerAscii = kw) (ht : t ≠ .stop) :
+    Seg2 o (fun y => isIdentCont o y = false) kx [(t, kx)] ∧ ∃ c w, kx = c :: w ∧ isIdCh0 c = true := by
+  cases kx with
+  | nil => exact absurd hl.symm (by simpa using kwAll_ne_nil (kw, t) hp)
+  | cons c w =>
+    refine ⟨seg2_kw_case o ok up c w kw t hp hci hl ht, c, w, rfl, ?_⟩
+    have : lowerAscii c ∈ kw := by rw [← hl]; simp
+    exact isIdCh0_of_lower (kwAll_wordChars (kw, t) hp _ this)
+
+/-- a bare identifier -/
+theorem seg2_ident (c : Char) (w : List Char) (hc : isIdCh0 c = true) (hw : ∀ x ∈ w, isIdCh x = true)
+    (hid : identToken o (c :: w) = .ident) :
+    Seg2 o (fun y => isIdentCont o y = false) (c :: w) [(.ident, c :: w)] :=
+  seg2_tokAt o ok (tokAt_ident o ok up c w hc hw hid) (isIdCh_plain c (isIdCh_of_0 hc)).1 (noNul_idw w hw)
+    (by simp) (isIdCh_plain c (isIdCh_of_0 hc)).2.2 (fun _ h => tol_identCont o ok h) (tolB_idCh0 o ok hc)
+
+/-- a bare variable `$name` -/
+theorem seg2_var (n : Char) (ns : List Char) (hw : ∀ c ∈ n :: ns, isAlnum c = true) :
+    Seg2 o (fun y => isVariableRune o y = false) ('$' :: n :: ns) [(.variable, n :: ns)] :=
+  seg2_tokAt o ok (tokAt_var o ok up n ns hw) (by decide)
+    (fun c hc => (isAlnum_cont o ok up c (hw c hc)).2) (by simp) (by decide) (fun _ h => (tol_dollar o ok h).2)
+    (tolB_var o ok (by
+      intro h
+      have := hw n (by simp)
+      rw [h] at this
+      exact absurd this (by decide)))
+
+omit up in
+/-- ` <>` as written between two operands (followed by a blank): the token of `!=` -/
+theorem seg_sp_ltgt : Seg o (fun y => y = some ' ') [' ', '<', '>'] [opTok .ne] :=
+  (seg_sp_of_tokAt o (tokAt_ltgt o ok) (by decide) (NoNul.cons (by decide) NoNul.nil) (by decide) (by decide)
+    (fun _ _ => trivial) tolB_true).mono o (fun _ _ => trivial)
+
+omit up in
+theorem seg2_ltgt : Seg2 o CT ['<', '>'] [opTok .ne] :=
+  seg2_tokAt o ok (tokAt_ltgt o ok) (by decide) (NoNul.cons (by decide) NoNul.nil) (by decide) (by decide)
+    (fun _ _ => trivial) tolB_true
+
+end
+
+/-! ## (2) rules with spelling parameters: predicates -/
+
+section
+variable {o : Oracles} (ok : OrOK o) (up : OrUp o)
+include ok up
+
+/-- ` KW` : a blank and a keyword in any case -/
+theorem seg_sp_kw_sp (kx kw : List Char) (t : Tok) (hp : (kw, t) ∈ kwListAll) (hci : ciKw t = true)
+    (hl : kx.map lowerAscii = kw) (ht : t ≠ .stop) :
+    Seg o (fun y => isIdentCont o y = false) (' ' :: kx) [(t, kx)] :=
+  (seg2_kw_sp o ok up kx kw t hp hci hl ht).1.2
+
+/-- `(p) IS UNKNOWN`, the two keywords in any case -/
+theorem predT_isUnknown_sp {p : Node} {a l : Prop} {tp : List Char} (kis kunk : List Char)
+    (h1 : kis.map lowerAscii = "is".toList) (h2 : kunk.map lowerAscii = "unknown".toList)
+    (hp : PredT o p a l tp) :
+    PredT o (.unary .isUnknown (some p) none) True True ('(' :: (tp ++ ')' :: ' ' :: (kis ++ ' ' :: kunk))) := by
+  obtain ⟨ptoks, hseg, _, _, _, hl2⟩ := hp
+  have hat := isUnknown_atom_any kis kunk (full_of_left (by decide) hl2)
+  refine ⟨tLp :: ptoks ++ [tRp, (.is, kis), (.unknown, kunk)], ?_, ⟨tLp, _, rfl, rfl⟩, fun _ => hat,
+    fun _ => ⟨left_of_atom hat 1, right_of_atom hat⟩, left_of_atom hat 2⟩
+  have h0 := (seg_sp_kw_sp ok up kunk _ .unknown (by decide) (by decide) h2 (by decide)).mono o
+    (C' := brk) (fun _ h => brk_identCont ok h)
+  have h1 := Seg.app_cons o (seg_sp_kw_sp ok up kis _ .is (by decide) (by decide) h1 (by decide)) h0
+    (identCont_punct o ok ' ' (by decide))
+  have h2 := Seg.app o (seg_rp o ok) h1 (fun _ _ => trivial)
+  have h3 := Seg.app_cons o hseg.1 h2 brk_rp
+  have h4 := Seg2.app o (seg2_lp o ok) h3 (fun _ _ => trivial)
+  simpa using h4
+
+/-- `EXISTS (x)`, the keyword in any case -/
+theorem predT_exists_sp {x : Node} {u m : Prop} {tx : List Char} (kex : List Char)
+    (h1 : kex.map lowerAscii = "exists".toList) (hx : ExprT o x u m tx) :
+    PredT o (.unary .exists (some x) none) True True (kex ++ ' ' :: '(' :: (tx ++ [')'])) := by
+  obtain ⟨tk, ts, hseg, hst, hsp⟩ := hx
+  have hat := existsE_atom_any (o := o) kex hsp
+  refine ⟨(.exists, kex) :: tLp :: tk :: ts ++ [tRp], ?_, ⟨(.exists, kex), _, rfl, rfl⟩, fun _ => hat,
+    fun _ => ⟨left_of_atom hat 1, right_of_atom hat⟩, left_of_atom hat 2⟩
+  have h1' := Seg.app_cons o hseg.1 (seg_rp o ok) brk_rp
+  have h2 := Seg.app o (seg2_lp o ok).2 h1' (fun _ _ => trivial)
+  have h3 := Seg2.app_cons o (seg2_kw_sp o ok up kex _ .exists (by decide) (by decide) h1 (by decide)).1 h2
+    (identCont_punct o ok ' ' (by decide))
+  have := Seg2.mono o h3 (C' := brk) (fun _ _ => trivial)
+  simpa using this
+
+/-- `EXISTS(x)` without the blank: in this form *any* separator, the empty one included, may stand between
+    the keyword and the parenthesis (`spells_layout` asks for a non-empty separator only where the text has
+    a blank) -/
+theorem predT_exists_sp0 {x : Node} {u m : Prop} {tx : List Char} (kex : List Char)
+    (h1 : kex.map lowerAscii = "exists".toList) (hx : ExprT o x u m tx) :
+    PredT o (.unary .exists (some x) none) True True (kex ++ '(' :: (tx ++ [')'])) := by
+  obtain ⟨tk, ts, hseg, hst, hsp⟩ := hx
+  have hat := existsE_atom_any (o := o) kex hsp
+  refine ⟨(.exists, kex) :: tLp :: tk :: ts ++ [tRp], ?_, ⟨(.exists, kex), _, rfl, rfl⟩, fun _ => hat,
+    fun _ => ⟨left_of_atom hat 1, right_of_atom hat⟩, left_of_atom hat 2⟩
+  have h1' := Seg.app_cons o hseg.1 (seg_rp o ok) brk_rp
+  have h2 := Seg.app o (seg2_lp o ok).1 h1' (fun _ _ => trivial)
+  have h3 := Seg2.app_cons o (seg2_kw_sp o ok up kex _ .exists (by decide) (by decide) h1 (by decide)).1 h2
+    (identCont_punct o ok '(' (by decide))
+  have := Seg2.mono o h3 (C' := brk) (fun _ _ => trivial)
+  simpa using this
+
+/-- **a string literal or a variable, in any spelling**: `"body"` (escapes of `SpellsStr`), `$"body"`, or a
+    bare `$name` (ASCII letters and digits); `isVar`, the text, the value -/
+inductive StrTok : Bool → List Char → List Char → Prop
+  | str {body s : List Char} : SpellsStr body s → StrTok false ('"' :: (body ++ ['"'])) s
+  | qvar {body s : List Char} : SpellsStr body s → StrTok true ('$' :: '"' :: (body ++ ['"'])) s
+  | bvar (n : Char) (ns : List Char) : (∀ c ∈ n :: ns, isAlnum c = true) → StrTok true ('$' :: n :: ns) (n :: ns)
+
+/-- the token of a `StrTok` -/
+def strTokT (isVar : Bool) (s : List Char) : TT := if isVar then (.variable, s) else (.string, s)
+
+theorem strTok_seg2 {isVar : Bool} {txt s : List Char} (h : StrTok isVar txt s) :
+    Seg2 o brkS txt [strTokT isVar s] := by
+  cases h with
+  | str h => exact (seg2_string_spelled o ok h).mono o (fun _ _ => trivial)
+  | qvar h => exact (seg2_variable_spelled o ok h).mono o (fun _ _ => trivial)
+  | bvar n ns h => exact (seg2_var o ok up n ns h).mono o (fun _ h => (brkS_dollar o ok h).2)
+
+theorem strTok_ne_nil {isVar : Bool} {txt s : List Char} (h : StrTok isVar txt s) : ∃ c cs, txt = c :: cs := by
+  cases h <;> exact ⟨_, _, rfl⟩
+
+/-- `l STARTS WITH "s"` / `l STARTS WITH $"s"` / `l STARTS WITH $s`: keywords in any case, the string or
+    variable in any spelling -/
+theorem predT_starts_sp {l : Node} {u m : Prop} {tl : List Char} (kst kwi : List Char)
+    (h1 : kst.map lowerAscii = "starts".toList) (h2 : kwi.map lowerAscii = "with".toList)
+    {isVar : Bool} {stxt s : List Char} (hs : StrTok isVar stxt s) (hl : ExprT o l u m tl) :
+    PredT o (.binary .startsWith (some l) (some (if isVar then .var s none else .str s none)) none) True True
+      (tl ++ ' ' :: (kst ++ ' ' :: (kwi ++ ' ' :: stxt))) := by
+  obtain ⟨tkl, tsl, hsegl, hstl, hspl⟩ := hl
+  have hat := startsE_atom_any (o := o) kst kwi s isVar hspl
+  refine ⟨tkl :: tsl ++ [(.starts, kst), (.with_, kwi), if isVar then (.variable, s) else (.string, s)], ?_,
+    ⟨tkl, _, rfl, hstl⟩, fun _ => hat, fun _ => ⟨left_of_atom hat 1, right_of_atom hat⟩, left_of_atom hat 2⟩
+  have h0 : Seg o brk (' ' :: stxt) [if isVar then (.variable, s) else (.string, s)] :=
+    (strTok_seg2 ok up hs).2.mono o (fun _ h => brkS_of_brk h)
+  have h1' := Seg.app_cons o (seg_sp_kw_sp ok up kwi _ .with_ (by decide) (by decide) h2 (by decide)) h0
+    (identCont_punct o ok ' ' (by decide))
+  have h2' := Seg.app_cons o (seg_sp_kw_sp ok up kst _ .starts (by decide) (by decide) h1 (by decide)) h1'
+    (identCont_punct o ok ' ' (by decide))
+  have h3 := Seg2.app_cons o hsegl h2' brk_sp
+  simpa using h3
+
+/-- `x LIKE_REGEX "pat"`: keyword in any case, pattern in any spelling -/
+theorem predT_regex_sp {x : Node} {u m : Prop} {tx : List Char} (klike : List Char)
+    (h1 : klike.map lowerAscii = "like_regex".toList) {pbody pat : List Char} (hp : SpellsStr pbody pat)
+    (hx : ExprT o x u m tx) (hacc : o.regexAccepts pat 0 = true) :
+    PredT o (.regex x pat 0 none) True True (tx ++ ' ' :: (klike ++ ' ' :: '"' :: (pbody ++ ['"']))) := by
+  obtain ⟨tk, ts, hseg, hst, hsp⟩ := hx
+  have hat := regexE_atom_noflag_any (o := o) klike pat hsp hacc
+  refine ⟨tk :: ts ++ [(.likeRegex, klike), (.string, pat)], ?_, ⟨tk, _, rfl, hst⟩,
+    fun _ => hat, fun _ => ⟨left_of_atom hat 1, right_of_atom hat⟩, left_of_atom hat 2⟩
+  have h0 := (seg2_string_spelled o ok hp).2.mono o (C' := brk) (fun _ _ => trivial)
+  have h1' := Seg.app_cons o (seg_sp_kw_sp ok up klike _ .likeRegex (by decide) (by decide) h1 (by decide)) h0
+    (identCont_punct o ok ' ' (by decide))
+  have h2 := Seg2.app_cons o hseg h1' brk_sp
+  simpa using h2
+
+/-- `x LIKE_REGEX "pat" FLAG "fs"`: keywords in any case, pattern and flag string in any spelling, the
+    flag letters in any order and with repetitions (`regexFlags fs = some fl`) -/
+theorem predT_regex_flag_sp {x : Node} {u m : Prop} {tx : List Char} (klike kflag : List Char)
+    (h1 : klike.map lowerAscii = "like_regex".toList) (h2 : kflag.map lowerAscii = "flag".toList)
+    {pbody pat fbody fs : List Char} (hp : SpellsStr pbody pat) (hf : SpellsStr fbody fs) {fl : Nat}
+    (hfs : regexFlags fs = some fl)
+    (hx : ExprT o x u m tx) (hacc : o.regexAccepts pat fl = true) :
+    PredT o (.regex x pat fl none) True True
+      (tx ++ ' ' :: (klike ++ ' ' :: '"' :: (pbody ++ '"' :: ' ' :: (kflag ++ ' ' :: '"' :: (fbody ++ ['"']))))) := by
+  obtain ⟨tk, ts, hseg, hst, hsp⟩ := hx
+  have hat := regexE_atom_flag_any (o := o) klike kflag pat fs fl hsp hfs hacc
+  refine ⟨tk :: ts ++ [(.likeRegex, klike), (.string, pat), (.flag, kflag), (.string, fs)], ?_, ⟨tk, _, rfl, hst⟩,
+    fun _ => hat, fun _ => ⟨left_of_atom hat 1, right_of_atom hat⟩, left_of_atom hat 2⟩
+  have h0 := (seg2_string_spelled o ok hf).2.mono o (C' := brk) (fun _ _ => trivial)
+  have h1' := Seg.app_cons o (seg_sp_kw_sp ok up kflag _ .flag (by decide) (by decide) h2 (by decide)) h0
+    (identCont_punct o ok ' ' (by decide))
+  have h2' := Seg.app_cons o (seg2_string_spelled o ok hp).2 h1' trivial
+  have h3 := Seg.app_cons o (seg_sp_kw_sp ok up klike _ .likeRegex (by decide) (by decide) h1 (by decide)) h2'
+    (identCont_punct o ok ' ' (by decide))
+  have h4 := Seg2.app_cons o hseg h3 brk_sp
+  simpa using h4
+
+omit up in
+/-- `l <> r`: the same predicate as `l != r` -/
+theorem predT_ne_ltgt {l r : Node} {ul ml ur mr : Prop} {tl tr : List Char}
+    (hl : ExprT o l ul ml tl) (hr : ExprT o r ur mr tr) :
+    PredT o (.binary .ne (some l) (some r) none) True True (tl ++ ' ' :: '<' :: '>' :: ' ' :: tr) := by
+  obtain ⟨tkl, tsl, hsegl, hstl, hspl⟩ := hl
+  obtain ⟨tkr, tsr, hsegr, _, hspr⟩ := hr
+  have hat := cmpE_atom (o := o) (op := .ne) hspl hspr rfl
+  refine ⟨tkl :: tsl ++ opTok .ne :: tkr :: tsr, ?_, ⟨tkl, _, rfl, hstl⟩, fun _ => hat,
+    fun _ => ⟨left_of_atom hat 1, right_of_atom hat⟩, left_of_atom hat 2⟩
+  have h1 := Seg.app_cons o (seg_sp_ltgt o ok) hsegr.2 rfl
+  have h2 := Seg2.app_cons o hsegl h1 brk_sp
+  simpa using h2
+
+/-- the spellings of a comparison operator: the printer's, and `<>` for `!=` -/
+def cmpSp (op : BinOp) (otxt : List Char) : Prop := otxt = Print.binStr op ∨ (op = .ne ∧ otxt = ['<', '>'])
+
+omit up in
+/-- `l op r` with the comparison operator in any spelling -/
+theorem predT_cmp_sp (op : BinOp) {l r : Node} {ul ml ur mr : Prop} {tl tr otxt : List Char}
+    (hop : isCmp op = true) (ho : cmpSp op otxt)
+    (hl : ExprT o l ul ml tl) (hr : ExprT o r ur mr tr) :
+    PredT o (.binary op (some l) (some r) none) True True (tl ++ ' ' :: (otxt ++ ' ' :: tr)) := by
+  rcases ho with ho | ⟨h1, h2⟩
+  · subst ho; exact predT_cmp ok op hop hl hr
+  · subst h1; subst h2; exact predT_ne_ltgt ok hl hr
+
+end
+
+/-! ## (2) leaves: a head token in any spelling, followed by any chain of accessors -/
+
+section
+variable {o : Oracles}
+
+/-- `exprT_head` with what is used of `isOpdStart` as hypotheses (so that it applies to `last`) -/
+theorem exprT_head' (_ok : OrOK o) (tk : TT) (hn : Node) (hh : headOf tk = some hn)
+    (hf : tk.1 ≠ .not ∧ tk.1 ≠ .exists ∧ tk.1 ≠ .lparen ∧ tk.1 ≠ .stop) (hps : isPredStart tk.1 = true)
+    {htxt : List Char} (hseg : Seg2 o brkS htxt [tk]) {nx : Option Node} {ctxt : List Char}
+    (hc : ChainT o nx ctxt) : ExprT o (hn.setNext nx) True True (htxt ++ ctxt) := by
+  obtain ⟨toks, L, hcseg, hhead, _, hL, hloop⟩ := hc
+  have hopd : OpdSpec o (hn.setNext nx) tk toks := by
+    intro f rest hf h1 h2
+    obtain ⟨f', rfl⟩ : ∃ f', f = f' + 2 := ⟨f - 2, by omega⟩
+    have hev : linkNodes { node := hn } L = evOf (hn.setNext nx) := by
+      have h1 := linkNodes_node { node := hn } L (headOf_next hh)
+      have h2 := linkNodes_lit { node := hn } L
+      rw [hL] at h1
+      cases hq : linkNodes { node := hn } L with
+      | mk nd lt =>
+        rw [hq] at h1 h2
+        simp only at h1 h2
+        simp only [evOf, h1, headOf_lit hh nx]
+        rw [h2]
+    rw [parseUnaryT_head f' tk hn hh]
+    simp only [List.cons_append]
+    lstep (consume_spec _ _)
+    have := hloop f' { node := hn } [] rest (by omega) h1 h2
+    rw [← hev]
+    simpa using this
+  refine ⟨tk, toks, ?_, hps, espec_unit hopd (headA_of_opdSpec hopd hf.1 hf.2.1 hf.2.2.1 hf.2.2.2) _ _⟩
+  have := Seg2.app o hseg hcseg hhead
+  simpa using this
+
+variable (ok : OrOK o) (up : OrUp o)
+include ok up
+
+/-- a string literal or a variable in any spelling, followed by accessors -/
+theorem exprT_strTok_sp {isVar : Bool} {stxt s : List Char} (hs : StrTok isVar stxt s)
+    {nx : Option Node} {ctxt : List Char} (hc : ChainT o nx ctxt) :
+    ExprT o (if isVar then .var s nx else .str s nx) True True (stxt ++ ctxt) := by
+  have hseg := strTok_seg2 ok up hs
+  cases isVar with
+  | false => exact exprT_head ok (.string, s) (.str s none) rfl rfl hseg hc
+  | true => exact exprT_head ok (.variable, s) (.var s none) rfl rfl hseg hc
+
+/-- `"body"` followed by accessors -/
+theorem exprT_str_sp {body s : List Char} (hs : SpellsStr body s)
+    {nx : Option Node} {ctxt : List Char} (hc : ChainT o nx ctxt) :
+    ExprT o (.str s nx) True True ('"' :: (body ++ '"' :: ctxt)) := by
+  have := exprT_strTok_sp ok up (.str hs) hc
+  simpa using this
+
+/-- `$"body"` followed by accessors -/
+theorem exprT_var_sp {body s : List Char} (hs : SpellsStr body s)
+    {nx : Option Node} {ctxt : List Char} (hc : ChainT o nx ctxt) :
+    ExprT o (.var s nx) True True ('$' :: '"' :: (body ++ '"' :: ctxt)) := by
+  have := exprT_strTok_sp ok up (.qvar hs) hc
+  simpa using this
+
+/-- bare `$name` followed by accessors -/
+theorem exprT_bvar_sp (n : Char) (ns : List Char) (hw : ∀ c ∈ n :: ns, isAlnum c = true)
+    {nx : Option Node} {ctxt : List Char} (hc : ChainT o nx ctxt) :
+    ExprT o (.var (n :: ns) nx) True True ('$' :: n :: (ns ++ ctxt)) := by
+  have := exprT_strTok_sp ok up (.bvar n ns hw) hc
+  simpa using this
+
+/-- `LAST` (any case) followed by accessors -/
+theorem exprT_last_sp (kx : List Char) (h1 : kx.map lowerAscii = "last".toList)
+    {nx : Option Node} {ctxt : List Char} (hc : ChainT o nx ctxt) :
+    ExprT o (.const .last nx) True True (kx ++ ctxt) :=
+  exprT_head' ok (.last, kx) (.const .last none) rfl ⟨by simp, by simp, by simp, by simp⟩ rfl
+    ((seg2_kw_sp o ok up kx _ .last (by decide) (by decide) h1 (by decide)).1.mono o
+      (fun _ h => brkS_identCont o ok h)) hc
+
+omit up in
+/-- `null`, `true`, `false` (lower case only) followed by accessors -/
+theorem exprT_const (k : Const) (hk : k = .null ∨ k = .true_ ∨ k = .false_)
+    {nx : Option Node} {ctxt : List Char} (hc : ChainT o nx ctxt) :
+    ExprT o (.const k nx) True True (Print.constStr k ++ ctxt) := by
+  have kwc : ∀ (c : Char) (w : List Char) (t : Tok), (c :: w, t) ∈ kwList → t ≠ .stop →
+      Seg2 o brkS (c :: w) [(t, c :: w)] := fun c w t hp ht =>
+    (seg2_kw o ok c w t hp ht).mono o (fun _ h => brkS_identCont o ok h)
+  rcases hk with hk | hk | hk <;> subst hk
+  · exact exprT_head ok (.null, ['n', 'u', 'l', 'l']) (.const .null none) rfl rfl
+      (kwc 'n' ['u', 'l', 'l'] .null (by decide) (by decide)) hc
+  · exact exprT_head ok (.true_, ['t', 'r', 'u', 'e']) (.const .true_ none) rfl rfl
+      (kwc 't' ['r', 'u', 'e'] .true_ (by decide) (by decide)) hc
+  · exact exprT_head ok (.false_, ['f', 'a', 'l', 's', 'e']) (.const .false_ none) rfl rfl
+      (kwc 'f' ['a', 'l', 's', 'e'] .false_ (by decide) (by decide)) hc
+
+end
+
+/-! ## (2) accessors -/
+
+section
+variable {o : Oracles}
+
+/-- `.TIME()` and friends, the keyword token with any text -/
+theorem accOp_time0_any (f : Nat) (op : UnOp) (hop : isTimeOp op = true) (x : List Char) (rest : List TT) :
+    RunsV (StP o (tDot :: (timeKind op, x) :: tLp :: tRp :: rest)) (accessorOp o (f + 1) .dot) (.unary op none none)
+      (StE o rest) := by
+  have hf := time_facts hop
+  rw [accessorOp]
+  lstep (consume_spec _ _)
+  simp only [reduceCtorEq, ↓reduceIte]
+  lstep (peek_cons _ _)
+  simp only [hf.2.1, hf.2.2.1, hf.2.2.2.1, hf.2.2.2.2.1, hf.2.2.2.2.2.1, hf.2.2.2.2.2.2.1, hf.2.2.2.2.2.2.2.1,
+    hf.1, ↓reduceIte, Bool.false_eq_true]
+  lstep (consume_spec _ _)
+  lstep (peek_cons _ _)
+  simp only [tLp, ↓reduceIte]
+  lstep (consume_spec _ _)
+  lstep (peek_cons _ _)
+  simp only [tRp, reduceCtorEq, ↓reduceIte]
+  lstep (expect_spec _ _ _).ofE
+  exact RunsV.pure _
+
+/-- `.TIME(p)` and friends -/
+theorem accOp_time1_any (f : Nat) (op : UnOp) (hop : isTimeOp op = true) (x : List Char) (p : Int)
+    (hp : intOK p = true) (rest : List TT) :
+    RunsV (StP o (tDot :: (timeKind op, x) :: tLp :: tInt p.toNat :: tRp :: rest)) (accessorOp o (f + 1) .dot)
+      (.unary op (some (.integer p none)) none) (StE o rest) := by
+  have hf := time_facts hop
+  obtain ⟨h1, h2⟩ := intOK_toNat hp
+  rw [accessorOp]
+  lstep (consume_spec _ _)
+  simp only [reduceCtorEq, ↓reduceIte]
+  lstep (peek_cons _ _)
+  simp only [hf.2.1, hf.2.2.1, hf.2.2.2.1, hf.2.2.2.2.1, hf.2.2.2.2.2.1, hf.2.2.2.2.2.2.1, hf.2.2.2.2.2.2.2.1,
+    hf.1, ↓reduceIte, Bool.false_eq_true]
+  lstep (consume_spec _ _)
+  lstep (peek_cons _ _)
+  simp only [tLp, ↓reduceIte]
+  lstep (consume_spec _ _)
+  lstep (peek_cons _ _)
+  simp only [tInt, ↓reduceIte]
+  lstep (consume_spec _ _)
+  rw [newInteger_toDigits _ h2]
+  lstep (RunsV.pure _)
+  lstep (expect_spec _ _ _)
+  exact RunsV.pure' (by simp [h1]) (fun _ h => h)
+
+/-- a level of `.**{…}`: a decimal literal below 2³¹, or `LAST` in any case; the level, its text, its token -/
+inductive LvlSp : Nat → List Char → TT → Prop
+  | int (a : Nat) : a < 2147483648 → LvlSp a (Nat.toDigits 10 a) (tInt a)
+  | last (kx : List Char) : kx.map lowerAscii = "last".toList → LvlSp maxU32 kx (.last, kx)
+
+theorem LvlSp.ok {a : Nat} {txt : List Char} {tk : TT} (h : LvlSp a txt tk) : lvlOK a = true := by
+  cases h with
+  | int a h => simp [lvlOK, h]
+  | last kx h => simp [lvlOK]
+
+theorem LvlSp.run {a : Nat} {txt : List Char} {tk : TT} (h : LvlSp a txt tk) (rest : List TT) :
+    RunsV (StE o (tk :: rest)) (anyLevel o) (lvlVal a) (StE o rest) := by
+  cases h with
+  | int a h =>
+    have hne : a ≠ maxU32 := by simp [maxU32]; omega
+    have := anyLevel_lvl (o := o) a (by simp [lvlOK, h]) rest
+    simpa [lvlTok, hne] using this
+  | last kx h =>
+    have := anyLevel_last_any (o := o) txt rest
+    simpa [lvlVal] using this
+
+end
+
+section
+variable {o : Oracles} (ok : OrOK o) (up : OrUp o)
+include ok up
+
+theorem LvlSp.seg2 {a : Nat} {txt : List Char} {tk : TT} (h : LvlSp a txt tk) : Seg2 o brk txt [tk] := by
+  cases h with
+  | int a h => exact seg2_nat o ok a
+  | last kx h =>
+    exact (seg2_kw_sp o ok up txt _ .last (by decide) (by decide) h (by decide)).1.mono o
+      (fun _ h => brk_identCont ok h)
+
+omit up in
+/-- a key accessor, from its text as a piece: `.` and a token that is nothing but a key name -/
+theorem stepT_key_tok {k : Tok} {s ktxt : List Char} (hk : isPlainKeyName k = true)
+    (hseg : Seg o brkS ('.' :: ktxt) [tDot, (k, s)]) (nx : Option Node) :
+    StepT o (.key s nx) ('.' :: ktxt) := by
+  refine ⟨.dot, ['.'], [(k, s)], '.', ktxt, hseg, rfl, Or.inr (Or.inl rfl), rfl, ?_⟩
+  intro rest f _ hf
+  obtain ⟨f', rfl⟩ : ∃ f', f = f' + 1 := ⟨f - 1, by omega⟩
+  exact accOp_plainKey f' k s hk rest
+
+omit up in
+/-- `."body"`: a quoted key in any spelling -/
+theorem stepT_key_sp {body s : List Char} (hs : SpellsStr body s) (nx : Option Node) :
+    StepT o (.key s nx) ('.' :: '"' :: (body ++ ['"'])) := by
+  have h1 := Seg.app_cons o (seg_dot o ok) (seg2_string_spelled o ok hs).1 (by decide)
+  exact stepT_key_tok ok (k := .string) (by decide) (Seg.weak o ok h1) nx
+
+/-- `.name`: a bare identifier (ASCII letters of either case, `_`, digits; not a keyword) — the key is the
+    text as written -/
+theorem stepT_key_ident (c : Char) (w : List Char) (hc : isIdCh0 c = true) (hw : ∀ x ∈ w, isIdCh x = true)
+    (hid : identToken o (c :: w) = .ident) (nx : Option Node) :
+    StepT o (.key (c :: w) nx) ('.' :: c :: w) :=
+  stepT_key_tok ok (k := .ident) (by decide)
+    ((seg_dot_ident o ok up c w hc hw hid).mono o (fun _ h => brkS_identCont o ok h)) nx
+
+/-- `.KEYWORD` for a keyword (any case) that is nothing but a key name after a `.` (`strict`, `lax`, `last`,
+    `to`, `is`, `unknown`, `exists`, `starts`, `with`, `like_regex`, `flag`): the key is the text as written -/
+theorem stepT_key_kw (kx kw : List Char) (t : Tok) (hp : (kw, t) ∈ kwListAll) (hci : ciKw t = true)
+    (hl : kx.map lowerAscii = kw) (hk : isPlainKeyName t = true) (nx : Option Node) :
+    StepT o (.key kx nx) ('.' :: kx) := by
+  have ht : t ≠ .stop := by intro h; subst h; simp [isPlainKeyName] at hk
+  obtain ⟨hs, c, w, rfl, hc0⟩ := seg2_kw_sp o ok up kx kw t hp hci hl ht
+  have h1 := Seg.app_cons o (seg_dot o ok) hs.1 (isIdCh0_notDecimal c hc0)
+  exact stepT_key_tok ok hk (h1.mono o (fun _ h => brkS_identCont o ok h)) nx
+
+omit up in
+/-- `.null`, `.true`, `.false` (lower case: the keyword tokens): keys -/
+theorem stepT_key_lit (k : Const) (hk : k = .null ∨ k = .true_ ∨ k = .false_) (nx : Option Node) :
+    StepT o (.key (Print.constStr k) nx) ('.' :: Print.constStr k) := by
+  have kwc : ∀ (c : Char) (w : List Char) (t : Tok), (c :: w, t) ∈ kwList → t ≠ .stop →
+      isDecimalR (some c) = false → Seg o brkS ('.' :: c :: w) [tDot, (t, c :: w)] := fun c w t hp ht hd =>
+    (Seg.app_cons o (seg_dot o ok) (seg_kw o ok c w t hp ht) hd).mono o (fun _ h => brkS_identCont o ok h)
+  rcases hk with hk | hk | hk <;> subst hk
+  · exact stepT_key_tok ok (k := .null) (by decide) (kwc 'n' ['u', 'l', 'l'] .null (by decide) (by decide) (by decide)) nx
+  · exact stepT_key_tok ok (k := .true_) (by decide) (kwc 't' ['r', 'u', 'e'] .true_ (by decide) (by decide) (by decide)) nx
+  · exact stepT_key_tok ok (k := .false_) (by decide)
+      (kwc 'f' ['a', 'l', 's', 'e'] .false_ (by decide) (by decide) (by decide)) nx
+
+/-- `.KW(` … : the text and tokens of `.`, a keyword in any case, `(` and what follows -/
+theorem seg_dot_kw_call_sp (kx kw : List Char) (t : Tok) (hp : (kw, t) ∈ kwListAll) (hci : ciKw t = true)
+    (hl : kx.map lowerAscii = kw) (ht : t ≠ .stop) {C : Option Char → Prop} {atxt : List Char} {atoks : List TT}
+    (ha : Seg o C ('(' :: atxt) atoks) :
+    Seg o C ('.' :: (kx ++ '(' :: atxt)) (tDot :: (t, kx) :: atoks) := by
+  obtain ⟨hs, c, w, rfl, hc0⟩ := seg2_kw_sp o ok up kx kw t hp hci hl ht
+  have h4 := Seg.app_cons o hs.1 ha (identCont_punct o ok '(' (by decide))
+  have h5 := Seg.app_cons o (seg_dot o ok) h4 (isIdCh0_notDecimal c hc0)
+  simpa using h5
+
+omit up in
+theorem seg_call0 : Seg o CT ['(', ')'] [tLp, tRp] := Seg.app_true o ok (seg_lp o ok) (seg_rp o ok)
+
+/-- `.SIZE()` …: a method keyword in any case -/
+theorem stepT_method_sp (m : Method) (kx : List Char) (h1 : kx.map lowerAscii = methodName m) (nx : Option Node) :
+    StepT o (.method m nx) ('.' :: (kx ++ ['(', ')'])) := by
+  obtain ⟨c, w, e1, hkw, hns⟩ := methodName_kw m
+  have hci : ciKw (methodTok m) = true := by cases m <;> rfl
+  have hseg := seg_dot_kw_call_sp ok up kx (methodName m) (methodTok m) (by rw [e1]; exact kwList_sub hkw) hci h1 hns
+    (seg_call0 ok)
+  refine ⟨.dot, ['.'], [(methodTok m, kx), tLp, tRp], '.', _, Seg.weak o ok hseg, rfl, Or.inr (Or.inl rfl), rfl, ?_⟩
+  intro rest f _ hf
+  obtain ⟨f', rfl⟩ : ∃ f', f = f' + 1 := ⟨f - 1, by omega⟩
+  exact accOp_method_any f' m kx rest
+
+/-- `.DATE()` -/
+theorem stepT_date_sp (kx : List Char) (h1 : kx.map lowerAscii = "date".toList) (nx : Option Node) :
+    StepT o (.unary .date none nx) ('.' :: (kx ++ ['(', ')'])) := by
+  have hseg := seg_dot_kw_call_sp ok up kx _ .date (by decide) (by decide) h1 (by decide) (seg_call0 ok)
+  refine ⟨.dot, ['.'], [(.date, kx), tLp, tRp], '.', _, Seg.weak o ok hseg, rfl, Or.inr (Or.inl rfl), rfl, ?_⟩
+  intro rest f _ hf
+  obtain ⟨f', rfl⟩ : ∃ f', f = f' + 1 := ⟨f - 1, by omega⟩
+  exact accOp_date_any f' kx rest
+
+/-- `.DATETIME()` -/
+theorem stepT_datetime0_sp (kx : List Char) (h1 : kx.map lowerAscii = "datetime".toList) (nx : Option Node) :
+    StepT o (.unary .datetime none nx) ('.' :: (kx ++ ['(', ')'])) := by
+  have hseg := seg_dot_kw_call_sp ok up kx _ .datetime (by decide) (by decide) h1 (by decide) (seg_call0 ok)
+  refine ⟨.dot, ['.'], [(.datetime, kx), tLp, tRp], '.', _, Seg.weak o ok hseg, rfl, Or.inr (Or.inl rfl), rfl, ?_⟩
+  intro rest f _ hf
+  obtain ⟨f', rfl⟩ : ∃ f', f = f' + 1 := ⟨f - 1, by omega⟩
+  exact accOp_datetime0_any f' kx rest
+
+/-- `.DATETIME("template")`, the template string in any spelling -/
+theorem stepT_datetime_sp (kx : List Char) (h1 : kx.map lowerAscii = "datetime".toList)
+    {body t : List Char} (ht : SpellsStr body t) (nx : Option Node) :
+    StepT o (.unary .datetime (some (.str t none)) nx) ('.' :: (kx ++ '(' :: '"' :: (body ++ ['"', ')']))) := by
+  have h2 := Seg.app_true o ok (seg2_string_spelled o ok ht).1 (seg_rp o ok)
+  have h3 := Seg.app_true o ok (seg_lp o ok) h2
+  have hseg := seg_dot_kw_call_sp ok up kx _ .datetime (by decide) (by decide) h1 (by decide)
+    (atxt := '"' :: (body ++ ['"', ')'])) (by simpa using h3)
+  refine ⟨.dot, ['.'], [(.datetime, kx), tLp, (.string, t), tRp], '.', _, Seg.weak o ok hseg, rfl,
+    Or.inr (Or.inl rfl), rfl, ?_⟩
+  intro rest f _ hf
+  obtain ⟨f', rfl⟩ : ∃ f', f = f' + 1 := ⟨f - 1, by omega⟩
+  exact accOp_datetime1_any f' kx t rest
+
+/-- `.TIME()`, `.TIME_TZ()`, `.TIMESTAMP()`, `.TIMESTAMP_TZ()` -/
+theorem stepT_time0_sp (op : UnOp) (hop : isTimeOp op = true) (kx : List Char)
+    (h1 : kx.map lowerAscii = timeName op) (nx : Option Node) :
+    StepT o (.unary op none nx) ('.' :: (kx ++ ['(', ')'])) := by
+  have hf := time_facts hop
+  obtain ⟨c, w, hcw, hkw⟩ := hf.2.2.2.2.2.2.2.2.2.2
+  have hci : ciKw (timeKind op) = true := by cases op <;> simp [isTimeOp] at hop <;> rfl
+  have hseg := seg_dot_kw_call_sp ok up kx (timeName op) (timeKind op) (by rw [hcw]; exact kwList_sub hkw) hci h1
+    hf.2.2.2.2.2.2.2.2.1 (seg_call0 ok)
+  refine ⟨.dot, ['.'], [(timeKind op, kx), tLp, tRp], '.', _, Seg.weak o ok hseg, rfl, Or.inr (Or.inl rfl), rfl, ?_⟩
+  intro rest f _ hf'
+  obtain ⟨f', rfl⟩ : ∃ f', f = f' + 1 := ⟨f - 1, by omega⟩
+  exact accOp_time0_any f' op hop kx rest
+
+/-- `.TIME(p)` … with a precision (canonical decimal) -/
+theorem stepT_time1_sp (op : UnOp) (hop : isTimeOp op = true) (kx : List Char)
+    (h1 : kx.map lowerAscii = timeName op) (p : Int) (hp : intOK p = true) (nx : Option Node) :
+    StepT o (.unary op (some (.integer p none)) nx) ('.' :: (kx ++ '(' :: (Nat.toDigits 10 p.toNat ++ [')']))) := by
+  have hf := time_facts hop
+  obtain ⟨c, w, hcw, hkw⟩ := hf.2.2.2.2.2.2.2.2.2.2
+  have hci : ciKw (timeKind op) = true := by cases op <;> simp [isTimeOp] at hop <;> rfl
+  have h3 := Seg.app_cons o (seg_nat o ok p.toNat) (seg_rp o ok) brk_rp
+  have h4 := Seg.app o (seg_lp o ok) h3 (fun _ _ => trivial)
+  have hseg := seg_dot_kw_call_sp ok up kx (timeName op) (timeKind op) (by rw [hcw]; exact kwList_sub hkw) hci h1
+    hf.2.2.2.2.2.2.2.2.1 (atxt := Nat.toDigits 10 p.toNat ++ [')']) (by simpa using h4)
+  refine ⟨.dot, ['.'], [(timeKind op, kx), tLp, tInt p.toNat, tRp], '.', _, Seg.weak o ok hseg, rfl,
+    Or.inr (Or.inl rfl), rfl, ?_⟩
+  intro rest f _ hf'
+  obtain ⟨f', rfl⟩ : ∃ f', f = f' + 1 := ⟨f - 1, by omega⟩
+  exact accOp_time1_any f' op hop kx p hp rest
+
+/-- `.**{l}`: one level (`LAST` in any case) -/
+theorem stepT_any1_sp {a : Nat} {ltxt : List Char} {tk : TT} (hl : LvlSp a ltxt tk) (nx : Option Node) :
+    StepT o (.any a a nx) ('.' :: '*' :: '*' :: '{' :: (ltxt ++ ['}'])) := by
+  have h1 := Seg.app_cons o (hl.seg2 ok up).1 (seg_rc o ok) (Or.inr (Or.inr (Or.inr (Or.inr (Or.inr rfl)))))
+  have h2 := Seg.app_true o ok (seg_lc o ok) h1
+  have h3 := Seg.app_true o ok (seg_anyTok o ok) h2
+  have h4 := Seg.app_cons o (seg_dot o ok) h3 (by decide)
+  refine ⟨.dot, ['.'], [tAny, tLc, tk, tRc], '.', _, Seg.weak o ok (by simpa [tDot] using h4), rfl, Or.inr (Or.inl rfl), rfl, ?_⟩
+  intro rest f _ hf
+  obtain ⟨f', rfl⟩ : ∃ f', f = f' + 1 := ⟨f - 1, by omega⟩
+  have := accOp_anyOne_any (o := o) f' tk (lvlVal a) rest (fun r => hl.run r)
+  rw [newAny_lvl a a hl.ok hl.ok] at this
+  exact this
+
+/-- `.**{l1 TO l2}`: two levels, `TO` and `LAST` in any case -/
+theorem stepT_any2_sp {a b : Nat} {atxt btxt : List Char} {tka tkb : TT} (ha : LvlSp a atxt tka)
+    (hb : LvlSp b btxt tkb) (kto : List Char) (h1 : kto.map lowerAscii = "to".toList) (nx : Option Node) :
+    StepT o (.any a b nx) ('.' :: '*' :: '*' :: '{' :: (atxt ++ ' ' :: (kto ++ ' ' :: (btxt ++ ['}'])))) := by
+  have s1 := Seg.app_cons o (hb.seg2 ok up).2 (seg_rc o ok) (Or.inr (Or.inr (Or.inr (Or.inr (Or.inr rfl)))))
+  have s2 := Seg.app_cons o (seg_sp_kw_sp ok up kto _ .to (by decide) (by decide) h1 (by decide)) s1
+    (identCont_punct o ok ' ' (by decide))
+  have s3 := Seg.app_cons o (ha.seg2 ok up).1 s2 (Or.inr (Or.inl rfl))
+  have s4 := Seg.app_true o ok (seg_lc o ok) s3
+  have s5 := Seg.app_true o ok (seg_anyTok o ok) s4
+  have s6 := Seg.app_cons o (seg_dot o ok) s5 (by decide)
+  refine ⟨.dot, ['.'], [tAny, tLc, tka, (.to, kto), tkb, tRc], '.', _, Seg.weak o ok (by simpa [tDot] using s6), rfl,
+    Or.inr (Or.inl rfl), rfl, ?_⟩
+  intro rest f _ hf
+  obtain ⟨f', rfl⟩ : ∃ f', f = f' + 1 := ⟨f - 1, by omega⟩
+  have := accOp_anyRange_any (o := o) f' tka tkb (lvlVal a) (lvlVal b) kto rest (fun r => ha.run r) (fun r => hb.run r)
+  rw [newAny_lvl a b ha.ok hb.ok] at this
+  exact this
+
+/-- a subscript range `l TO r`, `TO` in any case -/
+theorem subT_two_sp {l r : Node} {ul ml ur mr : Prop} {tl tr : List Char} (kto : List Char)
+    (h1 : kto.map lowerAscii = "to".toList) (hl : ExprT o l ul ml tl) (hr : ExprT o r ur mr tr) :
+    SubT o (.binary .subscript (some l) (some r) none) (tl ++ ' ' :: (kto ++ ' ' :: tr)) := by
+  obtain ⟨tkl, tsl, hsegl, hstl, hspl⟩ := hl
+  obtain ⟨tkr, tsr, hsegr, _, hspr⟩ := hr
+  refine ⟨tkl, tsl ++ (.to, kto) :: tkr :: tsr, ?_, hstl, subRun_two_any kto hspl hspr⟩
+  have h2 := Seg.app_cons o (seg_sp_kw_sp ok up kto _ .to (by decide) (by decide) h1 (by decide)) hsegr.2
+    (identCont_punct o ok ' ' (by decide))
+  have h3 := Seg.app_cons o hsegl.1 h2 brk_sp
+  simpa using h3
+
+end
+
+/-! ### `.DECIMAL(…)` -/
+
+section
+variable {o : Oracles}
+
+/-- `accOp_decimal` with any text for the keyword token -/
+theorem accOp_decimal_any (f : Nat) (x : List Char) (l r : Option Node) (h : okDecArgs l r = true) (rest : List TT) :
+    RunsV (StP o (tDot :: (.decimal, x) :: tLp :: (decArgsToks l r ++ tRp :: rest))) (accessorOp o (f + 5) .dot)
+      (.binary .decimal l r none) (StE o rest) := by
+  have pre : ∀ (w : Node) (post : PS → Prop) (ts : List TT),
+      RunsV (StE o ts) (do
+        let args ← csvList o (f + 4)
+        expect o .rparen
+        match args with
+        | [] => pure (Node.binary .decimal none none none)
+        | [a] => pure (.binary .decimal (some a) none none)
+        | [a, b] => pure (.binary .decimal (some a) (some b) none)
+        | _ => do
+          recordError
+          pure (.binary .decimal none none none)) w post →
+      RunsV (StP o (tDot :: (.decimal, x) :: tLp :: ts)) (accessorOp o (f + 5) .dot) w post := by
+    intro w post ts hk
+    rw [accessorOp]
+    lstep (consume_spec _ _)
+    simp only [reduceCtorEq, ↓reduceIte]
+    lstep (peek_cons _ _)
+    simp only [tDecimal, reduceCtorEq, ↓reduceIte, isPlainKeyName, methodOf, decide_false, Bool.or_self,
+      Bool.false_eq_true]
+    lstep (consume_spec _ _)
+    lstep (peek_cons _ _)
+    simp only [tLp, ↓reduceIte]
+    lstep (consume_spec _ _)
+    exact hk
+  apply pre
+  unfold okDecArgs at h
+  split at h
+  · -- no argument
+    simp only [decArgsToks, List.nil_append]
+    have hc : RunsV (StE o (tRp :: rest)) (csvList o (f + 4)) [] (StA o (tRp :: rest)) := by
+      rw [csvList]
+      lstep (peek_cons _ _)
+      simp only [tRp, reduceCtorEq, decide_false, Bool.or_self, Bool.false_eq_true, ↓reduceIte]
+      exact RunsV.pure _
+    lstep hc
+    lstep (expect_spec _ _ _).ofE
+    exact RunsV.pure _
+  · -- one argument
+    rename_i a
+    obtain ⟨tk, ts, htk, hk1, _⟩ := csvToks_head a
+    have he := csvElem_spec (o := o) a h (tRp :: rest)
+    simp only [decArgsToks]
+    rw [htk] at he ⊢
+    have hc : RunsV (StE o (tk :: ts ++ tRp :: rest)) (csvList o (f + 4)) [.integer a none] (StA o (tRp :: rest)) := by
+      rw [csvList]
+      lstep (peek_cons _ _)
+      obtain ⟨t, x1⟩ := tk
+      simp only at hk1
+      have : (decide (t = Tok.int) || decide (t = Tok.plus) || decide (t = Tok.minus)) = true := by
+        rcases hk1 with h | h <;> subst h <;> rfl
+      simp only [this, ↓reduceIte]
+      simp only [hd] at he
+      lstep he
+      exact (csvMore_nil (f + 2) _ _ (by simp [hd, tRp]))
+    lstep hc
+    lstep (expect_spec _ _ _).ofE
+    exact RunsV.pure _
+  · -- two arguments
+    rename_i a b
+    simp only [Bool.and_eq_true] at h
+    obtain ⟨tk, ts, htk, hk1, _⟩ := csvToks_head a
+    obtain ⟨tk2, ts2, htk2, hk2, _⟩ := csvToks_head b
+    have he := csvElem_spec (o := o) a h.1 (tComma :: csvToks b ++ tRp :: rest)
+    have he2 := csvElem_spec (o := o) b h.2 (tRp :: rest)
+    simp only [decArgsToks]
+    rw [htk] at he ⊢
+    rw [htk2] at he he2 ⊢
+    have hc : RunsV (StE o (tk :: ts ++ tComma :: tk2 :: ts2 ++ tRp :: rest)) (csvList o (f + 4))
+        [.integer a none, .integer b none] (StA o (tRp :: rest)) := by
+      rw [csvList]
+      simp only [List.cons_append, List.append_assoc]
+      lstep (peek_cons _ _)
+      obtain ⟨t, x1⟩ := tk
+      simp only at hk1
+      have : (decide (t = Tok.int) || decide (t = Tok.plus) || decide (t = Tok.minus)) = true := by
+        rcases hk1 with h | h <;> subst h <;> rfl
+      simp only [this, ↓reduceIte]
+      simp only [hd, List.cons_append, List.append_assoc] at he
+      lstep he
+      rw [csvMore]
+      lstep (peek_cons _ _)
+      simp only [tComma, ↓reduceIte]
+      lstep (consume_spec _ _)
+      lstep (peek_cons _ _)
+      obtain ⟨t2, x2⟩ := tk2
+      simp only at hk2
+      have : (decide (t2 = Tok.int) || decide (t2 = Tok.plus) || decide (t2 = Tok.minus)) = true := by
+        rcases hk2 with h | h <;> subst h <;> rfl
+      simp only [this, ↓reduceIte]
+      simp only [hd, List.cons_append] at he2
+      lstep he2
+      exact (csvMore_nil (f + 1) _ _ (by simp [hd, tRp]))
+    simp only [List.cons_append, List.append_assoc] at hc ⊢
+    lstep hc
+    lstep (expect_spec _ _ _).ofE
+    exact RunsV.pure _
+  · simp at h
+
+
+variable (ok : OrOK o) (up : OrUp o)
+include ok up
+
+/-- `.DECIMAL()`, `.DECIMAL(p)`, `.DECIMAL(p,s)`: the keyword in any case (arguments canonical) -/
+theorem stepT_decimal_sp (kx : List Char) (h1 : kx.map lowerAscii = "decimal".toList) (l r nx : Option Node)
+    (h : okDecArgs l r = true) :
+    StepT o (.binary .decimal l r nx) ('.' :: (kx ++ '(' :: (decArgsTxt l r ++ [')']))) := by
+  have hs := seg_decArgs ok l r h
+  have h3 := Seg.app_cons o hs (seg_rp o ok) brk_rp
+  have h4 := Seg.app o (seg_lp o ok) h3 (fun _ _ => trivial)
+  have hseg := seg_dot_kw_call_sp ok up kx _ .decimal (by decide) (by decide) h1 (by decide)
+    (atxt := decArgsTxt l r ++ [')']) (by simpa using h4)
+  refine ⟨.dot, ['.'], (.decimal, kx) :: tLp :: (decArgsToks l r ++ [tRp]), '.', _, Seg.weak o ok (by simpa [tDot] using hseg),
+    rfl, Or.inr (Or.inl rfl), rfl, ?_⟩
+  intro rest f _ hf'
+  simp only [List.length_cons, List.length_append, List.length_nil] at hf'
+  obtain ⟨f', rfl⟩ : ∃ f', f = f' + 5 := ⟨f - 5, by omega⟩
+  have := accOp_decimal_any (o := o) f' kx l r h rest
+  simpa [Node.setNext, tDot] using this
+
+end
+
+/-! ### more keys: identifiers with escapes; method keywords as keys (not in the last position) -/
+
+section
+variable {o : Oracles} (ok : OrOK o)
+include ok
+
+/-- `.name` with a bare identifier spelled with any mixture of identifier characters and escapes
+    (`.foo`, `.f\x6fo`): the key `s` it denotes — provided `s` is not a keyword that is a method name
+    (an identifier spelled with escapes is still looked up in the keyword table) -/
+theorem stepT_key_identSp {c0 : Char} {w s : List Char} (h : SpellsIdent o (c0 :: w) s)
+    (hk : isPlainKeyName (identToken o s) = true) (nx : Option Node) :
+    StepT o (.key s nx) ('.' :: c0 :: w) := by
+  have htok := tokAt_ident_spelled o h
+  have hns : (identToken o s, s).1 ≠ .stop := by
+    intro hh; simp only at hh; rw [hh] at hk; simp [isPlainKeyName] at hk
+  have hfacts : c0.toNat ≠ 0 ∧ NoNul w ∧ isWhitespace c0 = false ∧ isDecimalR (some c0) = false ∧
+      c0 ∉ punct := by
+    generalize hcw : c0 :: w = cw at h
+    cases h with
+    | @plain c w' s' a1 a2 h0 hws hw =>
+      injection hcw with e1 e2
+      subst e1; subst e2
+      refine ⟨h0, hw.noNul, hws, ?_, ?_⟩
+      · cases hd : isDecimalR (some c0) with
+        | false => rfl
+        | true =>
+          have hd' : isDecimal c0 = true := hd
+          rcases a2 with a2 | a2
+          · subst a2; exact absurd hd' (by decide)
+          · rw [ok.digitS c0 hd'] at a2; exact absurd a2 (by simp)
+      · intro hp
+        rcases a2 with a2 | a2
+        · subst a2; exact absurd hp (by decide)
+        · rw [ok.punctS c0 hp] at a2; exact absurd a2 (by simp)
+    | @esc es c w' s' he hw =>
+      injection hcw with e1 e2
+      subst e1; subst e2
+      exact ⟨by decide, NoNul.append he.noNul hw.noNul, by decide, by decide, by decide⟩
+  have h1 := seg_of_tokAt o htok hfacts.1 hfacts.2.1 hns hfacts.2.2.1 (fun _ h => tol_identCont o ok h)
+    (tolB_word o ok hfacts.2.2.2.1 hfacts.2.2.2.2)
+  have h2 := Seg.app_cons o (seg_dot o ok) h1 hfacts.2.2.2.1
+  exact stepT_key_tok ok hk (h2.mono o (fun _ h => brkS_identCont o ok h)) nx
+
+variable (up : OrUp o)
+include up
+
+/-- **a method keyword as a key name** (`.size`, `.type`, `.date`, `.double`, `.time`, `.decimal` … in any
+    case, the key is the text as written), *followed by another accessor*: the parser looks one token
+    ahead for `(`, and an accessor never starts with `(`.  (In the last position of a chain the
+    accessor calculus of `Layout.lean` does not know that `(` cannot follow an expression; see the
+    report.) -/
+theorem chainT_cons_kwKey (kx kw : List Char) (t0 : Tok) (hp : (kw, t0) ∈ kwListAll) (hci : ciKw t0 = true)
+    (hl : kx.map lowerAscii = kw) (hk : isMethodKw t0 = true)
+    {n : Node} {stxt ctxt : List Char} (hs : StepT o n stxt) (hc : ChainT o n.next ctxt) :
+    ChainT o (some (.key kx (some n))) ('.' :: (kx ++ (stxt ++ ctxt))) := by
+  have ht0 : t0 ≠ .stop := by intro h; subst h; simp [isMethodKw, methodOf, precisionOp] at hk
+  obtain ⟨hkseg, c0, w0, rfl, hc0⟩ := seg2_kw_sp o ok up kx kw t0 hp hci hl ht0
+  obtain ⟨t, x, ts, c, cs, hseg, hcs, hbc, hacc, hop⟩ := hs
+  obtain ⟨toks, L, hseg', hhead, hheadT, hL, hloop⟩ := hc
+  have hkd := Seg.app_cons o (seg_dot o ok) hkseg.1 (isIdCh0_notDecimal c0 hc0)
+  have hkd' : Seg o brkS ('.' :: c0 :: w0) [tDot, (t0, c0 :: w0)] := hkd.mono o (fun _ h => brkS_identCont o ok h)
+  have hrest : Seg o brk (stxt ++ ctxt) (((t, x) :: ts) ++ toks) := Seg.app o hseg hseg' hhead
+  refine ⟨[tDot, (t0, c0 :: w0)] ++ (((t, x) :: ts) ++ toks), (.key (c0 :: w0) none) :: (n.setNext none :: L), ?_, ?_, ?_,
+    ?_, ?_⟩
+  · have := Seg.app o hkd' hrest (fun r _ => by rw [hcs]; exact hbc)
+    simpa using this
+  · intro r _; exact Or.inr (Or.inl rfl)
+  · exact Or.inr ⟨.dot, ['.'], _, rfl, rfl⟩
+  · simp only [chainOf, hL, setNext_setNext, setNext_next]
+    rfl
+  · intro f head ops rest hf h1 h2
+    obtain ⟨f', rfl⟩ : ∃ f', f = f' + 2 := ⟨f - 2, by simp only [List.length_append, List.length_cons] at hf; omega⟩
+    simp only [List.length_append, List.length_cons, List.length_nil] at hf
+    have hne : (hd ((t, x) :: (ts ++ (toks ++ rest)))).1 ≠ .lparen := by
+      intro hh; simp only [hd] at hh; rw [hh] at hacc; simp [isAccessorStart] at hacc
+    rw [accessorLoop]
+    simp only [List.cons_append, List.append_assoc, List.nil_append]
+    lstep (peek_cons _ _)
+    simp only [tDot, isAccessorStart, decide_true, Bool.true_or, ↓reduceIte]
+    have hkey := accOp_kwKey (o := o) f' t0 (c0 :: w0) hk ((t, x) :: (ts ++ (toks ++ rest))) hne
+    simp only [tDot] at hkey
+    lstep hkey.toE
+    rw [accessorLoop]
+    lstep (peek_cons _ _)
+    simp only [hacc, ↓reduceIte]
+    have hop' := hop (toks ++ rest) f' (hheadT.lbrace h2) (by omega)
+    simp only [List.cons_append, List.append_assoc] at hop'
+    lstep hop'
+    have := hloop f' head (ops ++ [.key (c0 :: w0) none] ++ [n.setNext none]) rest (by omega) h1 h2
+    simpa using this
+
+end
+
+/-! ## (3) the grammar: one inductive relation over the judgements -/
+
+/-- the judgements: `expr e u m` — the text spells the expression `e` (`u`: fit as operand of `* / %` and
+    signs, `m`: fit as operand of `+ -`), `pred p a l` — … the predicate `p` (`a`: fit as operand of `&&`,
+    `l`: of `||`), `step n` — … the accessor `n` (whatever its `next`), `chain nx` — … the chain of
+    accessors `nx`, `sub s` — … the subscript `s`, `subs l` — … the subscript list `l` -/
+inductive Cat
+  | expr (e : Node) (u m : Bool)
+  | pred (p : Node) (a l : Bool)
+  | step (n : Node)
+  | chain (nx : Option Node)
+  | sub (s : Node)
+  | subs (l : List Node)
+
+/-- **the documented syntax, with its token-spelling freedoms**: `Sp o c txt` — `txt` is derivable for the
+    judgement `c`.  Layout (white space, comments) is not part of the relation: the texts carry the
+    printer's blanks and `spells_parse` covers every other layout. -/
+inductive Sp (o : Oracles) (cn : Bool) : Cat → List Char → Prop
+  /- expressions -/
+  | weaken {e : Node} {u m u' m' : Bool} {t : List Char} :
+      Sp o cn (.expr e u m) t → (u' = true → u = true) → (m' = true → m = true) → Sp o cn (.expr e u' m') t
+  | paren {e : Node} {u m : Bool} {t : List Char} :
+      Sp o cn (.expr e u m) t → Sp o cn (.expr e true true) ('(' :: (t ++ [')']))
+  | mul (op : BinOp) {l r : Node} {ml mr : Bool} {tl tr : List Char} : isMulOp op = true →
+      Sp o cn (.expr l true ml) tl → Sp o cn (.expr r true mr) tr →
+      Sp o cn (.expr (.binary op (some l) (some r) none) false true) (tl ++ ' ' :: (Print.binStr op ++ ' ' :: tr))
+  | add (op : BinOp) {l r : Node} {ul ur : Bool} {tl tr : List Char} : isAddOp op = true →
+      Sp o cn (.expr l ul true) tl → Sp o cn (.expr r ur true) tr →
+      Sp o cn (.expr (.binary op (some l) (some r) none) false false) (tl ++ ' ' :: (Print.binStr op ++ ' ' :: tr))
+  | sign (op : UnOp) {x : Node} {m : Bool} {tx : List Char} : isSign op = true →
+      Sp o cn (.expr x true m) tx → notNumLit x = true →
+      Sp o cn (.expr (.unary op (some x) none) true true) ((signTok op).2 ++ tx)
+  | negLit {i : Int} {m : Bool} {tx : List Char} : 0 < i → i < 9223372036854775808 →
+      Sp o cn (.expr (.integer i none) true m) tx → Sp o cn (.expr (.integer (-i) none) true true) ('-' :: tx)
+  | nat (i : Int) : intOK i = true → Sp o cn (.expr (.integer i none) true true) (Nat.toDigits 10 i.toNat)
+  | root {nx : Option Node} {c : List Char} : Sp o cn (.chain nx) c → Sp o cn (.expr (.const .root nx) true true) ('$' :: c)
+  | current {nx : Option Node} {c : List Char} :
+      Sp o cn (.chain nx) c → Sp o cn (.expr (.const .current nx) true true) ('@' :: c)
+  | strTok {isVar : Bool} {stxt s : List Char} {nx : Option Node} {c : List Char} : StrTok isVar stxt s →
+      Sp o cn (.chain nx) c → Sp o cn (.expr (if isVar then .var s nx else .str s nx) true true) (stxt ++ c)
+  | last (kx : List Char) {nx : Option Node} {c : List Char} : kx.map lowerAscii = "last".toList →
+      Sp o cn (.chain nx) c → Sp o cn (.expr (.const .last nx) true true) (kx ++ c)
+  | const (k : Const) {nx : Option Node} {c : List Char} : (k = .null ∨ k = .true_ ∨ k = .false_) →
+      Sp o cn (.chain nx) c → Sp o cn (.expr (.const k nx) true true) (Print.constStr k ++ c)
+  | parenChain {e n : Node} {u m : Bool} {te st ct : List Char} :
+      Sp o cn (.expr e u m) te → Sp o cn (.step n) st → Sp o cn (.chain n.next) ct →
+      Sp o cn (.expr (appendEnd e (some n)) true true) ('(' :: (te ++ ')' :: (st ++ ct)))
+  | exprCanon {e : Node} (wp : Bool) {t : List Char} : cn = true → okExpr5 o e = true →
+      Print.writeTo o.isPrint e false wp = some t → Sp o cn (.expr e (wp || !isBin e) (wp || !isAddLevel e)) t
+  /- predicates -/
+  | pweaken {p : Node} {a l a' l' : Bool} {t : List Char} :
+      Sp o cn (.pred p a l) t → (a' = true → a = true) → (l' = true → l = true) → Sp o cn (.pred p a' l') t
+  | pparen {p : Node} {a l : Bool} {t : List Char} :
+      Sp o cn (.pred p a l) t → Sp o cn (.pred p true true) ('(' :: (t ++ [')']))
+  | cmp (op : BinOp) {l r : Node} {ul ml ur mr : Bool} {tl tr otxt : List Char} : isCmp op = true →
+      cmpSp op otxt → Sp o cn (.expr l ul ml) tl → Sp o cn (.expr r ur mr) tr →
+      Sp o cn (.pred (.binary op (some l) (some r) none) true true) (tl ++ ' ' :: (otxt ++ ' ' :: tr))
+  | and {l r : Node} {ll lr : Bool} {tl tr : List Char} :
+      Sp o cn (.pred l true ll) tl → Sp o cn (.pred r true lr) tr →
+      Sp o cn (.pred (.binary .and (some l) (some r) none) false true) (tl ++ ' ' :: (Print.binStr .and ++ ' ' :: tr))
+  | or {l r : Node} {al ar : Bool} {tl tr : List Char} :
+      Sp o cn (.pred l al true) tl → Sp o cn (.pred r ar true) tr →
+      Sp o cn (.pred (.binary .or (some l) (some r) none) false false) (tl ++ ' ' :: (Print.binStr .or ++ ' ' :: tr))
+  | not {p : Node} {a l : Bool} {tp : List Char} :
+      Sp o cn (.pred p a l) tp → Sp o cn (.pred (.unary .not (some p) none) true true) ('!' :: '(' :: (tp ++ [')']))
+  | isUnknown (kis kunk : List Char) {p : Node} {a l : Bool} {tp : List Char} :
+      kis.map lowerAscii = "is".toList → kunk.map lowerAscii = "unknown".toList → Sp o cn (.pred p a l) tp →
+      Sp o cn (.pred (.unary .isUnknown (some p) none) true true) ('(' :: (tp ++ ')' :: ' ' :: (kis ++ ' ' :: kunk)))
+  | exists_ (kex : List Char) {x : Node} {u m : Bool} {tx : List Char} :
+      kex.map lowerAscii = "exists".toList → Sp o cn (.expr x u m) tx →
+      Sp o cn (.pred (.unary .exists (some x) none) true true) (kex ++ ' ' :: '(' :: (tx ++ [')']))
+  | exists0 (kex : List Char) {x : Node} {u m : Bool} {tx : List Char} :
+      kex.map lowerAscii = "exists".toList → Sp o cn (.expr x u m) tx →
+      Sp o cn (.pred (.unary .exists (some x) none) true true) (kex ++ '(' :: (tx ++ [')']))
+  | starts (kst kwi : List Char) {l : Node} {u m : Bool} {tl : List Char} {isVar : Bool} {stxt s : List Char} :
+      kst.map lowerAscii = "starts".toList → kwi.map lowerAscii = "with".toList → StrTok isVar stxt s →
+      Sp o cn (.expr l u m) tl →
+      Sp o cn (.pred (.binary .startsWith (some l) (some (if isVar then .var s none else .str s none)) none) true true)
+        (tl ++ ' ' :: (kst ++ ' ' :: (kwi ++ ' ' :: stxt)))
+  | regex (klike : List Char) {x : Node} {u m : Bool} {tx pbody pat : List Char} :
+      klike.map lowerAscii = "like_regex".toList → SpellsStr pbody pat → Sp o cn (.expr x u m) tx →
+      o.regexAccepts pat 0 = true →
+      Sp o cn (.pred (.regex x pat 0 none) true true) (tx ++ ' ' :: (klike ++ ' ' :: '"' :: (pbody ++ ['"'])))
+  | regexFlag (klike kflag : List Char) {x : Node} {u m : Bool} {tx pbody pat fbody fs : List Char} {fl : Nat} :
+      klike.map lowerAscii = "like_regex".toList → kflag.map lowerAscii = "flag".toList →
+      SpellsStr pbody pat → SpellsStr fbody fs → regexFlags fs = some fl → Sp o cn (.expr x u m) tx →
+      o.regexAccepts pat fl = true →
+      Sp o cn (.pred (.regex x pat fl none) true true)
+        (tx ++ ' ' :: (klike ++ ' ' :: '"' :: (pbody ++ '"' :: ' ' :: (kflag ++ ' ' :: '"' :: (fbody ++ ['"'])))))
+  | predCanon {p : Node} (wp : Bool) {t : List Char} : cn = true → okPred5 o p = true →
+      Print.writeTo o.isPrint p false wp = some t → Sp o cn (.pred p (wp || !isAndOr p) (wp || !isOr p)) t
+  /- accessors -/
+  | filter {p : Node} {a l : Bool} {tp : List Char} (nx : Option Node) :
+      Sp o cn (.pred p a l) tp → Sp o cn (.step (.unary .filter (some p) nx)) ('?' :: '(' :: (tp ++ [')']))
+  | index {subs : List Node} {t : List Char} (nx : Option Node) :
+      Sp o cn (.subs subs) t → Sp o cn (.step (.arrayIndex subs nx)) ('[' :: (t ++ [']']))
+  | keyQ {body s : List Char} (nx : Option Node) : SpellsStr body s →
+      Sp o cn (.step (.key s nx)) ('.' :: '"' :: (body ++ ['"']))
+  | keyIdent (c : Char) (w : List Char) (nx : Option Node) : isIdCh0 c = true → (∀ x ∈ w, isIdCh x = true) →
+      identToken o (c :: w) = .ident → Sp o cn (.step (.key (c :: w) nx)) ('.' :: c :: w)
+  | keyKw (kx kw : List Char) (t : Tok) (nx : Option Node) : (kw, t) ∈ kwListAll → ciKw t = true →
+      kx.map lowerAscii = kw → isPlainKeyName t = true → Sp o cn (.step (.key kx nx)) ('.' :: kx)
+  | keyLit (k : Const) (nx : Option Node) : (k = .null ∨ k = .true_ ∨ k = .false_) →
+      Sp o cn (.step (.key (Print.constStr k) nx)) ('.' :: Print.constStr k)
+  | keyIdentSp {c0 : Char} {w s : List Char} (nx : Option Node) : SpellsIdent o (c0 :: w) s →
+      isPlainKeyName (identToken o s) = true → Sp o cn (.step (.key s nx)) ('.' :: c0 :: w)
+  | method (m : Method) (kx : List Char) (nx : Option Node) : kx.map lowerAscii = methodName m →
+      Sp o cn (.step (.method m nx)) ('.' :: (kx ++ ['(', ')']))
+  | date (kx : List Char) (nx : Option Node) : kx.map lowerAscii = "date".toList →
+      Sp o cn (.step (.unary .date none nx)) ('.' :: (kx ++ ['(', ')']))
+  | datetime0 (kx : List Char) (nx : Option Node) : kx.map lowerAscii = "datetime".toList →
+      Sp o cn (.step (.unary .datetime none nx)) ('.' :: (kx ++ ['(', ')']))
+  | datetime (kx : List Char) {body t : List Char} (nx : Option Node) : kx.map lowerAscii = "datetime".toList →
+      SpellsStr body t →
+      Sp o cn (.step (.unary .datetime (some (.str t none)) nx)) ('.' :: (kx ++ '(' :: '"' :: (body ++ ['"', ')'])))
+  | time0 (op : UnOp) (kx : List Char) (nx : Option Node) : isTimeOp op = true → kx.map lowerAscii = timeName op →
+      Sp o cn (.step (.unary op none nx)) ('.' :: (kx ++ ['(', ')']))
+  | time1 (op : UnOp) (kx : List Char) (p : Int) (nx : Option Node) : isTimeOp op = true →
+      kx.map lowerAscii = timeName op → intOK p = true →
+      Sp o cn (.step (.unary op (some (.integer p none)) nx)) ('.' :: (kx ++ '(' :: (Nat.toDigits 10 p.toNat ++ [')'])))
+  | decimal (kx : List Char) (l r nx : Option Node) : kx.map lowerAscii = "decimal".toList → okDecArgs l r = true →
+      Sp o cn (.step (.binary .decimal l r nx)) ('.' :: (kx ++ '(' :: (decArgsTxt l r ++ [')'])))
+  | any1 {a : Nat} {ltxt : List Char} {tk : TT} (nx : Option Node) : LvlSp a ltxt tk →
+      Sp o cn (.step (.any a a nx)) ('.' :: '*' :: '*' :: '{' :: (ltxt ++ ['}']))
+  | any2 {a b : Nat} {atxt btxt : List Char} {tka tkb : TT} (kto : List Char) (nx : Option Node) :
+      LvlSp a atxt tka → LvlSp b btxt tkb → kto.map lowerAscii = "to".toList →
+      Sp o cn (.step (.any a b nx)) ('.' :: '*' :: '*' :: '{' :: (atxt ++ ' ' :: (kto ++ ' ' :: (btxt ++ ['}']))))
+  | simple {n : Node} : StepShape n → Sp o cn (.step n) (stepTxt o.isPrint n)
+  | stepCanon {n : Node} (wp : Bool) {stxt tl : List Char} : cn = true → okStep5 o n = true →
+      Print.writeNext o.isPrint n.next = some tl → Print.writeTo o.isPrint n true wp = some (stxt ++ tl) →
+      Sp o cn (.step n) stxt
+  /- chains -/
+  | nil : Sp o cn (.chain none) []
+  | cons {n : Node} {st ct : List Char} : Sp o cn (.step n) st → Sp o cn (.chain n.next) ct → Sp o cn (.chain (some n)) (st ++ ct)
+  | consKwKey (kx kw : List Char) (t0 : Tok) {n : Node} {st ct : List Char} : (kw, t0) ∈ kwListAll →
+      ciKw t0 = true → kx.map lowerAscii = kw → isMethodKw t0 = true → Sp o cn (.step n) st → Sp o cn (.chain n.next) ct →
+      Sp o cn (.chain (some (.key kx (some n)))) ('.' :: (kx ++ (st ++ ct)))
+  | chainCanon {nx : Option Node} {t : List Char} : cn = true → okNext5 o nx = true → Print.writeNext o.isPrint nx = some t →
+      Sp o cn (.chain nx) t
+  /- subscripts -/
+  | sub1 {l : Node} {u m : Bool} {tl : List Char} :
+      Sp o cn (.expr l u m) tl → Sp o cn (.sub (.binary .subscript (some l) none none)) tl
+  | sub2 (kto : List Char) {l r : Node} {ul ml ur mr : Bool} {tl tr : List Char} : kto.map lowerAscii = "to".toList →
+      Sp o cn (.expr l ul ml) tl → Sp o cn (.expr r ur mr) tr →
+      Sp o cn (.sub (.binary .subscript (some l) (some r) none)) (tl ++ ' ' :: (kto ++ ' ' :: tr))
+  | subsOne {s : Node} {t : List Char} : Sp o cn (.sub s) t → Sp o cn (.subs [s]) t
+  | subsCons {s : Node} {ss : List Node} {t t2 : List Char} :
+      Sp o cn (.sub s) t → Sp o cn (.subs ss) t2 → Sp o cn (.subs (s :: ss)) (t ++ ',' :: t2)
+
+/-- transport along an equality of texts -/
+theorem Sp.cast {o : Oracles} {cn : Bool} {c : Cat} {t t' : List Char} (h : Sp o cn c t) (e : t = t') : Sp o cn c t' := e ▸ h
+
+/-- the judgements by sort -/
+abbrev SpExpr (o : Oracles) (cn : Bool) (e : Node) (u m : Bool) (txt : List Char) : Prop := Sp o cn (.expr e u m) txt
+abbrev SpPred (o : Oracles) (cn : Bool) (p : Node) (a l : Bool) (txt : List Char) : Prop := Sp o cn (.pred p a l) txt
+abbrev SpStep (o : Oracles) (cn : Bool) (n : Node) (txt : List Char) : Prop := Sp o cn (.step n) txt
+abbrev SpChain (o : Oracles) (cn : Bool) (nx : Option Node) (txt : List Char) : Prop := Sp o cn (.chain nx) txt
+abbrev SpSub (o : Oracles) (cn : Bool) (s : Node) (txt : List Char) : Prop := Sp o cn (.sub s) txt
+abbrev SpSubs (o : Oracles) (cn : Bool) (l : List Node) (txt : List Char) : Prop := Sp o cn (.subs l) txt
+
+/-- what a judgement means: the relational layer of `Layout.lean` -/
+def Cat.den (o : Oracles) : Cat → List Char → Prop
+  | .expr e u m, t => ExprT o e (u = true) (m = true) t
+  | .pred p a l, t => PredT o p (a = true) (l = true) t
+  | .step n, t => StepT o n t
+  | .chain nx, t => ChainT o nx t
+  | .sub s, t => SubT o s t
+  | .subs l, t => SubsT o l t
+
+section
+variable {o : Oracles} {cn : Bool} (ok : OrOK o) (up : OrUp o)
+include ok up
+
+/-- **Soundness of the grammar**: every derivable text is a spelling in the sense of `ExprT` / `PredT` /
+    `StepT` / `ChainT` / `SubT` / `SubsT` (one induction over the derivation). -/
+theorem Sp.sound {cn : Bool} {c : Cat} {t : List Char} (h : Sp o cn c t) : c.den o t := by
+  induction h with
+  | weaken _ hu hm ih => exact exprT_weaken ih hu hm
+  | paren _ ih => exact exprT_weaken (exprT_paren ok ih) (fun _ => trivial) (fun _ => trivial)
+  | mul op hop _ _ ihl ihr =>
+    exact exprT_weaken (exprT_mul ok op hop (exprT_weaken ihl (fun _ => rfl) id) (exprT_weaken ihr (fun _ => rfl) id))
+      (fun h => absurd h (by decide)) (fun _ => trivial)
+  | add op hop _ _ ihl ihr =>
+    exact exprT_weaken (exprT_add ok op hop (exprT_weaken ihl id (fun _ => rfl)) (exprT_weaken ihr id (fun _ => rfl)))
+      (fun h => absurd h (by decide)) (fun h => absurd h (by decide))
+  | sign op hop _ hn ih =>
+    exact exprT_weaken (exprT_sign ok op hop (exprT_weaken ih (fun _ => rfl) id) hn) (fun _ => trivial) (fun _ => trivial)
+  | negLit h0 h1 _ ih =>
+    exact exprT_weaken (exprT_neg_lit ok h0 h1 (exprT_weaken ih (fun _ => rfl) id)) (fun _ => trivial) (fun _ => trivial)
+  | nat i hi => exact exprT_weaken (exprT_nat ok i hi) (fun _ => trivial) (fun _ => trivial)
+  | root _ ih => exact exprT_weaken (exprT_root ok ih) (fun _ => trivial) (fun _ => trivial)
+  | current _ ih => exact exprT_weaken (exprT_current ok ih) (fun _ => trivial) (fun _ => trivial)
+  | strTok hs _ ih => exact exprT_weaken (exprT_strTok_sp ok up hs ih) (fun _ => trivial) (fun _ => trivial)
+  | last kx h1 _ ih => exact exprT_weaken (exprT_last_sp ok up kx h1 ih) (fun _ => trivial) (fun _ => trivial)
+  | const k hk _ ih => exact exprT_weaken (exprT_const ok k hk ih) (fun _ => trivial) (fun _ => trivial)
+  | parenChain _ _ _ ihe ihs ihc =>
+    exact exprT_weaken (exprT_paren_chain ok ihe ihs ihc) (fun _ => trivial) (fun _ => trivial)
+  | exprCanon wp _ he hpr =>
+    obtain ⟨t', hpr', ht⟩ := exprT_stage5 ok he wp
+    rw [hpr] at hpr'
+    injection hpr' with e1
+    subst e1
+    refine exprT_weaken ht ?_ ?_
+    · intro h; cases wp <;> simp_all
+    · intro h; cases wp <;> simp_all
+  | pweaken _ ha hl ih => exact predT_weaken ih ha hl
+  | pparen _ ih => exact predT_weaken (predT_paren ok ih) (fun _ => trivial) (fun _ => trivial)
+  | cmp op hop ho _ _ ihl ihr =>
+    exact predT_weaken (predT_cmp_sp ok op hop ho ihl ihr) (fun _ => trivial) (fun _ => trivial)
+  | and _ _ ihl ihr =>
+    exact predT_weaken (predT_and ok (predT_weaken ihl (fun _ => rfl) id) (predT_weaken ihr (fun _ => rfl) id))
+      (fun h => absurd h (by decide)) (fun _ => trivial)
+  | or _ _ ihl ihr =>
+    exact predT_weaken (predT_or ok (predT_weaken ihl id (fun _ => rfl)) (predT_weaken ihr id (fun _ => rfl)))
+      (fun h => absurd h (by decide)) (fun h => absurd h (by decide))
+  | not _ ih => exact predT_weaken (predT_not ok ih) (fun _ => trivial) (fun _ => trivial)
+  | isUnknown kis kunk h1 h2 _ ih =>
+    exact predT_weaken (predT_isUnknown_sp ok up kis kunk h1 h2 ih) (fun _ => trivial) (fun _ => trivial)
+  | exists_ kex h1 _ ih => exact predT_weaken (predT_exists_sp ok up kex h1 ih) (fun _ => trivial) (fun _ => trivial)
+  | exists0 kex h1 _ ih => exact predT_weaken (predT_exists_sp0 ok up kex h1 ih) (fun _ => trivial) (fun _ => trivial)
+  | starts kst kwi h1 h2 hs _ ih =>
+    exact predT_weaken (predT_starts_sp ok up kst kwi h1 h2 hs ih) (fun _ => trivial) (fun _ => trivial)
+  | regex klike h1 hp _ hacc ih =>
+    exact predT_weaken (predT_regex_sp ok up klike h1 hp ih hacc) (fun _ => trivial) (fun _ => trivial)
+  | regexFlag klike kflag h1 h2 hp hf hfs _ hacc ih =>
+    exact predT_weaken (predT_regex_flag_sp ok up klike kflag h1 h2 hp hf hfs ih hacc) (fun _ => trivial)
+      (fun _ => trivial)
+  | predCanon wp _ hp hpr =>
+    obtain ⟨t', hpr', ht⟩ := predT_stage5 ok hp wp
+    rw [hpr] at hpr'
+    injection hpr' with e1
+    subst e1
+    refine predT_weaken ht ?_ ?_
+    · intro h; cases wp <;> simp_all
+    · intro h; cases wp <;> simp_all
+  | filter nx _ ih => exact stepT_filter ok ih nx
+  | index nx _ ih => exact stepT_index ok ih nx
+  | keyQ nx hs => exact stepT_key_sp ok hs nx
+  | keyIdent c w nx hc hw hid => exact stepT_key_ident ok up c w hc hw hid nx
+  | keyKw kx kw t nx hp hci hl hk => exact stepT_key_kw ok up kx kw t hp hci hl hk nx
+  | keyLit k nx hk => exact stepT_key_lit ok k hk nx
+  | keyIdentSp nx hs hk => exact stepT_key_identSp ok hs hk nx
+  | method m kx nx h1 => exact stepT_method_sp ok up m kx h1 nx
+  | date kx nx h1 => exact stepT_date_sp ok up kx h1 nx
+  | datetime0 kx nx h1 => exact stepT_datetime0_sp ok up kx h1 nx
+  | datetime kx nx h1 ht => exact stepT_datetime_sp ok up kx h1 ht nx
+  | time0 op kx nx hop h1 => exact stepT_time0_sp ok up op hop kx h1 nx
+  | time1 op kx p nx hop h1 hp => exact stepT_time1_sp ok up op hop kx h1 p hp nx
+  | decimal kx l r nx h1 hd => exact stepT_decimal_sp ok up kx h1 l r nx hd
+  | any1 nx hl => exact stepT_any1_sp ok up hl nx
+  | any2 kto nx ha hb h1 => exact stepT_any2_sp ok up ha hb kto h1 nx
+  | simple hs => exact stepT_simple ok hs
+  | stepCanon wp _ hn htl hpr =>
+    obtain ⟨stxt', hw, hT⟩ := stepT_stage5 ok hn
+    have := hw wp
+    rw [hpr, htl] at this
+    simp only [Option.bind_some, Option.some.injEq] at this
+    have e := List.append_cancel_right this
+    subst e
+    exact hT
+  | nil => exact chainT_nil
+  | cons _ _ ihs ihc => exact chainT_cons ihs ihc
+  | consKwKey kx kw t0 hp hci hl hk _ _ ihs ihc => exact chainT_cons_kwKey ok up kx kw t0 hp hci hl hk ihs ihc
+  | chainCanon _ hn hpr =>
+    obtain ⟨t', hpr', ht⟩ := chainT_stage5 ok hn
+    rw [hpr] at hpr'
+    injection hpr' with e1
+    subst e1
+    exact ht
+  | sub1 _ ih => exact subT_one ih
+  | sub2 kto h1 _ _ ihl ihr => exact subT_two_sp ok up kto h1 ihl ihr
+  | subsOne _ ih => exact subsT_one ih
+  | subsCons _ _ ih1 ih2 => exact subsT_cons ok ih1 ih2
+
+theorem SpExpr.sound {e : Node} {u m : Bool} {txt : List Char} (h : SpExpr o cn e u m txt) :
+    ExprT o e (u = true) (m = true) txt := Sp.sound ok up h
+theorem SpPred.sound {p : Node} {a l : Bool} {txt : List Char} (h : SpPred o cn p a l txt) :
+    PredT o p (a = true) (l = true) txt := Sp.sound ok up h
+theorem SpStep.sound {n : Node} {txt : List Char} (h : SpStep o cn n txt) : StepT o n txt := Sp.sound ok up h
+theorem SpChain.sound {nx : Option Node} {txt : List Char} (h : SpChain o cn nx txt) : ChainT o nx txt :=
+  Sp.sound ok up h
+theorem SpSub.sound {s : Node} {txt : List Char} (h : SpSub o cn s txt) : SubT o s txt := Sp.sound ok up h
+theorem SpSubs.sound {l : List Node} {txt : List Char} (h : SpSubs o cn l txt) : SubsT o l txt := Sp.sound ok up h
+
+/-- **C03, expressions**: every text the grammar generates for the expression `e` parses — after the mode
+    prefix, in every layout, every token respelled — to `e` -/
+theorem spells_parse {e : Node} {u m : Bool} {txt : List Char} (h : SpExpr o cn e u m txt)
+    (hv : validate e = true) (lax : Bool) :
+    ∃ items, SpellInv o ⟨e, lax, false⟩ (modeTxt lax ++ txt) items :=
+  layout_exprT ok (SpExpr.sound ok up h) hv lax
+
+/-- **C03, predicates** -/
+theorem spells_parse_pred {p : Node} {a l : Bool} {txt : List Char} (h : SpPred o cn p a l txt)
+    (hv : validate p = true) (lax : Bool) :
+    ∃ items, SpellInv o ⟨p, lax, true⟩ (modeTxt lax ++ txt) items :=
+  layout_predT ok (SpPred.sound ok up h) hv lax
+
+end
+
+/-! ## (3b) the mode keyword in any spelling (`STRICT`, `Lax`, …, or none) before any generated text -/
+
+/-- `RootOK` without the print equation, the text being a parameter -/
+def RootT (o : Oracles) (root : Node) (isPred : Bool) (txt : List Char) : Prop :=
+  ∃ (tk : TT) (ts : List TT), Seg2 o brk txt (tk :: ts) ∧ tk.1 ≠ .strict ∧ tk.1 ≠ .lax ∧
+    ∀ (f : Nat) (lax : Bool), 16 * (ts.length + 1) + 8 ≤ f → ∃ ev : EV, ev.node = root ∧
+      ∃ a mid, RunsV (StE o (tk :: ts)) (parseAtom o f .top) a (StE o mid) ∧
+        RunsV (StE o mid) (match a with
+          | .expr v _ => (pure (lax, false, v) : P (Bool × Bool × EV))
+          | .pred v0 => do
+            let (v, _) ← predLoop o f v0
+            pure (lax, true, v)) (lax, isPred, ev) (StE o [])
+
+section
+variable {o : Oracles} {cn : Bool}
+
+theorem rootT_of_exprT {e : Node} {u m : Prop} {txt : List Char} (h : ExprT o e u m txt) : RootT o e false txt := by
+  obtain ⟨tk, ts, hseg, hst, hsp⟩ := h
+  have hm := predStart_mode hst
+  refine ⟨tk, ts, hseg, hm.1, hm.2, ?_⟩
+  intro f lax hf
+  obtain ⟨F, rfl⟩ : ∃ F, f = F + 2 := ⟨f - 2, by omega⟩
+  refine ⟨evOf e, rfl, .expr (evOf e) .stop, [], ?_, RunsV.pure _⟩
+  have := atom_of_expr hsp F .top [] (.expr (evOf e) .stop) (StE o []) (by omega) ⟨rfl, by decide, rfl, rfl⟩
+    (exprK_end F .top (by decide) (evOf e) [] (Or.inr rfl)).toE
+  simpa using this
+
+theorem rootT_of_predT {p : Node} {a l : Prop} {txt : List Char} (h : PredT o p a l txt) : RootT o p true txt := by
+  obtain ⟨toks, hseg, ⟨tk, ts, htoks, hst⟩, _, _, hl2⟩ := h
+  subst htoks
+  have hm := predStart_mode hst
+  have hfull := full_of_left (by decide) hl2
+  refine ⟨tk, ts, hseg, hm.1, hm.2, ?_⟩
+  intro f lax hf
+  obtain ⟨v0, mid, h1, h2⟩ := hfull f .top [] (by simpa using hf) (Or.inr rfl)
+  refine ⟨{ node := p }, rfl, .pred v0, mid, by simpa using h1, ?_⟩
+  simp only []
+  lstep h2
+  exact RunsV.pure' rfl (fun _ h => StE.ofA h)
+
+/-- `layout_mode` for a root given by its text -/
+theorem layout_modeT (ok : OrOK o) (up : OrUp o) {root : Node} {isPred : Bool} {txt : List Char}
+    (H : RootT o root isPred txt) (hv : validate root = true) {lax : Bool} {md : List Char} {mt : List TT}
+    (hm : ModeSp lax md mt) : ∃ items, SpellInv o ⟨root, lax, isPred⟩ (withMode md txt) items := by
+  obtain ⟨tk, ts, hseg, h1, h2, hrun⟩ := H
+  cases hm with
+  | none =>
+    have hr : ∀ f, 16 * (tk :: ts).length + 8 ≤ f → ∃ ev : EV, ev.node = root ∧
+        RunsV (StE o (tk :: ts)) (parseBody o f) (true, isPred, ev) (StE o []) := by
+      intro f hf
+      obtain ⟨ev, hev, hatom⟩ := hrun f true (by simpa using hf)
+      exact ⟨ev, hev, body_nomode_tok h1 h2 hatom⟩
+    obtain ⟨items, e1, _, e3, e4, e5⟩ := parse_layout ok hseg.1 true isPred root hr hv
+    exact ⟨items, by simpa [withMode] using e1, e3, e4, e5⟩
+  | kw lax c w hl =>
+    have hkw : ((if lax then "lax".toList else "strict".toList), (if lax then Tok.lax else Tok.strict)) ∈ kwListAll := by
+      cases lax <;> decide
+    have hci : ciKw (if lax then Tok.lax else Tok.strict) = true := by cases lax <;> decide
+    have hns : (if lax then Tok.lax else Tok.strict) ≠ .stop := by cases lax <;> decide
+    have s1 := seg_kw_case o ok up c w _ _ hkw hci hl hns
+    have hs := Seg.app_cons o s1 hseg.2 (identCont_punct o (ok : RoundTrip.OrOK o) ' ' (by decide))
+    have hr : ∀ f, 16 * ([(if lax then Tok.lax else Tok.strict, c :: w)] ++ tk :: ts).length + 8 ≤ f →
+        ∃ ev : EV, ev.node = root ∧
+        RunsV (StE o ([(if lax then Tok.lax else Tok.strict, c :: w)] ++ tk :: ts)) (parseBody o f)
+          (lax, isPred, ev) (StE o []) := by
+      intro f hf
+      obtain ⟨ev, hev, hatom⟩ := hrun f lax (by simp at hf; omega)
+      exact ⟨ev, hev, body_mode_tok lax (c :: w) hatom⟩
+    obtain ⟨items, e1, _, e3, e4, e5⟩ := parse_layout ok hs lax isPred root hr hv
+    exact ⟨items, by simpa [withMode] using e1, e3, e4, e5⟩
+
+variable (ok : OrOK o) (up : OrUp o)
+include ok up
+
+/-- **C03, expressions, with the mode keyword in any case** (`STRICT`, `Lax`, …) or absent -/
+theorem spells_parse_mode {e : Node} {u m : Bool} {txt : List Char} (h : SpExpr o cn e u m txt)
+    (hv : validate e = true) {lax : Bool} {md : List Char} {mt : List TT} (hm : ModeSp lax md mt) :
+    ∃ items, SpellInv o ⟨e, lax, false⟩ (withMode md txt) items :=
+  layout_modeT ok up (rootT_of_exprT (SpExpr.sound ok up h)) hv hm
+
+/-- **C03, predicates, with the mode keyword in any case** -/
+theorem spells_parse_pred_mode {p : Node} {a l : Bool} {txt : List Char} (h : SpPred o cn p a l txt)
+    (hv : validate p = true) {lax : Bool} {md : List Char} {mt : List TT} (hm : ModeSp lax md mt) :
+    ∃ items, SpellInv o ⟨p, lax, true⟩ (withMode md txt) items :=
+  layout_modeT ok up (rootT_of_predT (SpPred.sound ok up h)) hv hm
+
+/-- in particular: the text itself (mode keyword in any case, then one blank, then any generated text),
+    followed by any separator, parses to the tree -/
+theorem spells_parse_text {e : Node} {u m : Bool} {txt : List Char} (h : SpExpr o cn e u m txt)
+    (hv : validate e = true) {lax : Bool} {md : List Char} {mt : List TT} (hm : ModeSp lax md mt)
+    (fin : List Char) (hfin : Sep fin) (bytes : List UInt8)
+    (hb : decodeAll bytes = (withMode md txt ++ fin).map Src.ch) : parse o bytes = .ok ⟨e, lax, false⟩ := by
+  obtain ⟨items, hi⟩ := spells_parse_mode ok up h hv hm
+  exact hi.self fin hfin bytes hb
+
+theorem spells_parse_pred_text {p : Node} {a l : Bool} {txt : List Char} (h : SpPred o cn p a l txt)
+    (hv : validate p = true) {lax : Bool} {md : List Char} {mt : List TT} (hm : ModeSp lax md mt)
+    (fin : List Char) (hfin : Sep fin) (bytes : List UInt8)
+    (hb : decodeAll bytes = (withMode md txt ++ fin).map Src.ch) : parse o bytes = .ok ⟨p, lax, true⟩ := by
+  obtain ⟨items, hi⟩ := spells_parse_pred_mode ok up h hv hm
+  exact hi.self fin hfin bytes hb
+
+/-! ## (3c) every tree of the class `RT5` is generated -/
+
+omit up in
+/-- the printed text of the root of a tree of the class is derivable (fit for every position) for that root;
+    hence (`spells_parse`, `spells_parse_pred`) `layout_stage5` is an instance of the grammar theorem -/
+theorem rt5_generated (a : AST) (h : RT5 o a = true) :
+    ∃ txt, Print.writeTo o.isPrint a.root false true = some txt ∧
+      Print.toString o.isPrint a = some (modeTxt a.lax ++ txt) ∧
+      (if a.pred then SpPred o true a.root true true txt else SpExpr o true a.root true true txt) := by
+  obtain ⟨root, lax, pred⟩ := a
+  simp only [RT5, Bool.and_eq_true] at h
+  obtain ⟨hv, hr⟩ := h
+  cases pred with
+  | true =>
+    simp only [if_true] at hr
+    obtain ⟨txt, hpr, _⟩ := predT_stage5 ok hr true
+    exact ⟨txt, hpr, toString_eq _ _ _ _ _ hpr, Sp.predCanon true rfl hr hpr⟩
+  | false =>
+    simp only [Bool.false_eq_true, if_false] at hr
+    obtain ⟨txt, hpr, _⟩ := exprT_stage5 ok hr true
+    exact ⟨txt, hpr, toString_eq _ _ _ _ _ hpr, Sp.exprCanon true rfl hr hpr⟩
+
+end
+
+/-! ## (3e) the grammar proper generates the printer's text of every tree of the class `RT5`
+
+`Sp o false`: derivations that do not use the four "canonical leaf" constructors.  The printer's text of
+an expression / predicate / accessor / chain of the class is derivable by the proper rules (keywords in
+lower case, strings in the printer's escaping, parentheses where the printer writes them). -/
+
+def GenE (o : Oracles) (e : Node) : Prop :=
+  ∀ wp : Bool, ∃ txt, Print.writeTo o.isPrint e false wp = some txt ∧
+    Sp o false (.expr e (wp || !isBin e) (wp || !isAddLevel e)) txt
+
+def GenP (o : Oracles) (p : Node) : Prop :=
+  ∀ wp : Bool, ∃ txt, Print.writeTo o.isPrint p false wp = some txt ∧
+    Sp o false (.pred p (wp || !isAndOr p) (wp || !isOr p)) txt
+
+def GenS (o : Oracles) (n : Node) : Prop :=
+  ∃ stxt, (∀ wp, Print.writeTo o.isPrint n true wp
+      = (Print.writeNext o.isPrint n.next).bind (fun tl => some (stxt ++ tl))) ∧ Sp o false (.step n) stxt
+
+def GenC (o : Oracles) (nx : Option Node) : Prop :=
+  ∃ txt, Print.writeNext o.isPrint nx = some txt ∧ Sp o false (.chain nx) txt
+
+def GenSub (o : Oracles) (s : Node) : Prop :=
+  ∃ txt, Print.writeTo o.isPrint s false false = some txt ∧ Sp o false (.sub s) txt
+
+section
+variable {o : Oracles}
+
+theorem quote_body (isPrint : Char → Bool) (s : List Char) :
+    Print.quote isPrint s = '"' :: (body isPrint s ++ ['"']) := by simp [Print.quote, body]
+
+theorem genC_nil : GenC o none := ⟨[], rfl, Sp.nil⟩
+
+theorem genC_cons {n : Node} (hs : GenS o n) (hc : GenC o n.next) : GenC o (some n) := by
+  obtain ⟨stxt, hw, hsp⟩ := hs
+  obtain ⟨txt, hw', hcp⟩ := hc
+  refine ⟨stxt ++ txt, ?_, Sp.cons hsp hcp⟩
+  simp only [Print.writeNext, hw true, hw']
+  rfl
+
+theorem genS_simple {n : Node} (h : StepShape n) : GenS o n :=
+  ⟨stepTxt o.isPrint n, writeTo_step o.isPrint h, Sp.simple h⟩
+
+theorem genS_filter (p : Node) (nx : Option Node) (hp : GenP o p) : GenS o (.unary .filter (some p) nx) := by
+  obtain ⟨ptxt, hpr, hsp⟩ := hp false
+  refine ⟨'?' :: '(' :: (ptxt ++ [')']), ?_, Sp.filter nx hsp⟩
+  intro wp
+  rw [Print.writeTo]
+  simp only [Node.next, Print.writeOpd, hpr, unStr_filter]
+  generalize Print.writeNext o.isPrint nx = w
+  cases w <;> simp
+
+theorem genSub_one (l : Node) (hl : GenE o l) : GenSub o (.binary .subscript (some l) none none) := by
+  obtain ⟨txt, hpr, hsp⟩ := hl false
+  refine ⟨txt, ?_, Sp.sub1 hsp⟩
+  simp [Print.writeTo, Print.writeOpd, Print.writeNext, hpr]
+
+theorem genSub_two (l r : Node) (hl : GenE o l) (hr : GenE o r) :
+    GenSub o (.binary .subscript (some l) (some r) none) := by
+  obtain ⟨ltxt, hprl, hsl⟩ := hl false
+  obtain ⟨rtxt, hprr, hsr⟩ := hr false
+  refine ⟨ltxt ++ ' ' :: ("to".toList ++ ' ' :: rtxt), ?_, Sp.sub2 "to".toList (by decide) hsl hsr⟩
+  have e : " to ".toList = [' ', 't', 'o', ' '] := by decide
+  have e2 : "to".toList = ['t', 'o'] := by decide
+  simp [Print.writeTo, Print.writeOpd, Print.writeNext, hprl, hprr, e, e2]
+
+theorem genSubs_of : ∀ (subs : List Node), subs ≠ [] → (∀ s ∈ subs, GenSub o s) →
+    ∃ txt, Print.writeSubs o.isPrint subs true = some txt ∧
+      Print.writeSubs o.isPrint subs false = some (',' :: txt) ∧ Sp o false (.subs subs) txt := by
+  intro subs
+  induction subs with
+  | nil => intro h; exact absurd rfl h
+  | cons s ss ih =>
+    intro _ hs
+    obtain ⟨txt, hpr, hsp⟩ := hs s (by simp)
+    cases ss with
+    | nil => exact ⟨txt, by simp [Print.writeSubs, hpr], by simp [Print.writeSubs, hpr], Sp.subsOne hsp⟩
+    | cons s2 ss2 =>
+      obtain ⟨txt2, hpr2a, hpr2b, hsp2⟩ := ih (by simp) (fun x hx => hs x (by simp at hx ⊢; right; exact hx))
+      refine ⟨txt ++ ',' :: txt2, ?_, ?_, Sp.subsCons hsp hsp2⟩
+      · rw [Print.writeSubs]; simp [hpr, hpr2b]
+      · rw [Print.writeSubs]; simp [hpr, hpr2b]
+
+theorem genS_index (subs : List Node) (nx : Option Node) (hne : subs ≠ []) (hs : ∀ s ∈ subs, GenSub o s) :
+    GenS o (.arrayIndex subs nx) := by
+  obtain ⟨txt, hpr, _, hsp⟩ := genSubs_of subs hne hs
+  refine ⟨'[' :: (txt ++ [']']), ?_, Sp.index nx hsp⟩
+  intro wp
+  rw [Print.writeTo]; simp only [Node.next, hpr]
+  generalize Print.writeNext o.isPrint nx = w
+  cases w <;> simp
+
+theorem timeName_lower (op : UnOp) : (timeName op).map lowerAscii = timeName op := by cases op <;> decide
+
+theorem genS_time0 (op : UnOp) (hop : isTimeOp op = true) (nx : Option Node) : GenS o (.unary op none nx) := by
+  have hf := time_facts hop
+  refine ⟨'.' :: (timeName op ++ ['(', ')']), ?_, Sp.time0 op (timeName op) nx hop (timeName_lower op)⟩
+  intro wp
+  have hu := hf.2.2.2.2.2.2.2.2.2.1
+  cases op <;> simp [isTimeOp] at hop <;>
+    (rw [Print.writeTo]; simp only [Node.next, Print.stringOpt, hu, timeName]
+     generalize Print.writeNext o.isPrint nx = wn
+     cases wn <;> simp)
+
+theorem genS_time1 (op : UnOp) (hop : isTimeOp op = true) (p : Int) (hp : intOK p = true) (nx : Option Node) :
+    GenS o (.unary op (some (.integer p none)) nx) := by
+  have hf := time_facts hop
+  refine ⟨'.' :: (timeName op ++ '(' :: (Nat.toDigits 10 p.toNat ++ [')'])), ?_,
+    Sp.time1 op (timeName op) p nx hop (timeName_lower op) hp⟩
+  intro wp
+  have hu := hf.2.2.2.2.2.2.2.2.2.1
+  have hfi := formatInt_nonneg hp
+  cases op <;> simp [isTimeOp] at hop <;>
+    (rw [Print.writeTo]; simp only [Node.next, Print.stringOpt, Print.simpleString?, hu, hfi, timeName]
+     generalize Print.writeNext o.isPrint nx = wn
+     cases wn <;> simp)
+
+theorem genS_decimal (l r nx : Option Node) (h : okDecArgs l r = true) : GenS o (.binary .decimal l r nx) := by
+  refine ⟨'.' :: ("decimal".toList ++ '(' :: (decArgsTxt l r ++ [')'])), ?_,
+    Sp.decimal "decimal".toList l r nx (by decide) h⟩
+  intro wp
+  have e : ".decimal(".toList = ['.', 'd', 'e', 'c', 'i', 'm', 'a', 'l', '('] := by decide
+  have e2 : "decimal".toList = ['d', 'e', 'c', 'i', 'm', 'a', 'l'] := by decide
+  unfold okDecArgs at h
+  split at h
+  · rw [Print.writeTo]; simp only [Node.next, Print.stringOpt, e, e2, decArgsTxt]
+    generalize Print.writeNext o.isPrint nx = wn
+    cases wn <;> simp
+  · rw [Print.writeTo]; simp only [Node.next, Print.stringOpt, Print.simpleString?, e, e2, decArgsTxt, formatInt_csv]
+    generalize Print.writeNext o.isPrint nx = wn
+    cases wn <;> simp
+  · rw [Print.writeTo]; simp only [Node.next, Print.stringOpt, Print.simpleString?, e, e2, decArgsTxt, formatInt_csv]
+    generalize Print.writeNext o.isPrint nx = wn
+    cases wn <;> simp
+  · simp at h
+
+/-! ### expressions -/
+
+/-- a node that is an atom however it is printed -/
+theorem genE_atom {e : Node} {txt : List Char} (hb : isBin e = false) (ha : isAddLevel e = false)
+    (hpr : ∀ wp, Print.writeTo o.isPrint e false wp = some txt) (hsp : Sp o false (.expr e true true) txt) :
+    GenE o e := by
+  intro wp
+  refine ⟨txt, hpr wp, ?_⟩
+  rw [hb, ha]
+  cases wp <;> exact hsp
+
+/-- from the unparenthesised form of a node that `parenIf` wraps -/
+theorem genE_wrap {e : Node} {txt : List Char}
+    (hpr : ∀ wp, Print.writeTo o.isPrint e false wp = some (Print.parenIf wp txt))
+    (hsp : Sp o false (.expr e (!isBin e) (!isAddLevel e)) txt) : GenE o e := by
+  intro wp
+  cases wp with
+  | false => exact ⟨txt, by simpa [Print.parenIf] using hpr false, hsp⟩
+  | true => exact ⟨'(' :: (txt ++ [')']), by simpa [Print.parenIf] using hpr true, Sp.paren hsp⟩
+
+theorem genE_const (k : Const) (hk : isOpdConst k = true ∨ k = .last) {nx : Option Node} (hc : GenC o nx) :
+    GenE o (.const k nx) := by
+  obtain ⟨tl, hw, hcp⟩ := hc
+  refine genE_atom (txt := Print.constStr k ++ tl) rfl rfl ?_ ?_
+  · intro wp; rw [Print.writeTo]; simp [hw]
+  · rcases hk with hk | hk
+    · cases k <;> simp [isOpdConst] at hk
+      · exact (Sp.root hcp).cast (by simp [Print.constStr])
+      · exact (Sp.current hcp).cast (by simp [Print.constStr])
+      · exact Sp.const .true_ (Or.inr (Or.inl rfl)) hcp
+      · exact Sp.const .false_ (Or.inr (Or.inr rfl)) hcp
+      · exact Sp.const .null (Or.inl rfl) hcp
+    · subst hk
+      exact (Sp.last "last".toList (by decide) hcp).cast (by simp [Print.constStr])
+
+theorem genE_str (ok : OrOK o) (s : List Char) (hs : NoNul s) {nx : Option Node} (hc : GenC o nx) :
+    GenE o (.str s nx) := by
+  obtain ⟨tl, hw, hcp⟩ := hc
+  refine genE_atom (txt := Print.quote o.isPrint s ++ tl) rfl rfl ?_ ?_
+  · intro wp; rw [Print.writeTo]; simp [hw]
+  · have := Sp.strTok (o := o) (cn := false) (isVar := false) (.str (spellsStr_body o.isPrint ok.nl s hs)) hcp
+    rw [quote_body]
+    exact this
+
+theorem genE_var (ok : OrOK o) (s : List Char) (hs : NoNul s) {nx : Option Node} (hc : GenC o nx) :
+    GenE o (.var s nx) := by
+  obtain ⟨tl, hw, hcp⟩ := hc
+  refine genE_atom (txt := '$' :: (Print.quote o.isPrint s ++ tl)) rfl rfl ?_ ?_
+  · intro wp; rw [Print.writeTo]; simp [hw]
+  · have := Sp.strTok (o := o) (cn := false) (isVar := true) (.qvar (spellsStr_body o.isPrint ok.nl s hs)) hcp
+    rw [quote_body]
+    exact this
+
+theorem sp_int (i : Int) (h : litOK i = true) :
+    Sp o false (.expr (.integer i none) true true) (Decimal.formatInt i) := by
+  simp only [litOK, Bool.and_eq_true, decide_eq_true_eq] at h
+  by_cases h0 : 0 ≤ i
+  · have hneg : ¬ i < 0 := by omega
+    have e : i.natAbs = i.toNat := by omega
+    have := Sp.nat (o := o) (cn := false) i (by simp only [intOK, Bool.and_eq_true, decide_eq_true_eq]; omega)
+    exact this.cast (by simp [Decimal.formatInt, Decimal.formatNat, hneg, e])
+  · have hneg : i < 0 := by omega
+    have hpos := Sp.nat (o := o) (cn := false) (-i) (by simp only [intOK, Bool.and_eq_true, decide_eq_true_eq]; omega)
+    have := Sp.negLit (o := o) (cn := false) (i := -i) (by omega) (by omega) hpos
+    rw [Int.neg_neg] at this
+    have e : (-i).toNat = i.natAbs := by omega
+    exact this.cast (by simp [Decimal.formatInt, Decimal.formatNat, hneg, e])
+
+theorem genE_int (i : Int) (h : litOK i = true) : GenE o (.integer i none) := by
+  refine genE_atom (txt := Decimal.formatInt i) rfl rfl ?_ (sp_int i h)
+  intro wp
+  simp [Print.writeTo, Print.writeNext, Print.parenIf]
+
+theorem genE_intChain (i : Int) (n : Node) (h : litOK i = true) (hs : GenS o n) (hc : GenC o n.next) :
+    GenE o (.integer i (some n)) := by
+  obtain ⟨stxt, hw, hsp⟩ := hs
+  obtain ⟨ctxt, hw', hcp⟩ := hc
+  refine genE_atom (txt := '(' :: (Decimal.formatInt i ++ ')' :: (stxt ++ ctxt))) rfl rfl ?_ ?_
+  · intro wp
+    rw [Print.writeTo]
+    simp [Print.writeNext, hw true, hw', Print.parenIf]
+  · have := Sp.parenChain (sp_int (o := o) i h) hsp hcp
+    simpa [appendEnd] using this
+
+theorem genE_sign (op : UnOp) (x : Node) (hop : isSign op = true) (hx : GenE o x) (hn : notNumLit x = true)
+    (hu : decide (Print.priority x ≤ Print.unPriority op) = true ∨ isBin x = false) :
+    GenE o (.unary op (some x) none) := by
+  obtain ⟨xtxt, hpr, hsx⟩ := hx (decide (Print.priority x ≤ Print.unPriority op))
+  refine genE_wrap (txt := (signTok op).2 ++ xtxt) ?_ ?_
+  · intro wp
+    cases op <;> simp [isSign] at hop
+    · simp [Print.writeTo, Print.writeOpd, Print.writeNext, hpr, unStr_plus, signTok, tPlus]
+    · simp [Print.writeTo, Print.writeOpd, Print.writeNext, hpr, unStr_minus, signTok, tMinus]
+  · have h1 : Sp o false (.expr x true _) xtxt :=
+      Sp.weaken hsx (u' := true) (fun _ => by rcases hu with h | h <;> simp [h]) id
+    exact Sp.weaken (Sp.sign op hop h1 hn) (fun _ => rfl) (fun _ => rfl)
+
+theorem genE_mul (op : BinOp) (l r : Node) (hop : isMulOp op = true) (hl : GenE o l) (hr : GenE o r)
+    (hul : decide (Print.priority l ≤ Print.binPriority op) = true ∨ isBin l = false)
+    (hur : decide (Print.priority r ≤ Print.binPriority op) = true ∨ isBin r = false) :
+    GenE o (.binary op (some l) (some r) none) := by
+  obtain ⟨ltxt, hprl, hsl⟩ := hl (decide (Print.priority l ≤ Print.binPriority op))
+  obtain ⟨rtxt, hprr, hsr⟩ := hr (decide (Print.priority r ≤ Print.binPriority op))
+  refine genE_wrap (txt := ltxt ++ ' ' :: (Print.binStr op ++ ' ' :: rtxt)) ?_ ?_
+  · intro wp
+    cases op <;> simp [isMulOp] at hop <;>
+      simp [Print.writeTo, Print.writeOpd, Print.writeNext, hprl, hprr]
+  · have h1 : Sp o false (.expr l true _) ltxt :=
+      Sp.weaken hsl (u' := true) (fun _ => by rcases hul with h | h <;> simp [h]) id
+    have h2 : Sp o false (.expr r true _) rtxt :=
+      Sp.weaken hsr (u' := true) (fun _ => by rcases hur with h | h <;> simp [h]) id
+    exact Sp.weaken (Sp.mul op hop h1 h2) (fun h => by simp [isBin] at h) (fun _ => rfl)
+
+theorem genE_add (op : BinOp) (l r : Node) (hop : isAddOp op = true) (hl : GenE o l) (hr : GenE o r)
+    (hml : decide (Print.priority l ≤ Print.binPriority op) = true ∨ isAddLevel l = false)
+    (hmr : decide (Print.priority r ≤ Print.binPriority op) = true ∨ isAddLevel r = false) :
+    GenE o (.binary op (some l) (some r) none) := by
+  obtain ⟨ltxt, hprl, hsl⟩ := hl (decide (Print.priority l ≤ Print.binPriority op))
+  obtain ⟨rtxt, hprr, hsr⟩ := hr (decide (Print.priority r ≤ Print.binPriority op))
+  refine genE_wrap (txt := ltxt ++ ' ' :: (Print.binStr op ++ ' ' :: rtxt)) ?_ ?_
+  · intro wp
+    cases op <;> simp [isAddOp] at hop <;>
+      simp [Print.writeTo, Print.writeOpd, Print.writeNext, hprl, hprr]
+  · have h1 : Sp o false (.expr l _ true) ltxt :=
+      Sp.weaken hsl (m' := true) id (fun _ => by rcases hml with h | h <;> simp [h])
+    have h2 : Sp o false (.expr r _ true) rtxt :=
+      Sp.weaken hsr (m' := true) id (fun _ => by rcases hmr with h | h <;> simp [h])
+    exact Sp.weaken (Sp.add op hop h1 h2) (fun h => by simp [isBin] at h)
+      (fun h => by cases op <;> simp [isAddOp] at hop <;> simp [isAddLevel] at h)
+
+/-! ### predicates -/
+
+theorem genP_binary {p : Node} {txt : List Char}
+    (hpr : ∀ wp, Print.writeTo o.isPrint p false wp = some (Print.parenIf wp txt))
+    (hsp : Sp o false (.pred p (!isAndOr p) (!isOr p)) txt) : GenP o p := by
+  intro wp
+  cases wp with
+  | false => exact ⟨txt, by simpa [Print.parenIf] using hpr false, hsp⟩
+  | true => exact ⟨'(' :: (txt ++ [')']), by simpa [Print.parenIf] using hpr true, Sp.pparen hsp⟩
+
+theorem genP_unary {p : Node} {txt : List Char} (ha : isAndOr p = false) (hl : isOr p = false)
+    (hpr : ∀ wp, Print.writeTo o.isPrint p false wp = some txt)
+    (hsp : Sp o false (.pred p true true) txt) : GenP o p := by
+  intro wp
+  refine ⟨txt, hpr wp, ?_⟩
+  rw [ha, hl]
+  cases wp <;> exact hsp
+
+theorem genP_cmp (op : BinOp) (l r : Node) (hop : isCmp op = true) (hl : GenE o l) (hr : GenE o r)
+    (hpl : decide (Print.priority l ≤ Print.binPriority op) = false)
+    (hpr' : decide (Print.priority r ≤ Print.binPriority op) = false) :
+    GenP o (.binary op (some l) (some r) none) := by
+  obtain ⟨ltxt, hprl, hsl⟩ := hl false
+  obtain ⟨rtxt, hprr, hsr⟩ := hr false
+  refine genP_binary (txt := ltxt ++ ' ' :: (Print.binStr op ++ ' ' :: rtxt)) ?_ ?_
+  · intro wp
+    have e1 : Print.writeOpd o.isPrint (some l) (some (Print.binPriority op)) = some ltxt := by
+      simp only [Print.writeOpd, hpl, hprl]
+    have e2 : Print.writeOpd o.isPrint (some r) (some (Print.binPriority op)) = some rtxt := by
+      simp only [Print.writeOpd, hpr', hprr]
+    cases op <;> simp [isCmp] at hop <;> (simp only [Print.writeTo, e1, e2]; simp [Print.writeNext])
+  · have := Sp.cmp (o := o) (cn := false) op hop (Or.inl rfl) hsl hsr
+    exact Sp.pweaken this (fun _ => rfl) (fun _ => rfl)
+
+theorem genP_logic (op : BinOp) (l r : Node) (hop : isLogic op = true)
+    (hsl : decide (Print.priority l ≤ Print.binPriority .and) = isAndOr l ∧
+      decide (Print.priority l ≤ Print.binPriority .or) = isOr l)
+    (hsr : decide (Print.priority r ≤ Print.binPriority .and) = isAndOr r ∧
+      decide (Print.priority r ≤ Print.binPriority .or) = isOr r)
+    (hl : GenP o l) (hr : GenP o r) : GenP o (.binary op (some l) (some r) none) := by
+  have hop' : op = .and ∨ op = .or := by
+    cases op <;> simp [isLogic] at hop <;> simp
+  rcases hop' with rfl | rfl
+  · obtain ⟨ltxt, hprl, hspl⟩ := hl (isAndOr l)
+    obtain ⟨rtxt, hprr, hspr⟩ := hr (isAndOr r)
+    refine genP_binary (txt := ltxt ++ ' ' :: (Print.binStr .and ++ ' ' :: rtxt)) ?_ ?_
+    · intro wp
+      simp only [Print.writeTo, Print.writeOpd, Print.writeNext]
+      rw [hsl.1, hsr.1, hprl, hprr]
+      simp
+    · have h1 : Sp o false (.pred l true _) ltxt :=
+        Sp.pweaken hspl (a' := true) (fun _ => by cases isAndOr l <;> simp) id
+      have h2 : Sp o false (.pred r true _) rtxt :=
+        Sp.pweaken hspr (a' := true) (fun _ => by cases isAndOr r <;> simp) id
+      exact Sp.pweaken (Sp.and h1 h2) (fun h => by simp [isAndOr] at h) (fun _ => rfl)
+  · obtain ⟨ltxt, hprl, hspl⟩ := hl (isOr l)
+    obtain ⟨rtxt, hprr, hspr⟩ := hr (isOr r)
+    refine genP_binary (txt := ltxt ++ ' ' :: (Print.binStr .or ++ ' ' :: rtxt)) ?_ ?_
+    · intro wp
+      simp only [Print.writeTo, Print.writeOpd, Print.writeNext]
+      rw [hsl.2, hsr.2, hprl, hprr]
+      simp
+    · have h1 : Sp o false (.pred l _ true) ltxt :=
+        Sp.pweaken hspl (l' := true) id (fun _ => by cases isOr l <;> simp)
+      have h2 : Sp o false (.pred r _ true) rtxt :=
+        Sp.pweaken hspr (l' := true) id (fun _ => by cases isOr r <;> simp)
+      exact Sp.pweaken (Sp.or h1 h2) (fun h => by simp [isAndOr] at h) (fun h => by simp [isOr] at h)
+
+theorem genP_starts (ok : OrOK o) (l : Node) (s : List Char) (isVar : Bool) (hl : GenE o l) (hs : NoNul s)
+    (hpl : decide (Print.priority l ≤ Print.binPriority .startsWith) = false) :
+    GenP o (.binary .startsWith (some l) (some (if isVar then .var s none else .str s none)) none) := by
+  obtain ⟨ltxt, hprl, hsl⟩ := hl false
+  have hb := spellsStr_body o.isPrint ok.nl s hs
+  refine genP_binary
+    (txt := ltxt ++ ' ' :: ("starts".toList ++ ' ' :: ("with".toList ++ ' ' ::
+      (if isVar then '$' :: Print.quote o.isPrint s else Print.quote o.isPrint s)))) ?_ ?_
+  · intro wp
+    have e1 : Print.writeOpd o.isPrint (some l) (some (Print.binPriority .startsWith)) = some ltxt := by
+      simp only [Print.writeOpd, hpl, hprl]
+    have e3 : "starts".toList = ['s', 't', 'a', 'r', 't', 's'] := by decide
+    have e4 : "with".toList = ['w', 'i', 't', 'h'] := by decide
+    simp only [Print.writeTo, e1]
+    cases isVar <;> simp [Print.writeTo, Print.writeOpd, Print.writeNext, binStr_startsWith, e3, e4]
+  · have hst : StrTok isVar (if isVar then '$' :: Print.quote o.isPrint s else Print.quote o.isPrint s) s := by
+      cases isVar
+      · simp only [Bool.false_eq_true, if_false, quote_body]; exact .str hb
+      · simp only [if_true, quote_body]; exact .qvar hb
+    have := Sp.starts (o := o) (cn := false) "starts".toList "with".toList (by decide) (by decide) hst hsl
+    exact Sp.pweaken this (fun _ => rfl) (fun _ => rfl)
+
+theorem genP_not (p : Node) (hp : GenP o p) : GenP o (.unary .not (some p) none) := by
+  obtain ⟨ptxt, hpr, hsp⟩ := hp false
+  refine genP_unary (txt := '!' :: '(' :: (ptxt ++ [')'])) rfl rfl ?_ (Sp.not hsp)
+  intro wp
+  simp [Print.writeTo, Print.writeOpd, Print.writeNext, hpr, unStr_not]
+
+theorem genP_isUnknown (p : Node) (hp : GenP o p) : GenP o (.unary .isUnknown (some p) none) := by
+  obtain ⟨ptxt, hpr, hsp⟩ := hp false
+  refine genP_unary (txt := '(' :: (ptxt ++ ')' :: ' ' :: ("is".toList ++ ' ' :: "unknown".toList))) rfl rfl ?_
+    (Sp.isUnknown "is".toList "unknown".toList (by decide) (by decide) hsp)
+  intro wp
+  have : ") is unknown".toList = [')', ' ', 'i', 's', ' ', 'u', 'n', 'k', 'n', 'o', 'w', 'n'] := by decide
+  have e1 : "is".toList = ['i', 's'] := by decide
+  have e2 : "unknown".toList = ['u', 'n', 'k', 'n', 'o', 'w', 'n'] := by decide
+  simp [Print.writeTo, Print.writeOpd, Print.writeNext, hpr, this, e1, e2]
+
+theorem genP_exists (x : Node) (hx : GenE o x) : GenP o (.unary .exists (some x) none) := by
+  obtain ⟨xtxt, hpr, hsx⟩ := hx false
+  refine genP_unary (txt := "exists".toList ++ ' ' :: '(' :: (xtxt ++ [')'])) rfl rfl ?_
+    (Sp.exists_ "exists".toList (by decide) hsx)
+  intro wp
+  have : "exists (".toList = ['e', 'x', 'i', 's', 't', 's', ' ', '('] := by decide
+  have e1 : "exists".toList = ['e', 'x', 'i', 's', 't', 's'] := by decide
+  simp [Print.writeTo, Print.writeOpd, Print.writeNext, hpr, this, e1]
+
+theorem genP_regex (ok : OrOK o) (x : Node) (pat : List Char) (fl : Nat) (hx : GenE o x) (hp : NoNul pat)
+    (hfl : fl < 32) (hok : okFlags fl = true) (hacc : o.regexAccepts pat fl = true)
+    (hpx : decide (Print.priority x ≤ 6) = true) : GenP o (.regex x pat fl none) := by
+  obtain ⟨xtxt, hpr, hsx⟩ := hx true
+  have hb := spellsStr_body o.isPrint ok.nl pat hp
+  have e1 : "like_regex".toList = ['l', 'i', 'k', 'e', '_', 'r', 'e', 'g', 'e', 'x'] := by decide
+  have hprint : ∀ wp, Print.writeTo o.isPrint (.regex x pat fl none) false wp = some (Print.parenIf wp
+      (xtxt ++ ' ' :: ("like_regex".toList ++ ' ' :: (Print.quote o.isPrint pat ++ Print.flagsStr fl)))) := by
+    intro wp
+    rw [Print.writeTo]
+    simp only [hpx]
+    simp [hpr, Print.writeNext, likeRegex_txt, e1]
+  refine genP_binary hprint ?_
+  rw [flagsStr_eq fl hfl, quote_body]
+  by_cases h0 : fl = 0
+  · subst h0
+    have := Sp.regex (o := o) (cn := false) "like_regex".toList (by decide) hb hsx hacc
+    simpa using Sp.pweaken this (a' := !isAndOr (.regex x pat 0 none)) (l' := !isOr (.regex x pat 0 none))
+      (fun _ => rfl) (fun _ => rfl)
+  · have hfb : SpellsStr (flagChars fl) (flagChars fl) := by
+      have hn : NoNul (flagChars fl) := fun c hc => (isLow_facts c (flagChars_low fl hfl c hc)).1
+      have := spellsStr_body o.isPrint ok.nl (flagChars fl) hn
+      have e := quote_flagChars (o := o) ok fl hfl
+      rw [quote_body] at e
+      have e' : body o.isPrint (flagChars fl) = flagChars fl := by
+        have := List.cons.inj e
+        exact List.append_cancel_right this.2
+      rw [e'] at this
+      exact this
+    have := Sp.regexFlag (o := o) (cn := false) "like_regex".toList "flag".toList (by decide) (by decide) hb hfb
+      (regexFlags_flagChars fl hfl hok) hsx hacc
+    have e2 : "flag".toList = ['f', 'l', 'a', 'g'] := by decide
+    simp only [h0, if_false]
+    simpa [e2] using Sp.pweaken this (a' := !isAndOr (.regex x pat fl none)) (l' := !isOr (.regex x pat fl none))
+      (fun _ => rfl) (fun _ => rfl)
+
+end
+
+/-- the induction over the class -/
+structure AllGen5 (o : Oracles) (k : Nat) : Prop where
+  expr : ∀ n : Node, sizeOf n ≤ k → okExpr5 o n = true → GenE o n
+  pred : ∀ p : Node, sizeOf p ≤ k → okPred5 o p = true → GenP o p
+  step : ∀ n : Node, sizeOf n ≤ k → okStep5 o n = true → GenS o n
+  chain : ∀ nx : Option Node, sizeOf nx ≤ k → okNext5 o nx = true → GenC o nx
+
+section
+variable {o : Oracles} (ok : OrOK o)
+include ok
+
+theorem allGen5 : ∀ k, AllGen5 o k := by
+  intro k
+  induction k with
+  | zero =>
+    refine ⟨?_, ?_, ?_, ?_⟩
+    · intro n hk _; have := sizeOf_node_pos n; omega
+    · intro n hk _; have := sizeOf_node_pos n; omega
+    · intro n hk _; have := sizeOf_node_pos n; omega
+    · intro nx hk _
+      cases nx with
+      | none => exact genC_nil
+      | some n => simp at hk
+  | succ k ih =>
+    refine ⟨?_, ?_, ?_, ?_⟩
+    · intro n hk h
+      cases okExpr5_cases h with
+      | const c nx hc hnx =>
+        simp only [Node.const.sizeOf_spec] at hk
+        exact genE_const c (Or.inl hc) (ih.chain nx (by omega) hnx)
+      | last nx hnx =>
+        simp only [Node.const.sizeOf_spec] at hk
+        exact genE_const .last (Or.inr rfl) (ih.chain nx (by omega) hnx)
+      | str s nx hs hnx =>
+        simp only [Node.str.sizeOf_spec] at hk
+        exact genE_str ok s hs (ih.chain nx (by omega) hnx)
+      | var s nx hs hnx =>
+        simp only [Node.var.sizeOf_spec] at hk
+        exact genE_var ok s hs (ih.chain nx (by omega) hnx)
+      | nat i hi =>
+        exact genE_int i (by
+          simp only [intOK, Bool.and_eq_true, decide_eq_true_eq] at hi
+          simp only [litOK, Bool.and_eq_true, decide_eq_true_eq]; omega)
+      | neg i hi =>
+        exact genE_int i (by
+          simp only [negOK, Bool.and_eq_true, decide_eq_true_eq] at hi
+          simp only [litOK, Bool.and_eq_true, decide_eq_true_eq]; omega)
+      | intChain i n hi hn =>
+        simp only [Node.integer.sizeOf_spec, Option.some.sizeOf_spec] at hk
+        have hlt := sizeOf_next_lt n
+        exact genE_intChain i n hi (ih.step n (by omega) hn) (ih.chain n.next (by omega) (okStep5_next hn))
+      | sign op x hop hx hn =>
+        simp only [Node.unary.sizeOf_spec, Option.some.sizeOf_spec] at hk
+        have hp := exprPrio5 (okExpr5_cases hx)
+        refine genE_sign op x hop (ih.expr x (by omega) hx) hn ?_
+        rw [sign_prio hop]
+        cases hb : isBin x with
+        | false => exact Or.inr rfl
+        | true => left; have := hp.2.2.1 hb; simp only [decide_eq_true_eq]; omega
+      | arith op l r hop hl hr =>
+        simp only [Node.binary.sizeOf_spec, Option.some.sizeOf_spec] at hk
+        have hpl := exprPrio5 (okExpr5_cases hl)
+        have hpr := exprPrio5 (okExpr5_cases hr)
+        rcases arith_split hop with hm | ha
+        · refine genE_mul op l r hm (ih.expr l (by omega) hl) (ih.expr r (by omega) hr) ?_ ?_
+          · rw [mul_prio hm]
+            cases hb : isBin l with
+            | false => exact Or.inr rfl
+            | true => left; have := hpl.2.2.1 hb; simp only [decide_eq_true_eq]; omega
+          · rw [mul_prio hm]
+            cases hb : isBin r with
+            | false => exact Or.inr rfl
+            | true => left; have := hpr.2.2.1 hb; simp only [decide_eq_true_eq]; omega
+        · refine genE_add op l r ha (ih.expr l (by omega) hl) (ih.expr r (by omega) hr) ?_ ?_
+          · rw [add_prio ha]
+            cases hb : isAddLevel l with
+            | false => exact Or.inr rfl
+            | true => left; have := hpl.2.2.2 hb; simp only [decide_eq_true_eq]; omega
+          · rw [add_prio ha]
+            cases hb : isAddLevel r with
+            | false => exact Or.inr rfl
+            | true => left; have := hpr.2.2.2 hb; simp only [decide_eq_true_eq]; omega
+    · intro p hk h
+      cases okPred5_cases h with
+      | cmp op l r hop hl hr =>
+        simp only [Node.binary.sizeOf_spec, Option.some.sizeOf_spec] at hk
+        have hpl := exprPrio5 (okExpr5_cases hl)
+        have hpr := exprPrio5 (okExpr5_cases hr)
+        refine genP_cmp op l r hop (ih.expr l (by omega) hl) (ih.expr r (by omega) hr) ?_ ?_
+        · rw [cmp_prio hop]; simp only [decide_eq_false_iff_not]; omega
+        · rw [cmp_prio hop]; simp only [decide_eq_false_iff_not]; omega
+      | logic op l r hop hl hr =>
+        simp only [Node.binary.sizeOf_spec, Option.some.sizeOf_spec] at hk
+        exact genP_logic op l r hop (prio_facts5 (okPred5_cases hl)) (prio_facts5 (okPred5_cases hr))
+          (ih.pred l (by omega) hl) (ih.pred r (by omega) hr)
+      | starts l s isVar hl hs =>
+        simp only [Node.binary.sizeOf_spec, Option.some.sizeOf_spec] at hk
+        have hpl := exprPrio5 (okExpr5_cases hl)
+        refine genP_starts ok l s isVar (ih.expr l (by omega) hl) hs ?_
+        have : Print.binPriority .startsWith = 2 := rfl
+        rw [this]; simp only [decide_eq_false_iff_not]; omega
+      | not q hq =>
+        simp only [Node.unary.sizeOf_spec, Option.some.sizeOf_spec] at hk
+        exact genP_not q (ih.pred q (by omega) hq)
+      | exists_ x hx =>
+        simp only [Node.unary.sizeOf_spec, Option.some.sizeOf_spec] at hk
+        exact genP_exists x (ih.expr x (by omega) hx)
+      | isUnknown q hq =>
+        simp only [Node.unary.sizeOf_spec, Option.some.sizeOf_spec] at hk
+        exact genP_isUnknown q (ih.pred q (by omega) hq)
+      | regex x pat fl hx hp hfl hok hacc =>
+        simp only [Node.regex.sizeOf_spec] at hk
+        have hpx := exprPrio5 (okExpr5_cases hx)
+        exact genP_regex ok x pat fl (ih.expr x (by omega) hx) hp hfl hok hacc
+          (by simp only [decide_eq_true_eq]; omega)
+    · intro n hk h
+      cases okStep5_cases h with
+      | simple _ hs hnx => exact genS_simple hs
+      | filter p nx' hp hnx =>
+        simp only [Node.unary.sizeOf_spec, Option.some.sizeOf_spec] at hk
+        exact genS_filter p nx' (ih.pred p (by omega) hp)
+      | index subs nx' hne hs hnx =>
+        simp only [Node.arrayIndex.sizeOf_spec] at hk
+        refine genS_index subs nx' hne ?_
+        intro s hsm
+        have hlt := List.sizeOf_lt_of_mem hsm
+        rcases okSub5_cases (okSubs5_mem subs hs s hsm) with ⟨l, rfl, hl⟩ | ⟨l, r, rfl, hl, hr⟩
+        · simp only [Node.binary.sizeOf_spec, Option.some.sizeOf_spec] at hlt
+          exact genSub_one l (ih.expr l (by omega) hl)
+        · simp only [Node.binary.sizeOf_spec, Option.some.sizeOf_spec] at hlt
+          exact genSub_two l r (ih.expr l (by omega) hl) (ih.expr r (by omega) hr)
+      | time0 op nx' hop hnx => exact genS_time0 op hop nx'
+      | time1 op p nx' hop hp hnx => exact genS_time1 op hop p hp nx'
+      | decimal l r nx' hd' hnx => exact genS_decimal l r nx' hd'
+    · intro nx hk h
+      cases nx with
+      | none => exact genC_nil
+      | some n =>
+        simp only [Option.some.sizeOf_spec] at hk
+        have hs : okStep5 o n = true := by simpa [okNext5] using h
+        have hlt := sizeOf_next_lt n
+        exact genC_cons (ih.step n (by omega) hs) (ih.chain n.next (by omega) (okStep5_next hs))
+
+/-- **every tree of the class is generated by the grammar proper**: the printer's text of the root of a tree
+    of `RT5` is derivable (fit for every position) without the canonical-leaf constructors -/
+theorem rt5_generated_core (a : AST) (h : RT5 o a = true) :
+    ∃ txt, Print.writeTo o.isPrint a.root false true = some txt ∧
+      Print.toString o.isPrint a = some (modeTxt a.lax ++ txt) ∧
+      (if a.pred then SpPred o false a.root true true txt else SpExpr o false a.root true true txt) := by
+  obtain ⟨root, lax, pred⟩ := a
+  simp only [RT5, Bool.and_eq_true] at h
+  obtain ⟨hv, hr⟩ := h
+  cases pred with
+  | true =>
+    simp only [if_true] at hr
+    obtain ⟨txt, hpr, hsp⟩ := (allGen5 ok _).pred root (Nat.le_refl _) hr true
+    exact ⟨txt, hpr, toString_eq _ _ _ _ _ hpr, hsp⟩
+  | false =>
+    simp only [Bool.false_eq_true, if_false] at hr
+    obtain ⟨txt, hpr, hsp⟩ := (allGen5 ok _).expr root (Nat.le_refl _) hr true
+    exact ⟨txt, hpr, toString_eq _ _ _ _ _ hpr, hsp⟩
+
+end
+
+/-! ## (3d) explicit layouts: any separator before each token text -/
+
+section
+variable {o : Oracles} {cn : Bool}
+
+/-- from `SpellInv` to the explicit form of `layout_independent`: cut the text into its token texts
+    (`tokSplit`), put any separator before each of them (a non-empty one where the text has a blank) and any
+    separator at the end -/
+theorem SpellInv.pieces (ok : OrOK o) {a : AST} {txt : List Char} {items : List Item} (h : SpellInv o a txt items) :
+    ∀ (seps : List (List Char)) (fin : List Char), LayoutOKT (tokSplit o txt) seps → Sep fin →
+      parse o (utf8 (renderT ((tokSplit o txt).map (·.2)) seps ++ fin)) = .ok a := by
+  obtain ⟨h1, h2, h3, h4⟩ := h
+  subst h1
+  intro seps fin hl hfin
+  rw [tokSplit_canon (ok : RoundTrip.OrOK o) brk_none items h2 h3] at hl ⊢
+  rw [renderT_items]
+  exact h4 items seps fin (RespL.refl h2) (layoutOKT_items items seps hl) hfin _ (decodeAll_utf8 _)
+
+variable (ok : OrOK o) (up : OrUp o)
+include ok up
+
+/-- **C03 with explicit layouts, expressions** -/
+theorem spells_layout {e : Node} {u m : Bool} {txt : List Char} (h : SpExpr o cn e u m txt)
+    (hv : validate e = true) {lax : Bool} {md : List Char} {mt : List TT} (hm : ModeSp lax md mt)
+    (seps : List (List Char)) (fin : List Char) (hl : LayoutOKT (tokSplit o (withMode md txt)) seps) (hfin : Sep fin) :
+    parse o (utf8 (renderT ((tokSplit o (withMode md txt)).map (·.2)) seps ++ fin)) = .ok ⟨e, lax, false⟩ := by
+  obtain ⟨items, hi⟩ := spells_parse_mode ok up h hv hm
+  exact hi.pieces ok seps fin hl hfin
+
+/-- **C03 with explicit layouts, predicates** -/
+theorem spells_layout_pred {p : Node} {a l : Bool} {txt : List Char} (h : SpPred o cn p a l txt)
+    (hv : validate p = true) {lax : Bool} {md : List Char} {mt : List TT} (hm : ModeSp lax md mt)
+    (seps : List (List Char)) (fin : List Char) (hl : LayoutOKT (tokSplit o (withMode md txt)) seps) (hfin : Sep fin) :
+    parse o (utf8 (renderT ((tokSplit o (withMode md txt)).map (·.2)) seps ++ fin)) = .ok ⟨p, lax, true⟩ := by
+  obtain ⟨items, hi⟩ := spells_parse_pred_mode ok up h hv hm
+  exact hi.pieces ok seps fin hl hfin
+
+end
+
+/-! ## (4) worked instances -/
+
+/-- raw characters of a string body -/
+def plainCh (c : Char) : Bool := c != '"' && c != '\\' && c != '\n' && c.toNat != 0
+
+theorem spellsStr_plain : ∀ (s : List Char), s.all plainCh = true → SpellsStr s s
+  | [], _ => .nil
+  | c :: s, h => by
+    simp only [List.all_cons, Bool.and_eq_true] at h
+    have hc := h.1
+    simp only [plainCh, Bool.and_eq_true, bne_iff_ne, ne_eq] at hc
+    exact SpellsStr.cons' (.plain c hc.1.1.1 hc.1.1.2 hc.1.2 hc.2) (spellsStr_plain s h.2) rfl
+
+section
+variable {o : Oracles} {cn : Bool} (ok : OrOK o) (up : OrUp o)
+include ok up
+
+/-- `keyIdent` with the side condition in a form `decide` evaluates on a concrete word -/
+theorem Sp.keyIdent' (c : Char) (w : List Char) (nx : Option Node) (hc : isIdCh0 c = true)
+    (hw : ∀ x ∈ w, isIdCh x = true) (hid : identToken asciiOracles (c :: w) = .ident) :
+    Sp o cn (.step (.key (c :: w) nx)) ('.' :: c :: w) := by
+  refine Sp.keyIdent c w nx hc hw ?_
+  rw [identToken_ascii o ok up (c :: w) ?_, hid]
+  intro x hx
+  simp only [List.mem_cons] at hx
+  rcases hx with hx | hx
+  · subst hx; exact isIdCh_of_0 hc
+  · exact hw x hx
+
+end
+
+/-- `$."foo"?(@."bar" != "A" && exists (@."c")).size()` -/
+def exG : Node :=
+  .const .root (some (.key "foo".toList (some (.unary .filter (some
+    (.binary .and
+      (some (.binary .ne (some (.const .current (some (.key "bar".toList none)))) (some (.str ['A'] none)) none))
+      (some (.unary .exists (some (.const .current (some (.key ['c'] none)))) none)) none))
+    (some (.method .size none))))))
+
+/-- `($"X" starts with $"yA") is unknown` -/
+def exU : Node :=
+  .unary .isUnknown (some (.binary .startsWith (some (.var ['X'] none)) (some (.var ['y', 'A'] none)) none)) none
+
+/-- `$.**{1 to last}[last to 2].datetime("HH24").time_tz(3)."lax"` -/
+def exS : Node :=
+  .const .root (some (.any 1 maxU32 (some (.arrayIndex
+    [.binary .subscript (some (.const .last none)) (some (.integer 2 none)) none]
+    (some (.unary .datetime (some (.str "HH24".toList none))
+      (some (.unary .timeTZ (some (.integer 3 none)) (some (.key "lax".toList none))))))))))
+
+section
+variable {o : Oracles} {cn : Bool} (ok : OrOK o) (up : OrUp o)
+include ok up
+
+/-- the derivation: a bare key, a filter, a quoted key, `<>`, an `\x` escape, `EXISTS`, `.SIZE()` -/
+theorem exG_sp : SpExpr o false exG true true "$.foo?(@.\"bar\" <> \"\\x41\" && EXISTS (@.c)).SIZE()".toList := by
+  have hbar : SpChain o false (some (.key "bar".toList none)) _ :=
+    Sp.cons (Sp.keyQ none (spellsStr_plain "bar".toList (by decide))) Sp.nil
+  have hc : SpChain o false (some (.key ['c'] none)) _ :=
+    Sp.cons (Sp.keyIdent' ok up 'c' [] none (by decide) (by decide) (by decide)) Sp.nil
+  have hne := Sp.cmp (o := o) .ne rfl (Or.inr ⟨rfl, rfl⟩) (Sp.current hbar)
+    (Sp.strTok (isVar := false) (.str spell_x41) Sp.nil)
+  have hex := Sp.exists_ (o := o) "EXISTS".toList (by decide) (Sp.current hc)
+  have hand := Sp.and hne hex
+  have hsize : SpChain o false (some (.method .size none)) _ :=
+    Sp.cons (Sp.method .size "SIZE".toList none (by decide)) Sp.nil
+  have hfil := Sp.cons (Sp.filter (some (.method .size none)) hand) hsize
+  have hfoo := Sp.cons (Sp.keyIdent' ok up 'f' ['o', 'o'] _ (by decide) (by decide) (by decide)) hfil
+  exact (Sp.root hfoo).cast (by decide +kernel)
+
+/-- **worked instance**: `STRICT $.foo?(@."bar" <> "\x41" && EXISTS (@.c)).SIZE()`, every token respelled in
+    every layout, parses to the tree the printer writes `strict $."foo"?(@."bar" != "A" && exists (@."c")).size()` -/
+theorem exG_parse :
+    ∃ items, SpellInv o ⟨exG, false, false⟩
+      "STRICT $.foo?(@.\"bar\" <> \"\\x41\" && EXISTS (@.c)).SIZE()".toList items :=
+  spell_cast (spells_parse_mode ok up (exG_sp ok up) (by decide) (ModeSp.kw false 'S' "TRICT".toList (by decide)))
+    (by decide +kernel)
+
+theorem exU_sp : SpPred o false exU true true "($X STARTS WITH $\"y\\u0041\") Is UNKNOWN".toList := by
+  have hx : SpExpr o false (.var ['X'] none) true true _ :=
+    Sp.strTok (isVar := true) (.bvar 'X' [] (by decide)) Sp.nil
+  have hy : SpellsStr "y\\u0041".toList ['y', 'A'] :=
+    SpellsStr.append (spellsStr_plain ['y'] (by decide)) spell_u0041
+  have hst := Sp.starts (o := o) "STARTS".toList "WITH".toList (by decide) (by decide) (.qvar hy) hx
+  exact (Sp.isUnknown "Is".toList "UNKNOWN".toList (by decide) (by decide) hst).cast (by decide +kernel)
+
+theorem exU_parse : ∃ items, SpellInv o ⟨exU, true, true⟩ "($X STARTS WITH $\"y\\u0041\") Is UNKNOWN".toList items :=
+  spell_cast (spells_parse_pred_mode ok up (exU_sp ok up) (by decide) ModeSp.none) (by decide +kernel)
+
+theorem exS_sp : SpExpr o false exS true true
+    "$.**{1 TO LAST}[LAST To 2].DATETIME(\"HH\\x324\").Time_TZ(3).lax".toList := by
+  have h32 : SpellsStr "\\x32".toList ['2'] :=
+    SpellsStr.single (SpellsChar.hex (hexDig_lower '3' 3 (by decide) (by decide))
+      (hexDig_lower '2' 2 (by decide) (by decide)) (by decide))
+  have htpl : SpellsStr "HH\\x324".toList "HH24".toList :=
+    SpellsStr.append (spellsStr_plain "HH".toList (by decide)) (SpellsStr.append h32 (spellsStr_plain ['4'] (by decide)))
+  have hlax : SpChain o false (some (.key "lax".toList none)) _ :=
+    Sp.cons (Sp.keyKw "lax".toList "lax".toList .lax none (by decide) (by decide) (by decide) (by decide)) Sp.nil
+  have htz := Sp.cons (Sp.time1 .timeTZ "Time_TZ".toList 3 _ (by decide) (by decide) (by decide)) hlax
+  have hdt := Sp.cons (Sp.datetime "DATETIME".toList _ (by decide) htpl) htz
+  have hsub : SpSubs o false [.binary .subscript (some (.const .last none)) (some (.integer 2 none)) none] _ :=
+    Sp.subsOne (Sp.sub2 "To".toList (by decide) (Sp.last "LAST".toList (by decide) Sp.nil) (Sp.nat 2 (by decide)))
+  have hidx := Sp.cons (Sp.index _ hsub) hdt
+  have hany := Sp.cons (Sp.any2 "TO".toList _ (LvlSp.int 1 (by decide)) (LvlSp.last "LAST".toList (by decide))
+    (by decide)) hidx
+  exact (Sp.root hany).cast (by decide +kernel)
+
+theorem exS_parse : ∃ items, SpellInv o ⟨exS, true, false⟩
+    "Lax $.**{1 TO LAST}[LAST To 2].DATETIME(\"HH\\x324\").Time_TZ(3).lax".toList items :=
+  spell_cast (spells_parse_mode ok up (exS_sp ok up) (by decide) (ModeSp.kw true 'L' "ax".toList (by decide)))
+    (by decide +kernel)
+
+end
+
+/-- `$."Type"."foo"` -/
+def exK : Node := .const .root (some (.key "Type".toList (some (.key "foo".toList none))))
+
+section
+variable {o : Oracles} (ok : OrOK o) (up : OrUp o)
+include ok up
+
+/-- a method keyword as a key (not last), then a bare key written with an escape -/
+theorem exK_sp : SpExpr o false exK true true "$.Type.f\\u006fo".toList := by
+  have hid : identToken o "foo".toList = .ident := by
+    rw [identToken_ascii o ok up _ (by decide)]; decide
+  have hfoo : SpStep o false (.key "foo".toList none) _ :=
+    Sp.keyIdentSp none (spellsIdent_foo o ok).2.1 (by rw [hid]; rfl)
+  have hch := Sp.consKwKey (o := o) (cn := false) "Type".toList "type".toList .type (by decide) (by decide) (by decide)
+    (by decide) hfoo Sp.nil
+  exact (Sp.root hch).cast (by decide +kernel)
+
+theorem exK_parse : ∃ items, SpellInv o ⟨exK, true, false⟩ "$.Type.f\\u006fo".toList items :=
+  spell_cast (spells_parse_mode ok up (exK_sp ok up) (by decide) ModeSp.none) (by decide +kernel)
+
+end
+
+/-! ### the same on the ASCII instance of the oracles: an explicit layout from the theorem, and kernel
+    evaluations of the model -/
+
+theorem exG_pieces :
+    tokSplit asciiOracles "STRICT $.foo?(@.\"bar\" <> \"\\x41\" && EXISTS (@.c)).SIZE()".toList =
+    [(false, "STRICT".toList), (true, "$".toList), (false, ".".toList), (false, "foo".toList), (false, "?".toList),
+     (false, "(".toList), (false, "@".toList), (false, ".".toList), (false, "\"bar\"".toList), (true, "<>".toList),
+     (true, "\"\\x41\"".toList), (true, "&&".toList), (true, "EXISTS".toList), (true, "(".toList),
+     (false, "@".toList), (false, ".".toList), (false, "c".toList), (false, ")".toList), (false, ")".toList),
+     (false, ".".toList), (false, "SIZE".toList), (false, "(".toList), (false, ")".toList)] := by decide +kernel
+
+/-- the theorem instantiated (ASCII oracles): blanks around every punctuation mark -/
+theorem exG_layout1 :
+    parse asciiOracles (utf8 "STRICT $.foo ? ( @.\"bar\" <> \"\\x41\" && EXISTS ( @.c ) ) .SIZE()".toList)
+      = .ok ⟨exG, false, false⟩ := by
+  have := spells_layout orOK_ascii orUp_ascii (exG_sp orOK_ascii orUp_ascii) (by decide)
+    (ModeSp.kw false 'S' "TRICT".toList (by decide))
+    [[], " ".toList, [], [], " ".toList, " ".toList, " ".toList, [], [], " ".toList, " ".toList, " ".toList,
+     " ".toList, " ".toList, " ".toList, [], [], " ".toList, " ".toList, " ".toList, [], [], []] []
+  have e : withMode ('S' :: "TRICT".toList) "$.foo?(@.\"bar\" <> \"\\x41\" && EXISTS (@.c)).SIZE()".toList
+      = "STRICT $.foo?(@.\"bar\" <> \"\\x41\" && EXISTS (@.c)).SIZE()".toList := by decide +kernel
+  rw [e, exG_pieces] at this
+  exact this (layoutOKT_of_B _ _ (by decide)) Sep.nil
+
+/-- … and with comments, tabs and newlines -/
+theorem exG_layout2 :
+    parse asciiOracles (utf8
+      "/* mode */ STRICT\n$ . foo\n\t? (@ . \"bar\"/* ne */<>/**/\"\\x41\"\n\t   && EXISTS\n(@.c))\n. SIZE ( ) /* end */".toList)
+      = .ok ⟨exG, false, false⟩ := by
+  have := spells_layout orOK_ascii orUp_ascii (exG_sp orOK_ascii orUp_ascii) (by decide)
+    (ModeSp.kw false 'S' "TRICT".toList (by decide))
+    ["/* mode */ ".toList, "\n".toList, " ".toList, " ".toList, "\n\t".toList, " ".toList, [], " ".toList, " ".toList,
+     "/* ne */".toList, "/**/".toList, "\n\t   ".toList,
+     " ".toList, "\n".toList, [], [], [], [], [], "\n".toList, " ".toList, " ".toList, " ".toList] " /* end */".toList
+  have e : withMode ('S' :: "TRICT".toList) "$.foo?(@.\"bar\" <> \"\\x41\" && EXISTS (@.c)).SIZE()".toList
+      = "STRICT $.foo?(@.\"bar\" <> \"\\x41\" && EXISTS (@.c)).SIZE()".toList := by decide +kernel
+  rw [e, exG_pieces] at this
+  exact this (layoutOKT_of_B _ _ (by decide)) (sep_of_sepB 20 _ (by decide))
+
+/-- the model evaluated on the same texts (`run`: parse, then print) -/
+theorem gram_examples :
+    run "STRICT $.foo ? ( @.\"bar\" <> \"\\x41\" && EXISTS ( @.c ) ) .SIZE()"
+      = "strict $.\"foo\"?(@.\"bar\" != \"A\" && exists (@.\"c\")).size()" ∧
+    run "STRICT $.foo?(@.\"bar\" <> \"\\x41\" && EXISTS (@.c)).SIZE()"
+      = run "strict $.\"foo\"?(@.\"bar\" != \"A\" && exists (@.\"c\")).size()" ∧
+    run "($X STARTS WITH $\"y\\u0041\") Is UNKNOWN" = "($\"X\" starts with $\"yA\") is unknown" ∧
+    run "Lax $.**{1 TO LAST}[LAST To 2].DATETIME(\"HH\\x324\").Time_TZ(3).lax"
+      = "$.**{1 to last}[last to 2].datetime(\"HH24\").time_tz(3).\"lax\"" ∧
+    run "$.a LIKE_REGEX \"^\\x61\" FLAG \"i\\u0069s\"" = "($.\"a\" like_regex \"^a\" flag \"is\")" ∧
+    run "$.DECIMAL(1,2).NULL.null.Strict.keyvalue().type ()"
+      = "$.decimal(1,2).\"NULL\".\"null\".\"Strict\".keyvalue().type()" ∧
+    run "$.Type.f\\u006fo" = "$.\"Type\".\"foo\"" := by
+  decide +kernel
+
+
+/-! # The parser is a function of the token stream: a simulation between two runs -/
+/-!
+# The parser is a function of the token stream, up to the spelling of tokens whose text it does not use
+
+* `EM`, `allEM`: no parser function clears the error flag.
+* `IntEq`, `TokEq`/`TokEqL` (integer literals may be respelled), `TokEqX`/`TokEqLX` (also keywords that do
+  not stand after a `.`; and after a `.` a bare, a quoted and a keyword key name with the same text), `EVR` (values up to the literal text).
+* `Sim`: the simulation relation between two runs, with `sim_bind`, `sim_bindR`, `sim_ite`, …;
+  `SE o TS TS'` / `SA o TS TS' k`: the two states stand at the same position of the streams `TS`, `TS'`.
+* `AllSim`, `allSim`: the simulation for each of the 16 functions of the mutual block (and `anyLevel`,
+  `csvElem`, the constructors), by induction on the fuel.
+* `sim_parseBodyX`, `sim_parseBody_pos`, `sim_parseBody`, `parse_tok_simX`, `parse_tok_sim`.
+-/
+
+/-! ## A recorded error is never cleared -/
+
+/-- `m` never clears the error flag -/
+structure EM {α : Type} (m : P α) : Prop where
+  mono : ∀ s v s1, m s = .ok v s1 → s.lx.err = true → s1.lx.err = true
+
+theorem em_pure {α : Type} (a : α) : EM (pure a : P α) := by
+  constructor
+  intro s v s1 h he
+  rw [pure_apply] at h
+  injection h with _ h2
+  rw [← h2]; exact he
+
+theorem em_syn {α : Type} : EM (syn : P α) := by constructor; intro s v s1 h; simp [syn] at h
+theorem em_panic {α : Type} : EM (Parse.panic : P α) := by constructor; intro s v s1 h; simp [Parse.panic] at h
+theorem em_outOfFuel {α : Type} : EM (outOfFuel : P α) := by constructor; intro s v s1 h; simp [outOfFuel] at h
+
+theorem em_bind {α β : Type} {m : P α} {f : α → P β} (hm : EM m) (hf : ∀ a, EM (f a)) : EM (m >>= f) := by
+  constructor
+  intro s v s1 h he
+  rw [bind_apply] at h
+  cases hms : m s with
+  | ok a s' =>
+    rw [hms] at h
+    exact (hf a).mono s' v s1 h (hm.mono s a s' hms he)
+  | syn => rw [hms] at h; simp at h
+  | panic => rw [hms] at h; simp at h
+  | fuel => rw [hms] at h; simp at h
+
+theorem em_consume : EM consume := by
+  constructor
+  intro s v s1 h he
+  simp only [consume] at h
+  injection h with _ h2
+  rw [← h2]; exact he
+
+theorem em_recordError : EM recordError := by
+  constructor
+  intro s v s1 h _
+  simp only [recordError] at h
+  injection h with _ h2
+  rw [← h2]; rfl
+
+theorem em_hasError : EM hasError := by
+  constructor
+  intro s v s1 h he
+  simp only [hasError] at h
+  injection h with _ h2
+  rw [← h2]; exact he
+
+theorem em_ite {α : Type} {c : Prop} [Decidable c] {a b : P α} (ha : EM a) (hb : EM b) :
+    EM (if c then a else b) := by
+  split
+  · exact ha
+  · exact hb
+
+section
+variable (o : Oracles)
+
+theorem em_peek : EM (peek o) := ⟨fun s v s1 h he => peek_err_mono o s he v s1 h⟩
+
+/-- prove `EM m` for a computation built from the primitives -/
+syntax "em_more" : tactic
+macro_rules | `(tactic| em_more) => `(tactic| exact em_pure _)
+macro_rules | `(tactic| em_more) => `(tactic| exact em_syn)
+macro_rules | `(tactic| em_more) => `(tactic| exact em_panic)
+macro_rules | `(tactic| em_more) => `(tactic| exact em_outOfFuel)
+macro_rules | `(tactic| em_more) => `(tactic| exact em_peek _)
+macro_rules | `(tactic| em_more) => `(tactic| exact em_consume)
+macro_rules | `(tactic| em_more) => `(tactic| exact em_recordError)
+macro_rules | `(tactic| em_more) => `(tactic| exact em_hasError)
+
+macro "em" : tactic => `(tactic| repeat' (first | em_more | apply em_bind | apply em_ite | intro _ | split))
+
+theorem em_expect (t : Tok) : EM (expect o t) := by unfold expect; em
+theorem em_astNewInteger (l : List Char) : EM (astNewInteger l) := by unfold astNewInteger; em
+theorem em_astNewNumeric (l : List Char) : EM (astNewNumeric l) := by unfold astNewNumeric; em
+theorem em_newInteger (l : List Char) : EM (newInteger l) := by unfold newInteger; em
+theorem em_newNumeric (l : List Char) : EM (newNumeric l) := by unfold newNumeric; em
+theorem em_newUnaryOrNumber (op : UnOp) (v : EV) : EM (newUnaryOrNumber op v) := by
+  unfold newUnaryOrNumber
+  repeat' (first | em_more | exact em_astNewInteger _ | exact em_astNewNumeric _ | split)
+theorem em_mkRegex (v : EV) (p f : List Char) : EM (mkRegex o v p f) := by unfold mkRegex; em
+theorem em_anyLevelOf (l : List Char) : EM (anyLevelOf l) := by unfold anyLevelOf; em
+
+macro_rules | `(tactic| em_more) => `(tactic| exact em_expect _ _)
+macro_rules | `(tactic| em_more) => `(tactic| exact em_newInteger _)
+macro_rules | `(tactic| em_more) => `(tactic| exact em_newNumeric _)
+macro_rules | `(tactic| em_more) => `(tactic| exact em_newUnaryOrNumber _ _)
+macro_rules | `(tactic| em_more) => `(tactic| exact em_mkRegex _ _ _ _)
+macro_rules | `(tactic| em_more) => `(tactic| exact em_anyLevelOf _)
+
+theorem em_anyLevel : EM (anyLevel o) := by unfold anyLevel; em
+theorem em_csvElem (t : Tok × List Char) : EM (csvElem o t) := by
+  obtain ⟨k, txt⟩ := t
+  unfold csvElem; em
+
+macro_rules | `(tactic| em_more) => `(tactic| exact em_anyLevel _)
+macro_rules | `(tactic| em_more) => `(tactic| exact em_csvElem _ _)
+
+structure AllEM (f : Nat) : Prop where
+  unaryT : ∀ t, EM (parseUnaryT o f t)
+  unary : EM (parseUnary o f)
+  scalar : ∀ t, EM (parseScalar o f t)
+  accLoop : ∀ head ops, EM (accessorLoop o f head ops)
+  paren : ∀ ctx, EM (parenTail o f ctx)
+  atom : ∀ ctx, EM (parseAtom o f ctx)
+  exists_ : EM (existsTail o f)
+  exprT : ∀ ctx v, EM (exprTail o f ctx v)
+  arith : ∀ v, EM (arithLoop o f v)
+  mul : ∀ v, EM (mulLoop o f v)
+  pred : ∀ v, EM (predLoop o f v)
+  or_ : ∀ v, EM (orLoop o f v)
+  accOp : ∀ t, EM (accessorOp o f t)
+  index : ∀ t acc, EM (indexList o f t acc)
+  csv : EM (csvList o f)
+  csvM : ∀ acc, EM (csvMore o f acc)
+
+theorem allEM_zero : AllEM o 0 := by
+  constructor
+  all_goals intros
+  all_goals first
+    | (simp only [parseUnaryT, parseUnary, parseScalar, accessorLoop, parenTail, parseAtom, existsTail, exprTail,
+        arithLoop, mulLoop, predLoop, orLoop, accessorOp, indexList, csvList, csvMore]; exact em_outOfFuel)
+
+section step
+variable {f : Nat} (ih : AllEM o f)
+include ih
+
+macro "emi" : tactic => `(tactic| repeat' (first | em_more | exact AllEM.unaryT (by assumption) _ | exact AllEM.unary (by assumption) | exact AllEM.scalar (by assumption) _ | exact AllEM.accLoop (by assumption) _ _ | exact AllEM.paren (by assumption) _ | exact AllEM.atom (by assumption) _ | exact AllEM.exists_ (by assumption) | exact AllEM.exprT (by assumption) _ _ | exact AllEM.arith (by assumption) _ | exact AllEM.mul (by assumption) _ | exact AllEM.pred (by assumption) _ | exact AllEM.or_ (by assumption) _ | exact AllEM.accOp (by assumption) _ | exact AllEM.index (by assumption) _ _ | exact AllEM.csv (by assumption) | exact AllEM.csvM (by assumption) _  | apply em_bind | apply em_ite | intro _ | split))
+
+theorem emstep_unaryT (t : Tok × List Char) : EM (parseUnaryT o (f + 1) t) := by
+  obtain ⟨k, txt⟩ := t
+  rw [parseUnaryT]; emi
+theorem emstep_unary : EM (parseUnary o (f + 1)) := by rw [parseUnary]; emi
+theorem emstep_scalar (t : Tok × List Char) : EM (parseScalar o (f + 1) t) := by
+  obtain ⟨k, txt⟩ := t
+  unfold parseScalar
+  cases k <;> emi
+theorem emstep_accLoop (head : EV) (ops : List Node) : EM (accessorLoop o (f + 1) head ops) := by
+  rw [accessorLoop]; emi
+theorem emstep_paren (ctx : Ctx) : EM (parenTail o (f + 1) ctx) := by unfold parenTail; emi
+theorem emstep_atom (ctx : Ctx) : EM (parseAtom o (f + 1) ctx) := by unfold parseAtom; emi
+theorem emstep_exists : EM (existsTail o (f + 1)) := by unfold existsTail; emi
+theorem emstep_exprT (ctx : Ctx) (v : EV) : EM (exprTail o (f + 1) ctx v) := by unfold exprTail; emi
+theorem emstep_arith (v : EV) : EM (arithLoop o (f + 1) v) := by unfold arithLoop; emi
+theorem emstep_mul (v : EV) : EM (mulLoop o (f + 1) v) := by unfold mulLoop; emi
+theorem emstep_pred (v : EV) : EM (predLoop o (f + 1) v) := by unfold predLoop; emi
+theorem emstep_or (v : EV) : EM (orLoop o (f + 1) v) := by unfold orLoop; emi
+theorem emstep_accOp (t : Tok) : EM (accessorOp o (f + 1) t) := by unfold accessorOp; emi
+theorem emstep_index (t : Tok × List Char) (acc : List Node) : EM (indexList o (f + 1) t acc) := by
+  unfold indexList; emi
+theorem emstep_csv : EM (csvList o (f + 1)) := by unfold csvList; emi
+theorem emstep_csvM (acc : List Node) : EM (csvMore o (f + 1) acc) := by unfold csvMore; emi
+
+end step
+
+theorem allEM : ∀ f, AllEM o f
+  | 0 => allEM_zero o
+  | f + 1 =>
+    have ih := allEM f
+    { unaryT := emstep_unaryT o ih
+      unary := emstep_unary o ih
+      scalar := emstep_scalar o ih
+      accLoop := emstep_accLoop o ih
+      paren := emstep_paren o ih
+      atom := emstep_atom o ih
+      exists_ := emstep_exists o ih
+      exprT := emstep_exprT o ih
+      arith := emstep_arith o ih
+      mul := emstep_mul o ih
+      pred := emstep_pred o ih
+      or_ := emstep_or o ih
+      accOp := emstep_accOp o ih
+      index := emstep_index o ih
+      csv := emstep_csv o ih
+      csvM := emstep_csvM o ih }
+
+end
+
+/-! ## Tokens up to the spelling of integer literals (and of keywords that are no key names) -/
+
+/-- integer literal texts with the same value wherever the parser evaluates them -/
+def IntEq (x y : List Char) : Prop :=
+  NumHead x ∧ NumHead y ∧ parseInt0 x = parseInt0 y ∧ parseIntBase0 32 x = parseIntBase0 32 y ∧
+    parseInt0 (negLit x) = parseInt0 (negLit y)
+
+/-- the keyword tokens: the parser uses their text only when they stand after a `.` (key names) -/
+def isKw (t : Tok) : Bool :=
+  t = .to || t = .null || t = .true_ || t = .false_ || t = .is || t = .unknown || t = .exists
+  || t = .strict || t = .lax || t = .last || t = .starts || t = .with_ || t = .likeRegex || t = .flag
+  || (methodOf t).isSome || t = .decimal || t = .date || t = .datetime || (precisionOp t).isSome
+
+/-- the same token up to the spelling of an integer literal -/
+def TokEq (t t' : TT) : Prop := t.1 = t'.1 ∧ (t.2 = t'.2 ∨ (t.1 = .int ∧ IntEq t.2 t'.2))
+
+/-- pointwise `TokEq` -/
+inductive TokEqL : List TT → List TT → Prop
+  | nil : TokEqL [] []
+  | cons {t t' : TT} {ts ts' : List TT} : TokEq t t' → TokEqL ts ts' → TokEqL (t :: ts) (t' :: ts')
+
+/-- the same kind of token, up to the spelling of an integer literal and, unless the token stands after
+    a `.` (`dot = true`), of a keyword -/
+def TokEqC (dot : Bool) (t t' : TT) : Prop :=
+  t.1 = t'.1 ∧ (t.2 = t'.2 ∨ (t.1 = .int ∧ IntEq t.2 t'.2) ∨ (dot = false ∧ isKw t.1 = true))
+
+/-- `TokEqC`, or, after a `.`, two plain key names (bare, quoted, or a keyword) with the same text -/
+def TokEqX (dot : Bool) (t t' : TT) : Prop :=
+  (t.1 = t'.1 ∧ (t.2 = t'.2 ∨ (t.1 = .int ∧ IntEq t.2 t'.2) ∨ (dot = false ∧ isKw t.1 = true))) ∨
+  (dot = true ∧ isPlainKeyName t.1 = true ∧ isPlainKeyName t'.1 = true ∧ t.2 = t'.2)
+
+theorem TokEqC.toX {b : Bool} {t t' : TT} (h : TokEqC b t t') : TokEqX b t t' := Or.inl h
+
+/-- where no `.` precedes, the kinds agree -/
+theorem TokEqX.core {t t' : TT} (h : TokEqX false t t') : TokEqC false t t' := by
+  rcases h with h | h
+  · exact h
+  · exact absurd h.1 (by simp)
+
+theorem TokEqX.refl (b : Bool) (t : TT) : TokEqX b t t := Or.inl ⟨rfl, Or.inl rfl⟩
+
+/-- the flag that `TokEqLX.cons` hands to the tail is the same whichever side it is read from -/
+theorem TokEqX.dot_iff {b : Bool} {t t' : TT} (h : TokEqX b t t') : t.1 = .dot ↔ t'.1 = .dot := by
+  rcases h with h | ⟨_, h1, h2, _⟩
+  · rw [h.1]
+  · constructor <;> intro hh
+    · rw [hh] at h1; exact absurd h1 (by decide)
+    · rw [hh] at h2; exact absurd h2 (by decide)
+
+/-- pointwise `TokEqX`; `dot`: the token before the streams is a `.` (a token that is a `.` has the same
+    kind on both sides, so the flag of the tail may be read from either side) -/
+inductive TokEqLX : Bool → List TT → List TT → Prop
+  | nil (b : Bool) : TokEqLX b [] []
+  | cons {b : Bool} {t t' : TT} {ts ts' : List TT} :
+      TokEqX b t t' → TokEqLX (decide (t.1 = .dot)) ts ts' → TokEqLX b (t :: ts) (t' :: ts')
+
+theorem TokEq.toX {t t' : TT} (h : TokEq t t') (b : Bool) : TokEqX b t t' :=
+  Or.inl ⟨h.1, h.2.elim Or.inl (fun h => Or.inr (Or.inl h))⟩
+
+theorem TokEqL.toX {ts ts' : List TT} (h : TokEqL ts ts') : ∀ b, TokEqLX b ts ts' := by
+  induction h with
+  | nil => exact fun b => .nil b
+  | cons h1 _ ih => exact fun b => .cons (h1.toX b) (ih _)
+
+theorem TokEqC.weaken {b : Bool} {t t' : TT} (h : TokEqC b t t') : TokEqC false t t' := by
+  refine ⟨h.1, ?_⟩
+  rcases h.2 with h | h | h
+  · exact Or.inl h
+  · exact Or.inr (Or.inl h)
+  · exact Or.inr (Or.inr ⟨rfl, h.2⟩)
+
+theorem TokEqC.refl (b : Bool) (t : TT) : TokEqC b t t := ⟨rfl, Or.inl rfl⟩
+
+/-- the text of a token that is neither an integer literal nor a keyword -/
+theorem TokEqC.txt {b : Bool} {t t' : Tok} {x x' : List Char} (h : TokEqC b (t, x) (t', x'))
+    (h1 : t ≠ .int) (h2 : isKw t = false) : x = x' := by
+  rcases h.2 with h | h | h
+  · exact h
+  · exact absurd h.1 h1
+  · have := h.2; simp only [h2] at this; exact absurd this (by simp)
+
+/-- the text of a token after a `.` -/
+theorem TokEqC.txt_dot {t t' : Tok} {x x' : List Char} (h : TokEqC true (t, x) (t', x'))
+    (h1 : t ≠ .int) : x = x' := by
+  rcases h.2 with h | h | h
+  · exact h
+  · exact absurd h.1 h1
+  · exact absurd h.1 (by simp)
+
+theorem TokEqC.int {b : Bool} {t' : Tok} {x x' : List Char} (h : TokEqC b (.int, x) (t', x')) :
+    x = x' ∨ IntEq x x' := by
+  rcases h.2 with h | h | h
+  · exact Or.inl h
+  · exact Or.inr h.2
+  · exact absurd (show isKw Tok.int = true from h.2) (by decide)
+
+/-! ## Values up to the spelling of the literal -/
+
+/-- literals of an integer node that are re-parsed to the same values by `NewUnaryOrNumber` -/
+def LitI (x y : List Char) : Prop := IntEq x y ∨ ∃ x0 y0, x = '-' :: x0 ∧ y = '-' :: y0 ∧ IntEq x0 y0
+
+theorem LitI.neg {x y : List Char} (h : LitI x y) : LitI (negLit x) (negLit y) := by
+  rcases h with h | ⟨x0, y0, rfl, rfl, h⟩
+  · rw [numHead_negLit h.1, numHead_negLit h.2.1]
+    exact Or.inr ⟨x, y, rfl, rfl, h⟩
+  · exact Or.inl h
+
+theorem LitI.parse_neg {x y : List Char} (h : LitI x y) : parseInt0 (negLit x) = parseInt0 (negLit y) := by
+  rcases h with h | ⟨x0, y0, rfl, rfl, h⟩
+  · exact h.2.2.2.2
+  · exact h.2.2.1
+
+/-- the same value: the same node, and literals that `NewUnaryOrNumber` cannot tell apart -/
+def EVR (v v' : EV) : Prop :=
+  v.node = v'.node ∧ (v.lit = v'.lit ∨ ((∃ i nx, v.node = .integer i nx) ∧ LitI v.lit v'.lit))
+
+theorem EVR.refl (v : EV) : EVR v v := ⟨rfl, Or.inl rfl⟩
+
+theorem EVR.of_node {n : Node} : EVR { node := n } { node := n } := ⟨rfl, Or.inl rfl⟩
+
+theorem evr_binary (op : BinOp) {l l' r r' : EV} (hl : EVR l l') (hr : EVR r r') :
+    EVR (binary op l r) (binary op l' r') := by
+  refine ⟨?_, Or.inl rfl⟩
+  simp only [binary, hl.1, hr.1]
+
+theorem evr_unary (op : UnOp) {x x' : EV} (hx : EVR x x') : EVR (unary op x) (unary op x') := by
+  refine ⟨?_, Or.inl rfl⟩
+  simp only [unary, hx.1]
+
+theorem appendEnd_integer (i : Int) (nx : Option Node) (t : Option Node) :
+    ∃ nx', appendEnd (.integer i nx) t = .integer i nx' := by
+  cases nx with
+  | none => exact ⟨t, by simp [appendEnd]⟩
+  | some m => exact ⟨some (appendEnd m t), by simp [appendEnd]⟩
+
+theorem evr_linkNodes {h h' : EV} (hh : EVR h h') (ops : List Node) : EVR (linkNodes h ops) (linkNodes h' ops) := by
+  unfold linkNodes
+  cases ops with
+  | nil => exact hh
+  | cons op rest =>
+    refine ⟨by simp only [hh.1], ?_⟩
+    rcases hh.2 with h2 | ⟨⟨i, nx, hi⟩, h2⟩
+    · exact Or.inl h2
+    · refine Or.inr ⟨?_, h2⟩
+      obtain ⟨nx', hnx'⟩ := appendEnd_integer i nx (chainOf (op :: rest))
+      exact ⟨i, nx', by simp only [hi, hnx']⟩
+
+/-! ## Two parser states standing before token streams that agree up to spelling -/
+
+theorem drop_succ_of_cons {α : Type} {l r : List α} {t : α} {n : Nat} (h : l.drop n = t :: r) :
+    l.drop (n + 1) = r := by
+  induction l generalizing n with
+  | nil => simp at h
+  | cons a l ih =>
+    cases n with
+    | zero => simp at h; simp [h.2]
+    | succ n => simp at h; simpa using ih h
+
+section
+variable (o : Oracles) (TS TS' : List TT)
+
+/-- both states stand at the same position `k` of the streams `TS`, `TS'`, whose remainders agree up to
+    spelling; `b`: the last token was a `.` -/
+def SEb (b : Bool) (s s' : PS) : Prop :=
+  ∃ k, TokEqLX b (TS.drop k) (TS'.drop k) ∧ StE o (TS.drop k) s ∧ StE o (TS'.drop k) s'
+
+/-- … and the last token was no `.` (the state of affairs everywhere but inside `accessorOp`) -/
+def SE (s s' : PS) : Prop := SEb o TS TS' false s s'
+
+/-- both states have examined the next token, of kind `k` -/
+def SAb (b : Bool) (k : Tok) (s s' : PS) : Prop :=
+  ∃ n, TokEqLX b (TS.drop n) (TS'.drop n) ∧ StA o (TS.drop n) s ∧ StA o (TS'.drop n) s' ∧ (hd (TS.drop n)).1 = k
+
+def SA (k : Tok) (s s' : PS) : Prop := SAb o TS TS' false k s s'
+
+variable {o} {TS TS'}
+
+theorem SEb.toSE {s s' : PS} (h : SEb o TS TS' false s s') : SE o TS TS' s s' := h
+theorem SAb.toSA {k : Tok} {s s' : PS} (h : SAb o TS TS' false k s s') : SA o TS TS' k s s' := h
+theorem SAb.toSEb {b : Bool} {k : Tok} {s s' : PS} (h : SAb o TS TS' b k s s') : SEb o TS TS' b s s' := by
+  obtain ⟨n, h1, h2, h3, _⟩ := h
+  exact ⟨n, h1, StE.ofA h2, StE.ofA h3⟩
+theorem SA.toSE {k : Tok} {s s' : PS} (h : SA o TS TS' k s s') : SE o TS TS' s s' := SAb.toSEb h
+
+theorem TokEqLX.hd {b : Bool} {ts ts' : List TT} (h : TokEqLX b ts ts') : TokEqX b (hd ts) (hd ts') := by
+  cases h with
+  | nil => exact TokEqX.refl _ _
+  | cons h1 _ => exact h1
+
+/-- a state stands before at most one token stream, as far as its end is concerned -/
+theorem stE_nil_unique {ts : List TT} {s : PS} (h : StE o ts s) (h0 : StE o [] s) : ts = [] := by
+  cases ts with
+  | nil => rfl
+  | cons tk r =>
+    exfalso
+    rcases h0 with ⟨h01, s0, h02, _⟩ | h0
+    · rcases h with ⟨_, hns, s1, h2, _⟩ | ⟨h1, _⟩
+      · rw [h02] at h2
+        injection h2 with h2 _
+        exact hns h2.symm
+      · rw [h01] at h1; simp at h1
+    · exact absurd h0 (by simp [StP])
+
+theorem SE.nil {s s' : PS} (h : SE o TS TS' s s') (h0 : StE o [] s) : StE o [] s' := by
+  obtain ⟨k, h1, h2, h3⟩ := h
+  have h4 := stE_nil_unique h2 h0
+  rw [h4] at h1
+  generalize TS'.drop k = l' at h1 h3
+  cases h1
+  exact h3
+
+theorem lStr_unique {ts ts2 : List TT} : ∀ {lx : LState}, LStr o ts lx → LStr o ts2 lx → ts = ts2 := by
+  induction ts generalizing ts2 with
+  | nil =>
+    intro lx h h2
+    cases ts2 with
+    | nil => rfl
+    | cons tk r =>
+      obtain ⟨s0, e0, _⟩ := h
+      obtain ⟨hns, s1, e1, _⟩ := h2
+      rw [e0] at e1
+      injection e1 with e1 _
+      exact absurd e1.symm hns
+  | cons tk r ih =>
+    intro lx h h2
+    obtain ⟨hns, s1, e1, _, hr⟩ := h
+    cases ts2 with
+    | nil =>
+      obtain ⟨s0, e0, _⟩ := h2
+      rw [e0] at e1
+      injection e1 with e1 _
+      exact absurd e1.symm hns
+    | cons tk2 r2 =>
+      obtain ⟨_, s2, e2, _, hr2⟩ := h2
+      rw [e1] at e2
+      injection e2 with a b
+      injection b with b c
+      subst c
+      rw [ih hr hr2, Prod.ext a b]
+
+/-- a state stands before exactly one token stream -/
+theorem stE_unique {ts ts2 : List TT} {s : PS} (h : StE o ts s) (h2 : StE o ts2 s) : ts = ts2 := by
+  rcases h with ⟨a1, a2⟩ | h
+  · rcases h2 with ⟨_, b2⟩ | h2
+    · exact lStr_unique a2 b2
+    · cases ts2 with
+      | nil => exact absurd h2 (by simp [StP])
+      | cons tk2 r2 => exact absurd (a1.symm.trans h2.1) (by simp)
+  · cases ts with
+    | nil => exact absurd h (by simp [StP])
+    | cons tk r =>
+      rcases h2 with ⟨b1, _⟩ | h2
+      · exact absurd (b1.symm.trans h.1) (by simp)
+      · cases ts2 with
+        | nil => exact absurd h2 (by simp [StP])
+        | cons tk2 r2 =>
+          have e : tk = tk2 := by
+            have := h.1.symm.trans h2.1
+            injection this
+          subst e
+          rw [lStr_unique h.2.2 h2.2.2]
+
+/-! ## The simulation calculus -/
+
+/-- whenever `m` runs from `s` to an error-free state, `m'` runs from the related state `s'`, to related
+    values and states; and `m` never clears the error flag -/
+structure Sim {α : Type} (Pre : PS → PS → Prop) (m m' : P α) (Post : α → α → PS → PS → Prop) : Prop where
+  em : EM m
+  run : ∀ s s', Pre s s' → ∀ v s1, m s = .ok v s1 → s1.lx.err = false →
+    ∃ v' s1', m' s' = .ok v' s1' ∧ Post v v' s1 s1'
+
+theorem sim_bind_core {α β : Type} {Pre : PS → PS → Prop} {Mid : α → α → PS → PS → Prop}
+    {Post : β → β → PS → PS → Prop} {m m' : P α} {f f' : α → P β}
+    (hm : Sim Pre m m' Mid) (hem : ∀ a, EM (f a))
+    (hf : ∀ a a' s s', Mid a a' s s' → ∀ v s1, f a s = .ok v s1 → s1.lx.err = false →
+      ∃ v' s1', f' a' s' = .ok v' s1' ∧ Post v v' s1 s1') :
+    Sim Pre (m >>= f) (m' >>= f') Post := by
+  refine ⟨em_bind hm.em hem, ?_⟩
+  intro s s' hpre v s1 hrun herr
+  rw [bind_apply] at hrun
+  cases hms : m s with
+  | ok a sm =>
+    rw [hms] at hrun
+    have hmid : sm.lx.err = false := by
+      cases he : sm.lx.err with
+      | false => rfl
+      | true => rw [(hem a).mono sm v s1 hrun he] at herr; exact absurd herr (by simp)
+    obtain ⟨a', sm', h1, h2⟩ := hm.run s s' hpre a sm hms hmid
+    obtain ⟨v', s1', h3, h4⟩ := hf a a' sm sm' h2 v s1 hrun herr
+    exact ⟨v', s1', by rw [bind_apply, h1]; exact h3, h4⟩
+  | syn => rw [hms] at hrun; simp at hrun
+  | panic => rw [hms] at hrun; simp at hrun
+  | fuel => rw [hms] at hrun; simp at hrun
+
+/-- a step whose values need not be related -/
+theorem sim_bind {α β : Type} {Pre : PS → PS → Prop} {Mid : α → α → PS → PS → Prop}
+    {Post : β → β → PS → PS → Prop} {m m' : P α} {f f' : α → P β}
+    (hm : Sim Pre m m' Mid) (hf : ∀ a a', Sim (Mid a a') (f a) (f' a') Post) :
+    Sim Pre (m >>= f) (m' >>= f') Post :=
+  sim_bind_core hm (fun a => (hf a a).em) (fun a a' => (hf a a').run)
+
+/-- a step whose values are related by the (reflexive) relation `R` -/
+theorem sim_bindR {α β : Type} {Pre : PS → PS → Prop} {R : α → α → Prop} {Q : α → α → PS → PS → Prop}
+    {Post : β → β → PS → PS → Prop} {m m' : P α} {f f' : α → P β}
+    (hm : Sim Pre m m' (fun a a' s s' => R a a' ∧ Q a a' s s')) (hr : ∀ a, R a a)
+    (hf : ∀ a a', R a a' → Sim (Q a a') (f a) (f' a') Post) :
+    Sim Pre (m >>= f) (m' >>= f') Post :=
+  sim_bind_core hm (fun a => (hf a a (hr a)).em) (fun a a' s s' h => (hf a a' h.1).run s s' h.2)
+
+theorem sim_pre {α : Type} {Pre Pre' : PS → PS → Prop} {m m' : P α} {Post : α → α → PS → PS → Prop}
+    (h : Sim Pre m m' Post) (hp : ∀ s s', Pre' s s' → Pre s s') : Sim Pre' m m' Post :=
+  ⟨h.em, fun s s' hpre => h.run s s' (hp s s' hpre)⟩
+
+theorem sim_post {α : Type} {Pre : PS → PS → Prop} {m m' : P α} {Post Post' : α → α → PS → PS → Prop}
+    (h : Sim Pre m m' Post) (hp : ∀ a a' s s', Post a a' s s' → Post' a a' s s') : Sim Pre m m' Post' := by
+  refine ⟨h.em, ?_⟩
+  intro s s' hpre v s1 hrun herr
+  obtain ⟨v', s1', h1, h2⟩ := h.run s s' hpre v s1 hrun herr
+  exact ⟨v', s1', h1, hp _ _ _ _ h2⟩
+
+theorem sim_pure {α : Type} {Pre : PS → PS → Prop} {a a' : α} {Post : α → α → PS → PS → Prop}
+    (h : ∀ s s', Pre s s' → Post a a' s s') : Sim Pre (pure a : P α) (pure a') Post := by
+  refine ⟨em_pure _, ?_⟩
+  intro s s' hpre v s1 hrun _
+  rw [pure_apply] at hrun
+  injection hrun with h1 h2
+  subst h1; subst h2
+  exact ⟨a', s', rfl, h s s' hpre⟩
+
+theorem sim_syn {α : Type} {Pre : PS → PS → Prop} {m' : P α} {Post : α → α → PS → PS → Prop} :
+    Sim Pre (syn : P α) m' Post := ⟨em_syn, fun s s' _ v s1 h => by simp [syn] at h⟩
+
+theorem sim_outOfFuel {α : Type} {Pre : PS → PS → Prop} {m' : P α} {Post : α → α → PS → PS → Prop} :
+    Sim Pre (outOfFuel : P α) m' Post := ⟨em_outOfFuel, fun s s' _ v s1 h => by simp [outOfFuel] at h⟩
+
+theorem sim_panic {α : Type} {Pre : PS → PS → Prop} {m' : P α} {Post : α → α → PS → PS → Prop} :
+    Sim Pre (Parse.panic : P α) m' Post := ⟨em_panic, fun s s' _ v s1 h => by simp [Parse.panic] at h⟩
+
+/-- a computation that records an error has no error-free run -/
+theorem sim_recordError {α : Type} {Pre : PS → PS → Prop} {f : Unit → P α} {m' : P α}
+    {Post : α → α → PS → PS → Prop} (hem : ∀ a, EM (f a)) : Sim Pre (recordError >>= f) m' Post := by
+  refine ⟨em_bind em_recordError hem, ?_⟩
+  intro s s' _ v s1 hrun herr
+  rw [bind_apply] at hrun
+  simp only [recordError] at hrun
+  have := (hem ()).mono _ v s1 hrun rfl
+  rw [this] at herr
+  exact absurd herr (by simp)
+
+theorem sim_ite {α : Type} {c : Prop} [Decidable c] {Pre : PS → PS → Prop} {a b a' b' : P α}
+    {Post : α → α → PS → PS → Prop} (h1 : c → Sim Pre a a' Post) (h2 : ¬ c → Sim Pre b b' Post) :
+    Sim Pre (if c then a else b) (if c then a' else b') Post := by
+  by_cases hc : c
+  · simp only [if_pos hc]; exact h1 hc
+  · simp only [if_neg hc]; exact h2 hc
+
+/-- both conditions fail (they need not be the same) -/
+theorem sim_ite_neg {α : Type} {c c' : Prop} [Decidable c] [Decidable c'] {Pre : PS → PS → Prop}
+    {a b a' b' : P α} {Post : α → α → PS → PS → Prop} (hc : ¬ c) (hc' : ¬ c') (h : Sim Pre b b' Post) :
+    Sim Pre (if c then a else b) (if c' then a' else b') Post := by
+  rw [if_neg hc, if_neg hc']; exact h
+
+/-- both conditions hold (they need not be the same) -/
+theorem sim_ite_pos {α : Type} {c c' : Prop} [Decidable c] [Decidable c'] {Pre : PS → PS → Prop}
+    {a b a' b' : P α} {Post : α → α → PS → PS → Prop} (hc : c) (hc' : c') (h : Sim Pre a a' Post) :
+    Sim Pre (if c then a else b) (if c' then a' else b') Post := by
+  rw [if_pos hc, if_pos hc']; exact h
+
+/-- `pure a >>= f` is `f a` -/
+theorem sim_pure_bind {α β : Type} {Pre : PS → PS → Prop} {a a' : α} {f f' : α → P β}
+    {Post : β → β → PS → PS → Prop} (h : Sim Pre (f a) (f' a') Post) :
+    Sim Pre (pure a >>= f) (pure a' >>= f') Post := ⟨⟨h.em.mono⟩, h.run⟩
+
+/-- the examined token, known from the branch we are in, is no `.` -/
+macro "sdot" : tactic =>
+  `(tactic| first
+    | decide
+    | (intro hd; subst hd; first
+        | contradiction
+        | simp_all [compOp, addOp, mulOp, methodOf, precisionOp, isPlainKeyName]))
+
+/-! ### the primitives -/
+
+variable (o) (TS TS')
+
+theorem sim_peekb (b : Bool) : Sim (SEb o TS TS' b) (peek o) (peek o) (fun t t' s s' => TokEqX b t t' ∧ SAb o TS TS' b t.1 s s') := by
+  refine ⟨em_peek o, ?_⟩
+  intro s s' ⟨k, h1, h2, h3⟩ v s1 hrun _
+  obtain ⟨s2, e2, p2⟩ := peek_any (o := o) (TS.drop k) s h2
+  obtain ⟨s2', e2', p2'⟩ := peek_any (o := o) (TS'.drop k) s' h3
+  rw [e2] at hrun
+  injection hrun with hv hs
+  subst hv; subst hs
+  exact ⟨hd (TS'.drop k), s2', e2', h1.hd, k, h1, p2, p2', rfl⟩
+
+theorem sim_peek : Sim (SE o TS TS') (peek o) (peek o) (fun t t' s s' => TokEqC false t t' ∧ SA o TS TS' t.1 s s') := by
+  refine ⟨em_peek o, ?_⟩
+  intro s s' hb v s1 hrun herr
+  obtain ⟨v', s1', h1, h2, h3⟩ := (sim_peekb o TS TS' false).run s s' hb v s1 hrun herr
+  exact ⟨v', s1', h1, h2.core, h3⟩
+
+theorem sim_consumeb (b : Bool) (k : Tok) :
+    Sim (SAb o TS TS' b k) consume consume (fun _ _ s s' => SEb o TS TS' (decide (k = .dot)) s s') := by
+  refine ⟨em_consume, ?_⟩
+  intro s s' ⟨n, h1, h2, h3, h4⟩ v s1 hrun _
+  simp only [consume] at hrun
+  injection hrun with hv hs
+  subst hs
+  refine ⟨(), { s' with la := none }, rfl, ?_⟩
+  generalize hl : TS.drop n = l at h1 h2 h4
+  generalize hl' : TS'.drop n = l' at h1 h3
+  cases h1 with
+  | nil =>
+    refine ⟨n, by rw [hl, hl']; exact .nil _, ?_, ?_⟩
+    · rw [hl]
+      rcases h2 with ⟨_, h⟩ | h
+      · exact Or.inl ⟨rfl, h⟩
+      · exact absurd h (by simp [StP])
+    · rw [hl']
+      rcases h3 with ⟨_, h⟩ | h
+      · exact Or.inl ⟨rfl, h⟩
+      · exact absurd h (by simp [StP])
+  | cons hx hr =>
+    rename_i t t' r r'
+    simp only [hd] at h4
+    subst h4
+    have e1 := drop_succ_of_cons hl
+    have e2 := drop_succ_of_cons hl'
+    exact ⟨n + 1, by rw [e1, e2]; exact hr, by rw [e1]; exact Or.inl ⟨rfl, h2.2.2⟩,
+      by rw [e2]; exact Or.inl ⟨rfl, h3.2.2⟩⟩
+
+/-- shifting a token that is no `.` -/
+theorem sim_consumeB (b : Bool) (k : Tok) (hk : k ≠ .dot := by sdot) :
+    Sim (SAb o TS TS' b k) consume consume (fun _ _ s s' => SE o TS TS' s s') := by
+  have h := sim_consumeb o TS TS' b k
+  rw [decide_eq_false hk] at h
+  exact h
+
+theorem sim_consume (k : Tok) (hk : k ≠ .dot := by sdot) :
+    Sim (SA o TS TS' k) consume consume (fun _ _ s s' => SE o TS TS' s s') :=
+  sim_consumeB o TS TS' false k hk
+
+/-- shifting the examined token: afterwards it is known whether the last token is a `.` -/
+theorem sim_consume' (k : Tok) :
+    Sim (SA o TS TS' k) consume consume (fun _ _ s s' => SEb o TS TS' (decide (k = .dot)) s s') :=
+  sim_consumeb o TS TS' false k
+
+end
+
+macro "emj" : tactic => `(tactic| repeat' (first | em_more | exact (allEM _ _).unaryT _ | exact (allEM _ _).unary | exact (allEM _ _).scalar _ | exact (allEM _ _).accLoop _ _ | exact (allEM _ _).paren _ | exact (allEM _ _).atom _ | exact (allEM _ _).exists_ | exact (allEM _ _).exprT _ _ | exact (allEM _ _).arith _ | exact (allEM _ _).mul _ | exact (allEM _ _).pred _ | exact (allEM _ _).or_ _ | exact (allEM _ _).accOp _ | exact (allEM _ _).index _ _ | exact (allEM _ _).csv | exact (allEM _ _).csvM _ | apply em_bind | apply em_ite | intro _ | split))
+
+/-- the relation of the values of a step is reflexive -/
+macro "srefl" : tactic =>
+  `(tactic| (intro _; first | exact TokEqC.refl _ _ | exact TokEqX.refl _ _ | exact EVR.refl _ | rfl | exact ⟨EVR.refl _, rfl⟩))
+
+/-- one step `m >>= f` on both sides, `h` the simulation of `m`; the values are not related -/
+macro "sbind0 " h:term : tactic =>
+  `(tactic| (first
+    | refine sim_bind $h ?_
+    | refine sim_bind (sim_pre $h (fun _ _ hh => SA.toSE hh)) ?_
+    | refine sim_bind (sim_pre $h (fun _ _ hh => SEb.toSE hh)) ?_
+    | refine sim_bind (sim_pre $h (fun _ _ hh => SAb.toSEb hh)) ?_
+    | refine sim_bind (sim_pre $h (fun _ _ hh => SAb.toSA hh)) ?_
+    | refine sim_bind (sim_pre $h (fun _ _ hh => SA.toSE (SAb.toSA hh))) ?_
+    | fail "sbind0: does not fit"))
+
+/-- one step `m >>= f` on both sides, `h` the simulation of `m`; continue with `intro a a' h` -/
+macro "sbind " h:term : tactic =>
+  `(tactic| (first
+    | refine sim_bindR $h (by srefl) ?_
+    | refine sim_bindR (sim_pre $h (fun _ _ hh => SA.toSE hh)) (by srefl) ?_
+    | refine sim_bindR (sim_pre $h (fun _ _ hh => SEb.toSE hh)) (by srefl) ?_
+    | refine sim_bindR (sim_pre $h (fun _ _ hh => SAb.toSEb hh)) (by srefl) ?_
+    | refine sim_bindR (sim_pre $h (fun _ _ hh => SAb.toSA hh)) (by srefl) ?_
+    | refine sim_bindR (sim_pre $h (fun _ _ hh => SA.toSE (SAb.toSA hh))) (by srefl) ?_
+    | fail "sbind: does not fit"))
+
+section
+variable (o : Oracles) (TS TS' : List TT)
+
+theorem sim_expect (t : Tok) (ht : t ≠ .dot := by decide) :
+    Sim (SE o TS TS') (expect o t) (expect o t) (fun _ _ s s' => SE o TS TS' s s') := by
+  unfold expect
+  sbind sim_peek o TS TS'
+  intro a a' h
+  obtain ⟨k, x⟩ := a
+  obtain ⟨k', x'⟩ := a'
+  have hk : k = k' := h.1
+  subst hk
+  simp only []
+  apply sim_ite
+  · intro hk; subst hk; exact sim_consume o TS TS' k ht
+  · intro _; exact sim_syn
+
+end
+
+section
+variable (o : Oracles) (TS TS' : List TT)
+
+theorem sim_newInteger {Pre : PS → PS → Prop} {x y : List Char} (h : x = y ∨ IntEq x y) :
+    Sim Pre (newInteger x) (newInteger y) (fun v v' s s' => EVR v v' ∧ Pre s s') := by
+  have hp : parseInt0 x = parseInt0 y := by
+    rcases h with h | h
+    · rw [h]
+    · exact h.2.2.1
+  unfold newInteger
+  rw [hp]
+  cases parseInt0 y with
+  | some v =>
+    simp only []
+    refine sim_pure (fun s s' hs => ⟨⟨rfl, ?_⟩, hs⟩)
+    rcases h with h | h
+    · exact Or.inl h
+    · exact Or.inr ⟨⟨v, none, rfl⟩, Or.inl h⟩
+  | none =>
+    simp only []
+    exact sim_recordError (by emj)
+
+theorem sim_anyLevelOf {Pre : PS → PS → Prop} {x y : List Char} (h : x = y ∨ IntEq x y) :
+    Sim Pre (anyLevelOf x) (anyLevelOf y) (fun v v' s s' => v = v' ∧ Pre s s') := by
+  have hp : parseIntBase0 32 x = parseIntBase0 32 y := by
+    rcases h with h | h
+    · rw [h]
+    · exact h.2.2.2.1
+  unfold anyLevelOf
+  rw [hp]
+  cases parseIntBase0 32 y with
+  | some v =>
+    simp only []
+    exact sim_pure (fun s s' hs => ⟨rfl, hs⟩)
+  | none =>
+    simp only []
+    exact sim_recordError (by emj)
+
+theorem sim_newNumeric {Pre : PS → PS → Prop} (x : List Char) :
+    Sim Pre (newNumeric x) (newNumeric x) (fun v v' s s' => EVR v v' ∧ Pre s s') := by
+  unfold newNumeric
+  cases parseFloatFinite x with
+  | some v =>
+    simp only []
+    exact sim_pure (fun s s' hs => ⟨EVR.refl _, hs⟩)
+  | none =>
+    simp only []
+    exact sim_recordError (by emj)
+
+theorem sim_astNewNumeric {Pre : PS → PS → Prop} (x : List Char) :
+    Sim Pre (astNewNumeric x) (astNewNumeric x) (fun v v' s s' => EVR v v' ∧ Pre s s') := by
+  unfold astNewNumeric
+  cases parseFloatFinite x with
+  | some v =>
+    simp only []
+    exact sim_pure (fun s s' hs => ⟨EVR.refl _, hs⟩)
+  | none =>
+    simp only []
+    exact sim_panic
+
+theorem sim_astNewInteger {Pre : PS → PS → Prop} {x y : List Char} (h : x = y ∨ LitI x y) :
+    Sim Pre (astNewInteger (negLit x)) (astNewInteger (negLit y)) (fun v v' s s' => EVR v v' ∧ Pre s s') := by
+  have hp : parseInt0 (negLit x) = parseInt0 (negLit y) := by
+    rcases h with h | h
+    · rw [h]
+    · exact h.parse_neg
+  unfold astNewInteger
+  rw [hp]
+  cases parseInt0 (negLit y) with
+  | some v =>
+    simp only []
+    refine sim_pure (fun s s' hs => ⟨⟨rfl, ?_⟩, hs⟩)
+    rcases h with h | h
+    · exact Or.inl (by rw [h])
+    · exact Or.inr ⟨⟨v, none, rfl⟩, h.neg⟩
+  | none =>
+    simp only []
+    exact sim_panic
+
+theorem sim_newUnaryOrNumber {Pre : PS → PS → Prop} (op : UnOp) {v v' : EV} (h : EVR v v') :
+    Sim Pre (newUnaryOrNumber op v) (newUnaryOrNumber op v') (fun v v' s s' => EVR v v' ∧ Pre s s') := by
+  obtain ⟨node, lit⟩ := v
+  obtain ⟨node', lit'⟩ := v'
+  obtain ⟨h1, h2⟩ := h
+  simp only at h1 h2
+  subst h1
+  have hother : Sim Pre (pure { node := .unary op (some node) none } : P EV)
+      (pure { node := .unary op (some node) none }) (fun v v' s s' => EVR v v' ∧ Pre s s') :=
+    sim_pure (fun s s' hs => ⟨EVR.refl _, hs⟩)
+  unfold newUnaryOrNumber
+  simp only []
+  apply sim_ite
+  · intro _
+    cases node
+    all_goals first
+      | exact hother
+      | skip
+    · -- numeric
+      simp only []
+      apply sim_ite
+      · intro _
+        refine sim_pure (fun s s' hs => ⟨⟨rfl, ?_⟩, hs⟩)
+        exact h2
+      · intro _
+        rcases h2 with h2 | ⟨⟨i, nx, hi⟩, _⟩
+        · subst h2; exact sim_astNewNumeric _
+        · simp at hi
+    · -- integer
+      simp only []
+      apply sim_ite
+      · intro _
+        refine sim_pure (fun s s' hs => ⟨⟨rfl, ?_⟩, hs⟩)
+        exact h2
+      · intro _
+        apply sim_astNewInteger
+        rcases h2 with h2 | ⟨_, h2⟩
+        · exact Or.inl h2
+        · exact Or.inr h2
+  · intro _
+    exact hother
+
+theorem sim_mkRegex {Pre : PS → PS → Prop} {v v' : EV} (h : EVR v v') (pat fl : List Char) :
+    Sim Pre (mkRegex o v pat fl) (mkRegex o v' pat fl) (fun v v' s s' => EVR v v' ∧ Pre s s') := by
+  unfold mkRegex
+  simp only []
+  split
+  · rename_i b hb
+    refine sim_pure (fun s s' hs => ⟨⟨?_, Or.inl rfl⟩, hs⟩)
+    simp only [h.1]
+  · exact sim_recordError (by emj)
+
+/-- split the two tokens of a `peek` step -/
+macro "stok " a:ident a':ident h:ident " with " k:ident x:ident x':ident : tactic =>
+  `(tactic| (obtain ⟨$k:ident, $x:ident⟩ := $a:ident; obtain ⟨k', $x':ident⟩ := $a':ident
+             have hk : $k = k' := (And.left $h); subst hk; simp only []))
+
+theorem sim_anyLevel : Sim (SE o TS TS') (anyLevel o) (anyLevel o) (fun a a' s s' => a = a' ∧ SE o TS TS' s s') := by
+  unfold anyLevel
+  sbind sim_peek o TS TS'
+  intro a a' h
+  stok a a' h with t x x'
+  apply sim_ite
+  · intro ht
+    subst ht
+    sbind0 sim_consume o TS TS' _
+    intro _ _
+    sbind sim_anyLevelOf h.int
+    intro n n' hn
+    subst hn
+    exact sim_pure (fun s s' hs => ⟨rfl, hs⟩)
+  · intro _
+    apply sim_ite
+    · intro _
+      sbind0 sim_consume o TS TS' _
+      intro _ _
+      exact sim_pure (fun s s' hs => ⟨rfl, hs⟩)
+    · intro _; exact sim_syn
+
+theorem sim_csvElem {t t' : TT} (h : TokEqC false t t') (hnd : t.1 ≠ .dot) :
+    Sim (SA o TS TS' t.1) (csvElem o t) (csvElem o t') (fun a a' s s' => a = a' ∧ SE o TS TS' s s') := by
+  stok t t' h with k x x'
+  unfold csvElem
+  simp only []
+  apply sim_ite
+  · intro ht
+    subst ht
+    sbind0 sim_consume o TS TS' _
+    intro _ _
+    sbind sim_newInteger h.int
+    intro v v' hv
+    exact sim_pure (fun s s' hs => ⟨hv.1, hs⟩)
+  · intro _
+    sbind0 sim_consume o TS TS' _ hnd
+    intro _ _
+    sbind sim_peek o TS TS'
+    intro a a' h2
+    stok a a' h2 with k2 y y'
+    apply sim_ite
+    · intro _; exact sim_syn
+    · intro ht
+      have ht : k2 = .int := by simpa using ht
+      subst ht
+      sbind0 sim_consume o TS TS' _
+      intro _ _
+      sbind sim_newInteger h2.int
+      intro v v' hv
+      sbind sim_newUnaryOrNumber _ hv
+      intro w w' hw
+      exact sim_pure (fun s s' hs => ⟨hw.1, hs⟩)
+
+/-! ## The simulation, function by function -/
+
+abbrev EVS : EV → EV → PS → PS → Prop := fun v v' s s' => EVR v v' ∧ SE o TS TS' s s'
+abbrev EVA : EV × Tok → EV × Tok → PS → PS → Prop :=
+  fun p p' s s' => (EVR p.1 p'.1 ∧ p.2 = p'.2) ∧ SA o TS TS' p.2 s s'
+abbrev EqS {α : Type} : α → α → PS → PS → Prop := fun a a' s s' => a = a' ∧ SE o TS TS' s s'
+
+def AtomRel : AtomR → AtomR → PS → PS → Prop
+  | .pred v, .pred v', s, s' => EVR v v' ∧ SE o TS TS' s s'
+  | .expr v t, .expr v' t', s, s' => (EVR v v' ∧ t = t') ∧ SA o TS TS' t s s'
+  | _, _, _, _ => False
+
+def PrimRel : PrimR → PrimR → PS → PS → Prop
+  | .pred v, .pred v', s, s' => EVR v v' ∧ SE o TS TS' s s'
+  | .expr v, .expr v', s, s' => EVR v v' ∧ SE o TS TS' s s'
+  | _, _, _, _ => False
+
+variable {o TS TS'} in
+theorem sim_bind_atom {β : Type} {Pre : PS → PS → Prop} {Post : β → β → PS → PS → Prop}
+    {m m' : P AtomR} {f f' : AtomR → P β} (hm : Sim Pre m m' (AtomRel o TS TS'))
+    (hp : ∀ v v', EVR v v' → Sim (SE o TS TS') (f (.pred v)) (f' (.pred v')) Post)
+    (he : ∀ v v' t, EVR v v' → Sim (SA o TS TS' t) (f (.expr v t)) (f' (.expr v' t)) Post) :
+    Sim Pre (m >>= f) (m' >>= f') Post := by
+  refine sim_bind_core hm ?_ ?_
+  · intro a
+    cases a with
+    | pred v => exact (hp v v (EVR.refl _)).em
+    | expr v t => exact (he v v t (EVR.refl _)).em
+  · intro a a' s s' h
+    cases a <;> cases a' <;> simp only [AtomRel] at h
+    · exact (hp _ _ h.1).run s s' h.2
+    · obtain ⟨⟨h1, h2⟩, h3⟩ := h
+      subst h2
+      exact (he _ _ _ h1).run s s' h3
+
+variable {o TS TS'} in
+theorem sim_bind_prim {β : Type} {Pre : PS → PS → Prop} {Post : β → β → PS → PS → Prop}
+    {m m' : P PrimR} {f f' : PrimR → P β} (hm : Sim Pre m m' (PrimRel o TS TS'))
+    (hp : ∀ v v', EVR v v' → Sim (SE o TS TS') (f (.pred v)) (f' (.pred v')) Post)
+    (he : ∀ v v', EVR v v' → Sim (SE o TS TS') (f (.expr v)) (f' (.expr v')) Post) :
+    Sim Pre (m >>= f) (m' >>= f') Post := by
+  refine sim_bind_core hm ?_ ?_
+  · intro a
+    cases a with
+    | pred v => exact (hp v v (EVR.refl _)).em
+    | expr v => exact (he v v (EVR.refl _)).em
+  · intro a a' s s' h
+    cases a <;> cases a' <;> simp only [PrimRel] at h
+    · exact (hp _ _ h.1).run s s' h.2
+    · exact (he _ _ h.1).run s s' h.2
+
+structure AllSim (f : Nat) : Prop where
+  unaryT : ∀ t t', TokEqC false t t' → Sim (SA o TS TS' t.1) (parseUnaryT o f t) (parseUnaryT o f t') (EVS o TS TS')
+  unary : Sim (SE o TS TS') (parseUnary o f) (parseUnary o f) (EVS o TS TS')
+  scalar : ∀ t t', TokEqC false t t' → Sim (SA o TS TS' t.1) (parseScalar o f t) (parseScalar o f t') (EVS o TS TS')
+  accLoop : ∀ h h' ops, EVR h h' → Sim (SE o TS TS') (accessorLoop o f h ops) (accessorLoop o f h' ops) (EVS o TS TS')
+  paren : ∀ ctx, Sim (SE o TS TS') (parenTail o f ctx) (parenTail o f ctx) (PrimRel o TS TS')
+  atom : ∀ ctx, Sim (SE o TS TS') (parseAtom o f ctx) (parseAtom o f ctx) (AtomRel o TS TS')
+  exists_ : Sim (SE o TS TS') (existsTail o f) (existsTail o f) (EVS o TS TS')
+  exprT : ∀ ctx v v', EVR v v' → Sim (SE o TS TS') (exprTail o f ctx v) (exprTail o f ctx v') (AtomRel o TS TS')
+  arith : ∀ v v', EVR v v' → Sim (SE o TS TS') (arithLoop o f v) (arithLoop o f v') (EVA o TS TS')
+  mul : ∀ v v', EVR v v' → Sim (SE o TS TS') (mulLoop o f v) (mulLoop o f v') (EVS o TS TS')
+  pred : ∀ v v', EVR v v' → Sim (SE o TS TS') (predLoop o f v) (predLoop o f v') (EVA o TS TS')
+  or_ : ∀ v v', EVR v v' → Sim (SE o TS TS') (orLoop o f v) (orLoop o f v') (EVS o TS TS')
+  accOp : ∀ t, isAccessorStart t = true → Sim (SA o TS TS' t) (accessorOp o f t) (accessorOp o f t) (EqS o TS TS')
+  index : ∀ t t' acc, TokEqC false t t' → Sim (SA o TS TS' t.1) (indexList o f t acc) (indexList o f t' acc) (EqS o TS TS')
+  csv : Sim (SE o TS TS') (csvList o f) (csvList o f) (EqS o TS TS')
+  csvM : ∀ acc, Sim (SE o TS TS') (csvMore o f acc) (csvMore o f acc) (EqS o TS TS')
+
+/-- a step that returns an `AtomR`: two goals, `pred` and `expr` -/
+macro "satom " h:term : tactic =>
+  `(tactic| (first
+    | refine sim_bind_atom $h ?_ ?_
+    | refine sim_bind_atom (sim_pre $h (fun _ _ hh => SA.toSE hh)) ?_ ?_
+    | refine sim_bind_atom (sim_pre $h (fun _ _ hh => SEb.toSE hh)) ?_ ?_
+    | fail "satom: does not fit"))
+
+/-- a step that returns a `PrimR`: two goals, `pred` and `expr` -/
+macro "sprim " h:term : tactic =>
+  `(tactic| (first
+    | refine sim_bind_prim $h ?_ ?_
+    | refine sim_bind_prim (sim_pre $h (fun _ _ hh => SA.toSE hh)) ?_ ?_
+    | refine sim_bind_prim (sim_pre $h (fun _ _ hh => SEb.toSE hh)) ?_ ?_
+    | fail "sprim: does not fit"))
+
+theorem allSim_zero : AllSim o TS TS' 0 := by
+  constructor
+  all_goals intros
+  all_goals first
+    | (simp only [parseUnaryT, parseUnary, parseScalar, accessorLoop, parenTail, parseAtom, existsTail, exprTail,
+        arithLoop, mulLoop, predLoop, orLoop, accessorOp, indexList, csvList, csvMore]; exact sim_outOfFuel)
+
+section step
+variable {f : Nat} (ih : AllSim o TS TS' f)
+include ih
+
+theorem sstep_unaryT (t t' : TT) (h : TokEqC false t t') :
+    Sim (SA o TS TS' t.1) (parseUnaryT o (f + 1) t) (parseUnaryT o (f + 1) t') (EVS o TS TS') := by
+  stok t t' h with k x x'
+  simp only [parseUnaryT]
+  apply sim_ite
+  · intro _
+    sbind0 sim_consume o TS TS' _
+    intro _ _
+    sbind ih.unary
+    intro v v' hv
+    exact sim_newUnaryOrNumber _ hv
+  · intro _
+    apply sim_ite
+    · intro _
+      sbind0 sim_consume o TS TS' _
+      intro _ _
+      sbind ih.unary
+      intro v v' hv
+      exact sim_newUnaryOrNumber _ hv
+    · intro _
+      apply sim_ite
+      · intro _
+        sbind0 sim_consume o TS TS' _
+        intro _ _
+        sprim ih.paren _
+        · intro v v' _; exact sim_syn
+        · intro v v' hv; exact sim_pure (fun s s' hs => ⟨hv, hs⟩)
+      · intro _
+        exact ih.scalar _ _ h
+
+theorem sstep_unary : Sim (SE o TS TS') (parseUnary o (f + 1)) (parseUnary o (f + 1)) (EVS o TS TS') := by
+  rw [parseUnary]
+  sbind sim_peek o TS TS'
+  intro a a' h
+  exact ih.unaryT a a' h
+
+theorem sstep_scalar (t t' : TT) (h : TokEqC false t t') :
+    Sim (SA o TS TS' t.1) (parseScalar o (f + 1) t) (parseScalar o (f + 1) t') (EVS o TS TS') := by
+  stok t t' h with k x x'
+  unfold parseScalar
+  have other : k ≠ .dot → ∀ (mk mk' : P EV), EM mk →
+      Sim (SE o TS TS') mk mk' (fun v v' s s' => EVR v v' ∧ SE o TS TS' s s') →
+      Sim (SA o TS TS' k) (do consume; let h ← mk; accessorLoop o f h []) (do consume; let h ← mk'; accessorLoop o f h [])
+        (EVS o TS TS') := by
+    intro hnd mk mk' hem hmk
+    sbind0 sim_consume o TS TS' _ hnd
+    intro _ _
+    sbind hmk
+    intro v v' hv
+    exact ih.accLoop v v' [] hv
+  have hp : ∀ n : Node, Sim (SE o TS TS') (pure { node := n } : P EV) (pure { node := n })
+      (fun v v' s s' => EVR v v' ∧ SE o TS TS' s s') := fun n => sim_pure (fun s s' hs => ⟨EVR.refl _, hs⟩)
+  cases k
+  all_goals first
+    | exact sim_syn
+    | exact other (by decide) _ _ (em_pure _) (hp _)
+    | skip
+  · -- string
+    have hx : x = x' := h.txt (by decide) (by decide)
+    subst hx
+    exact other (by decide) _ _ (em_pure _) (hp _)
+  · -- numeric
+    have hx : x = x' := h.txt (by decide) (by decide)
+    subst hx
+    exact other (by decide) _ _ (em_newNumeric _) (sim_newNumeric _)
+  · -- int
+    exact other (by decide) _ _ (em_newInteger _) (sim_newInteger h.int)
+  · -- variable
+    have hx : x = x' := h.txt (by decide) (by decide)
+    subst hx
+    exact other (by decide) _ _ (em_pure _) (hp _)
+
+theorem sstep_accLoop (h h' : EV) (ops : List Node) (hh : EVR h h') :
+    Sim (SE o TS TS') (accessorLoop o (f + 1) h ops) (accessorLoop o (f + 1) h' ops) (EVS o TS TS') := by
+  rw [accessorLoop, accessorLoop]
+  sbind sim_peek o TS TS'
+  intro a a' ha
+  stok a a' ha with t x x'
+  apply sim_ite
+  · intro hacc
+    sbind ih.accOp t hacc
+    intro op op' hop
+    subst hop
+    exact ih.accLoop h h' _ hh
+  · intro _
+    exact sim_pure (fun s s' hs => ⟨evr_linkNodes hh ops, hs.toSE⟩)
+
+theorem sstep_paren (ctx : Ctx) : Sim (SE o TS TS') (parenTail o (f + 1) ctx) (parenTail o (f + 1) ctx) (PrimRel o TS TS') := by
+  unfold parenTail
+  satom ih.atom ctx
+  · -- pred
+    intro v0 v0' hv0
+    simp only []
+    sbind ih.pred v0 v0' hv0
+    intro p p' hp
+    obtain ⟨v, t⟩ := p
+    obtain ⟨v', t'⟩ := p'
+    obtain ⟨hv, ht⟩ := hp
+    simp only at hv ht
+    subst ht
+    simp only []
+    apply sim_ite
+    · intro _; exact sim_syn
+    · intro _
+      sbind0 sim_consume o TS TS' _
+      intro _ _
+      sbind sim_peek o TS TS'
+      intro q q' hq
+      stok q q' hq with t2 y y'
+      apply sim_ite
+      · intro hacc
+        sbind ih.accOp t2 hacc
+        intro op op' hop
+        subst hop
+        sbind ih.accLoop v v' _ hv
+        intro e e' he
+        exact sim_pure (fun s s' hs => ⟨he, hs⟩)
+      · intro _
+        apply sim_ite
+        · intro _; exact sim_syn
+        · intro _
+          apply sim_ite
+          · intro _
+            sbind0 sim_consume o TS TS' _
+            intro _ _
+            sbind0 sim_expect o TS TS' _
+            intro _ _
+            exact sim_pure (fun s s' hs => ⟨evr_unary _ hv, hs⟩)
+          · intro _
+            exact sim_pure (fun s s' hs => ⟨hv, hs.toSE⟩)
+  · -- expr
+    intro v v' t hv
+    simp only []
+    apply sim_ite
+    · intro _; exact sim_syn
+    · intro _
+      sbind0 sim_consume o TS TS' _
+      intro _ _
+      sbind sim_peek o TS TS'
+      intro q q' hq
+      stok q q' hq with t2 y y'
+      apply sim_ite
+      · intro hacc
+        sbind ih.accOp t2 hacc
+        intro op op' hop
+        subst hop
+        sbind ih.accLoop v v' _ hv
+        intro e e' he
+        exact sim_pure (fun s s' hs => ⟨he, hs⟩)
+      · intro _
+        exact sim_pure (fun s s' hs => ⟨hv, hs.toSE⟩)
+
+theorem sstep_exists : Sim (SE o TS TS') (existsTail o (f + 1)) (existsTail o (f + 1)) (EVS o TS TS') := by
+  unfold existsTail
+  sbind0 sim_expect o TS TS' _
+  intro _ _
+  sbind ih.unary
+  intro u u' hu
+  sbind ih.arith u u' hu
+  intro p p' hp
+  obtain ⟨e, t⟩ := p
+  obtain ⟨e', t'⟩ := p'
+  obtain ⟨he, ht⟩ := hp
+  simp only at he ht
+  subst ht
+  simp only []
+  apply sim_ite
+  · intro _; exact sim_syn
+  · intro _
+    sbind0 sim_consume o TS TS' _
+    intro _ _
+    exact sim_pure (fun s s' hs => ⟨evr_unary _ he, hs⟩)
+
+theorem sstep_atom (ctx : Ctx) : Sim (SE o TS TS') (parseAtom o (f + 1) ctx) (parseAtom o (f + 1) ctx) (AtomRel o TS TS') := by
+  unfold parseAtom
+  sbind sim_peek o TS TS'
+  intro a a' ha
+  have ha0 := ha
+  stok a a' ha with t x x'
+  apply sim_ite
+  · intro _
+    sbind0 sim_consume o TS TS' _
+    intro _ _
+    sbind sim_peek o TS TS'
+    intro q q' hq
+    stok q q' hq with t2 y y'
+    apply sim_ite
+    · intro _
+      sbind0 sim_consume o TS TS' _
+      intro _ _
+      sbind ih.exists_
+      intro v v' hv
+      exact sim_pure (fun s s' hs => by simp only [AtomRel]; exact ⟨evr_unary _ hv, hs⟩)
+    · intro _
+      apply sim_ite
+      · intro _
+        sbind0 sim_consume o TS TS' _
+        intro _ _
+        satom ih.atom _
+        · intro v0 v0' hv0
+          simp only []
+          sbind ih.pred v0 v0' hv0
+          intro p p' hp
+          obtain ⟨v, t3⟩ := p
+          obtain ⟨v', t3'⟩ := p'
+          obtain ⟨hv, ht⟩ := hp
+          simp only at hv ht
+          subst ht
+          simp only []
+          apply sim_ite
+          · intro _; exact sim_syn
+          · intro _
+            sbind0 sim_consume o TS TS' _
+            intro _ _
+            exact sim_pure (fun s s' hs => by simp only [AtomRel]; exact ⟨evr_unary _ hv, hs⟩)
+        · intro _ _ _ _; exact sim_syn
+      · intro _; exact sim_syn
+  · intro _
+    apply sim_ite
+    · intro _
+      sbind0 sim_consume o TS TS' _
+      intro _ _
+      sbind ih.exists_
+      intro v v' hv
+      exact sim_pure (fun s s' hs => by simp only [AtomRel]; exact ⟨hv, hs⟩)
+    · intro _
+      apply sim_ite
+      · intro _
+        sbind0 sim_consume o TS TS' _
+        intro _ _
+        sprim ih.paren _
+        · intro v v' hv
+          exact sim_pure (fun s s' hs => by simp only [AtomRel]; exact ⟨hv, hs⟩)
+        · intro v v' hv
+          exact ih.exprT ctx v v' hv
+      · intro _
+        apply sim_ite
+        · intro _; exact sim_syn
+        · intro _
+          sbind ih.unaryT _ _ ha0
+          intro v v' hv
+          exact ih.exprT ctx v v' hv
+
+theorem sstep_arith (v v' : EV) (hv : EVR v v') :
+    Sim (SE o TS TS') (arithLoop o (f + 1) v) (arithLoop o (f + 1) v') (EVA o TS TS') := by
+  unfold arithLoop
+  sbind sim_peek o TS TS'
+  intro a a' ha
+  stok a a' ha with t x x'
+  split
+  · sbind0 sim_consume o TS TS' _
+    intro _ _
+    sbind ih.unary
+    intro u u' hu
+    sbind ih.mul u u' hu
+    intro rhs rhs' hr
+    exact ih.arith _ _ (evr_binary _ hv hr)
+  · split
+    · sbind0 sim_consume o TS TS' _
+      intro _ _
+      sbind ih.unary
+      intro u u' hu
+      exact ih.arith _ _ (evr_binary _ hv hu)
+    · exact sim_pure (fun s s' hs => ⟨⟨hv, rfl⟩, hs⟩)
+
+theorem sstep_mul (v v' : EV) (hv : EVR v v') :
+    Sim (SE o TS TS') (mulLoop o (f + 1) v) (mulLoop o (f + 1) v') (EVS o TS TS') := by
+  unfold mulLoop
+  sbind sim_peek o TS TS'
+  intro a a' ha
+  stok a a' ha with t x x'
+  split
+  · sbind0 sim_consume o TS TS' _
+    intro _ _
+    sbind ih.unary
+    intro u u' hu
+    exact ih.mul _ _ (evr_binary _ hv hu)
+  · exact sim_pure (fun s s' hs => ⟨hv, hs.toSE⟩)
+
+theorem sstep_pred (v v' : EV) (hv : EVR v v') :
+    Sim (SE o TS TS') (predLoop o (f + 1) v) (predLoop o (f + 1) v') (EVA o TS TS') := by
+  unfold predLoop
+  sbind sim_peek o TS TS'
+  intro a a' ha
+  stok a a' ha with t x x'
+  apply sim_ite
+  · intro _
+    sbind0 sim_consume o TS TS' _
+    intro _ _
+    satom ih.atom _
+    · intro r r' hr
+      exact ih.pred _ _ (evr_binary _ hv hr)
+    · intro _ _ _ _; exact sim_syn
+  · intro _
+    apply sim_ite
+    · intro _
+      sbind0 sim_consume o TS TS' _
+      intro _ _
+      satom ih.atom _
+      · intro r0 r0' hr0
+        simp only []
+        sbind ih.or_ r0 r0' hr0
+        intro r r' hr
+        exact ih.pred _ _ (evr_binary _ hv hr)
+      · intro _ _ _ _; exact sim_syn
+    · intro _
+      exact sim_pure (fun s s' hs => ⟨⟨hv, rfl⟩, hs⟩)
+
+theorem sstep_or (v v' : EV) (hv : EVR v v') :
+    Sim (SE o TS TS') (orLoop o (f + 1) v) (orLoop o (f + 1) v') (EVS o TS TS') := by
+  unfold orLoop
+  sbind sim_peek o TS TS'
+  intro a a' ha
+  stok a a' ha with t x x'
+  apply sim_ite
+  · intro _
+    sbind0 sim_consume o TS TS' _
+    intro _ _
+    satom ih.atom _
+    · intro r r' hr
+      exact ih.or_ _ _ (evr_binary _ hv hr)
+    · intro _ _ _ _; exact sim_syn
+  · intro _
+    exact sim_pure (fun s s' hs => ⟨hv, hs.toSE⟩)
+
+theorem sstep_exprT (ctx : Ctx) (v v' : EV) (hv : EVR v v') :
+    Sim (SE o TS TS') (exprTail o (f + 1) ctx v) (exprTail o (f + 1) ctx v') (AtomRel o TS TS') := by
+  unfold exprTail
+  sbind ih.arith v v' hv
+  intro p p' hp
+  obtain ⟨lhs, t⟩ := p
+  obtain ⟨lhs', t'⟩ := p'
+  obtain ⟨hl, ht⟩ := hp
+  simp only at hl ht
+  subst ht
+  simp only []
+  split
+  · sbind0 sim_consume o TS TS' _
+    intro _ _
+    sbind ih.unary
+    intro u u' hu
+    sbind ih.arith u u' hu
+    intro q q' hq
+    exact sim_pure (fun s s' hs => by simp only [AtomRel]; exact ⟨evr_binary _ hl hq.1, hs.toSE⟩)
+  · apply sim_ite
+    · intro _
+      sbind0 sim_consume o TS TS' _
+      intro _ _
+      sbind0 sim_expect o TS TS' _
+      intro _ _
+      sbind sim_peek o TS TS'
+      intro q q' hq
+      stok q q' hq with t2 y y'
+      apply sim_ite
+      · intro ht2
+        subst ht2
+        have hy : y = y' := hq.txt (by decide) (by decide)
+        subst hy
+        sbind0 sim_consume o TS TS' _
+        intro _ _
+        exact sim_pure (fun s s' hs => by simp only [AtomRel]; exact ⟨evr_binary _ hl (EVR.refl _), hs⟩)
+      · intro _
+        apply sim_ite
+        · intro ht2
+          subst ht2
+          have hy : y = y' := hq.txt (by decide) (by decide)
+          subst hy
+          sbind0 sim_consume o TS TS' _
+          intro _ _
+          exact sim_pure (fun s s' hs => by simp only [AtomRel]; exact ⟨evr_binary _ hl (EVR.refl _), hs⟩)
+        · intro _; exact sim_syn
+    · intro _
+      apply sim_ite
+      · intro _
+        sbind0 sim_consume o TS TS' _
+        intro _ _
+        sbind sim_peek o TS TS'
+        intro q q' hq
+        stok q q' hq with t2 pat pat'
+        apply sim_ite
+        · intro _; exact sim_syn
+        · intro ht2
+          have ht2 : t2 = .string := by simpa using ht2
+          subst ht2
+          have hy : pat = pat' := hq.txt (by decide) (by decide)
+          subst hy
+          sbind0 sim_consume o TS TS' _
+          intro _ _
+          sbind sim_peek o TS TS'
+          intro q3 q3' hq3
+          stok q3 q3' hq3 with t3 z z'
+          apply sim_ite
+          · intro _
+            sbind0 sim_consume o TS TS' _
+            intro _ _
+            sbind sim_peek o TS TS'
+            intro q4 q4' hq4
+            stok q4 q4' hq4 with t4 fl fl'
+            apply sim_ite
+            · intro _; exact sim_syn
+            · intro ht4
+              have ht4 : t4 = .string := by simpa using ht4
+              subst ht4
+              have hy : fl = fl' := hq4.txt (by decide) (by decide)
+              subst hy
+              sbind0 sim_consume o TS TS' _
+              intro _ _
+              sbind sim_mkRegex o hl pat fl
+              intro r r' hr
+              exact sim_pure (fun s s' hs => by simp only [AtomRel]; exact ⟨hr, hs⟩)
+          · intro _
+            sbind sim_mkRegex o hl pat []
+            intro r r' hr
+            exact sim_pure (fun s s' hs => by simp only [AtomRel]; exact ⟨hr, hs.toSE⟩)
+      · intro _
+        apply sim_ite
+        · intro _; exact sim_syn
+        · intro _
+          exact sim_pure (fun s s' hs => by simp only [AtomRel]; exact ⟨⟨hl, trivial⟩, hs⟩)
+
+theorem sstep_csvM (acc : List Node) : Sim (SE o TS TS') (csvMore o (f + 1) acc) (csvMore o (f + 1) acc) (EqS o TS TS') := by
+  unfold csvMore
+  sbind sim_peek o TS TS'
+  intro a a' ha
+  stok a a' ha with t x x'
+  apply sim_ite
+  · intro _
+    sbind0 sim_consume o TS TS' _
+    intro _ _
+    sbind sim_peek o TS TS'
+    intro q q' hq
+    have hq0 := hq
+    stok q q' hq with t2 y y'
+    apply sim_ite
+    · intro hb
+      sbind sim_csvElem o TS TS' hq0 (show t2 ≠ .dot by intro hh; subst hh; simp at hb)
+      intro e e' he
+      subst he
+      exact ih.csvM _
+    · intro _; exact sim_syn
+  · intro _
+    exact sim_pure (fun s s' hs => ⟨rfl, hs.toSE⟩)
+
+theorem sstep_csv : Sim (SE o TS TS') (csvList o (f + 1)) (csvList o (f + 1)) (EqS o TS TS') := by
+  unfold csvList
+  sbind sim_peek o TS TS'
+  intro q q' hq
+  have hq0 := hq
+  stok q q' hq with t2 y y'
+  apply sim_ite
+  · intro hb
+    sbind sim_csvElem o TS TS' hq0 (show t2 ≠ .dot by intro hh; subst hh; simp at hb)
+    intro e e' he
+    subst he
+    exact ih.csvM _
+  · intro _
+    exact sim_pure (fun s s' hs => ⟨rfl, hs.toSE⟩)
+
+
+theorem sstep_index (t t' : TT) (acc : List Node) (h : TokEqC false t t') :
+    Sim (SA o TS TS' t.1) (indexList o (f + 1) t acc) (indexList o (f + 1) t' acc) (EqS o TS TS') := by
+  unfold indexList
+  sbind ih.unaryT t t' h
+  intro u u' hu
+  sbind ih.arith u u' hu
+  intro p p' hp
+  obtain ⟨e, t2⟩ := p
+  obtain ⟨e', t2'⟩ := p'
+  obtain ⟨he, ht⟩ := hp
+  simp only at he ht
+  subst ht
+  simp only []
+  have hcont : ∀ elem : Node, Sim (SE o TS TS')
+      (do let __x ← peek o
+          if __x.fst = Tok.comma then do
+              consume
+              let t4 ← peek o
+              if t4.fst = Tok.stop then syn else indexList o f t4 (acc ++ [elem])
+            else
+              if __x.fst = Tok.rbrack then do
+                consume
+                pure (acc ++ [elem])
+              else syn : P (List Node))
+      (do let __x ← peek o
+          if __x.fst = Tok.comma then do
+              consume
+              let t4 ← peek o
+              if t4.fst = Tok.stop then syn else indexList o f t4 (acc ++ [elem])
+            else
+              if __x.fst = Tok.rbrack then do
+                consume
+                pure (acc ++ [elem])
+              else syn : P (List Node)) (EqS o TS TS') := by
+    intro elem
+    sbind sim_peek o TS TS'
+    intro q q' hq
+    have hk : q.1 = q'.1 := hq.1
+    rw [← hk]
+    apply sim_ite
+    · intro hc
+      sbind0 sim_consume o TS TS' _ (by rw [hc]; decide)
+      intro _ _
+      sbind sim_peek o TS TS'
+      intro t4 t4' h4
+      have hk4 : t4.1 = t4'.1 := h4.1
+      rw [← hk4]
+      apply sim_ite
+      · intro _; exact sim_syn
+      · intro _
+        exact ih.index t4 t4' _ h4
+    · intro _
+      apply sim_ite
+      · intro hc
+        sbind0 sim_consume o TS TS' _ (by rw [hc]; decide)
+        intro _ _
+        exact sim_pure (fun s s' hs => ⟨rfl, hs⟩)
+      · intro _; exact sim_syn
+  apply sim_ite
+  · intro _
+    sbind0 sim_consume o TS TS' _
+    intro _ _
+    sbind ih.unary
+    intro u2 u2' hu2
+    sbind ih.arith u2 u2' hu2
+    intro q q' hq
+    have hn : Node.binary BinOp.subscript (some e.node) (some q.fst.node) none
+        = Node.binary BinOp.subscript (some e'.node) (some q'.fst.node) none := by
+      rw [he.1, hq.1.1]
+    rw [hn]
+    apply sim_pure_bind
+    exact sim_pre (hcont _) (fun _ _ hh => hh.toSE)
+  · intro _
+    rw [he.1]
+    apply sim_pure_bind
+    exact sim_pre (hcont _) (fun _ _ hh => hh.toSE)
+
+theorem sstep_accOp (t : Tok) (ht : isAccessorStart t = true) :
+    Sim (SA o TS TS' t) (accessorOp o (f + 1) t) (accessorOp o (f + 1) t) (EqS o TS TS') := by
+  unfold accessorOp
+  sbind0 sim_consume' o TS TS' t
+  intro _ _
+  apply sim_ite
+  · -- filter
+    intro hq
+    subst hq
+    show Sim (SE o TS TS') _ _ _
+    sbind0 sim_expect o TS TS' _
+    intro _ _
+    satom ih.atom _
+    · intro v0 v0' hv0
+      simp only []
+      sbind ih.pred v0 v0' hv0
+      intro p p' hp
+      obtain ⟨v, t2⟩ := p
+      obtain ⟨v', t2'⟩ := p'
+      obtain ⟨hv, ht2⟩ := hp
+      simp only at hv ht2
+      subst ht2
+      simp only []
+      apply sim_ite
+      · intro _; exact sim_syn
+      · intro _
+        sbind0 sim_consume o TS TS' _
+        intro _ _
+        exact sim_pure (fun s s' hs => ⟨by rw [hv.1], hs⟩)
+    · intro _ _ _ _; exact sim_syn
+  · intro hnq
+    apply sim_ite
+    · -- subscript
+      intro hb
+      subst hb
+      show Sim (SE o TS TS') _ _ _
+      sbind sim_peek o TS TS'
+      intro a a' ha
+      have ha0 := ha
+      stok a a' ha with t2 x x'
+      apply sim_ite
+      · intro _
+        sbind0 sim_consume o TS TS' _
+        intro _ _
+        sbind0 sim_expect o TS TS' _
+        intro _ _
+        exact sim_pure (fun s s' hs => ⟨rfl, hs⟩)
+      · intro _
+        apply sim_ite
+        · intro _; exact sim_syn
+        · intro _
+          sbind ih.index _ _ [] ha0
+          intro subs subs' hs
+          subst hs
+          exact sim_pure (fun s s' hs => ⟨rfl, hs⟩)
+    · -- after '.'
+      intro hnb
+      have hdot : t = .dot := by
+        simp only [isAccessorStart, Bool.or_eq_true, decide_eq_true_eq] at ht
+        rcases ht with (ht | ht) | ht
+        · exact ht
+        · exact absurd ht hnb
+        · exact absurd ht hnq
+      subst hdot
+      show Sim (SEb o TS TS' true) _ _ _
+      sbind sim_peekb o TS TS' true
+      intro a a' ha
+      rcases ha with ha | ha
+      case inr =>
+        -- two plain key names (bare, quoted, keyword) with the same text
+        obtain ⟨_, hk, hk', hx⟩ := ha
+        obtain ⟨k, x⟩ := a
+        obtain ⟨k', x'⟩ := a'
+        simp only [] at hk hk' hx ⊢
+        subst hx
+        have e1 : ∀ {k : Tok}, isPlainKeyName k = true → k ≠ .star ∧ k ≠ .any ∧ k ≠ .dot := by
+          intro k h
+          refine ⟨?_, ?_, ?_⟩ <;> (intro hh; rw [hh] at h; exact absurd h (by decide))
+        apply sim_ite_neg (e1 hk).1 (e1 hk').1
+        apply sim_ite_neg (e1 hk).2.1 (e1 hk').2.1
+        apply sim_ite_pos hk hk'
+        sbind0 sim_consumeB o TS TS' true k (e1 hk).2.2
+        intro _ _
+        exact sim_pure (fun s s' hs => ⟨rfl, hs⟩)
+      have hx0 : a.1 ≠ .int → a.2 = a'.2 := by
+        obtain ⟨k, x⟩ := a
+        obtain ⟨k', x'⟩ := a'
+        exact fun h1 => TokEqC.txt_dot ha h1
+      stok a a' ha with k x x'
+      simp only [] at hx0
+      apply sim_ite
+      · intro _
+        sbind0 sim_consumeB o TS TS' true _
+        intro _ _
+        exact sim_pure (fun s s' hs => ⟨rfl, hs⟩)
+      · intro _
+        apply sim_ite
+        · -- .**
+          intro _
+          sbind0 sim_consumeB o TS TS' true _
+          intro _ _
+          sbind sim_peek o TS TS'
+          intro q q' hq
+          stok q q' hq with t2 y y'
+          apply sim_ite
+          · intro _
+            sbind0 sim_consume o TS TS' _
+            intro _ _
+            sbind sim_anyLevel o TS TS'
+            intro l1 l1' hl1
+            subst hl1
+            sbind sim_peek o TS TS'
+            intro q3 q3' hq3
+            stok q3 q3' hq3 with t3 z z'
+            apply sim_ite
+            · intro _
+              sbind0 sim_consume o TS TS' _
+              intro _ _
+              exact sim_pure (fun s s' hs => ⟨rfl, hs⟩)
+            · intro _
+              apply sim_ite
+              · intro _
+                sbind0 sim_consume o TS TS' _
+                intro _ _
+                sbind sim_anyLevel o TS TS'
+                intro l2 l2' hl2
+                subst hl2
+                sbind0 sim_expect o TS TS' _
+                intro _ _
+                exact sim_pure (fun s s' hs => ⟨rfl, hs⟩)
+              · intro _; exact sim_syn
+          · intro _
+            exact sim_pure (fun s s' hs => ⟨rfl, hs.toSE⟩)
+        · intro _
+          apply sim_ite
+          · -- plain key name
+            intro hk
+            have hx : x = x' := hx0 (by intro hh; rw [hh] at hk; exact absurd hk (by decide))
+            subst hx
+            sbind0 sim_consumeB o TS TS' true _
+            intro _ _
+            exact sim_pure (fun s s' hs => ⟨rfl, hs⟩)
+          · intro _
+            split
+            · -- method
+              rename_i m hm
+              have hx : x = x' := hx0 (by intro hh; rw [hh] at hm; simp [methodOf] at hm)
+              subst hx
+              sbind0 sim_consumeB o TS TS' true _
+              intro _ _
+              sbind sim_peek o TS TS'
+              intro q q' hq
+              stok q q' hq with t2 y y'
+              apply sim_ite
+              · intro _
+                sbind0 sim_consume o TS TS' _
+                intro _ _
+                sbind0 sim_expect o TS TS' _
+                intro _ _
+                exact sim_pure (fun s s' hs => ⟨rfl, hs⟩)
+              · intro _
+                exact sim_pure (fun s s' hs => ⟨rfl, hs.toSE⟩)
+            · apply sim_ite
+              · -- decimal
+                intro hk
+                have hx : x = x' := hx0 (by rw [hk]; decide)
+                subst hx
+                sbind0 sim_consumeB o TS TS' true _
+                intro _ _
+                sbind sim_peek o TS TS'
+                intro q q' hq
+                stok q q' hq with t2 y y'
+                apply sim_ite
+                · intro _
+                  sbind0 sim_consume o TS TS' _
+                  intro _ _
+                  sbind ih.csv
+                  intro args args' hargs
+                  subst hargs
+                  sbind0 sim_expect o TS TS' _
+                  intro _ _
+                  split
+                  · exact sim_pure (fun s s' hs => ⟨rfl, hs⟩)
+                  · exact sim_pure (fun s s' hs => ⟨rfl, hs⟩)
+                  · exact sim_pure (fun s s' hs => ⟨rfl, hs⟩)
+                  · exact sim_recordError (by emj)
+                · intro _
+                  exact sim_pure (fun s s' hs => ⟨rfl, hs.toSE⟩)
+              · intro _
+                apply sim_ite
+                · -- date
+                  intro hk
+                  have hx : x = x' := hx0 (by rw [hk]; decide)
+                  subst hx
+                  sbind0 sim_consumeB o TS TS' true _
+                  intro _ _
+                  sbind sim_peek o TS TS'
+                  intro q q' hq
+                  stok q q' hq with t2 y y'
+                  apply sim_ite
+                  · intro _
+                    sbind0 sim_consume o TS TS' _
+                    intro _ _
+                    sbind0 sim_expect o TS TS' _
+                    intro _ _
+                    exact sim_pure (fun s s' hs => ⟨rfl, hs⟩)
+                  · intro _
+                    exact sim_pure (fun s s' hs => ⟨rfl, hs.toSE⟩)
+                · intro _
+                  apply sim_ite
+                  · -- datetime
+                    intro hk
+                    have hx : x = x' := hx0 (by rw [hk]; decide)
+                    subst hx
+                    sbind0 sim_consumeB o TS TS' true _
+                    intro _ _
+                    sbind sim_peek o TS TS'
+                    intro q q' hq
+                    stok q q' hq with t2 y y'
+                    apply sim_ite
+                    · intro _
+                      sbind0 sim_consume o TS TS' _
+                      intro _ _
+                      sbind sim_peek o TS TS'
+                      intro q3 q3' hq3
+                      stok q3 q3' hq3 with t3 tpl tpl'
+                      apply sim_ite
+                      · intro ht3
+                        subst ht3
+                        have hy : tpl = tpl' := hq3.txt (by decide) (by decide)
+                        subst hy
+                        sbind0 sim_consume o TS TS' _
+                        intro _ _
+                        sbind0 sim_expect o TS TS' _
+                        intro _ _
+                        exact sim_pure (fun s s' hs => ⟨rfl, hs⟩)
+                      · intro _
+                        sbind0 sim_expect o TS TS' _
+                        intro _ _
+                        exact sim_pure (fun s s' hs => ⟨rfl, hs⟩)
+                    · intro _
+                      exact sim_pure (fun s s' hs => ⟨rfl, hs.toSE⟩)
+                  · intro _
+                    split
+                    · -- time, time_tz, timestamp, timestamp_tz
+                      rename_i op hop
+                      have hx : x = x' := hx0 (by intro hh; rw [hh] at hop; simp [precisionOp] at hop)
+                      subst hx
+                      sbind0 sim_consumeB o TS TS' true _
+                      intro _ _
+                      sbind sim_peek o TS TS'
+                      intro q q' hq
+                      stok q q' hq with t2 y y'
+                      apply sim_ite
+                      · intro _
+                        sbind0 sim_consume o TS TS' _
+                        intro _ _
+                        sbind sim_peek o TS TS'
+                        intro q3 q3' hq3
+                        stok q3 q3' hq3 with t3 digs digs'
+                        apply sim_ite
+                        · intro ht3
+                          subst ht3
+                          sbind0 sim_consume o TS TS' _
+                          intro _ _
+                          sbind sim_newInteger hq3.int
+                          intro pn pn' hpn
+                          sbind0 sim_expect o TS TS' _
+                          intro _ _
+                          exact sim_pure (fun s s' hs => ⟨by rw [hpn.1], hs⟩)
+                        · intro _
+                          sbind0 sim_expect o TS TS' _
+                          intro _ _
+                          exact sim_pure (fun s s' hs => ⟨rfl, hs⟩)
+                      · intro _
+                        exact sim_pure (fun s s' hs => ⟨rfl, hs.toSE⟩)
+                    · exact sim_syn
+
+end step
+
+theorem allSim : ∀ f, AllSim o TS TS' f
+  | 0 => allSim_zero o TS TS'
+  | f + 1 =>
+    have ih := allSim f
+    { unaryT := sstep_unaryT o TS TS' ih
+      unary := sstep_unary o TS TS' ih
+      scalar := sstep_scalar o TS TS' ih
+      accLoop := sstep_accLoop o TS TS' ih
+      paren := sstep_paren o TS TS' ih
+      atom := sstep_atom o TS TS' ih
+      exists_ := sstep_exists o TS TS' ih
+      exprT := sstep_exprT o TS TS' ih
+      arith := sstep_arith o TS TS' ih
+      mul := sstep_mul o TS TS' ih
+      pred := sstep_pred o TS TS' ih
+      or_ := sstep_or o TS TS' ih
+      accOp := sstep_accOp o TS TS' ih
+      index := sstep_index o TS TS' ih
+      csv := sstep_csv o TS TS' ih
+      csvM := sstep_csvM o TS TS' ih }
+
+end
+
+/-! ## From the functions to `parseBody` and `Parse` -/
+
+section
+variable {o : Oracles}
+
+theorem sim_parseBody_rel (TS TS' : List TT) (f : Nat) : Sim (SE o TS TS') (parseBody o f) (parseBody o f)
+    (fun r r' s s' => (r.1 = r'.1 ∧ r.2.1 = r'.2.1 ∧ EVR r.2.2 r'.2.2) ∧ SE o TS TS' s s') := by
+  have ih := allSim o TS TS' f
+  unfold parseBody
+  sbind sim_peek o TS TS'
+  intro a a' ha
+  stok a a' ha with t x x'
+  have hcont : ∀ lax : Bool, Sim (SE o TS TS')
+      (do let a ← parseAtom o f Ctx.top
+          match a with
+            | AtomR.expr v _ => pure (lax, false, v)
+            | AtomR.pred v0 => do
+              let __x ← predLoop o f v0
+              pure (lax, true, __x.fst) : P (Bool × Bool × EV))
+      (do let a ← parseAtom o f Ctx.top
+          match a with
+            | AtomR.expr v _ => pure (lax, false, v)
+            | AtomR.pred v0 => do
+              let __x ← predLoop o f v0
+              pure (lax, true, __x.fst) : P (Bool × Bool × EV))
+      (fun r r' s s' => (r.1 = r'.1 ∧ r.2.1 = r'.2.1 ∧ EVR r.2.2 r'.2.2) ∧ SE o TS TS' s s') := by
+    intro lax
+    satom ih.atom _
+    · intro v0 v0' hv0
+      simp only []
+      sbind ih.pred v0 v0' hv0
+      intro q q' hq
+      exact sim_pure (fun s s' hs => ⟨⟨rfl, rfl, hq.1⟩, hs.toSE⟩)
+    · intro v v' t hv
+      exact sim_pure (fun s s' hs => ⟨⟨rfl, rfl, hv⟩, hs.toSE⟩)
+  apply sim_ite
+  · intro _
+    sbind0 sim_consume o TS TS' _
+    intro _ _
+    apply sim_pure_bind
+    exact hcont _
+  · intro _
+    apply sim_ite
+    · intro _
+      sbind0 sim_consume o TS TS' _
+      intro _ _
+      apply sim_pure_bind
+      exact hcont _
+    · intro _
+      apply sim_pure_bind
+      exact sim_pre (hcont _) (fun _ _ hh => hh.toSE)
+
+/-- **Simulation.**  Two states standing before token streams that agree up to the spelling of integer
+    literals and of keywords that are no key names: if `parseBody` consumes the first stream without
+    error, it consumes the second, with the same mode, the same kind of result and the same tree. -/
+theorem sim_parseBodyX {ts ts' : List TT} (h : TokEqLX false ts ts') {s s' : PS} (hs : StE o ts s)
+    (hs' : StE o ts' s') {f : Nat} {lax p : Bool} {ev : EV} {s1 : PS}
+    (hrun : parseBody o f s = .ok (lax, p, ev) s1) (hend : StE o [] s1) :
+    ∃ ev' s1', parseBody o f s' = .ok (lax, p, ev') s1' ∧ ev'.node = ev.node ∧ StE o [] s1' := by
+  obtain ⟨⟨lax', p', ev'⟩, s1', h1, ⟨h2, h3, h4⟩, h5⟩ :=
+    (sim_parseBody_rel ts ts' f).run s s' ⟨0, h, hs, hs'⟩ _ s1 hrun (stE_nil_err hend)
+  simp only at h2 h3 h4
+  subst h2; subst h3
+  exact ⟨ev', s1', h1, h4.1.symm, h5.nil hend⟩
+
+/-- the same without the assumption that the stream is used up: the two runs end at the same position `k`
+    of their streams -/
+theorem sim_parseBody_pos {ts ts' : List TT} (h : TokEqLX false ts ts') {s s' : PS} (hs : StE o ts s)
+    (hs' : StE o ts' s') {f : Nat} {lax p : Bool} {ev : EV} {s1 : PS}
+    (hrun : parseBody o f s = .ok (lax, p, ev) s1) (herr : s1.lx.err = false) :
+    ∃ ev' s1' k, parseBody o f s' = .ok (lax, p, ev') s1' ∧ ev'.node = ev.node ∧
+      StE o (ts.drop k) s1 ∧ StE o (ts'.drop k) s1' := by
+  obtain ⟨⟨lax', p', ev'⟩, s1', h1, ⟨h2, h3, h4⟩, ⟨k, _, h5, h6⟩⟩ :=
+    (sim_parseBody_rel ts ts' f).run s s' ⟨0, h, hs, hs'⟩ _ s1 hrun herr
+  simp only at h2 h3 h4
+  subst h2; subst h3
+  exact ⟨ev', s1', k, h1, h4.1.symm, h5, h6⟩
+
+theorem sim_parseBody {ts ts' : List TT} (h : TokEqL ts ts') {s s' : PS} (hs : StE o ts s)
+    (hs' : StE o ts' s') {f : Nat} {lax p : Bool} {ev : EV} {s1 : PS}
+    (hrun : parseBody o f s = .ok (lax, p, ev) s1) (hend : StE o [] s1) :
+    ∃ ev' s1', parseBody o f s' = .ok (lax, p, ev') s1' ∧ ev'.node = ev.node ∧ StE o [] s1' :=
+  sim_parseBodyX (h.toX false) hs hs' hrun hend
+
+/-- the initial state of `Parse` on the text `txt` stands before its tokens -/
+theorem stE_init {txt : List Char} {ts : List TT} (hl : Lexes o txt ts) :
+    StE o ts { lx := LState.init (utf8 txt), la := none } := by
+  refine Or.inl ⟨rfl, hl _ ⟨rfl, rfl, Or.inl ⟨rfl, ?_⟩⟩⟩
+  simp only [LState.init, decodeAll_utf8]
+
+/-- if `parseBody`, from the initial state of the text `txt`, consumes the tokens and the tree is valid,
+    `Parse` returns it -/
+theorem parse_of_body_init (txt : List Char) (lax isPred : Bool) (root : EV) (s1 : PS)
+    (e1 : parseBody o (fuelFor (utf8 txt)) { lx := LState.init (utf8 txt), la := none } = .ok (lax, isPred, root) s1)
+    (p1 : StE o [] s1) (hv : validate root.node = true) :
+    parse o (utf8 txt) = .ok ⟨root.node, lax, isPred⟩ := by
+  have herr := stE_nil_err p1
+  obtain ⟨s2, e2, p2⟩ := peek_nil (o := o) s1 p1
+  have hfin : finish o lax isPred root s1 = .ok (some ⟨root.node, lax, isPred⟩) s2 := by
+    unfold finish
+    simp only [bind_apply, hasError, herr, Bool.false_eq_true, if_false, hv, if_true, pure_apply, e2]
+    simp
+    rfl
+  unfold parse Parse.run parseTop
+  simp only [bind_apply, e1, hfin, stE_nil_err p2]
+  simp
+
+/-- **`Parse` on a respelled text.**  If the tokens of `txt'` agree with those of `txt` up to spelling and
+    `parseBody` makes the tree `root` of the tokens of `txt`, `Parse` returns `root` for `txt'`. -/
+theorem parse_tok_simX {txt txt' : List Char} {ts ts' : List TT} (hl : Lexes o txt ts) (hl' : Lexes o txt' ts')
+    (h : TokEqLX false ts ts') {lax p : Bool} {root : Node} {F : Nat}
+    (hrun : ∀ f, F ≤ f → ∃ ev : EV, ev.node = root ∧ RunsV (StE o ts) (parseBody o f) (lax, p, ev) (StE o []))
+    (hF : F ≤ fuelFor (utf8 txt')) (hv : validate root = true) :
+    parse o (utf8 txt') = .ok ⟨root, lax, p⟩ := by
+  obtain ⟨ev, hev, hr⟩ := hrun _ hF
+  obtain ⟨s1, e1, p1⟩ := hr _ (stE_init hl)
+  obtain ⟨ev', s1', e1', hn, p1'⟩ := sim_parseBodyX h (stE_init hl) (stE_init hl') e1 p1
+  have := parse_of_body_init txt' lax p ev' s1' e1' p1' (by rw [hn, hev]; exact hv)
+  rw [hn, hev] at this
+  exact this
+
+theorem parse_tok_sim {txt txt' : List Char} {ts ts' : List TT} (hl : Lexes o txt ts) (hl' : Lexes o txt' ts')
+    (h : TokEqL ts ts') {lax p : Bool} {root : Node} {F : Nat}
+    (hrun : ∀ f, F ≤ f → ∃ ev : EV, ev.node = root ∧ RunsV (StE o ts) (parseBody o f) (lax, p, ev) (StE o []))
+    (hF : F ≤ fuelFor (utf8 txt')) (hv : validate root = true) :
+    parse o (utf8 txt') = .ok ⟨root, lax, p⟩ :=
+  parse_tok_simX hl hl' (h.toX false) hrun hF hv
+
+end
+
+/-! ### building `IntEq` -/
+
+theorem IntEq.refl {x : List Char} (h : NumHead x) : IntEq x x := ⟨h, h, rfl, rfl, rfl⟩
+
+/-- literals that `ParseUint` reads to the same magnitude, with the same verdict on underscores -/
+theorem intEq_of_core {x y : List Char} (hx : NumHead x) (hy : NumHead y)
+    (h : ∀ bits neg, parseIntCore bits neg x = parseIntCore bits neg y) : IntEq x y := by
+  obtain ⟨c, r, hc, h1, h2, _⟩ := numHead_not_sign hx
+  obtain ⟨c', r', hc', h1', h2', _⟩ := numHead_not_sign hy
+  refine ⟨hx, hy, ?_, ?_, ?_⟩
+  · subst hc; subst hc'
+    unfold parseInt0
+    rw [parseIntBase0_unsigned 64 c r h1 h2, parseIntBase0_unsigned 64 c' r' h1' h2']
+    exact h 64 false
+  · subst hc; subst hc'
+    rw [parseIntBase0_unsigned 32 c r h1 h2, parseIntBase0_unsigned 32 c' r' h1' h2']
+    exact h 32 false
+  · rw [numHead_negLit hx, numHead_negLit hy]
+    exact h 64 true
+
+theorem TokEqL.refl : ∀ ts : List TT, TokEqL ts ts
+  | [] => .nil
+  | _ :: ts => .cons ⟨rfl, Or.inl rfl⟩ (TokEqL.refl ts)
+
+theorem TokEqLX.refl : ∀ (b : Bool) (ts : List TT), TokEqLX b ts ts
+  | b, [] => .nil b
+  | b, t :: ts => .cons (TokEqX.refl b t) (TokEqLX.refl _ ts)
+
+/-- sanity check: a hexadecimal and a decimal spelling of the same subscript -/
+example : IntEq ['0', 'x', '1', 'F'] ['3', '1'] :=
+  ⟨⟨'0', _, rfl, Or.inl (by decide)⟩, ⟨'3', _, rfl, Or.inl (by decide)⟩, by decide +kernel, by decide +kernel,
+    by decide +kernel⟩
+
+/-- sanity check: after a `.`, a bare key and a quoted key with the same text -/
+example (x : List Char) (ts : List TT) :
+    TokEqLX false ((.dot, ['.']) :: (.ident, x) :: ts) ((.dot, ['.']) :: (.string, x) :: ts) :=
+  .cons (TokEqX.refl _ _) (.cons (Or.inr ⟨rfl, (by decide : isPlainKeyName Tok.ident = true),
+    (by decide : isPlainKeyName Tok.string = true), rfl⟩) (TokEqLX.refl _ ts))
+
+/-! ## Respellings that change the token text: strict layouts -/
+
+/-- a layout in which EVERY empty separator is justified by `tolOf` (the token before tolerates the first
+    character of the token after) — no knowledge of the canonical text is used -/
+def LayoutStrictP : Option (List Char) → List Item → List (List Char) → Prop
+  | _, [], [] => True
+  | prev, it :: r, s :: ss =>
+    Sep s ∧ (s = [] → prev = none ∨ ∃ p, prev = some p ∧ tolOf p it.c = true) ∧
+      LayoutStrictP (some (it.c :: it.w)) r ss
+  | _, _, _ => False
+
+def LayoutStrict (items : List Item) (seps : List (List Char)) : Prop := LayoutStrictP none items seps
+
+theorem LayoutStrictP.length {items : List Item} : ∀ {prev : Option (List Char)} {seps : List (List Char)},
+    LayoutStrictP prev items seps → seps.length = items.length := by
+  induction items with
+  | nil => intro prev seps h; cases seps with
+    | nil => rfl
+    | cons _ _ => exact absurd h (by simp [LayoutStrictP])
+  | cons it r ih => intro prev seps h; cases seps with
+    | nil => exact absurd h (by simp [LayoutStrictP])
+    | cons s ss => simp [ih h.2.2]
+
+theorem LayoutStrictP.sep {items : List Item} : ∀ {prev : Option (List Char)} {seps : List (List Char)},
+    LayoutStrictP prev items seps → ∀ s ∈ seps, Sep s := by
+  induction items with
+  | nil => intro prev seps h; cases seps with
+    | nil => intro s hs; simp at hs
+    | cons _ _ => exact absurd h (by simp [LayoutStrictP])
+  | cons it r ih => intro prev seps h; cases seps with
+    | nil => exact absurd h (by simp [LayoutStrictP])
+    | cons s ss =>
+      intro s' hs'
+      simp at hs'
+      rcases hs' with hs' | hs'
+      · subst hs'; exact h.1
+      · exact ih h.2.2 s' hs'
+
+/-- in a strict layout every token is followed by a character it tolerates — from `ItemOK` alone; the last
+    token must tolerate the end of the text (`C none`) -/
+theorem gapsR_of_strict {o : Oracles} : ∀ {items : List Item}, (∀ it ∈ items, ItemOK o it ∧ it.C none) →
+    ∀ {prev : Option (List Char)} {seps : List (List Char)}, LayoutStrictP prev items seps →
+    ∀ x : List Char, (x = [] ∨ SepStart x.head?) → GapsR items seps x := by
+  intro items
+  induction items with
+  | nil => intro _ prev seps _ x _; cases seps <;> trivial
+  | cons it r ih =>
+    intro hok prev seps hl x hx
+    cases seps with
+    | nil => trivial
+    | cons s ss =>
+      have hit := hok it (by simp)
+      refine ⟨?_, ih (fun it' h' => hok it' (by simp [h'])) hl.2.2 x hx⟩
+      cases r with
+      | nil =>
+        cases ss with
+        | nil =>
+          simp only [render, List.nil_append]
+          rcases hx with hx | hx
+          · subst hx; exact hit.2
+          · exact hit.1.2.2.2.2.2.1 _ hx
+        | cons _ _ => exact absurd hl.2.2 (by simp [LayoutStrictP])
+      | cons it2 r2 =>
+        cases ss with
+        | nil => exact absurd hl.2.2 (by simp [LayoutStrictP])
+        | cons s2 ss2 =>
+          have hl2 := hl.2.2
+          cases s2 with
+          | nil =>
+            rcases hl2.2.1 rfl with h | ⟨p, hp, htol⟩
+            · exact absurd h (by simp)
+            · injection hp with hp
+              subst hp
+              simp only [render, List.nil_append, List.cons_append, List.head?_cons]
+              exact hit.1.2.2.2.2.2.2 _ htol
+          | cons z zs =>
+            have := hl2.1.head (by simp)
+            simp only [render, List.cons_append, List.head?_cons] at this ⊢
+            exact hit.1.2.2.2.2.2.1 _ this
+
+/-! ## Any text with equivalent tokens parses to the same tree -/
+
+theorem utf8_length (l : List Char) : l.length ≤ (utf8 l).length := by
+  have := decodeAll_length (utf8 l)
+  rw [decodeAll_utf8] at this
+  simpa using this
+
+theorem TokEqLX.length : ∀ {b : Bool} {ts ts' : List TT}, TokEqLX b ts ts' → ts.length = ts'.length := by
+  intro b ts ts' h
+  induction h with
+  | nil _ => rfl
+  | cons _ _ ih => simp [ih]
+
+/-- the tokens of a text: run the lexer to `stopTok` -/
+def toksOfAux (o : Oracles) : Nat → LState → List TT
+  | 0, _ => []
+  | f + 1, s => if (Lex.lex o s).1 = .stop then [] else ((Lex.lex o s).1, (Lex.lex o s).2.1) :: toksOfAux o f (Lex.lex o s).2.2
+
+/-- **`toksOf`**: the token stream of `txt` (kind and text of each token) -/
+def toksOf (o : Oracles) (txt : List Char) : List TT :=
+  toksOfAux o (txt.length + 1) { rest := txt.map Src.ch, ch := none, err := false }
+
+section
+variable {o : Oracles}
+
+theorem toksOfAux_lstr : ∀ (ts : List TT) (s : LState) (f : Nat), LStr o ts s → ts.length + 1 ≤ f →
+    toksOfAux o f s = ts := by
+  intro ts
+  induction ts with
+  | nil =>
+    intro s f h hf
+    obtain ⟨f', rfl⟩ : ∃ f', f = f' + 1 := ⟨f - 1, by omega⟩
+    obtain ⟨s', h1, _⟩ := h
+    simp [toksOfAux, h1]
+  | cons tk ts ih =>
+    intro s f h hf
+    obtain ⟨f', rfl⟩ : ∃ f', f = f' + 1 := ⟨f - 1, by omega⟩
+    obtain ⟨hns, s', h1, _, h2⟩ := h
+    rw [toksOfAux]
+    simp only [h1]
+    rw [if_neg hns, ih s' f' h2 (by simp at hf; omega)]
+
+/-- the stream the lexer computes is the stream of the text -/
+theorem toksOf_lexes {txt : List Char} {ts : List TT} (h : Lexes o txt ts) (hlen : ts.length ≤ txt.length) :
+    toksOf o txt = ts :=
+  toksOfAux_lstr ts _ _ (h _ ⟨rfl, rfl, Or.inl ⟨rfl, rfl⟩⟩) (by omega)
+
+/-- **Any text with equivalent tokens.**  If the canonical text `txt` is the tokens `toks` and `parseBody`
+    makes `root` of them, then EVERY text that consists of tokens (`ItemOK`, each tolerating the end of the
+    text) in a strict layout (`LayoutStrict`: every empty separator justified by `tolOf`) whose token stream is
+    equivalent to `toks` (`TokEqLX`: integer literals of equal value, keywords in any case except directly
+    after a dot, a bare or quoted key after a dot) parses to the same tree. -/
+theorem parse_tokens_equiv (ok : OrOK o) {txt : List Char} {toks : List TT} (hseg : Seg o brk txt toks)
+    (lax isPred : Bool) (root : Node)
+    (hrun : ∀ f, 16 * toks.length + 8 ≤ f → ∃ ev : EV, ev.node = root ∧
+      RunsV (StE o toks) (parseBody o f) (lax, isPred, ev) (StE o []))
+    (hv : validate root = true)
+    (items' : List Item) (hok : ∀ it ∈ items', ItemOK o it ∧ it.C none)
+    (heq : TokEqLX false toks (items'.map (·.tk)))
+    (seps : List (List Char)) (fin : List Char) (hl : LayoutStrict items' seps) (hfin : Sep fin) :
+    parse o (utf8 (render items' seps ++ fin)) = .ok ⟨root, lax, isPred⟩ := by
+  have hl0 : Lexes o txt toks := hseg.lexes o ok brk_none
+  have hx : fin = [] ∨ SepStart fin.head? := by
+    cases fin with
+    | nil => exact Or.inl rfl
+    | cons c r => exact Or.inr (hfin.head (by simp))
+  have hl' := lexes_render o (ok : RoundTrip.OrOK o) items' (fun it h => (hok it h).1) seps
+    (LayoutStrictP.length hl) (LayoutStrictP.sep hl) fin [] hfin.noNul (gapsR_of_strict hok hl fin hx)
+    (lexes_sep o ok hfin)
+  rw [List.append_nil] at hl'
+  refine parse_tok_simX hl0 hl' heq hrun ?_ hv
+  have h1 := heq.length
+  have h2 := render_length (items := items') (seps := seps) (LayoutStrictP.length hl)
+  have h3 := utf8_length (render items' seps ++ fin)
+  simp only [List.length_map, List.length_append] at h1 h3
+  unfold fuelFor
+  omega
+
+/-- the printed text of a tree of the class, its tokens, and the parser on them -/
+theorem stage5_tokens (ok : OrOK o) (a : AST) (h : RT5 o a = true) :
+    ∃ (txt : List Char) (toks : List TT), Print.toString o.isPrint a = some txt ∧ Seg o brk txt toks ∧
+      validate a.root = true ∧
+      ∀ f, 16 * toks.length + 8 ≤ f → ∃ ev : EV, ev.node = a.root ∧
+        RunsV (StE o toks) (parseBody o f) (a.lax, a.pred, ev) (StE o []) := by
+  obtain ⟨hv, txt, tk, ts, hpr, hseg, h1, h2, hrun⟩ := rootOK_stage5 ok a h
+  obtain ⟨root, lax, pred⟩ := a
+  refine ⟨modeTxt lax ++ txt, modeToks lax ++ tk :: ts, toString_eq _ _ _ _ _ hpr, mode_seg ok lax hseg, hv, ?_⟩
+  intro f hf
+  obtain ⟨ev, hev, hatom⟩ := hrun f lax (by simp only [List.length_append, List.length_cons] at hf; omega)
+  exact ⟨ev, hev, mode_run lax h1 h2 hatom⟩
+
+/-- **Class `RT5`, any equivalent token stream**: let `txt` be the printed text of `a`; every text made of
+    tokens in a strict layout whose token stream is equivalent to that of `txt` parses to `a`. -/
+theorem tokens_equiv_stage5 (ok : OrOK o) (a : AST) (h : RT5 o a = true) :
+    ∃ txt, Print.toString o.isPrint a = some txt ∧
+      ∀ (items' : List Item) (seps : List (List Char)) (fin : List Char),
+        (∀ it ∈ items', ItemOK o it ∧ it.C none) → TokEqLX false (toksOf o txt) (items'.map (·.tk)) →
+        LayoutStrict items' seps → Sep fin →
+        parse o (utf8 (render items' seps ++ fin)) = .ok a := by
+  obtain ⟨txt, toks, h1, hseg, hv, hrun⟩ := stage5_tokens ok a h
+  refine ⟨txt, h1, ?_⟩
+  intro items' seps fin hok heq hl hfin
+  rw [toksOf_lexes (hseg.lexes o ok brk_none) hseg.2.1] at heq
+  exact parse_tokens_equiv ok hseg a.lax a.pred a.root hrun hv items' hok heq seps fin hl hfin
+
+end
+
+/-! ## The token kinds as items (for building texts token by token) -/
+
+/-- an item that is a token and tolerates the end of the text -/
+def ItemOK' (o : Oracles) (it : Item) : Prop := ItemOK o it ∧ it.C none
+
+theorem itemOK'_mk {o : Oracles} {C : Option Char → Prop} {c : Char} {w : List Char} {tk : TT} (sp : Bool)
+    (h : TokAt o C c w tk) (hc : c.toNat ≠ 0) (hw : NoNul w) (hns : tk.1 ≠ .stop) (hws : isWhitespace c = false)
+    (htol : ∀ y, SepStart y → C y) (htb : ∀ d, tolOf (c :: w) d = true → C (some d)) (hnone : C none) :
+    ItemOK' o ⟨sp, c, w, tk, C⟩ := ⟨⟨h, hc, hw, hns, hws, htol, htb⟩, hnone⟩
+
+section
+variable {o : Oracles} (ok : OrOK o)
+include ok
+
+/-- `( ) [ ] { } , ? @ + - %` -/
+def itSolo (sp : Bool) (c : Char) : Item := ⟨sp, c, [], T1 c, fun _ => True⟩
+
+theorem itSolo_ok (sp : Bool) (c : Char) (hc : c ∈ solo) : ItemOK' o (itSolo sp c) := by
+  have h0 : c.toNat ≠ 0 ∧ (T1 c).1 ≠ .stop ∧ isWhitespace c = false := by
+    simp [solo] at hc
+    rcases hc with h | h | h | h | h | h | h | h | h | h | h | h <;> subst h <;> decide
+  exact itemOK'_mk sp (tokAt_solo o ok c hc) h0.1 NoNul.nil h0.2.1 h0.2.2 (fun _ _ => trivial) (fun _ _ => trivial) trivial
+
+/-- `.` -/
+def itDot (sp : Bool) : Item := ⟨sp, '.', [], tDot, fun y => isDecimalR y = false⟩
+
+theorem itDot_ok (sp : Bool) : ItemOK' o (itDot sp) :=
+  itemOK'_mk sp (by simpa [T1_dot] using tokAt_dot o ok) (by decide) NoNul.nil (by decide) (by decide)
+    (fun _ h => tol_notDigit h) tolB_dot rfl
+
+/-- `$` -/
+def itDollar (sp : Bool) : Item := ⟨sp, '$', [], tDollar, fun y => y ≠ some '"' ∧ isVariableRune o y = false⟩
+
+theorem itDollar_ok (sp : Bool) : ItemOK' o (itDollar (o := o) sp) :=
+  itemOK'_mk sp (by simpa [T1_dollar] using tokAt_dollar o ok) (by decide) NoNul.nil (by decide) (by decide)
+    (fun _ h => tol_dollar o ok h) (tolB_dollar o ok) ⟨by simp, rfl⟩
+
+/-- `*` (the wildcard key or multiplication) -/
+def itStar (sp : Bool) : Item := ⟨sp, '*', [], tStar, fun y => y ≠ some '*'⟩
+
+theorem itStar_ok (sp : Bool) : ItemOK' o (itStar sp) :=
+  itemOK'_mk sp (by simpa [T1_star] using tokAt_star o ok) (by decide) NoNul.nil (by decide) (by decide)
+    (fun _ h => tol_star h) tolB_star (by simp)
+
+/-- `/` -/
+def itSlash (sp : Bool) : Item := ⟨sp, '/', [], (.slash, ['/']), fun y => y ≠ some '*'⟩
+
+theorem itSlash_ok (sp : Bool) : ItemOK' o (itSlash sp) :=
+  itemOK'_mk sp (tokAt_slash o ok) (by decide) NoNul.nil (by decide) (by decide) (fun _ h => tol_star h) tolB_slash (by simp)
+
+/-- `<` -/
+def itLt (sp : Bool) : Item := ⟨sp, '<', [], (.less, ['<']), fun y => y ≠ some '=' ∧ y ≠ some '>'⟩
+
+theorem itLt_ok (sp : Bool) : ItemOK' o (itLt sp) :=
+  itemOK'_mk sp (tokAt_lt o ok) (by decide) NoNul.nil (by decide) (by decide) (fun _ h => tol_lt h) tolB_lt (by simp)
+
+/-- `>` -/
+def itGt (sp : Bool) : Item := ⟨sp, '>', [], (.greater, ['>']), fun y => y ≠ some '='⟩
+
+theorem itGt_ok (sp : Bool) : ItemOK' o (itGt sp) :=
+  itemOK'_mk sp (tokAt_gt o ok) (by decide) NoNul.nil (by decide) (by decide) (fun _ h => tol_eq h) tolB_gt (by simp)
+
+/-- `!` -/
+def itBang (sp : Bool) : Item := ⟨sp, '!', [], (.not, ['!']), fun y => y ≠ some '='⟩
+
+theorem itBang_ok (sp : Bool) : ItemOK' o (itBang sp) :=
+  itemOK'_mk sp (tokAt_bang o ok) (by decide) NoNul.nil (by decide) (by decide) (fun _ h => tol_eq h) tolB_bang (by simp)
+
+/-- `== != <= >= && || **` -/
+def itTwo (sp : Bool) (c d : Char) (t : Tok) : Item := ⟨sp, c, [d], (t, []), fun _ => True⟩
+
+theorem itTwo_ok (sp : Bool) (c d : Char) (t : Tok) (h : (c, d, t) ∈ twoOps) : ItemOK' o (itTwo sp c d t) := by
+  have hd0 : d.toNat ≠ 0 ∧ c.toNat ≠ 0 ∧ t ≠ .stop ∧ isWhitespace c = false := by
+    simp [twoOps] at h
+    rcases h with h | h | h | h | h | h | h <;> obtain ⟨h1, h2, h3⟩ := h <;> subst h1 <;> subst h2 <;> subst h3 <;>
+      decide
+  exact itemOK'_mk sp (tokAt_two o ok c d t h) hd0.2.1 (NoNul.cons hd0.1 NoNul.nil) hd0.2.2.1 hd0.2.2.2
+    (fun _ _ => trivial) (fun _ _ => trivial) trivial
+
+/-- `<>` -/
+def itLtGt (sp : Bool) : Item := ⟨sp, '<', ['>'], (.notEq, []), fun _ => True⟩
+
+theorem itLtGt_ok (sp : Bool) : ItemOK' o (itLtGt sp) :=
+  itemOK'_mk sp (tokAt_ltgt o ok) (by decide) (NoNul.cons (by decide) NoNul.nil) (by simp) (by decide)
+    (fun _ _ => trivial) (fun _ _ => trivial) trivial
+
+/-- a double-quoted string in any spelling -/
+def itStr (sp : Bool) (body s : List Char) : Item := ⟨sp, '"', body ++ ['"'], (.string, s), fun _ => True⟩
+
+theorem itStr_ok (sp : Bool) {body s : List Char} (h : SpellsStr body s) : ItemOK' o (itStr sp body s) :=
+  itemOK'_mk sp (tokAt_string_spelled o ok h) (by decide) (h.noNul.append (NoNul.cons (by decide) NoNul.nil))
+    (by simp) (by decide) (fun _ _ => trivial) (fun _ _ => trivial) trivial
+
+/-- a variable `$"…"` in any spelling -/
+def itVarQ (sp : Bool) (body s : List Char) : Item :=
+  ⟨sp, '$', '"' :: (body ++ ['"']), (.variable, s), fun _ => True⟩
+
+theorem itVarQ_ok (sp : Bool) {body s : List Char} (h : SpellsStr body s) : ItemOK' o (itVarQ sp body s) :=
+  itemOK'_mk sp (tokAt_variable_spelled o ok h) (by decide)
+    (NoNul.cons (by decide) (h.noNul.append (NoNul.cons (by decide) NoNul.nil))) (by simp) (by decide)
+    (fun _ _ => trivial) (fun _ _ => trivial) trivial
+
+/-- a decimal integer literal -/
+def itInt (sp : Bool) (d : Char) (ds : List Char) : Item := ⟨sp, d, ds, (.int, d :: ds), EndsNumber o⟩
+
+theorem itInt_ok (sp : Bool) (d : Char) (ds : List Char) (hd : ∀ c ∈ d :: ds, isDecimal c = true)
+    (hz : d = '0' → ds = []) : ItemOK' o (itInt (o := o) sp d ds) := by
+  have hdd := isDecimal_facts d (hd d (by simp))
+  exact itemOK'_mk sp (tokAt_int o ok d ds hd hz) hdd.1 (fun c hc => (isDecimal_facts c (hd c (by simp [hc]))).1)
+    (by simp) hdd.2.2.2.1 (fun _ h => tol_endsNumber o ok h) (tolB_nat o ok (hd d (by simp)))
+    (brk_endsNumber o ok brk_none)
+
+/-- `0x… 0o… 0b…` -/
+def itIntB (sp : Bool) (p : Char) (ds : List Char) : Item := ⟨sp, '0', p :: ds, (.int, '0' :: p :: ds), EndsNumber o⟩
+
+theorem itIntB_ok (sp : Bool) {p : Char} {base : Nat} (hp : prefixBase p = some base) {ds : List Char} {n : Nat}
+    (h : BaseDigits base ds n) : ItemOK' o (itIntB (o := o) sp p ds) := by
+  have hp0 : p.toNat ≠ 0 := by
+    rcases prefixBase_cases hp with ⟨h1, _⟩ | ⟨h1, _⟩ | ⟨h1, _⟩ | ⟨h1, _⟩ | ⟨h1, _⟩ | ⟨h1, _⟩ <;> subst h1 <;> decide
+  exact itemOK'_mk sp (tokAt_based o ok hp h) (by decide) (NoNul.cons hp0 h.noNul) (by simp) (by decide)
+    (fun _ h => tol_endsNumber o ok h) (tolB_nat o ok (by decide)) (brk_endsNumber o ok brk_none)
+
+variable (up : OrUp o)
+include up
+
+/-- a keyword in any case (not `true`, `false`, `null`) -/
+def itKw (sp : Bool) (c : Char) (w : List Char) (t : Tok) : Item :=
+  ⟨sp, c, w, (t, c :: w), fun y => isIdentCont o y = false⟩
+
+theorem itKw_ok (sp : Bool) (c : Char) (w kw : List Char) (t : Tok) (hp : (kw, t) ∈ kwListAll)
+    (hci : ciKw t = true) (hl : (c :: w).map lowerAscii = kw) (ht : t ≠ .stop) :
+    ItemOK' o (itKw (o := o) sp c w t) := by
+  have hw : ∀ x ∈ c :: w, isIdCh x = true := by
+    intro x hx
+    have : lowerAscii x ∈ kw := by rw [← hl]; exact List.mem_map_of_mem hx
+    exact isIdCh_of_0 (isIdCh0_of_lower (kwAll_wordChars (kw, t) hp _ this))
+  have hc0 : isIdCh0 c = true := by
+    have : lowerAscii c ∈ kw := by rw [← hl]; simp
+    exact isIdCh0_of_lower (kwAll_wordChars (kw, t) hp _ this)
+  have hn := noNul_idw (c :: w) hw
+  exact itemOK'_mk sp (tokAt_kw_case o ok up c w kw t hp hci hl) (NoNul.of_cons hn).1 (NoNul.of_cons hn).2 ht
+    (isIdCh_plain c (hw c (by simp))).2.2 (fun _ h => tol_identCont o ok h) (tolB_idCh0 o ok hc0) rfl
+
+/-- a bare identifier -/
+def itIdent (sp : Bool) (c : Char) (w : List Char) : Item :=
+  ⟨sp, c, w, (.ident, c :: w), fun y => isIdentCont o y = false⟩
+
+theorem itIdent_ok (sp : Bool) (c : Char) (w : List Char) (hc : isIdCh0 c = true) (hw : ∀ x ∈ w, isIdCh x = true)
+    (hid : identToken asciiOracles (c :: w) = .ident) : ItemOK' o (itIdent (o := o) sp c w) :=
+  itemOK'_mk sp (tokAt_ident' o ok up c w hc hw hid) (isIdCh_plain c (isIdCh_of_0 hc)).1 (noNul_idw w hw) (by simp)
+    (isIdCh_plain c (isIdCh_of_0 hc)).2.2 (fun _ h => tol_identCont o ok h) (tolB_idCh0 o ok hc) rfl
+
+/-- a bare variable `$name` -/
+def itVarB (sp : Bool) (n : Char) (ns : List Char) : Item :=
+  ⟨sp, '$', n :: ns, (.variable, n :: ns), fun y => isVariableRune o y = false⟩
+
+theorem itVarB_ok (sp : Bool) (n : Char) (ns : List Char) (hw : ∀ c ∈ n :: ns, isAlnum c = true) :
+    ItemOK' o (itVarB (o := o) sp n ns) :=
+  itemOK'_mk sp (tokAt_var o ok up n ns hw) (by decide) (fun c hc => (isAlnum_cont o ok up c (hw c hc)).2) (by simp)
+    (by decide) (fun _ h => (tol_dollar o ok h).2) (tolB_var o ok (by
+      intro h
+      have := hw n (by simp)
+      rw [h] at this
+      exact absurd this (by decide))) rfl
+
+end
+
+/-- is `seps` a strict layout for the items (a checker for concrete instances) -/
+def layoutStrictB : Option (List Char) → List Item → List (List Char) → Bool
+  | _, [], [] => true
+  | prev, it :: r, s :: ss =>
+    sepB s.length s &&
+      (!s.isEmpty || (match prev with
+        | none => true
+        | some p => tolOf p it.c)) && layoutStrictB (some (it.c :: it.w)) r ss
+  | _, _, _ => false
+
+theorem layoutStrictP_of_B : ∀ (items : List Item) (prev : Option (List Char)) (seps : List (List Char)),
+    layoutStrictB prev items seps = true → LayoutStrictP prev items seps := by
+  intro items
+  induction items with
+  | nil => intro prev seps h; cases seps with
+    | nil => trivial
+    | cons _ _ => simp [layoutStrictB] at h
+  | cons it r ih =>
+    intro prev seps h
+    cases seps with
+    | nil => simp [layoutStrictB] at h
+    | cons s ss =>
+      simp only [layoutStrictB, Bool.and_eq_true, Bool.or_eq_true, Bool.not_eq_true'] at h
+      refine ⟨sep_of_sepB _ _ h.1.1, ?_, ih _ ss h.2⟩
+      intro hs
+      rcases h.1.2 with h' | h'
+      · rw [hs] at h'; simp at h'
+      · cases prev with
+        | none => exact Or.inl rfl
+        | some p => exact Or.inr ⟨p, rfl, h'⟩
+
+theorem layoutStrict_of_B (items : List Item) (seps : List (List Char))
+    (h : layoutStrictB none items seps = true) : LayoutStrict items seps := layoutStrictP_of_B items none seps h
 
 end Layout
 end Sqljson
